@@ -16,2015 +16,1926 @@ Definition terms (ts : list tok) (t : pt) : string :=
   digest (show_toks (Some ts)) ++ " " ++ digest (show_pt (Some t)) ++ " " ++ digest (show_pt (parse ts)).
 Definition terms_full (ts : list tok) (t : pt) : string :=
   show_toks (Some ts) ++ nl ++ show_pt (Some t) ++ nl ++ show_pt (parse ts).
-Eval vm_compute in ("<<<M30>>>" ++ check (runes_of_ascii "// `tick` ""quote"" 'q'
-MetaData
-    pack {
-string MetaDataX , //
-zchar[ 65535
-] i8i8, pack rootA	`say ""hi""` ,
-    string_ Header `crlf
-line` ,
-int64
-string_ ,
-/// triple
-//	t
-char[]
+Eval vm_compute in ("<<<M30>>>" ++ check (runes_of_ascii "packet
+u8x{ char[ 7 ]Logon//x
+, @lengthOf( Foo) trueish Header
+    , match
+repeatCount as o { 00
+: uint8x, [ 007 // " ++ [27880; 37322]%N ++ runes_of_ascii "
+]
+    :calculatedFrom
+""abc"":
+_x , } , char[] MetaDataX `it's` , } root  packet _x {
+@lengthOf(As)
+@lengthOf( asx
+    ) zchar[ 42 //	t
+]
+    u128	@calculatedFrom( """ ++ [28040; 24687]%N ++ runes_of_ascii """ ),
+repeat string
+_x , asx{ zchar[ 1  ]
+crc
+    ,}
+,
+    } packet trueish { match
+    i64_ as
+    tag
+{ 3:
+    roots  ,
+0123456789 :
+    options1
+    ,""it's""
+    :
+stringy , } , @tag(
+    // `tick` ""quote"" 'q'
+    10 ) @rightPad (// @lengthOf(
+' ' )  @rightPad	(
+    /// triple
+    '\x00' )
+repeat i64 // @lengthOf(
 packetx
-,	} options
-    { trueish
-= ' '
-; i64_ =
-i16 pack = u16
-;
-len =false }	MetaData i64_{ }")).
-Eval vm_compute in ("<<<M62>>>" ++ check (runes_of_ascii "MetaData crc // trailing space 
-{}options
-{ metadata = 10 ; u = 65535
-repeatCount
-    = char[ 0123456789 // packet A { u8 x, }
-]  }MetaData i8i8{ }
+, repeat//x
+o  x `// not a comment` , }
 ")).
-Eval vm_compute in ("<<<T62>>>" ++ terms [mkTok 37 "MetaData" 1 0 false; mkTok 42 "crc" 1 9 false; mkTok 44 "// trailing space " 1 13 true; mkTok 2 "{" 2 0 false; mkTok 3 "}" 2 1 false; mkTok 1 "options" 2 2 false; mkTok 2 "{" 3 0 false; mkTok 42 "metadata" 3 2 false; mkTok 4 "=" 3 11 false; mkTok 30 "10" 3 13 false; mkTok 41 ";" 3 16 false; mkTok 42 "u" 3 18 false; mkTok 4 "=" 3 20 false; mkTok 30 "65535" 3 22 false; mkTok 42 "repeatCount" 4 0 false; mkTok 4 "=" 5 4 false; mkTok 12 "char[" 5 6 false; mkTok 30 "0123456789" 5 12 false; mkTok 44 "// packet A { u8 x, }" 5 23 true; mkTok 13 "]" 6 0 false; mkTok 3 "}" 6 3 false; mkTok 37 "MetaData" 6 4 false; mkTok 42 "i8i8" 6 13 false; mkTok 2 "{" 6 17 false; mkTok 3 "}" 6 19 false; mkTok 0 "<EOF>" 7 0 false] (mkPacket (mkPtok 37 "MetaData" 1 0 0) (Some (mkPtok 3 "}" 6 19 24)) [(DMeta (mkMetaDef (mkSpan (mkPtok 37 "MetaData" 1 0 0) (mkPtok 3 "}" 2 1 4)) (mkPtok 37 "MetaData" 1 0 0) (mkPtok 42 "crc" 1 9 1) (mkPtok 2 "{" 2 0 3) [] (mkPtok 3 "}" 2 1 4))); (DOption (mkOptionDef (mkSpan (mkPtok 1 "options" 2 2 5) (mkPtok 3 "}" 6 3 20)) (mkPtok 1 "options" 2 2 5) (mkPtok 2 "{" 3 0 6) [(mkOptionDecl (mkSpan (mkPtok 42 "metadata" 3 2 7) (mkPtok 41 ";" 3 16 10)) (mkPtok 42 "metadata" 3 2 7) (mkPtok 4 "=" 3 11 8) (VDigits (mkSpan (mkPtok 30 "10" 3 13 9) (mkPtok 30 "10" 3 13 9)) (mkPtok 30 "10" 3 13 9)) (Some (mkPtok 41 ";" 3 16 10))); (mkOptionDecl (mkSpan (mkPtok 42 "u" 3 18 11) (mkPtok 30 "65535" 3 22 13)) (mkPtok 42 "u" 3 18 11) (mkPtok 4 "=" 3 20 12) (VDigits (mkSpan (mkPtok 30 "65535" 3 22 13) (mkPtok 30 "65535" 3 22 13)) (mkPtok 30 "65535" 3 22 13)) None); (mkOptionDecl (mkSpan (mkPtok 42 "repeatCount" 4 0 14) (mkPtok 13 "]" 6 0 19)) (mkPtok 42 "repeatCount" 4 0 14) (mkPtok 4 "=" 5 4 15) (VType (mkSpan (mkPtok 12 "char[" 5 6 16) (mkPtok 13 "]" 6 0 19)) (TyFixed (mkSpan (mkPtok 12 "char[" 5 6 16) (mkPtok 13 "]" 6 0 19)) (mkFixedString (mkSpan (mkPtok 12 "char[" 5 6 16) (mkPtok 13 "]" 6 0 19)) (mkPtok 12 "char[" 5 6 16) (mkPtok 30 "0123456789" 5 12 17) (mkPtok 13 "]" 6 0 19)))) None)] (mkPtok 3 "}" 6 3 20))); (DMeta (mkMetaDef (mkSpan (mkPtok 37 "MetaData" 6 4 21) (mkPtok 3 "}" 6 19 24)) (mkPtok 37 "MetaData" 6 4 21) (mkPtok 42 "i8i8" 6 13 22) (mkPtok 2 "{" 6 17 23) [] (mkPtok 3 "}" 6 19 24)))])).
-Eval vm_compute in ("<<<M94>>>" ++ check (runes_of_ascii "packet charz {repeat char[ 3 ]
-BodyLength,As stringy, match
-    tag as uint8x { //
-[ ""it's"" , 007
-    , 4294967296
-    // c
-    ] : uint8x ,
-}, // a // b
-@tag( 0
-)/// triple
-repeat char[	7	] u	,}
-    // packet A { u8 x, }
-    MetaData options1
-    { Z9_  _x ,	} packet BodyLength
-{} MetaData chars { float Foo,
-}")).
-Eval vm_compute in ("<<<M126>>>" ++ check (runes_of_ascii "root
-    packet stringy{ // trailing space 
-@calculatedFrom(
-""" ++ [28040; 24687]%N ++ runes_of_ascii """ ) repeat
-Foo {float64	i64_
-    @lengthOf(Z9_ ),	}
-    ,	repeat // `tick` ""quote"" 'q'
-lengthOf {
-falsey
-    { uint16 len//x
-,	} , Packet uint8x `a\`,} , @calculatedFrom(""" ++ [128512]%N ++ runes_of_ascii """)  string MetaDataX	`" ++ [233]%N ++ runes_of_ascii "`  ,} packet
-chars { @leftPad ( '0'
-    )i64 trueish
-@lengthOf( Z9_  )
-    ,
-}
+Eval vm_compute in ("<<<M62>>>" ++ check (runes_of_ascii "
+options{ Z9_ =7 ;zchar=	f64  ; }
 ")).
-Eval vm_compute in ("<<<M158>>>" ++ check (runes_of_ascii "packet  float{ }
-")).
-Eval vm_compute in ("<<<M190>>>" ++ check (runes_of_ascii "packet T
-{}
-")).
-Eval vm_compute in ("<<<M222>>>" ++ check (runes_of_ascii "root packet repeatCount
-// c
+Eval vm_compute in ("<<<T62>>>" ++ terms [mkTok 1 "options" 2 0 false; mkTok 2 "{" 2 7 false; mkTok 42 "Z9_" 2 9 false; mkTok 4 "=" 2 13 false; mkTok 30 "7" 2 14 false; mkTok 41 ";" 2 16 false; mkTok 42 "zchar" 2 17 false; mkTok 4 "=" 2 22 false; mkTok 29 "f64" 2 24 false; mkTok 41 ";" 2 29 false; mkTok 3 "}" 2 31 false; mkTok 0 "<EOF>" 3 0 false] (mkPacket (mkPtok 1 "options" 2 0 0) (Some (mkPtok 3 "}" 2 31 10)) [(DOption (mkOptionDef (mkSpan (mkPtok 1 "options" 2 0 0) (mkPtok 3 "}" 2 31 10)) (mkPtok 1 "options" 2 0 0) (mkPtok 2 "{" 2 7 1) [(mkOptionDecl (mkSpan (mkPtok 42 "Z9_" 2 9 2) (mkPtok 41 ";" 2 16 5)) (mkPtok 42 "Z9_" 2 9 2) (mkPtok 4 "=" 2 13 3) (VDigits (mkSpan (mkPtok 30 "7" 2 14 4) (mkPtok 30 "7" 2 14 4)) (mkPtok 30 "7" 2 14 4)) (Some (mkPtok 41 ";" 2 16 5))); (mkOptionDecl (mkSpan (mkPtok 42 "zchar" 2 17 6) (mkPtok 41 ";" 2 29 9)) (mkPtok 42 "zchar" 2 17 6) (mkPtok 4 "=" 2 22 7) (VType (mkSpan (mkPtok 29 "f64" 2 24 8) (mkPtok 29 "f64" 2 24 8)) (TyBasic (mkSpan (mkPtok 29 "f64" 2 24 8) (mkPtok 29 "f64" 2 24 8)) (mkBasicType (mkSpan (mkPtok 29 "f64" 2 24 8) (mkPtok 29 "f64" 2 24 8)) (mkPtok 29 "f64" 2 24 8)))) (Some (mkPtok 41 ";" 2 29 9)))] (mkPtok 3 "}" 2 31 10)))])).
+Eval vm_compute in ("<<<M94>>>" ++ check (runes_of_ascii "
+packet Header{ @lengthOf( options1 )
+@lengthOf( matchKey ) @tag( 10 )i8
+options1 @lengthOf( //	t
+Foo ) `tab	here` ,
 // " ++ [128512]%N ++ runes_of_ascii " emoji
-{
-msg_type// `tick` ""quote"" 'q'
-{
-float64 lengthOf
-`" ++ [233]%N ++ runes_of_ascii "`,
-}
-    ,  }")).
-Eval vm_compute in ("<<<M254>>>" ++ check (runes_of_ascii "
-")).
-Eval vm_compute in ("<<<M286>>>" ++ check (runes_of_ascii "packet len
-{  @calculatedFrom( ""`tick`"" )	repeat zchar[ 00
-    ]chars //	t
-`a\`
-    ,
-u8x
+//	t
+@lengthOf( Pad // " ++ [128512]%N ++ runes_of_ascii " emoji
+) match
+Pad	as u8x { 4294967296 :	i8i8 // `tick` ""quote"" 'q'
+,} ,} packet roots { // " ++ [128512]%N ++ runes_of_ascii " emoji
+packetx @lengthOf(msg_type )
+    , char[0123456789
 // trailing space 
-// a // b
-MetaDataX `line1
-line2`
-    // c
-    ,@calculatedFrom( ""a\""b"" ) match
-    matchKey as asx {
-    [ ""CRC32"" , ""a\""b""
-]// " ++ [27880; 37322]%N ++ runes_of_ascii "
+// @lengthOf(
+] calculatedFrom,i8 Logon , @tag(10 ) @tag( 00 ) zchar[ 65535]
+float  @lengthOf( int )
+, stringy@calculatedFrom(
+// " ++ [128512]%N ++ runes_of_ascii " emoji
+// 50% %s
+""" ++ [233]%N ++ runes_of_ascii "t" ++ [233]%N ++ runes_of_ascii """ /// triple
+)	,
+repeat roots u128 , @calculatedFrom(
+""{,}""
+)chars
+    {
+match roots
+    as	Foo
+{ 10
 :
-msg_type
-    ,
-    }
-, i8 string_ @calculatedFrom( ""{,}"" )
-    ,@lengthOf(
-lengthOf
-    //
-    ) zchar[42 ]
-    _x
-// packet A { u8 x, }
-/// triple
-`line1
-line2` ,
-    @lengthOf( asx) repeat// `tick` ""quote"" 'q'
-int8 Header , repeat crc {
-int8 i64_//x
-@calculatedFrom( ""{,}"" ) , } ,repeat _x i8i8 `line1
-line2` , float64// trailing space 
-stringy , MetaDataX { charz
-    { int16 matchKey, repeat
-    i64_,
-    char[ 00] Z9_ `
+trueish,}
+,
+}
+    , // @lengthOf(
+i8i8 , @calculatedFrom(
+    ""x y"")	@calculatedFrom( ""a\""b"")repeat Z9_
+{
+    f32a msg_type
+    , repeat o	{ zchar[ 0
+    // `tick` ""quote"" 'q'
+    ] charz @calculatedFrom( /// triple
+""CRC32"" ) , } , } ,	}root // " ++ [27880; 37322]%N ++ runes_of_ascii "
+packet BodyLength  {calculatedFrom {
+char[] x @calculatedFrom( ""\n""
+)
+    , _x @calculatedFrom(
+""`tick`"" ), repeat u128 ,
+    float	Packet `
 ` ,
-    match As
-    //x
-    as Packet { 3 : crc , [
-//	t
-// @lengthOf(
-1 ,
-00
-]: Header // " ++ [27880; 37322]%N ++ runes_of_ascii "
-,	255 :_x , 42 : body
-,	[0	] : chars
-    [ 4294967296
-, 65535 ] :chars , }
-/// triple
-// @lengthOf(
-,  }
-// trailing space 
-// @lengthOf(
-, } , } MetaData falsey {
-char[
-255
-] u128 , u8 Header`tab	here`
-,
-string float ,} root packet int { Logon i64_  ,
-    @calculatedFrom(
-""1""
-) zchar { u {
-    zchar[
-255 ] Pad , } , stringy {
-    Pad metadata `u8 x,` ,
-}	, repeat	string i8i8, char[]
-    As@calculatedFrom(
-""\n"" ) ,}
-    // " ++ [27880; 37322]%N ++ runes_of_ascii "
-    , @lengthOf( packetx // a // b
-) @lengthOf(
-    i64_ ) body `line1
-line2`,@lengthOf(roots)match
-// `tick` ""quote"" 'q'
-// trailing space 
-MetaDataX as uint8x { // `tick` ""quote"" 'q'
-[	007
-/// triple
+    } ,	repeat
+Foo {
+    uint64 a1 ,	}
+    , repeat char[ 42 ]
+matchKey
+`line1
+line2` ,  match /// triple
+rootA as lengthOf { // `tick` ""quote"" 'q'
+""it's"" :
+    u128 , //x
+1 :
+    uint8x
+    ""it's"": charz } ,
+repeat int16  zchar , repeat char[] BodyLength , @leftPad
 // " ++ [27880; 37322]%N ++ runes_of_ascii "
-, //x
-255
-    ,
-00]
-    :	body// c
-, [ 65535 , ""1"",// `tick` ""quote"" 'q'
-1  ,
-""\n""//	t
-, 1	,
-    ""CRC32""
-    ,
-    //	t
-    0
-    ] :trueish
+// 50% %s
+( )
+    @calculatedFrom( ""it's""
+    ) @rightPad
+    (  ' '
+)char[
+// " ++ [128512]%N ++ runes_of_ascii " emoji
+// a // b
+007 ] Logon @lengthOf(
+BodyLength ) , @tag(42
+)
+zchar[00 ] T @calculatedFrom(
+""" ++ [233]%N ++ runes_of_ascii "t" ++ [233]%N ++ runes_of_ascii """
+    ) , u8x {//x
+float{	packetx
+    `a\` , A	{
+    uint8 charz
+`a\`
+, _x matchKey
+`" ++ [28040; 24687; 31867; 22411]%N ++ runes_of_ascii "`
+//	t
+// packet A { u8 x, }
 ,
-} , uint64 Foo
-, zchar {metadata
-@lengthOf(Pad)//	t
-`crlf
-line` ,
-    match u as charz { 65535 :
-    //x
+match trueish // trailing space 
+as options1 { ""{,}"" : A , """" :Z9_
+/// triple
+// trailing space 
+""1""	: // `tick` ""quote"" 'q'
+f32a , 1 :msg_type , ""a\\"" :
+    Packet ,  [ """ ++ [128512]%N ++ runes_of_ascii """
+    ,""a\\"" ] :
+    chars, } ,
+match  len
+as
+    BodyLength { 65535:
     int
-[ ""1""]
+//x
+// a // b
+,
+""\n"" : f32a,	[""packet"" ,
+00 ,
+""CRC32""
+// @lengthOf(
+// `tick` ""quote"" 'q'
+,
+""`tick`""
+//x
+// 50% %s
+, 0 ,
+    ""a	b"" ,
+    // 50% %s
+    """"  ,""1"" ] // " ++ [128512]%N ++ runes_of_ascii " emoji
 :
+repeatCount
+""1"" // @lengthOf(
+:// " ++ [27880; 37322]%N ++ runes_of_ascii "
+leftPad,""CRC32""
+:
+lengthOf // @lengthOf(
+,	[7 ,	""a	b"" ] : //
+repeatCount
+    , }, } ,	char[]
+    falsey @calculatedFrom(""" ++ [233]%N ++ runes_of_ascii "t" ++ [233]%N ++ runes_of_ascii """) `" ++ [28040; 24687; 31867; 22411]%N ++ runes_of_ascii "`, zchar[007 ] lengthOf @lengthOf(
+x_y_z )`say ""hi""`, } //	t
+, } ,
+    MetaDataX ,
+}
+")).
+Eval vm_compute in ("<<<M126>>>" ++ check (runes_of_ascii "packet int {
+@leftPad(
+    //x
+    '\x00'
+    ) @tag( 0
+    //
+    ) repeat char[ 1 ] Header ,@calculatedFrom( ""CRC32"" )
+@tag( // a // b
+65535 )
+    lengthOf
+    , match T as x// 50% %s
+{ 3 : float
+,[65535
+, ""x y"" ]: Pad, }
+, int32 f32a
+`a\` ,}// a // b
+packet zchar
+{ options1 ,
+@calculatedFrom( ""\" ++ [233]%N ++ runes_of_ascii """)	repeat
+    i32 u8x ,}	packet
+    f32a	{ // `tick` ""quote"" 'q'
+@calculatedFrom( ""x y""
+)
+    u32 _x `u8 x,`//x
+,	repeat char[] falsey, match msg_type as rootA {65535:  lengthOf,	}  ,}
+")).
+Eval vm_compute in ("<<<M158>>>" ++ check (runes_of_ascii "packet trueish {
+zchar[ 65535
+    ] x_y_z , repeat
+char[
+7
+]
+Foo`say ""hi""`, zchar[4294967296
+] trueish ,@tag(
+// " ++ [128512]%N ++ runes_of_ascii " emoji
+// 50% %s
+1	) matchKey
+    { match uint8x
+    as
+Z9_ {
+    // @lengthOf(
+    [
+10
+] : matchKey}
+    ,
+}, } options { int = true }
+
+")).
+Eval vm_compute in ("<<<M190>>>" ++ check (runes_of_ascii "
+MetaData
+    //x
+    float {u8 uint8x ,
+// @lengthOf(
+// packet A { u8 x, }
+} options {}	root packet T /// triple
+{ u , }
+    packet
+x_y_z // c
+{@lengthOf( T
+) asx lengthOf `
+`, repeat
+    f64
 // c
-//
-a1 , [4294967296 , 00,""" ++ [233]%N ++ runes_of_ascii "t" ++ [233]%N ++ runes_of_ascii """ , """ ++ [28040; 24687]%N ++ runes_of_ascii """ ,
-    00 ]: matchKey , [ ""a\\"" ] : Logon ,
-    },
-repeat rootA { int16
-Foo @lengthOf( rootA // " ++ [27880; 37322]%N ++ runes_of_ascii "
-),options1 `u8 x,` // trailing space 
-, }	,  },  match chars as u
-// " ++ [128512]%N ++ runes_of_ascii " emoji
-// " ++ [128512]%N ++ runes_of_ascii " emoji
-{ [//
-""it's"" , 007	, """ ++ [233]%N ++ runes_of_ascii "t" ++ [233]%N ++ runes_of_ascii """, ""abc"" ,""\n"" ,
-// " ++ [128512]%N ++ runes_of_ascii " emoji
-// " ++ [27880; 37322]%N ++ runes_of_ascii "
-"""" // c
-] :	repeatCount,
-65535
-    // " ++ [128512]%N ++ runes_of_ascii " emoji
-    :Z9_
-, [ 007  , ""abc"",""// no comment""
-, """ ++ [28040; 24687]%N ++ runes_of_ascii """ ] :  falsey ,
-00
-:
-    string_}
-,  char repeatCount , } packet Foo {char[]
-a1 @calculatedFrom( """")`line1
-line2`
-, uint16 // a // b
-MetaDataX
+// a // b
+metadata
+    ,char[
+    4294967296
+    ] u8x ,	repeat
+    uint8 zchar, // a // b
+@tag(
+    0123456789)  repeat i64
+_x,u16
+u
+    // `tick` ""quote"" 'q'
+    ,match roots as
+Header { 007 : zchar
     // packet A { u8 x, }
-    `say ""hi""`,char[] A ,
-// trailing space 
+    ""it's""
+: rootA , [""it's""
+    ,""\n"", ""x y"" , 00 ,
+    42  ,
+""it's""
+    ]
+    : len , 0 :Z9_	, //x
+},match Logon as falsey {4294967296 : T
+    ""CRC32"" : u8x , [
+""" ++ [28040; 24687]%N ++ runes_of_ascii """
+    , ""1"" , ""it's"" , ""a\\"" , 3
+    ,
+4294967296 , """ ++ [128512]%N ++ runes_of_ascii """
+// " ++ [27880; 37322]%N ++ runes_of_ascii "
+// @lengthOf(
+, ""CRC32"" ]
+: _x ,
+[
+""// no comment"" ,// trailing space 
+0123456789 ,
+    10 , 65535 , """ ++ [128512]%N ++ runes_of_ascii """] : T , 42:
+    lengthOf ,0 :x_y_z
+    , } ,
+    match crc as u8x {[
+42]:repeatCount 0 : calculatedFrom , } , }
+
+")).
+Eval vm_compute in ("<<<M222>>>" ++ check (runes_of_ascii "packet rootA {
+    // a // b
+    } options {o
+= false ; asx
+=char[ 10 ] // `tick` ""quote"" 'q'
+}
+    options	{	}
+")).
+Eval vm_compute in ("<<<M254>>>" ++ check (runes_of_ascii "packet i64_ {
+Logon{ u8
+// a // b
+// " ++ [27880; 37322]%N ++ runes_of_ascii "
+i8i8//	t
+@calculatedFrom(""" ++ [233]%N ++ runes_of_ascii "t" ++ [233]%N ++ runes_of_ascii """)
+    ,} //x
+, } packet lengthOf
+// c
+// c
+{ }
+")).
+Eval vm_compute in ("<<<M286>>>" ++ check (runes_of_ascii "packet falsey { @calculatedFrom( ""\n"" ) pack T `
+`, @rightPad /// triple
+(
+)char[] string_
+/// triple
 // " ++ [128512]%N ++ runes_of_ascii " emoji
-f64 int @lengthOf(Pad  ) , u32
-    BodyLength
-, float64
-trueish @lengthOf(lengthOf )
+,
+    //
+    } MetaData	string_ { u16 trueish
+,
+    float x_y_z `u8 x,` ,
+zchar[ 65535 ]	float ,
+lengthOf repeatCount`tab	here` ,
+    metadata // trailing space 
+chars`say ""hi""` , }
+")).
+Eval vm_compute in ("<<<T286>>>" ++ terms [mkTok 35 "packet" 1 0 false; mkTok 42 "falsey" 1 7 false; mkTok 2 "{" 1 14 false; mkTok 5 "@calculatedFrom(" 1 16 false; mkTok 31 """\n""" 1 33 false; mkTok 6 ")" 1 38 false; mkTok 42 "pack" 1 40 false; mkTok 42 "T" 1 45 false; mkTok 43 (string_of_bytes [96; 10; 96]%N) 1 47 false; mkTok 40 "," 2 1 false; mkTok 32 "@rightPad" 2 3 false; mkTok 44 "/// triple" 2 13 true; mkTok 8 "(" 3 0 false; mkTok 6 ")" 4 0 false; mkTok 16 "char[]" 4 1 false; mkTok 42 "string_" 4 8 false; mkTok 44 "/// triple" 5 0 true; mkTok 44 (string_of_bytes [47; 47; 32; 240; 159; 152; 128; 32; 101; 109; 111; 106; 105]%N) 6 0 true; mkTok 40 "," 7 0 false; mkTok 44 "//" 8 4 true; mkTok 3 "}" 9 4 false; mkTok 37 "MetaData" 9 6 false; mkTok 42 "string_" 9 15 false; mkTok 2 "{" 9 23 false; mkTok 21 "u16" 9 25 false; mkTok 42 "trueish" 9 29 false; mkTok 40 "," 10 0 false; mkTok 42 "float" 11 4 false; mkTok 42 "x_y_z" 11 10 false; mkTok 43 "`u8 x,`" 11 16 false; mkTok 40 "," 11 24 false; mkTok 14 "zchar[" 12 0 false; mkTok 30 "65535" 12 7 false; mkTok 13 "]" 12 13 false; mkTok 42 "float" 12 15 false; mkTok 40 "," 12 21 false; mkTok 42 "lengthOf" 13 0 false; mkTok 42 "repeatCount" 13 9 false; mkTok 43 (string_of_bytes [96; 116; 97; 98; 9; 104; 101; 114; 101; 96]%N) 13 20 false; mkTok 40 "," 13 31 false; mkTok 42 "metadata" 14 4 false; mkTok 44 "// trailing space " 14 13 true; mkTok 42 "chars" 15 0 false; mkTok 43 "`say ""hi""`" 15 5 false; mkTok 40 "," 15 16 false; mkTok 3 "}" 15 18 false; mkTok 0 "<EOF>" 16 0 false] (mkPacket (mkPtok 35 "packet" 1 0 0) (Some (mkPtok 3 "}" 15 18 45)) [(DPacket (mkPacketDef (mkSpan (mkPtok 35 "packet" 1 0 0) (mkPtok 3 "}" 9 4 20)) None (mkPtok 35 "packet" 1 0 0) (mkPtok 42 "falsey" 1 7 1) (mkPtok 2 "{" 1 14 2) [(mkFieldWithAttr (mkSpan (mkPtok 5 "@calculatedFrom(" 1 16 3) (mkPtok 40 "," 2 1 9)) [(FACalculatedFrom (mkSpan (mkPtok 5 "@calculatedFrom(" 1 16 3) (mkPtok 6 ")" 1 38 5)) (mkCalculatedFrom (mkSpan (mkPtok 5 "@calculatedFrom(" 1 16 3) (mkPtok 6 ")" 1 38 5)) (mkPtok 5 "@calculatedFrom(" 1 16 3) (mkPtok 31 """\n""" 1 33 4) (mkPtok 6 ")" 1 38 5)))] (ObjectField (mkSpan (mkPtok 42 "pack" 1 40 6) (mkPtok 40 "," 2 1 9)) None (mkPtok 42 "pack" 1 40 6) (Some (mkPtok 42 "T" 1 45 7)) (Some (mkPtok 43 (string_of_bytes [96; 10; 96]%N) 1 47 8)) (mkPtok 40 "," 2 1 9))); (mkFieldWithAttr (mkSpan (mkPtok 32 "@rightPad" 2 3 10) (mkPtok 40 "," 7 0 18)) [(FAPadding (mkSpan (mkPtok 32 "@rightPad" 2 3 10) (mkPtok 6 ")" 4 0 13)) (mkPaddingAttr (mkSpan (mkPtok 32 "@rightPad" 2 3 10) (mkPtok 6 ")" 4 0 13)) (mkPtok 32 "@rightPad" 2 3 10) (mkPtok 8 "(" 3 0 12) None (mkPtok 6 ")" 4 0 13)))] (MetaField (mkSpan (mkPtok 16 "char[]" 4 1 14) (mkPtok 40 "," 7 0 18)) None (mkMetaDecl (mkSpan (mkPtok 16 "char[]" 4 1 14) (mkPtok 40 "," 7 0 18)) (TyDynamic (mkSpan (mkPtok 16 "char[]" 4 1 14) (mkPtok 16 "char[]" 4 1 14)) (mkDynamicString (mkSpan (mkPtok 16 "char[]" 4 1 14) (mkPtok 16 "char[]" 4 1 14)) (mkPtok 16 "char[]" 4 1 14))) (mkPtok 42 "string_" 4 8 15) None (mkPtok 40 "," 7 0 18))))] (mkPtok 3 "}" 9 4 20))); (DMeta (mkMetaDef (mkSpan (mkPtok 37 "MetaData" 9 6 21) (mkPtok 3 "}" 15 18 45)) (mkPtok 37 "MetaData" 9 6 21) (mkPtok 42 "string_" 9 15 22) (mkPtok 2 "{" 9 23 23) [(MIDecl (mkMetaDecl (mkSpan (mkPtok 21 "u16" 9 25 24) (mkPtok 40 "," 10 0 26)) (TyBasic (mkSpan (mkPtok 21 "u16" 9 25 24) (mkPtok 21 "u16" 9 25 24)) (mkBasicType (mkSpan (mkPtok 21 "u16" 9 25 24) (mkPtok 21 "u16" 9 25 24)) (mkPtok 21 "u16" 9 25 24))) (mkPtok 42 "trueish" 9 29 25) None (mkPtok 40 "," 10 0 26))); (MIRef (mkRefMetaDecl (mkSpan (mkPtok 42 "float" 11 4 27) (mkPtok 40 "," 11 24 30)) (mkPtok 42 "float" 11 4 27) (mkPtok 42 "x_y_z" 11 10 28) (Some (mkPtok 43 "`u8 x,`" 11 16 29)) (mkPtok 40 "," 11 24 30))); (MIDecl (mkMetaDecl (mkSpan (mkPtok 14 "zchar[" 12 0 31) (mkPtok 40 "," 12 21 35)) (TyFixed (mkSpan (mkPtok 14 "zchar[" 12 0 31) (mkPtok 13 "]" 12 13 33)) (mkFixedString (mkSpan (mkPtok 14 "zchar[" 12 0 31) (mkPtok 13 "]" 12 13 33)) (mkPtok 14 "zchar[" 12 0 31) (mkPtok 30 "65535" 12 7 32) (mkPtok 13 "]" 12 13 33))) (mkPtok 42 "float" 12 15 34) None (mkPtok 40 "," 12 21 35))); (MIRef (mkRefMetaDecl (mkSpan (mkPtok 42 "lengthOf" 13 0 36) (mkPtok 40 "," 13 31 39)) (mkPtok 42 "lengthOf" 13 0 36) (mkPtok 42 "repeatCount" 13 9 37) (Some (mkPtok 43 (string_of_bytes [96; 116; 97; 98; 9; 104; 101; 114; 101; 96]%N) 13 20 38)) (mkPtok 40 "," 13 31 39))); (MIRef (mkRefMetaDecl (mkSpan (mkPtok 42 "metadata" 14 4 40) (mkPtok 40 "," 15 16 44)) (mkPtok 42 "metadata" 14 4 40) (mkPtok 42 "chars" 15 0 42) (Some (mkPtok 43 "`say ""hi""`" 15 5 43)) (mkPtok 40 "," 15 16 44)))] (mkPtok 3 "}" 15 18 45)))])).
+Eval vm_compute in ("<<<M318>>>" ++ check (runes_of_ascii "// " ++ [128512]%N ++ runes_of_ascii " emoji
+MetaData
+    lengthOf	{ int16
+asx,}")).
+Eval vm_compute in ("<<<M350>>>" ++ check (runes_of_ascii "root packet
+    //	t
+    crc { // trailing space 
+repeat
+zchar[255 ]int
+,}
+")).
+Eval vm_compute in ("<<<M382>>>" ++ check (runes_of_ascii "options { BodyLength
+    //
+    = """ ++ [28040; 24687]%N ++ runes_of_ascii """ Header= '0' ;  }root
+packet
+crc{
+asx @lengthOf(crc)`" ++ [28040; 24687; 31867; 22411]%N ++ runes_of_ascii "`
+, @calculatedFrom( ""x y""	)@lengthOf( Logon)repeat f32a
+    // c
+    {i32 calculatedFrom //x
+@lengthOf( Packet )
+    `// not a comment` , charz @lengthOf( u	) ,
+    match  asx
+    as
+As{
+    ""it's"":/// triple
+_x
+    //
+    , ""x y"" :  calculatedFrom ,	""packet"" : Pad ,
+}, charz
+    chars//x
+,
+    } , @leftPad
+    ( ' '	) // `tick` ""quote"" 'q'
+i8 A`line1
+line2` , repeat
+    zchar[ 42 ]x
+,As`" ++ [233]%N ++ runes_of_ascii "`
+    , char[] crc , @calculatedFrom(	""`tick`"" ) Header
+    // 50% %s
+    {match
+chars
+// a // b
+// 50% %s
+as float // @lengthOf(
+{
+""abc""
+:
+matchKey , 007:calculatedFrom ,
+    // 50% %s
+    ""\n"" : i64_ , ""packet"": i8i8 [10 ,
+0123456789
+]
+:
+roots	, } ,
+metadata repeatCount	, // " ++ [128512]%N ++ runes_of_ascii " emoji
+}	,}
+packet o{
+u16 chars@calculatedFrom(	""abc"" //
+), repeat int {uint8 len
+,
+    // `tick` ""quote"" 'q'
+    u128 asx, match u128 as
+    lengthOf
+{ ""it's"": packetx 0123456789: // packet A { u8 x, }
+a1 , [ """" ,0123456789] :	asx , } ,} ,
+char _x
+@lengthOf(  repeatCount )
+    // `tick` ""quote"" 'q'
+    ,repeat
+uint64 u128 , } root
+    // packet A { u8 x, }
+    packet	_x
+{
+repeat int {repeat
+Z9_
+// trailing space 
+//
+body ,
+// 50% %s
+//x
+} ,	}
+// trailing space 
+")).
+Eval vm_compute in ("<<<M414>>>" ++ check (runes_of_ascii "packet
+    trueish // packet A { u8 x, }
+{  }
+
+")).
+Eval vm_compute in ("<<<M446>>>" ++ check (runes_of_ascii "root packet asx {
+@tag(3 )int8 metadata `" ++ [233]%N ++ runes_of_ascii "` ,
+    //x
+    repeat char[] Z9_ ,	@rightPad// trailing space 
+('\x00')
+@lengthOf( Header )
+@lengthOf(crc ) MetaDataX { u64 u128 , } , //
+int16
+    leftPad	, @tag( 10)
+@tag( 4294967296
+    ) @leftPad (' ')	repeat u16 repeatCount `100% of %d`
+, @rightPad  () @tag( 0 )
+match crc as chars
+{
+0123456789 :  BodyLength , """ ++ [128512]%N ++ runes_of_ascii """
+    :	Logon, [ 10 , 255] // c
+: MetaDataX
+    ,	0123456789 ://	t
+Packet ,""// no comment"": T , 65535
+: charz,	} , match falsey
+as
+    //x
+    u128
+{
+[
+    """ ++ [28040; 24687]%N ++ runes_of_ascii """
+,""// no comment"" ] : leftPad,[ 65535
+]
+:
+    //
+    asx
+10 :u // " ++ [27880; 37322]%N ++ runes_of_ascii "
+, ""{,}"" // 50% %s
+: _x , }
+    ,
+// @lengthOf(
+// trailing space 
+match  As as
+    MetaDataX { 0123456789
+    : a1,
+[ 65535,
+    ""abc""
+    ]://	t
+tag //	t
+,
+    // `tick` ""quote"" 'q'
+    [
+""" ++ [233]%N ++ runes_of_ascii "t" ++ [233]%N ++ runes_of_ascii """,
+    ""`tick`"" ,	""\" ++ [233]%N ++ runes_of_ascii """	,
+    ""abc"" , ""\" ++ [233]%N ++ runes_of_ascii """ , ""packet""
+    , // " ++ [27880; 37322]%N ++ runes_of_ascii "
+""packet""
+] : o	00 : crc
+    } , } packet chars
+{ @calculatedFrom( ""x y"") char[ 255 ]  crc
+    // c
+    `100% of %d` , @tag( // a // b
+65535 ) f64
+    BodyLength@calculatedFrom(
+    ""CRC32"" ) ,
+    }")).
+Eval vm_compute in ("<<<M478>>>" ++ check (runes_of_ascii "
+")).
+Eval vm_compute in ("<<<M510>>>" ++ check (runes_of_ascii "packet pack { // " ++ [128512]%N ++ runes_of_ascii " emoji
+stringy{ repeat
+string falsey , char[] Z9_ , repeat i64_ { char[ 10
+] msg_type ,match string_
+as msg_type{
+    3 : x_y_z, [7 ] :o 007: Foo // trailing space 
+, ""{,}"" :
+    T, [ ""CRC32""	, // " ++ [27880; 37322]%N ++ runes_of_ascii "
+""`tick`"" //x
+]	:u128 , // 50% %s
+3 :
+    i64_
+    /// triple
+    ,} , // trailing space 
+} , zchar[ 4294967296 ]
+crc ,
+    } ,  repeat i8i8{ matchKey@lengthOf(  i8i8 )
+`// not a comment`, } , @tag( 4294967296)repeat Logon {
+    string asx
+    `" ++ [233]%N ++ runes_of_ascii "`, } ,matchKey@lengthOf( Pad	),}
+    MetaData leftPad
+    {}
+// " ++ [27880; 37322]%N ++ runes_of_ascii "
+")).
+Eval vm_compute in ("<<<T510>>>" ++ terms [mkTok 35 "packet" 1 0 false; mkTok 42 "pack" 1 7 false; mkTok 2 "{" 1 12 false; mkTok 44 (string_of_bytes [47; 47; 32; 240; 159; 152; 128; 32; 101; 109; 111; 106; 105]%N) 1 14 true; mkTok 42 "stringy" 2 0 false; mkTok 2 "{" 2 7 false; mkTok 36 "repeat" 2 9 false; mkTok 15 "string" 3 0 false; mkTok 42 "falsey" 3 7 false; mkTok 40 "," 3 14 false; mkTok 16 "char[]" 3 16 false; mkTok 42 "Z9_" 3 23 false; mkTok 40 "," 3 27 false; mkTok 36 "repeat" 3 29 false; mkTok 42 "i64_" 3 36 false; mkTok 2 "{" 3 41 false; mkTok 12 "char[" 3 43 false; mkTok 30 "10" 3 49 false; mkTok 13 "]" 4 0 false; mkTok 42 "msg_type" 4 2 false; mkTok 40 "," 4 11 false; mkTok 38 "match" 4 12 false; mkTok 42 "string_" 4 18 false; mkTok 17 "as" 5 0 false; mkTok 42 "msg_type" 5 3 false; mkTok 2 "{" 5 11 false; mkTok 30 "3" 6 4 false; mkTok 39 ":" 6 6 false; mkTok 42 "x_y_z" 6 8 false; mkTok 40 "," 6 13 false; mkTok 18 "[" 6 15 false; mkTok 30 "7" 6 16 false; mkTok 13 "]" 6 18 false; mkTok 39 ":" 6 20 false; mkTok 42 "o" 6 21 false; mkTok 30 "007" 6 23 false; mkTok 39 ":" 6 26 false; mkTok 42 "Foo" 6 28 false; mkTok 44 "// trailing space " 6 32 true; mkTok 40 "," 7 0 false; mkTok 31 """{,}""" 7 2 false; mkTok 39 ":" 7 8 false; mkTok 42 "T" 8 4 false; mkTok 40 "," 8 5 false; mkTok 18 "[" 8 7 false; mkTok 31 """CRC32""" 8 9 false; mkTok 40 "," 8 17 false; mkTok 44 (string_of_bytes [47; 47; 32; 230; 179; 168; 233; 135; 138]%N) 8 19 true; mkTok 31 """`tick`""" 9 0 false; mkTok 44 "//x" 9 9 true; mkTok 13 "]" 10 0 false; mkTok 39 ":" 10 2 false; mkTok 42 "u128" 10 3 false; mkTok 40 "," 10 8 false; mkTok 44 "// 50% %s" 10 10 true; mkTok 30 "3" 11 0 false; mkTok 39 ":" 11 2 false; mkTok 42 "i64_" 12 4 false; mkTok 44 "/// triple" 13 4 true; mkTok 40 "," 14 4 false; mkTok 3 "}" 14 5 false; mkTok 40 "," 14 7 false; mkTok 44 "// trailing space " 14 9 true; mkTok 3 "}" 15 0 false; mkTok 40 "," 15 2 false; mkTok 14 "zchar[" 15 4 false; mkTok 30 "4294967296" 15 11 false; mkTok 13 "]" 15 22 false; mkTok 42 "crc" 16 0 false; mkTok 40 "," 16 4 false; mkTok 3 "}" 17 4 false; mkTok 40 "," 17 6 false; mkTok 36 "repeat" 17 9 false; mkTok 42 "i8i8" 17 16 false; mkTok 2 "{" 17 20 false; mkTok 42 "matchKey" 17 22 false; mkTok 7 "@lengthOf(" 17 30 false; mkTok 42 "i8i8" 17 42 false; mkTok 6 ")" 17 47 false; mkTok 43 "`// not a comment`" 18 0 false; mkTok 40 "," 18 18 false; mkTok 3 "}" 18 20 false; mkTok 40 "," 18 22 false; mkTok 9 "@tag(" 18 24 false; mkTok 30 "4294967296" 18 30 false; mkTok 6 ")" 18 40 false; mkTok 36 "repeat" 18 41 false; mkTok 42 "Logon" 18 48 false; mkTok 2 "{" 18 54 false; mkTok 15 "string" 19 4 false; mkTok 42 "asx" 19 11 false; mkTok 43 (string_of_bytes [96; 195; 169; 96]%N) 20 4 false; mkTok 40 "," 20 7 false; mkTok 3 "}" 20 9 false; mkTok 40 "," 20 11 false; mkTok 42 "matchKey" 20 12 false; mkTok 7 "@lengthOf(" 20 20 false; mkTok 42 "Pad" 20 31 false; mkTok 6 ")" 20 35 false; mkTok 40 "," 20 36 false; mkTok 3 "}" 20 37 false; mkTok 37 "MetaData" 21 4 false; mkTok 42 "leftPad" 21 13 false; mkTok 2 "{" 22 4 false; mkTok 3 "}" 22 5 false; mkTok 44 (string_of_bytes [47; 47; 32; 230; 179; 168; 233; 135; 138]%N) 23 0 true; mkTok 0 "<EOF>" 24 0 false] (mkPacket (mkPtok 35 "packet" 1 0 0) (Some (mkPtok 3 "}" 22 5 104)) [(DPacket (mkPacketDef (mkSpan (mkPtok 35 "packet" 1 0 0) (mkPtok 3 "}" 20 37 100)) None (mkPtok 35 "packet" 1 0 0) (mkPtok 42 "pack" 1 7 1) (mkPtok 2 "{" 1 12 2) [(mkFieldWithAttr (mkSpan (mkPtok 42 "stringy" 2 0 4) (mkPtok 40 "," 17 6 71)) [] (InerObjectField (mkSpan (mkPtok 42 "stringy" 2 0 4) (mkPtok 40 "," 17 6 71)) None (InerObjectDecl (mkSpan (mkPtok 42 "stringy" 2 0 4) (mkPtok 3 "}" 17 4 70)) (mkPtok 42 "stringy" 2 0 4) (mkPtok 2 "{" 2 7 5) [(MetaField (mkSpan (mkPtok 36 "repeat" 2 9 6) (mkPtok 40 "," 3 14 9)) (Some (mkPtok 36 "repeat" 2 9 6)) (mkMetaDecl (mkSpan (mkPtok 15 "string" 3 0 7) (mkPtok 40 "," 3 14 9)) (TyDynamic (mkSpan (mkPtok 15 "string" 3 0 7) (mkPtok 15 "string" 3 0 7)) (mkDynamicString (mkSpan (mkPtok 15 "string" 3 0 7) (mkPtok 15 "string" 3 0 7)) (mkPtok 15 "string" 3 0 7))) (mkPtok 42 "falsey" 3 7 8) None (mkPtok 40 "," 3 14 9))); (MetaField (mkSpan (mkPtok 16 "char[]" 3 16 10) (mkPtok 40 "," 3 27 12)) None (mkMetaDecl (mkSpan (mkPtok 16 "char[]" 3 16 10) (mkPtok 40 "," 3 27 12)) (TyDynamic (mkSpan (mkPtok 16 "char[]" 3 16 10) (mkPtok 16 "char[]" 3 16 10)) (mkDynamicString (mkSpan (mkPtok 16 "char[]" 3 16 10) (mkPtok 16 "char[]" 3 16 10)) (mkPtok 16 "char[]" 3 16 10))) (mkPtok 42 "Z9_" 3 23 11) None (mkPtok 40 "," 3 27 12))); (InerObjectField (mkSpan (mkPtok 36 "repeat" 3 29 13) (mkPtok 40 "," 15 2 64)) (Some (mkPtok 36 "repeat" 3 29 13)) (InerObjectDecl (mkSpan (mkPtok 42 "i64_" 3 36 14) (mkPtok 3 "}" 15 0 63)) (mkPtok 42 "i64_" 3 36 14) (mkPtok 2 "{" 3 41 15) [(MetaField (mkSpan (mkPtok 12 "char[" 3 43 16) (mkPtok 40 "," 4 11 20)) None (mkMetaDecl (mkSpan (mkPtok 12 "char[" 3 43 16) (mkPtok 40 "," 4 11 20)) (TyFixed (mkSpan (mkPtok 12 "char[" 3 43 16) (mkPtok 13 "]" 4 0 18)) (mkFixedString (mkSpan (mkPtok 12 "char[" 3 43 16) (mkPtok 13 "]" 4 0 18)) (mkPtok 12 "char[" 3 43 16) (mkPtok 30 "10" 3 49 17) (mkPtok 13 "]" 4 0 18))) (mkPtok 42 "msg_type" 4 2 19) None (mkPtok 40 "," 4 11 20))); (MatchField (mkSpan (mkPtok 38 "match" 4 12 21) (mkPtok 40 "," 14 7 61)) (mkMatchFieldDecl (mkSpan (mkPtok 38 "match" 4 12 21) (mkPtok 3 "}" 14 5 60)) (mkPtok 38 "match" 4 12 21) (mkPtok 42 "string_" 4 18 22) (mkPtok 17 "as" 5 0 23) (mkPtok 42 "msg_type" 5 3 24) (mkPtok 2 "{" 5 11 25) [(mkMatchPair (mkSpan (mkPtok 30 "3" 6 4 26) (mkPtok 40 "," 6 13 29)) (MKDigits (mkPtok 30 "3" 6 4 26)) (mkPtok 39 ":" 6 6 27) (mkPtok 42 "x_y_z" 6 8 28) (Some (mkPtok 40 "," 6 13 29))); (mkMatchPair (mkSpan (mkPtok 18 "[" 6 15 30) (mkPtok 42 "o" 6 21 34)) (MKList (mkKeyList (mkSpan (mkPtok 18 "[" 6 15 30) (mkPtok 13 "]" 6 18 32)) (mkPtok 18 "[" 6 15 30) (mkPtok 30 "7" 6 16 31) [] (mkPtok 13 "]" 6 18 32))) (mkPtok 39 ":" 6 20 33) (mkPtok 42 "o" 6 21 34) None); (mkMatchPair (mkSpan (mkPtok 30 "007" 6 23 35) (mkPtok 40 "," 7 0 39)) (MKDigits (mkPtok 30 "007" 6 23 35)) (mkPtok 39 ":" 6 26 36) (mkPtok 42 "Foo" 6 28 37) (Some (mkPtok 40 "," 7 0 39))); (mkMatchPair (mkSpan (mkPtok 31 """{,}""" 7 2 40) (mkPtok 40 "," 8 5 43)) (MKString (mkPtok 31 """{,}""" 7 2 40)) (mkPtok 39 ":" 7 8 41) (mkPtok 42 "T" 8 4 42) (Some (mkPtok 40 "," 8 5 43))); (mkMatchPair (mkSpan (mkPtok 18 "[" 8 7 44) (mkPtok 40 "," 10 8 53)) (MKList (mkKeyList (mkSpan (mkPtok 18 "[" 8 7 44) (mkPtok 13 "]" 10 0 50)) (mkPtok 18 "[" 8 7 44) (mkPtok 31 """CRC32""" 8 9 45) [((mkPtok 40 "," 8 17 46), (mkPtok 31 """`tick`""" 9 0 48))] (mkPtok 13 "]" 10 0 50))) (mkPtok 39 ":" 10 2 51) (mkPtok 42 "u128" 10 3 52) (Some (mkPtok 40 "," 10 8 53))); (mkMatchPair (mkSpan (mkPtok 30 "3" 11 0 55) (mkPtok 40 "," 14 4 59)) (MKDigits (mkPtok 30 "3" 11 0 55)) (mkPtok 39 ":" 11 2 56) (mkPtok 42 "i64_" 12 4 57) (Some (mkPtok 40 "," 14 4 59)))] (mkPtok 3 "}" 14 5 60)) (mkPtok 40 "," 14 7 61))] (mkPtok 3 "}" 15 0 63)) (mkPtok 40 "," 15 2 64)); (MetaField (mkSpan (mkPtok 14 "zchar[" 15 4 65) (mkPtok 40 "," 16 4 69)) None (mkMetaDecl (mkSpan (mkPtok 14 "zchar[" 15 4 65) (mkPtok 40 "," 16 4 69)) (TyFixed (mkSpan (mkPtok 14 "zchar[" 15 4 65) (mkPtok 13 "]" 15 22 67)) (mkFixedString (mkSpan (mkPtok 14 "zchar[" 15 4 65) (mkPtok 13 "]" 15 22 67)) (mkPtok 14 "zchar[" 15 4 65) (mkPtok 30 "4294967296" 15 11 66) (mkPtok 13 "]" 15 22 67))) (mkPtok 42 "crc" 16 0 68) None (mkPtok 40 "," 16 4 69)))] (mkPtok 3 "}" 17 4 70)) (mkPtok 40 "," 17 6 71))); (mkFieldWithAttr (mkSpan (mkPtok 36 "repeat" 17 9 72) (mkPtok 40 "," 18 22 82)) [] (InerObjectField (mkSpan (mkPtok 36 "repeat" 17 9 72) (mkPtok 40 "," 18 22 82)) (Some (mkPtok 36 "repeat" 17 9 72)) (InerObjectDecl (mkSpan (mkPtok 42 "i8i8" 17 16 73) (mkPtok 3 "}" 18 20 81)) (mkPtok 42 "i8i8" 17 16 73) (mkPtok 2 "{" 17 20 74) [(LengthField (mkSpan (mkPtok 42 "matchKey" 17 22 75) (mkPtok 40 "," 18 18 80)) (mkLengthFieldDecl (mkSpan (mkPtok 42 "matchKey" 17 22 75) (mkPtok 40 "," 18 18 80)) None (mkPtok 42 "matchKey" 17 22 75) (mkLengthOf (mkSpan (mkPtok 7 "@lengthOf(" 17 30 76) (mkPtok 6 ")" 17 47 78)) (mkPtok 7 "@lengthOf(" 17 30 76) (mkPtok 42 "i8i8" 17 42 77) (mkPtok 6 ")" 17 47 78)) (Some (mkPtok 43 "`// not a comment`" 18 0 79)) (mkPtok 40 "," 18 18 80)))] (mkPtok 3 "}" 18 20 81)) (mkPtok 40 "," 18 22 82))); (mkFieldWithAttr (mkSpan (mkPtok 9 "@tag(" 18 24 83) (mkPtok 40 "," 20 11 94)) [(FATag (mkSpan (mkPtok 9 "@tag(" 18 24 83) (mkPtok 6 ")" 18 40 85)) (mkTagAttr (mkSpan (mkPtok 9 "@tag(" 18 24 83) (mkPtok 6 ")" 18 40 85)) (mkPtok 9 "@tag(" 18 24 83) (mkPtok 30 "4294967296" 18 30 84) (mkPtok 6 ")" 18 40 85)))] (InerObjectField (mkSpan (mkPtok 36 "repeat" 18 41 86) (mkPtok 40 "," 20 11 94)) (Some (mkPtok 36 "repeat" 18 41 86)) (InerObjectDecl (mkSpan (mkPtok 42 "Logon" 18 48 87) (mkPtok 3 "}" 20 9 93)) (mkPtok 42 "Logon" 18 48 87) (mkPtok 2 "{" 18 54 88) [(MetaField (mkSpan (mkPtok 15 "string" 19 4 89) (mkPtok 40 "," 20 7 92)) None (mkMetaDecl (mkSpan (mkPtok 15 "string" 19 4 89) (mkPtok 40 "," 20 7 92)) (TyDynamic (mkSpan (mkPtok 15 "string" 19 4 89) (mkPtok 15 "string" 19 4 89)) (mkDynamicString (mkSpan (mkPtok 15 "string" 19 4 89) (mkPtok 15 "string" 19 4 89)) (mkPtok 15 "string" 19 4 89))) (mkPtok 42 "asx" 19 11 90) (Some (mkPtok 43 (string_of_bytes [96; 195; 169; 96]%N) 20 4 91)) (mkPtok 40 "," 20 7 92)))] (mkPtok 3 "}" 20 9 93)) (mkPtok 40 "," 20 11 94))); (mkFieldWithAttr (mkSpan (mkPtok 42 "matchKey" 20 12 95) (mkPtok 40 "," 20 36 99)) [] (LengthField (mkSpan (mkPtok 42 "matchKey" 20 12 95) (mkPtok 40 "," 20 36 99)) (mkLengthFieldDecl (mkSpan (mkPtok 42 "matchKey" 20 12 95) (mkPtok 40 "," 20 36 99)) None (mkPtok 42 "matchKey" 20 12 95) (mkLengthOf (mkSpan (mkPtok 7 "@lengthOf(" 20 20 96) (mkPtok 6 ")" 20 35 98)) (mkPtok 7 "@lengthOf(" 20 20 96) (mkPtok 42 "Pad" 20 31 97) (mkPtok 6 ")" 20 35 98)) None (mkPtok 40 "," 20 36 99))))] (mkPtok 3 "}" 20 37 100))); (DMeta (mkMetaDef (mkSpan (mkPtok 37 "MetaData" 21 4 101) (mkPtok 3 "}" 22 5 104)) (mkPtok 37 "MetaData" 21 4 101) (mkPtok 42 "leftPad" 21 13 102) (mkPtok 2 "{" 22 4 103) [] (mkPtok 3 "}" 22 5 104)))])).
+Eval vm_compute in ("<<<M542>>>" ++ check (runes_of_ascii " //x")).
+Eval vm_compute in ("<<<M574>>>" ++ check (runes_of_ascii "  packet MetaDataX
+{ body, @tag(
+    00
+)
+options1`a\`
+,
+}")).
+Eval vm_compute in ("<<<M606>>>" ++ check (runes_of_ascii "MetaData _x {//x
+char[3// packet A { u8 x, }
+]Pad `crlf
+line` , }
+    packet trueish{
+// a // b
+// c
+u ,repeat
+    f32a{ char[ 65535 ]MetaDataX ,}// " ++ [128512]%N ++ runes_of_ascii " emoji
+, @calculatedFrom(
+""// no comment""  ) zchar[ 007 ]crc  @calculatedFrom(
+""a\""b"" )
+    `{ , }`,
+@lengthOf( x_y_z ) As //x
+`
+`, }
+//
+")).
+Eval vm_compute in ("<<<M638>>>" ++ check (runes_of_ascii "packet
+// 50% %s
+// " ++ [27880; 37322]%N ++ runes_of_ascii "
+Header {
+zchar[
+0123456789 ]i64_
+    // @lengthOf(
+    , @lengthOf(calculatedFrom ) u8x
+calculatedFrom , @tag( //
+1
+) repeat float32
+BodyLength ,chars crc	, repeat string	Header `{ , }` , @calculatedFrom( // packet A { u8 x, }
+""\n""	)
+    _x
+@calculatedFrom(""it's"" ) , falsey{
+    packetx
+// c
+// " ++ [128512]%N ++ runes_of_ascii " emoji
+@lengthOf( Z9_ ) ,	As{
+    zchar[
+3 ]i64_ , } , string	u8x @calculatedFrom( ""a\""b""
+) , }
+, int32 T @calculatedFrom(
+    ""{,}"" ) , len  { char[]chars@lengthOf( zchar ) , int16
+    MetaDataX @lengthOf( a1
+) , } , // `tick` ""quote"" 'q'
+@tag(
+    65535 )repeat f64 u , }
+")).
+Eval vm_compute in ("<<<M670>>>" ++ check (runes_of_ascii "// `tick` ""quote"" 'q'
+options {calculatedFrom = false  ;}")).
+Eval vm_compute in ("<<<M702>>>" ++ check (runes_of_ascii "MetaData u {}
+")).
+Eval vm_compute in ("<<<M734>>>" ++ check (runes_of_ascii "root packet roots
+    { @lengthOf(
+    _x )a1 @lengthOf( // a // b
+stringy
+) `{ , }` ,match // a // b
+o
+as
+A { 42: i8i8 ,
+    [""a\\"",  ""a\""b""	] : options1 ,  ""`tick`"" : falsey,
+// `tick` ""quote"" 'q'
+//	t
+} , @calculatedFrom( ""packet""	)
+    @lengthOf( zchar ) uint8 rootA //
+,
+//
+/// triple
+_x
+, } packet pack { @tag(	3 )string int , u32 pack @lengthOf( Z9_ )`line1
+line2`, a1 , @lengthOf(body) x //	t
+T
+`a\` ,
+    string a1  , float32
+    As
+// c
+// @lengthOf(
+@calculatedFrom( """ ++ [233]%N ++ runes_of_ascii "t" ++ [233]%N ++ runes_of_ascii """ ), char[]	metadata `it's` , A `two words` ,@lengthOf(len
+)	u128 { string  i8i8@lengthOf( calculatedFrom
+) `` ,
+    zchar[007
+]	uint8x
+`" ++ [233]%N ++ runes_of_ascii "` , Z9_
+    { u16
+    //	t
+    matchKey ,
+} , } ,}
+// 50% %s
+")).
+Eval vm_compute in ("<<<T734>>>" ++ terms [mkTok 34 "root" 1 0 false; mkTok 35 "packet" 1 5 false; mkTok 42 "roots" 1 12 false; mkTok 2 "{" 2 4 false; mkTok 7 "@lengthOf(" 2 6 false; mkTok 42 "_x" 3 4 false; mkTok 6 ")" 3 7 false; mkTok 42 "a1" 3 8 false; mkTok 7 "@lengthOf(" 3 11 false; mkTok 44 "// a // b" 3 22 true; mkTok 42 "stringy" 4 0 false; mkTok 6 ")" 5 0 false; mkTok 43 "`{ , }`" 5 2 false; mkTok 40 "," 5 10 false; mkTok 38 "match" 5 11 false; mkTok 44 "// a // b" 5 17 true; mkTok 42 "o" 6 0 false; mkTok 17 "as" 7 0 false; mkTok 42 "A" 8 0 false; mkTok 2 "{" 8 2 false; mkTok 30 "42" 8 4 false; mkTok 39 ":" 8 6 false; mkTok 42 "i8i8" 8 8 false; mkTok 40 "," 8 13 false; mkTok 18 "[" 9 4 false; mkTok 31 """a\\""" 9 5 false; mkTok 40 "," 9 10 false; mkTok 31 """a\""b""" 9 13 false; mkTok 13 "]" 9 20 false; mkTok 39 ":" 9 22 false; mkTok 42 "options1" 9 24 false; mkTok 40 "," 9 33 false; mkTok 31 """`tick`""" 9 36 false; mkTok 39 ":" 9 45 false; mkTok 42 "falsey" 9 47 false; mkTok 40 "," 9 53 false; mkTok 44 "// `tick` ""quote"" 'q'" 10 0 true; mkTok 44 (string_of_bytes [47; 47; 9; 116]%N) 11 0 true; mkTok 3 "}" 12 0 false; mkTok 40 "," 12 2 false; mkTok 5 "@calculatedFrom(" 12 4 false; mkTok 31 """packet""" 12 21 false; mkTok 6 ")" 12 30 false; mkTok 7 "@lengthOf(" 13 4 false; mkTok 42 "zchar" 13 15 false; mkTok 6 ")" 13 21 false; mkTok 20 "uint8" 13 23 false; mkTok 42 "rootA" 13 29 false; mkTok 44 "//" 13 35 true; mkTok 40 "," 14 0 false; mkTok 44 "//" 15 0 true; mkTok 44 "/// triple" 16 0 true; mkTok 42 "_x" 17 0 false; mkTok 40 "," 18 0 false; mkTok 3 "}" 18 2 false; mkTok 35 "packet" 18 4 false; mkTok 42 "pack" 18 11 false; mkTok 2 "{" 18 16 false; mkTok 9 "@tag(" 18 18 false; mkTok 30 "3" 18 24 false; mkTok 6 ")" 18 26 false; mkTok 15 "string" 18 27 false; mkTok 42 "int" 18 34 false; mkTok 40 "," 18 38 false; mkTok 22 "u32" 18 40 false; mkTok 42 "pack" 18 44 false; mkTok 7 "@lengthOf(" 18 49 false; mkTok 42 "Z9_" 18 60 false; mkTok 6 ")" 18 64 false; mkTok 43 (string_of_bytes [96; 108; 105; 110; 101; 49; 10; 108; 105; 110; 101; 50; 96]%N) 18 65 false; mkTok 40 "," 19 6 false; mkTok 42 "a1" 19 8 false; mkTok 40 "," 19 11 false; mkTok 7 "@lengthOf(" 19 13 false; mkTok 42 "body" 19 23 false; mkTok 6 ")" 19 27 false; mkTok 42 "x" 19 29 false; mkTok 44 (string_of_bytes [47; 47; 9; 116]%N) 19 31 true; mkTok 42 "T" 20 0 false; mkTok 43 "`a\`" 21 0 false; mkTok 40 "," 21 5 false; mkTok 15 "string" 22 4 false; mkTok 42 "a1" 22 11 false; mkTok 40 "," 22 15 false; mkTok 28 "float32" 22 17 false; mkTok 42 "As" 23 4 false; mkTok 44 "// c" 24 0 true; mkTok 44 "// @lengthOf(" 25 0 true; mkTok 5 "@calculatedFrom(" 26 0 false; mkTok 31 (string_of_bytes [34; 195; 169; 116; 195; 169; 34]%N) 26 17 false; mkTok 6 ")" 26 23 false; mkTok 40 "," 26 24 false; mkTok 16 "char[]" 26 26 false; mkTok 42 "metadata" 26 33 false; mkTok 43 "`it's`" 26 42 false; mkTok 40 "," 26 49 false; mkTok 42 "A" 26 51 false; mkTok 43 "`two words`" 26 53 false; mkTok 40 "," 26 65 false; mkTok 7 "@lengthOf(" 26 66 false; mkTok 42 "len" 26 76 false; mkTok 6 ")" 27 0 false; mkTok 42 "u128" 27 2 false; mkTok 2 "{" 27 7 false; mkTok 15 "string" 27 9 false; mkTok 42 "i8i8" 27 17 false; mkTok 7 "@lengthOf(" 27 21 false; mkTok 42 "calculatedFrom" 27 32 false; mkTok 6 ")" 28 0 false; mkTok 43 "``" 28 2 false; mkTok 40 "," 28 5 false; mkTok 14 "zchar[" 29 4 false; mkTok 30 "007" 29 10 false; mkTok 13 "]" 30 0 false; mkTok 42 "uint8x" 30 2 false; mkTok 43 (string_of_bytes [96; 195; 169; 96]%N) 31 0 false; mkTok 40 "," 31 4 false; mkTok 42 "Z9_" 31 6 false; mkTok 2 "{" 32 4 false; mkTok 21 "u16" 32 6 false; mkTok 44 (string_of_bytes [47; 47; 9; 116]%N) 33 4 true; mkTok 42 "matchKey" 34 4 false; mkTok 40 "," 34 13 false; mkTok 3 "}" 35 0 false; mkTok 40 "," 35 2 false; mkTok 3 "}" 35 4 false; mkTok 40 "," 35 6 false; mkTok 3 "}" 35 7 false; mkTok 44 "// 50% %s" 36 0 true; mkTok 0 "<EOF>" 37 0 false] (mkPacket (mkPtok 34 "root" 1 0 0) (Some (mkPtok 3 "}" 35 7 127)) [(DPacket (mkPacketDef (mkSpan (mkPtok 34 "root" 1 0 0) (mkPtok 3 "}" 18 2 54)) (Some (mkPtok 34 "root" 1 0 0)) (mkPtok 35 "packet" 1 5 1) (mkPtok 42 "roots" 1 12 2) (mkPtok 2 "{" 2 4 3) [(mkFieldWithAttr (mkSpan (mkPtok 7 "@lengthOf(" 2 6 4) (mkPtok 40 "," 5 10 13)) [(FALengthOf (mkSpan (mkPtok 7 "@lengthOf(" 2 6 4) (mkPtok 6 ")" 3 7 6)) (mkLengthOf (mkSpan (mkPtok 7 "@lengthOf(" 2 6 4) (mkPtok 6 ")" 3 7 6)) (mkPtok 7 "@lengthOf(" 2 6 4) (mkPtok 42 "_x" 3 4 5) (mkPtok 6 ")" 3 7 6)))] (LengthField (mkSpan (mkPtok 42 "a1" 3 8 7) (mkPtok 40 "," 5 10 13)) (mkLengthFieldDecl (mkSpan (mkPtok 42 "a1" 3 8 7) (mkPtok 40 "," 5 10 13)) None (mkPtok 42 "a1" 3 8 7) (mkLengthOf (mkSpan (mkPtok 7 "@lengthOf(" 3 11 8) (mkPtok 6 ")" 5 0 11)) (mkPtok 7 "@lengthOf(" 3 11 8) (mkPtok 42 "stringy" 4 0 10) (mkPtok 6 ")" 5 0 11)) (Some (mkPtok 43 "`{ , }`" 5 2 12)) (mkPtok 40 "," 5 10 13)))); (mkFieldWithAttr (mkSpan (mkPtok 38 "match" 5 11 14) (mkPtok 40 "," 12 2 39)) [] (MatchField (mkSpan (mkPtok 38 "match" 5 11 14) (mkPtok 40 "," 12 2 39)) (mkMatchFieldDecl (mkSpan (mkPtok 38 "match" 5 11 14) (mkPtok 3 "}" 12 0 38)) (mkPtok 38 "match" 5 11 14) (mkPtok 42 "o" 6 0 16) (mkPtok 17 "as" 7 0 17) (mkPtok 42 "A" 8 0 18) (mkPtok 2 "{" 8 2 19) [(mkMatchPair (mkSpan (mkPtok 30 "42" 8 4 20) (mkPtok 40 "," 8 13 23)) (MKDigits (mkPtok 30 "42" 8 4 20)) (mkPtok 39 ":" 8 6 21) (mkPtok 42 "i8i8" 8 8 22) (Some (mkPtok 40 "," 8 13 23))); (mkMatchPair (mkSpan (mkPtok 18 "[" 9 4 24) (mkPtok 40 "," 9 33 31)) (MKList (mkKeyList (mkSpan (mkPtok 18 "[" 9 4 24) (mkPtok 13 "]" 9 20 28)) (mkPtok 18 "[" 9 4 24) (mkPtok 31 """a\\""" 9 5 25) [((mkPtok 40 "," 9 10 26), (mkPtok 31 """a\""b""" 9 13 27))] (mkPtok 13 "]" 9 20 28))) (mkPtok 39 ":" 9 22 29) (mkPtok 42 "options1" 9 24 30) (Some (mkPtok 40 "," 9 33 31))); (mkMatchPair (mkSpan (mkPtok 31 """`tick`""" 9 36 32) (mkPtok 40 "," 9 53 35)) (MKString (mkPtok 31 """`tick`""" 9 36 32)) (mkPtok 39 ":" 9 45 33) (mkPtok 42 "falsey" 9 47 34) (Some (mkPtok 40 "," 9 53 35)))] (mkPtok 3 "}" 12 0 38)) (mkPtok 40 "," 12 2 39))); (mkFieldWithAttr (mkSpan (mkPtok 5 "@calculatedFrom(" 12 4 40) (mkPtok 40 "," 14 0 49)) [(FACalculatedFrom (mkSpan (mkPtok 5 "@calculatedFrom(" 12 4 40) (mkPtok 6 ")" 12 30 42)) (mkCalculatedFrom (mkSpan (mkPtok 5 "@calculatedFrom(" 12 4 40) (mkPtok 6 ")" 12 30 42)) (mkPtok 5 "@calculatedFrom(" 12 4 40) (mkPtok 31 """packet""" 12 21 41) (mkPtok 6 ")" 12 30 42))); (FALengthOf (mkSpan (mkPtok 7 "@lengthOf(" 13 4 43) (mkPtok 6 ")" 13 21 45)) (mkLengthOf (mkSpan (mkPtok 7 "@lengthOf(" 13 4 43) (mkPtok 6 ")" 13 21 45)) (mkPtok 7 "@lengthOf(" 13 4 43) (mkPtok 42 "zchar" 13 15 44) (mkPtok 6 ")" 13 21 45)))] (MetaField (mkSpan (mkPtok 20 "uint8" 13 23 46) (mkPtok 40 "," 14 0 49)) None (mkMetaDecl (mkSpan (mkPtok 20 "uint8" 13 23 46) (mkPtok 40 "," 14 0 49)) (TyBasic (mkSpan (mkPtok 20 "uint8" 13 23 46) (mkPtok 20 "uint8" 13 23 46)) (mkBasicType (mkSpan (mkPtok 20 "uint8" 13 23 46) (mkPtok 20 "uint8" 13 23 46)) (mkPtok 20 "uint8" 13 23 46))) (mkPtok 42 "rootA" 13 29 47) None (mkPtok 40 "," 14 0 49)))); (mkFieldWithAttr (mkSpan (mkPtok 42 "_x" 17 0 52) (mkPtok 40 "," 18 0 53)) [] (ObjectField (mkSpan (mkPtok 42 "_x" 17 0 52) (mkPtok 40 "," 18 0 53)) None (mkPtok 42 "_x" 17 0 52) None None (mkPtok 40 "," 18 0 53)))] (mkPtok 3 "}" 18 2 54))); (DPacket (mkPacketDef (mkSpan (mkPtok 35 "packet" 18 4 55) (mkPtok 3 "}" 35 7 127)) None (mkPtok 35 "packet" 18 4 55) (mkPtok 42 "pack" 18 11 56) (mkPtok 2 "{" 18 16 57) [(mkFieldWithAttr (mkSpan (mkPtok 9 "@tag(" 18 18 58) (mkPtok 40 "," 18 38 63)) [(FATag (mkSpan (mkPtok 9 "@tag(" 18 18 58) (mkPtok 6 ")" 18 26 60)) (mkTagAttr (mkSpan (mkPtok 9 "@tag(" 18 18 58) (mkPtok 6 ")" 18 26 60)) (mkPtok 9 "@tag(" 18 18 58) (mkPtok 30 "3" 18 24 59) (mkPtok 6 ")" 18 26 60)))] (MetaField (mkSpan (mkPtok 15 "string" 18 27 61) (mkPtok 40 "," 18 38 63)) None (mkMetaDecl (mkSpan (mkPtok 15 "string" 18 27 61) (mkPtok 40 "," 18 38 63)) (TyDynamic (mkSpan (mkPtok 15 "string" 18 27 61) (mkPtok 15 "string" 18 27 61)) (mkDynamicString (mkSpan (mkPtok 15 "string" 18 27 61) (mkPtok 15 "string" 18 27 61)) (mkPtok 15 "string" 18 27 61))) (mkPtok 42 "int" 18 34 62) None (mkPtok 40 "," 18 38 63)))); (mkFieldWithAttr (mkSpan (mkPtok 22 "u32" 18 40 64) (mkPtok 40 "," 19 6 70)) [] (LengthField (mkSpan (mkPtok 22 "u32" 18 40 64) (mkPtok 40 "," 19 6 70)) (mkLengthFieldDecl (mkSpan (mkPtok 22 "u32" 18 40 64) (mkPtok 40 "," 19 6 70)) (Some (TyBasic (mkSpan (mkPtok 22 "u32" 18 40 64) (mkPtok 22 "u32" 18 40 64)) (mkBasicType (mkSpan (mkPtok 22 "u32" 18 40 64) (mkPtok 22 "u32" 18 40 64)) (mkPtok 22 "u32" 18 40 64)))) (mkPtok 42 "pack" 18 44 65) (mkLengthOf (mkSpan (mkPtok 7 "@lengthOf(" 18 49 66) (mkPtok 6 ")" 18 64 68)) (mkPtok 7 "@lengthOf(" 18 49 66) (mkPtok 42 "Z9_" 18 60 67) (mkPtok 6 ")" 18 64 68)) (Some (mkPtok 43 (string_of_bytes [96; 108; 105; 110; 101; 49; 10; 108; 105; 110; 101; 50; 96]%N) 18 65 69)) (mkPtok 40 "," 19 6 70)))); (mkFieldWithAttr (mkSpan (mkPtok 42 "a1" 19 8 71) (mkPtok 40 "," 19 11 72)) [] (ObjectField (mkSpan (mkPtok 42 "a1" 19 8 71) (mkPtok 40 "," 19 11 72)) None (mkPtok 42 "a1" 19 8 71) None None (mkPtok 40 "," 19 11 72))); (mkFieldWithAttr (mkSpan (mkPtok 7 "@lengthOf(" 19 13 73) (mkPtok 40 "," 21 5 80)) [(FALengthOf (mkSpan (mkPtok 7 "@lengthOf(" 19 13 73) (mkPtok 6 ")" 19 27 75)) (mkLengthOf (mkSpan (mkPtok 7 "@lengthOf(" 19 13 73) (mkPtok 6 ")" 19 27 75)) (mkPtok 7 "@lengthOf(" 19 13 73) (mkPtok 42 "body" 19 23 74) (mkPtok 6 ")" 19 27 75)))] (ObjectField (mkSpan (mkPtok 42 "x" 19 29 76) (mkPtok 40 "," 21 5 80)) None (mkPtok 42 "x" 19 29 76) (Some (mkPtok 42 "T" 20 0 78)) (Some (mkPtok 43 "`a\`" 21 0 79)) (mkPtok 40 "," 21 5 80))); (mkFieldWithAttr (mkSpan (mkPtok 15 "string" 22 4 81) (mkPtok 40 "," 22 15 83)) [] (MetaField (mkSpan (mkPtok 15 "string" 22 4 81) (mkPtok 40 "," 22 15 83)) None (mkMetaDecl (mkSpan (mkPtok 15 "string" 22 4 81) (mkPtok 40 "," 22 15 83)) (TyDynamic (mkSpan (mkPtok 15 "string" 22 4 81) (mkPtok 15 "string" 22 4 81)) (mkDynamicString (mkSpan (mkPtok 15 "string" 22 4 81) (mkPtok 15 "string" 22 4 81)) (mkPtok 15 "string" 22 4 81))) (mkPtok 42 "a1" 22 11 82) None (mkPtok 40 "," 22 15 83)))); (mkFieldWithAttr (mkSpan (mkPtok 28 "float32" 22 17 84) (mkPtok 40 "," 26 24 91)) [] (CheckSumField (mkSpan (mkPtok 28 "float32" 22 17 84) (mkPtok 40 "," 26 24 91)) (mkChecksumFieldDecl (mkSpan (mkPtok 28 "float32" 22 17 84) (mkPtok 40 "," 26 24 91)) (Some (TyBasic (mkSpan (mkPtok 28 "float32" 22 17 84) (mkPtok 28 "float32" 22 17 84)) (mkBasicType (mkSpan (mkPtok 28 "float32" 22 17 84) (mkPtok 28 "float32" 22 17 84)) (mkPtok 28 "float32" 22 17 84)))) (mkPtok 42 "As" 23 4 85) (mkCalculatedFrom (mkSpan (mkPtok 5 "@calculatedFrom(" 26 0 88) (mkPtok 6 ")" 26 23 90)) (mkPtok 5 "@calculatedFrom(" 26 0 88) (mkPtok 31 (string_of_bytes [34; 195; 169; 116; 195; 169; 34]%N) 26 17 89) (mkPtok 6 ")" 26 23 90)) None (mkPtok 40 "," 26 24 91)))); (mkFieldWithAttr (mkSpan (mkPtok 16 "char[]" 26 26 92) (mkPtok 40 "," 26 49 95)) [] (MetaField (mkSpan (mkPtok 16 "char[]" 26 26 92) (mkPtok 40 "," 26 49 95)) None (mkMetaDecl (mkSpan (mkPtok 16 "char[]" 26 26 92) (mkPtok 40 "," 26 49 95)) (TyDynamic (mkSpan (mkPtok 16 "char[]" 26 26 92) (mkPtok 16 "char[]" 26 26 92)) (mkDynamicString (mkSpan (mkPtok 16 "char[]" 26 26 92) (mkPtok 16 "char[]" 26 26 92)) (mkPtok 16 "char[]" 26 26 92))) (mkPtok 42 "metadata" 26 33 93) (Some (mkPtok 43 "`it's`" 26 42 94)) (mkPtok 40 "," 26 49 95)))); (mkFieldWithAttr (mkSpan (mkPtok 42 "A" 26 51 96) (mkPtok 40 "," 26 65 98)) [] (ObjectField (mkSpan (mkPtok 42 "A" 26 51 96) (mkPtok 40 "," 26 65 98)) None (mkPtok 42 "A" 26 51 96) None (Some (mkPtok 43 "`two words`" 26 53 97)) (mkPtok 40 "," 26 65 98))); (mkFieldWithAttr (mkSpan (mkPtok 7 "@lengthOf(" 26 66 99) (mkPtok 40 "," 35 6 126)) [(FALengthOf (mkSpan (mkPtok 7 "@lengthOf(" 26 66 99) (mkPtok 6 ")" 27 0 101)) (mkLengthOf (mkSpan (mkPtok 7 "@lengthOf(" 26 66 99) (mkPtok 6 ")" 27 0 101)) (mkPtok 7 "@lengthOf(" 26 66 99) (mkPtok 42 "len" 26 76 100) (mkPtok 6 ")" 27 0 101)))] (InerObjectField (mkSpan (mkPtok 42 "u128" 27 2 102) (mkPtok 40 "," 35 6 126)) None (InerObjectDecl (mkSpan (mkPtok 42 "u128" 27 2 102) (mkPtok 3 "}" 35 4 125)) (mkPtok 42 "u128" 27 2 102) (mkPtok 2 "{" 27 7 103) [(LengthField (mkSpan (mkPtok 15 "string" 27 9 104) (mkPtok 40 "," 28 5 110)) (mkLengthFieldDecl (mkSpan (mkPtok 15 "string" 27 9 104) (mkPtok 40 "," 28 5 110)) (Some (TyDynamic (mkSpan (mkPtok 15 "string" 27 9 104) (mkPtok 15 "string" 27 9 104)) (mkDynamicString (mkSpan (mkPtok 15 "string" 27 9 104) (mkPtok 15 "string" 27 9 104)) (mkPtok 15 "string" 27 9 104)))) (mkPtok 42 "i8i8" 27 17 105) (mkLengthOf (mkSpan (mkPtok 7 "@lengthOf(" 27 21 106) (mkPtok 6 ")" 28 0 108)) (mkPtok 7 "@lengthOf(" 27 21 106) (mkPtok 42 "calculatedFrom" 27 32 107) (mkPtok 6 ")" 28 0 108)) (Some (mkPtok 43 "``" 28 2 109)) (mkPtok 40 "," 28 5 110))); (MetaField (mkSpan (mkPtok 14 "zchar[" 29 4 111) (mkPtok 40 "," 31 4 116)) None (mkMetaDecl (mkSpan (mkPtok 14 "zchar[" 29 4 111) (mkPtok 40 "," 31 4 116)) (TyFixed (mkSpan (mkPtok 14 "zchar[" 29 4 111) (mkPtok 13 "]" 30 0 113)) (mkFixedString (mkSpan (mkPtok 14 "zchar[" 29 4 111) (mkPtok 13 "]" 30 0 113)) (mkPtok 14 "zchar[" 29 4 111) (mkPtok 30 "007" 29 10 112) (mkPtok 13 "]" 30 0 113))) (mkPtok 42 "uint8x" 30 2 114) (Some (mkPtok 43 (string_of_bytes [96; 195; 169; 96]%N) 31 0 115)) (mkPtok 40 "," 31 4 116))); (InerObjectField (mkSpan (mkPtok 42 "Z9_" 31 6 117) (mkPtok 40 "," 35 2 124)) None (InerObjectDecl (mkSpan (mkPtok 42 "Z9_" 31 6 117) (mkPtok 3 "}" 35 0 123)) (mkPtok 42 "Z9_" 31 6 117) (mkPtok 2 "{" 32 4 118) [(MetaField (mkSpan (mkPtok 21 "u16" 32 6 119) (mkPtok 40 "," 34 13 122)) None (mkMetaDecl (mkSpan (mkPtok 21 "u16" 32 6 119) (mkPtok 40 "," 34 13 122)) (TyBasic (mkSpan (mkPtok 21 "u16" 32 6 119) (mkPtok 21 "u16" 32 6 119)) (mkBasicType (mkSpan (mkPtok 21 "u16" 32 6 119) (mkPtok 21 "u16" 32 6 119)) (mkPtok 21 "u16" 32 6 119))) (mkPtok 42 "matchKey" 34 4 121) None (mkPtok 40 "," 34 13 122)))] (mkPtok 3 "}" 35 0 123)) (mkPtok 40 "," 35 2 124))] (mkPtok 3 "}" 35 4 125)) (mkPtok 40 "," 35 6 126)))] (mkPtok 3 "}" 35 7 127)))])).
+Eval vm_compute in ("<<<M766>>>" ++ check (runes_of_ascii "packet
+i8i8{
+u32
+T @lengthOf( MetaDataX
+    )`u8 x,`
+// c
+// packet A { u8 x, }
+, // c
+As @calculatedFrom( ""abc"" )
+    // trailing space 
+    , @leftPad (' '
+    ) @calculatedFrom(
+    //
+    """ ++ [128512]%N ++ runes_of_ascii """
+    ) chars, // `tick` ""quote"" 'q'
+zchar[255 ]zchar , Packet asx ,
+// " ++ [128512]%N ++ runes_of_ascii " emoji
+// packet A { u8 x, }
+Z9_ charz , uint64 packetx
+,
+    @tag(
+3
+)@calculatedFrom( ""abc"")@tag( 007
+) repeat BodyLength	lengthOf , }	packet	pack {
+@lengthOf(rootA  )
+@tag( /// triple
+7
+    )
+@rightPad (// trailing space 
+' ' )
+body
 // `tick` ""quote"" 'q'
 // trailing space 
-`crlf
-line` , @tag(255 ) match Z9_ as tag { [ ""a\""b"",4294967296  ,  ""{,}"" ,""{,}""/// triple
-] :	Pad	, 1 : lengthOf ,	0123456789 : msg_type  , ""// no comment"":
-    BodyLength, [ ""1"" ] : string_ [3 , 0,1 , 1
-, ""\" ++ [233]%N ++ runes_of_ascii """ // " ++ [27880; 37322]%N ++ runes_of_ascii "
-,
-    """"
-    , 00
-    // c
-    ] // c
-: asx} , body `say ""hi""`// `tick` ""quote"" 'q'
-,	}options { x	='0'
-; u8x // " ++ [128512]%N ++ runes_of_ascii " emoji
-= u64;
-// c
-//	t
-string_ = ""a\""b"" }
-")).
-Eval vm_compute in ("<<<T286>>>" ++ terms [mkTok 35 "packet" 1 0 false; mkTok 42 "len" 1 7 false; mkTok 2 "{" 2 0 false; mkTok 5 "@calculatedFrom(" 2 3 false; mkTok 31 """`tick`""" 2 20 false; mkTok 6 ")" 2 29 false; mkTok 36 "repeat" 2 31 false; mkTok 14 "zchar[" 2 38 false; mkTok 30 "00" 2 45 false; mkTok 13 "]" 3 4 false; mkTok 42 "chars" 3 5 false; mkTok 44 (string_of_bytes [47; 47; 9; 116]%N) 3 11 true; mkTok 43 "`a\`" 4 0 false; mkTok 40 "," 5 4 false; mkTok 42 "u8x" 6 0 false; mkTok 44 "// trailing space " 7 0 true; mkTok 44 "// a // b" 8 0 true; mkTok 42 "MetaDataX" 9 0 false; mkTok 43 (string_of_bytes [96; 108; 105; 110; 101; 49; 10; 108; 105; 110; 101; 50; 96]%N) 9 10 false; mkTok 44 "// c" 11 4 true; mkTok 40 "," 12 4 false; mkTok 5 "@calculatedFrom(" 12 5 false; mkTok 31 """a\""b""" 12 22 false; mkTok 6 ")" 12 29 false; mkTok 38 "match" 12 31 false; mkTok 42 "matchKey" 13 4 false; mkTok 17 "as" 13 13 false; mkTok 42 "asx" 13 16 false; mkTok 2 "{" 13 20 false; mkTok 18 "[" 14 4 false; mkTok 31 """CRC32""" 14 6 false; mkTok 40 "," 14 14 false; mkTok 31 """a\""b""" 14 16 false; mkTok 13 "]" 15 0 false; mkTok 44 (string_of_bytes [47; 47; 32; 230; 179; 168; 233; 135; 138]%N) 15 1 true; mkTok 39 ":" 16 0 false; mkTok 42 "msg_type" 17 0 false; mkTok 40 "," 18 4 false; mkTok 3 "}" 19 4 false; mkTok 40 "," 20 0 false; mkTok 24 "i8" 20 2 false; mkTok 42 "string_" 20 5 false; mkTok 5 "@calculatedFrom(" 20 13 false; mkTok 31 """{,}""" 20 30 false; mkTok 6 ")" 20 36 false; mkTok 40 "," 21 4 false; mkTok 7 "@lengthOf(" 21 5 false; mkTok 42 "lengthOf" 22 0 false; mkTok 44 "//" 23 4 true; mkTok 6 ")" 24 4 false; mkTok 14 "zchar[" 24 6 false; mkTok 30 "42" 24 12 false; mkTok 13 "]" 24 15 false; mkTok 42 "_x" 25 4 false; mkTok 44 "// packet A { u8 x, }" 26 0 true; mkTok 44 "/// triple" 27 0 true; mkTok 43 (string_of_bytes [96; 108; 105; 110; 101; 49; 10; 108; 105; 110; 101; 50; 96]%N) 28 0 false; mkTok 40 "," 29 7 false; mkTok 7 "@lengthOf(" 30 4 false; mkTok 42 "asx" 30 15 false; mkTok 6 ")" 30 18 false; mkTok 36 "repeat" 30 20 false; mkTok 44 "// `tick` ""quote"" 'q'" 30 26 true; mkTok 24 "int8" 31 0 false; mkTok 42 "Header" 31 5 false; mkTok 40 "," 31 12 false; mkTok 36 "repeat" 31 14 false; mkTok 42 "crc" 31 21 false; mkTok 2 "{" 31 25 false; mkTok 24 "int8" 32 0 false; mkTok 42 "i64_" 32 5 false; mkTok 44 "//x" 32 9 true; mkTok 5 "@calculatedFrom(" 33 0 false; mkTok 31 """{,}""" 33 17 false; mkTok 6 ")" 33 23 false; mkTok 40 "," 33 25 false; mkTok 3 "}" 33 27 false; mkTok 40 "," 33 29 false; mkTok 36 "repeat" 33 30 false; mkTok 42 "_x" 33 37 false; mkTok 42 "i8i8" 33 40 false; mkTok 43 (string_of_bytes [96; 108; 105; 110; 101; 49; 10; 108; 105; 110; 101; 50; 96]%N) 33 45 false; mkTok 40 "," 34 7 false; mkTok 29 "float64" 34 9 false; mkTok 44 "// trailing space " 34 16 true; mkTok 42 "stringy" 35 0 false; mkTok 40 "," 35 8 false; mkTok 42 "MetaDataX" 35 10 false; mkTok 2 "{" 35 20 false; mkTok 42 "charz" 35 22 false; mkTok 2 "{" 36 4 false; mkTok 25 "int16" 36 6 false; mkTok 42 "matchKey" 36 12 false; mkTok 40 "," 36 20 false; mkTok 36 "repeat" 36 22 false; mkTok 42 "i64_" 37 4 false; mkTok 40 "," 37 8 false; mkTok 12 "char[" 38 4 false; mkTok 30 "00" 38 10 false; mkTok 13 "]" 38 12 false; mkTok 42 "Z9_" 38 14 false; mkTok 43 (string_of_bytes [96; 10; 96]%N) 38 18 false; mkTok 40 "," 39 2 false; mkTok 38 "match" 40 4 false; mkTok 42 "As" 40 10 false; mkTok 44 "//x" 41 4 true; mkTok 17 "as" 42 4 false; mkTok 42 "Packet" 42 7 false; mkTok 2 "{" 42 14 false; mkTok 30 "3" 42 16 false; mkTok 39 ":" 42 18 false; mkTok 42 "crc" 42 20 false; mkTok 40 "," 42 24 false; mkTok 18 "[" 42 26 false; mkTok 44 (string_of_bytes [47; 47; 9; 116]%N) 43 0 true; mkTok 44 "// @lengthOf(" 44 0 true; mkTok 30 "1" 45 0 false; mkTok 40 "," 45 2 false; mkTok 30 "00" 46 0 false; mkTok 13 "]" 47 0 false; mkTok 39 ":" 47 1 false; mkTok 42 "Header" 47 3 false; mkTok 44 (string_of_bytes [47; 47; 32; 230; 179; 168; 233; 135; 138]%N) 47 10 true; mkTok 40 "," 48 0 false; mkTok 30 "255" 48 2 false; mkTok 39 ":" 48 6 false; mkTok 42 "_x" 48 7 false; mkTok 40 "," 48 10 false; mkTok 30 "42" 48 12 false; mkTok 39 ":" 48 15 false; mkTok 42 "body" 48 17 false; mkTok 40 "," 49 0 false; mkTok 18 "[" 49 2 false; mkTok 30 "0" 49 3 false; mkTok 13 "]" 49 5 false; mkTok 39 ":" 49 7 false; mkTok 42 "chars" 49 9 false; mkTok 18 "[" 50 4 false; mkTok 30 "4294967296" 50 6 false; mkTok 40 "," 51 0 false; mkTok 30 "65535" 51 2 false; mkTok 13 "]" 51 8 false; mkTok 39 ":" 51 10 false; mkTok 42 "chars" 51 11 false; mkTok 40 "," 51 17 false; mkTok 3 "}" 51 19 false; mkTok 44 "/// triple" 52 0 true; mkTok 44 "// @lengthOf(" 53 0 true; mkTok 40 "," 54 0 false; mkTok 3 "}" 54 3 false; mkTok 44 "// trailing space " 55 0 true; mkTok 44 "// @lengthOf(" 56 0 true; mkTok 40 "," 57 0 false; mkTok 3 "}" 57 2 false; mkTok 40 "," 57 4 false; mkTok 3 "}" 57 6 false; mkTok 37 "MetaData" 57 8 false; mkTok 42 "falsey" 57 17 false; mkTok 2 "{" 57 24 false; mkTok 12 "char[" 58 0 false; mkTok 30 "255" 59 0 false; mkTok 13 "]" 60 0 false; mkTok 42 "u128" 60 2 false; mkTok 40 "," 60 7 false; mkTok 20 "u8" 60 9 false; mkTok 42 "Header" 60 12 false; mkTok 43 (string_of_bytes [96; 116; 97; 98; 9; 104; 101; 114; 101; 96]%N) 60 18 false; mkTok 40 "," 61 0 false; mkTok 15 "string" 62 0 false; mkTok 42 "float" 62 7 false; mkTok 40 "," 62 13 false; mkTok 3 "}" 62 14 false; mkTok 34 "root" 62 16 false; mkTok 35 "packet" 62 21 false; mkTok 42 "int" 62 28 false; mkTok 2 "{" 62 32 false; mkTok 42 "Logon" 62 34 false; mkTok 42 "i64_" 62 40 false; mkTok 40 "," 62 46 false; mkTok 5 "@calculatedFrom(" 63 4 false; mkTok 31 """1""" 64 0 false; mkTok 6 ")" 65 0 false; mkTok 42 "zchar" 65 2 false; mkTok 2 "{" 65 8 false; mkTok 42 "u" 65 10 false; mkTok 2 "{" 65 12 false; mkTok 14 "zchar[" 66 4 false; mkTok 30 "255" 67 0 false; mkTok 13 "]" 67 4 false; mkTok 42 "Pad" 67 6 false; mkTok 40 "," 67 10 false; mkTok 3 "}" 67 12 false; mkTok 40 "," 67 14 false; mkTok 42 "stringy" 67 16 false; mkTok 2 "{" 67 24 false; mkTok 42 "Pad" 68 4 false; mkTok 42 "metadata" 68 8 false; mkTok 43 "`u8 x,`" 68 17 false; mkTok 40 "," 68 25 false; mkTok 3 "}" 69 0 false; mkTok 40 "," 69 2 false; mkTok 36 "repeat" 69 4 false; mkTok 15 "string" 69 11 false; mkTok 42 "i8i8" 69 18 false; mkTok 40 "," 69 22 false; mkTok 16 "char[]" 69 24 false; mkTok 42 "As" 70 4 false; mkTok 5 "@calculatedFrom(" 70 6 false; mkTok 31 """\n""" 71 0 false; mkTok 6 ")" 71 5 false; mkTok 40 "," 71 7 false; mkTok 3 "}" 71 8 false; mkTok 44 (string_of_bytes [47; 47; 32; 230; 179; 168; 233; 135; 138]%N) 72 4 true; mkTok 40 "," 73 4 false; mkTok 7 "@lengthOf(" 73 6 false; mkTok 42 "packetx" 73 17 false; mkTok 44 "// a // b" 73 25 true; mkTok 6 ")" 74 0 false; mkTok 7 "@lengthOf(" 74 2 false; mkTok 42 "i64_" 75 4 false; mkTok 6 ")" 75 9 false; mkTok 42 "body" 75 11 false; mkTok 43 (string_of_bytes [96; 108; 105; 110; 101; 49; 10; 108; 105; 110; 101; 50; 96]%N) 75 16 false; mkTok 40 "," 76 6 false; mkTok 7 "@lengthOf(" 76 7 false; mkTok 42 "roots" 76 17 false; mkTok 6 ")" 76 22 false; mkTok 38 "match" 76 23 false; mkTok 44 "// `tick` ""quote"" 'q'" 77 0 true; mkTok 44 "// trailing space " 78 0 true; mkTok 42 "MetaDataX" 79 0 false; mkTok 17 "as" 79 10 false; mkTok 42 "uint8x" 79 13 false; mkTok 2 "{" 79 20 false; mkTok 44 "// `tick` ""quote"" 'q'" 79 22 true; mkTok 18 "[" 80 0 false; mkTok 30 "007" 80 2 false; mkTok 44 "/// triple" 81 0 true; mkTok 44 (string_of_bytes [47; 47; 32; 230; 179; 168; 233; 135; 138]%N) 82 0 true; mkTok 40 "," 83 0 false; mkTok 44 "//x" 83 2 true; mkTok 30 "255" 84 0 false; mkTok 40 "," 85 4 false; mkTok 30 "00" 86 0 false; mkTok 13 "]" 86 2 false; mkTok 39 ":" 87 4 false; mkTok 42 "body" 87 6 false; mkTok 44 "// c" 87 10 true; mkTok 40 "," 88 0 false; mkTok 18 "[" 88 2 false; mkTok 30 "65535" 88 4 false; mkTok 40 "," 88 10 false; mkTok 31 """1""" 88 12 false; mkTok 40 "," 88 15 false; mkTok 44 "// `tick` ""quote"" 'q'" 88 16 true; mkTok 30 "1" 89 0 false; mkTok 40 "," 89 3 false; mkTok 31 """\n""" 90 0 false; mkTok 44 (string_of_bytes [47; 47; 9; 116]%N) 90 4 true; mkTok 40 "," 91 0 false; mkTok 30 "1" 91 2 false; mkTok 40 "," 91 4 false; mkTok 31 """CRC32""" 92 4 false; mkTok 40 "," 93 4 false; mkTok 44 (string_of_bytes [47; 47; 9; 116]%N) 94 4 true; mkTok 30 "0" 95 4 false; mkTok 13 "]" 96 4 false; mkTok 39 ":" 96 6 false; mkTok 42 "trueish" 96 7 false; mkTok 40 "," 97 0 false; mkTok 3 "}" 98 0 false; mkTok 40 "," 98 2 false; mkTok 23 "uint64" 98 4 false; mkTok 42 "Foo" 98 11 false; mkTok 40 "," 99 0 false; mkTok 42 "zchar" 99 2 false; mkTok 2 "{" 99 8 false; mkTok 42 "metadata" 99 9 false; mkTok 7 "@lengthOf(" 100 0 false; mkTok 42 "Pad" 100 10 false; mkTok 6 ")" 100 13 false; mkTok 44 (string_of_bytes [47; 47; 9; 116]%N) 100 14 true; mkTok 43 (string_of_bytes [96; 99; 114; 108; 102; 13; 10; 108; 105; 110; 101; 96]%N) 101 0 false; mkTok 40 "," 102 6 false; mkTok 38 "match" 103 4 false; mkTok 42 "u" 103 10 false; mkTok 17 "as" 103 12 false; mkTok 42 "charz" 103 15 false; mkTok 2 "{" 103 21 false; mkTok 30 "65535" 103 23 false; mkTok 39 ":" 103 29 false; mkTok 44 "//x" 104 4 true; mkTok 42 "int" 105 4 false; mkTok 18 "[" 106 0 false; mkTok 31 """1""" 106 2 false; mkTok 13 "]" 106 5 false; mkTok 39 ":" 107 0 false; mkTok 44 "// c" 108 0 true; mkTok 44 "//" 109 0 true; mkTok 42 "a1" 110 0 false; mkTok 40 "," 110 3 false; mkTok 18 "[" 110 5 false; mkTok 30 "4294967296" 110 6 false; mkTok 40 "," 110 17 false; mkTok 30 "00" 110 19 false; mkTok 40 "," 110 21 false; mkTok 31 (string_of_bytes [34; 195; 169; 116; 195; 169; 34]%N) 110 22 false; mkTok 40 "," 110 28 false; mkTok 31 (string_of_bytes [34; 230; 182; 136; 230; 129; 175; 34]%N) 110 30 false; mkTok 40 "," 110 35 false; mkTok 30 "00" 111 4 false; mkTok 13 "]" 111 7 false; mkTok 39 ":" 111 8 false; mkTok 42 "matchKey" 111 10 false; mkTok 40 "," 111 19 false; mkTok 18 "[" 111 21 false; mkTok 31 """a\\""" 111 23 false; mkTok 13 "]" 111 29 false; mkTok 39 ":" 111 31 false; mkTok 42 "Logon" 111 33 false; mkTok 40 "," 111 39 false; mkTok 3 "}" 112 4 false; mkTok 40 "," 112 5 false; mkTok 36 "repeat" 113 0 false; mkTok 42 "rootA" 113 7 false; mkTok 2 "{" 113 13 false; mkTok 25 "int16" 113 15 false; mkTok 42 "Foo" 114 0 false; mkTok 7 "@lengthOf(" 114 4 false; mkTok 42 "rootA" 114 15 false; mkTok 44 (string_of_bytes [47; 47; 32; 230; 179; 168; 233; 135; 138]%N) 114 21 true; mkTok 6 ")" 115 0 false; mkTok 40 "," 115 1 false; mkTok 42 "options1" 115 2 false; mkTok 43 "`u8 x,`" 115 11 false; mkTok 44 "// trailing space " 115 19 true; mkTok 40 "," 116 0 false; mkTok 3 "}" 116 2 false; mkTok 40 "," 116 4 false; mkTok 3 "}" 116 7 false; mkTok 40 "," 116 8 false; mkTok 38 "match" 116 11 false; mkTok 42 "chars" 116 17 false; mkTok 17 "as" 116 23 false; mkTok 42 "u" 116 26 false; mkTok 44 (string_of_bytes [47; 47; 32; 240; 159; 152; 128; 32; 101; 109; 111; 106; 105]%N) 117 0 true; mkTok 44 (string_of_bytes [47; 47; 32; 240; 159; 152; 128; 32; 101; 109; 111; 106; 105]%N) 118 0 true; mkTok 2 "{" 119 0 false; mkTok 18 "[" 119 2 false; mkTok 44 "//" 119 3 true; mkTok 31 """it's""" 120 0 false; mkTok 40 "," 120 7 false; mkTok 30 "007" 120 9 false; mkTok 40 "," 120 13 false; mkTok 31 (string_of_bytes [34; 195; 169; 116; 195; 169; 34]%N) 120 15 false; mkTok 40 "," 120 20 false; mkTok 31 """abc""" 120 22 false; mkTok 40 "," 120 28 false; mkTok 31 """\n""" 120 29 false; mkTok 40 "," 120 34 false; mkTok 44 (string_of_bytes [47; 47; 32; 240; 159; 152; 128; 32; 101; 109; 111; 106; 105]%N) 121 0 true; mkTok 44 (string_of_bytes [47; 47; 32; 230; 179; 168; 233; 135; 138]%N) 122 0 true; mkTok 31 """""" 123 0 false; mkTok 44 "// c" 123 3 true; mkTok 13 "]" 124 0 false; mkTok 39 ":" 124 2 false; mkTok 42 "repeatCount" 124 4 false; mkTok 40 "," 124 15 false; mkTok 30 "65535" 125 0 false; mkTok 44 (string_of_bytes [47; 47; 32; 240; 159; 152; 128; 32; 101; 109; 111; 106; 105]%N) 126 4 true; mkTok 39 ":" 127 4 false; mkTok 42 "Z9_" 127 5 false; mkTok 40 "," 128 0 false; mkTok 18 "[" 128 2 false; mkTok 30 "007" 128 4 false; mkTok 40 "," 128 9 false; mkTok 31 """abc""" 128 11 false; mkTok 40 "," 128 16 false; mkTok 31 """// no comment""" 128 17 false; mkTok 40 "," 129 0 false; mkTok 31 (string_of_bytes [34; 230; 182; 136; 230; 129; 175; 34]%N) 129 2 false; mkTok 13 "]" 129 7 false; mkTok 39 ":" 129 9 false; mkTok 42 "falsey" 129 12 false; mkTok 40 "," 129 19 false; mkTok 30 "00" 130 0 false; mkTok 39 ":" 131 0 false; mkTok 42 "string_" 132 4 false; mkTok 3 "}" 132 11 false; mkTok 40 "," 133 0 false; mkTok 19 "char" 133 3 false; mkTok 42 "repeatCount" 133 8 false; mkTok 40 "," 133 20 false; mkTok 3 "}" 133 22 false; mkTok 35 "packet" 133 24 false; mkTok 42 "Foo" 133 31 false; mkTok 2 "{" 133 35 false; mkTok 16 "char[]" 133 36 false; mkTok 42 "a1" 134 0 false; mkTok 5 "@calculatedFrom(" 134 3 false; mkTok 31 """""" 134 20 false; mkTok 6 ")" 134 22 false; mkTok 43 (string_of_bytes [96; 108; 105; 110; 101; 49; 10; 108; 105; 110; 101; 50; 96]%N) 134 23 false; mkTok 40 "," 136 0 false; mkTok 21 "uint16" 136 2 false; mkTok 44 "// a // b" 136 9 true; mkTok 42 "MetaDataX" 137 0 false; mkTok 44 "// packet A { u8 x, }" 138 4 true; mkTok 43 "`say ""hi""`" 139 4 false; mkTok 40 "," 139 14 false; mkTok 16 "char[]" 139 15 false; mkTok 42 "A" 139 22 false; mkTok 40 "," 139 24 false; mkTok 44 "// trailing space " 140 0 true; mkTok 44 (string_of_bytes [47; 47; 32; 240; 159; 152; 128; 32; 101; 109; 111; 106; 105]%N) 141 0 true; mkTok 29 "f64" 142 0 false; mkTok 42 "int" 142 4 false; mkTok 7 "@lengthOf(" 142 8 false; mkTok 42 "Pad" 142 18 false; mkTok 6 ")" 142 23 false; mkTok 40 "," 142 25 false; mkTok 22 "u32" 142 27 false; mkTok 42 "BodyLength" 143 4 false; mkTok 40 "," 144 0 false; mkTok 29 "float64" 144 2 false; mkTok 42 "trueish" 145 0 false; mkTok 7 "@lengthOf(" 145 8 false; mkTok 42 "lengthOf" 145 18 false; mkTok 6 ")" 145 27 false; mkTok 44 "// `tick` ""quote"" 'q'" 146 0 true; mkTok 44 "// trailing space " 147 0 true; mkTok 43 (string_of_bytes [96; 99; 114; 108; 102; 13; 10; 108; 105; 110; 101; 96]%N) 148 0 false; mkTok 40 "," 149 6 false; mkTok 9 "@tag(" 149 8 false; mkTok 30 "255" 149 13 false; mkTok 6 ")" 149 17 false; mkTok 38 "match" 149 19 false; mkTok 42 "Z9_" 149 25 false; mkTok 17 "as" 149 29 false; mkTok 42 "tag" 149 32 false; mkTok 2 "{" 149 36 false; mkTok 18 "[" 149 38 false; mkTok 31 """a\""b""" 149 40 false; mkTok 40 "," 149 46 false; mkTok 30 "4294967296" 149 47 false; mkTok 40 "," 149 59 false; mkTok 31 """{,}""" 149 62 false; mkTok 40 "," 149 68 false; mkTok 31 """{,}""" 149 69 false; mkTok 44 "/// triple" 149 74 true; mkTok 13 "]" 150 0 false; mkTok 39 ":" 150 2 false; mkTok 42 "Pad" 150 4 false; mkTok 40 "," 150 8 false; mkTok 30 "1" 150 10 false; mkTok 39 ":" 150 12 false; mkTok 42 "lengthOf" 150 14 false; mkTok 40 "," 150 23 false; mkTok 30 "0123456789" 150 25 false; mkTok 39 ":" 150 36 false; mkTok 42 "msg_type" 150 38 false; mkTok 40 "," 150 48 false; mkTok 31 """// no comment""" 150 50 false; mkTok 39 ":" 150 65 false; mkTok 42 "BodyLength" 151 4 false; mkTok 40 "," 151 14 false; mkTok 18 "[" 151 16 false; mkTok 31 """1""" 151 18 false; mkTok 13 "]" 151 22 false; mkTok 39 ":" 151 24 false; mkTok 42 "string_" 151 26 false; mkTok 18 "[" 151 34 false; mkTok 30 "3" 151 35 false; mkTok 40 "," 151 37 false; mkTok 30 "0" 151 39 false; mkTok 40 "," 151 40 false; mkTok 30 "1" 151 41 false; mkTok 40 "," 151 43 false; mkTok 30 "1" 151 45 false; mkTok 40 "," 152 0 false; mkTok 31 (string_of_bytes [34; 92; 195; 169; 34]%N) 152 2 false; mkTok 44 (string_of_bytes [47; 47; 32; 230; 179; 168; 233; 135; 138]%N) 152 7 true; mkTok 40 "," 153 0 false; mkTok 31 """""" 154 4 false; mkTok 40 "," 155 4 false; mkTok 30 "00" 155 6 false; mkTok 44 "// c" 156 4 true; mkTok 13 "]" 157 4 false; mkTok 44 "// c" 157 6 true; mkTok 39 ":" 158 0 false; mkTok 42 "asx" 158 2 false; mkTok 3 "}" 158 5 false; mkTok 40 "," 158 7 false; mkTok 42 "body" 158 9 false; mkTok 43 "`say ""hi""`" 158 14 false; mkTok 44 "// `tick` ""quote"" 'q'" 158 24 true; mkTok 40 "," 159 0 false; mkTok 3 "}" 159 2 false; mkTok 1 "options" 159 3 false; mkTok 2 "{" 159 11 false; mkTok 42 "x" 159 13 false; mkTok 4 "=" 159 15 false; mkTok 33 "'0'" 159 16 false; mkTok 41 ";" 160 0 false; mkTok 42 "u8x" 160 2 false; mkTok 44 (string_of_bytes [47; 47; 32; 240; 159; 152; 128; 32; 101; 109; 111; 106; 105]%N) 160 6 true; mkTok 4 "=" 161 0 false; mkTok 23 "u64" 161 2 false; mkTok 41 ";" 161 5 false; mkTok 44 "// c" 162 0 true; mkTok 44 (string_of_bytes [47; 47; 9; 116]%N) 163 0 true; mkTok 42 "string_" 164 0 false; mkTok 4 "=" 164 8 false; mkTok 31 """a\""b""" 164 10 false; mkTok 3 "}" 164 17 false; mkTok 0 "<EOF>" 165 0 false] (mkPacket (mkPtok 35 "packet" 1 0 0) (Some (mkPtok 3 "}" 164 17 514)) [(DPacket (mkPacketDef (mkSpan (mkPtok 35 "packet" 1 0 0) (mkPtok 3 "}" 57 6 155)) None (mkPtok 35 "packet" 1 0 0) (mkPtok 42 "len" 1 7 1) (mkPtok 2 "{" 2 0 2) [(mkFieldWithAttr (mkSpan (mkPtok 5 "@calculatedFrom(" 2 3 3) (mkPtok 40 "," 5 4 13)) [(FACalculatedFrom (mkSpan (mkPtok 5 "@calculatedFrom(" 2 3 3) (mkPtok 6 ")" 2 29 5)) (mkCalculatedFrom (mkSpan (mkPtok 5 "@calculatedFrom(" 2 3 3) (mkPtok 6 ")" 2 29 5)) (mkPtok 5 "@calculatedFrom(" 2 3 3) (mkPtok 31 """`tick`""" 2 20 4) (mkPtok 6 ")" 2 29 5)))] (MetaField (mkSpan (mkPtok 36 "repeat" 2 31 6) (mkPtok 40 "," 5 4 13)) (Some (mkPtok 36 "repeat" 2 31 6)) (mkMetaDecl (mkSpan (mkPtok 14 "zchar[" 2 38 7) (mkPtok 40 "," 5 4 13)) (TyFixed (mkSpan (mkPtok 14 "zchar[" 2 38 7) (mkPtok 13 "]" 3 4 9)) (mkFixedString (mkSpan (mkPtok 14 "zchar[" 2 38 7) (mkPtok 13 "]" 3 4 9)) (mkPtok 14 "zchar[" 2 38 7) (mkPtok 30 "00" 2 45 8) (mkPtok 13 "]" 3 4 9))) (mkPtok 42 "chars" 3 5 10) (Some (mkPtok 43 "`a\`" 4 0 12)) (mkPtok 40 "," 5 4 13)))); (mkFieldWithAttr (mkSpan (mkPtok 42 "u8x" 6 0 14) (mkPtok 40 "," 12 4 20)) [] (ObjectField (mkSpan (mkPtok 42 "u8x" 6 0 14) (mkPtok 40 "," 12 4 20)) None (mkPtok 42 "u8x" 6 0 14) (Some (mkPtok 42 "MetaDataX" 9 0 17)) (Some (mkPtok 43 (string_of_bytes [96; 108; 105; 110; 101; 49; 10; 108; 105; 110; 101; 50; 96]%N) 9 10 18)) (mkPtok 40 "," 12 4 20))); (mkFieldWithAttr (mkSpan (mkPtok 5 "@calculatedFrom(" 12 5 21) (mkPtok 40 "," 20 0 39)) [(FACalculatedFrom (mkSpan (mkPtok 5 "@calculatedFrom(" 12 5 21) (mkPtok 6 ")" 12 29 23)) (mkCalculatedFrom (mkSpan (mkPtok 5 "@calculatedFrom(" 12 5 21) (mkPtok 6 ")" 12 29 23)) (mkPtok 5 "@calculatedFrom(" 12 5 21) (mkPtok 31 """a\""b""" 12 22 22) (mkPtok 6 ")" 12 29 23)))] (MatchField (mkSpan (mkPtok 38 "match" 12 31 24) (mkPtok 40 "," 20 0 39)) (mkMatchFieldDecl (mkSpan (mkPtok 38 "match" 12 31 24) (mkPtok 3 "}" 19 4 38)) (mkPtok 38 "match" 12 31 24) (mkPtok 42 "matchKey" 13 4 25) (mkPtok 17 "as" 13 13 26) (mkPtok 42 "asx" 13 16 27) (mkPtok 2 "{" 13 20 28) [(mkMatchPair (mkSpan (mkPtok 18 "[" 14 4 29) (mkPtok 40 "," 18 4 37)) (MKList (mkKeyList (mkSpan (mkPtok 18 "[" 14 4 29) (mkPtok 13 "]" 15 0 33)) (mkPtok 18 "[" 14 4 29) (mkPtok 31 """CRC32""" 14 6 30) [((mkPtok 40 "," 14 14 31), (mkPtok 31 """a\""b""" 14 16 32))] (mkPtok 13 "]" 15 0 33))) (mkPtok 39 ":" 16 0 35) (mkPtok 42 "msg_type" 17 0 36) (Some (mkPtok 40 "," 18 4 37)))] (mkPtok 3 "}" 19 4 38)) (mkPtok 40 "," 20 0 39))); (mkFieldWithAttr (mkSpan (mkPtok 24 "i8" 20 2 40) (mkPtok 40 "," 21 4 45)) [] (CheckSumField (mkSpan (mkPtok 24 "i8" 20 2 40) (mkPtok 40 "," 21 4 45)) (mkChecksumFieldDecl (mkSpan (mkPtok 24 "i8" 20 2 40) (mkPtok 40 "," 21 4 45)) (Some (TyBasic (mkSpan (mkPtok 24 "i8" 20 2 40) (mkPtok 24 "i8" 20 2 40)) (mkBasicType (mkSpan (mkPtok 24 "i8" 20 2 40) (mkPtok 24 "i8" 20 2 40)) (mkPtok 24 "i8" 20 2 40)))) (mkPtok 42 "string_" 20 5 41) (mkCalculatedFrom (mkSpan (mkPtok 5 "@calculatedFrom(" 20 13 42) (mkPtok 6 ")" 20 36 44)) (mkPtok 5 "@calculatedFrom(" 20 13 42) (mkPtok 31 """{,}""" 20 30 43) (mkPtok 6 ")" 20 36 44)) None (mkPtok 40 "," 21 4 45)))); (mkFieldWithAttr (mkSpan (mkPtok 7 "@lengthOf(" 21 5 46) (mkPtok 40 "," 29 7 57)) [(FALengthOf (mkSpan (mkPtok 7 "@lengthOf(" 21 5 46) (mkPtok 6 ")" 24 4 49)) (mkLengthOf (mkSpan (mkPtok 7 "@lengthOf(" 21 5 46) (mkPtok 6 ")" 24 4 49)) (mkPtok 7 "@lengthOf(" 21 5 46) (mkPtok 42 "lengthOf" 22 0 47) (mkPtok 6 ")" 24 4 49)))] (MetaField (mkSpan (mkPtok 14 "zchar[" 24 6 50) (mkPtok 40 "," 29 7 57)) None (mkMetaDecl (mkSpan (mkPtok 14 "zchar[" 24 6 50) (mkPtok 40 "," 29 7 57)) (TyFixed (mkSpan (mkPtok 14 "zchar[" 24 6 50) (mkPtok 13 "]" 24 15 52)) (mkFixedString (mkSpan (mkPtok 14 "zchar[" 24 6 50) (mkPtok 13 "]" 24 15 52)) (mkPtok 14 "zchar[" 24 6 50) (mkPtok 30 "42" 24 12 51) (mkPtok 13 "]" 24 15 52))) (mkPtok 42 "_x" 25 4 53) (Some (mkPtok 43 (string_of_bytes [96; 108; 105; 110; 101; 49; 10; 108; 105; 110; 101; 50; 96]%N) 28 0 56)) (mkPtok 40 "," 29 7 57)))); (mkFieldWithAttr (mkSpan (mkPtok 7 "@lengthOf(" 30 4 58) (mkPtok 40 "," 31 12 65)) [(FALengthOf (mkSpan (mkPtok 7 "@lengthOf(" 30 4 58) (mkPtok 6 ")" 30 18 60)) (mkLengthOf (mkSpan (mkPtok 7 "@lengthOf(" 30 4 58) (mkPtok 6 ")" 30 18 60)) (mkPtok 7 "@lengthOf(" 30 4 58) (mkPtok 42 "asx" 30 15 59) (mkPtok 6 ")" 30 18 60)))] (MetaField (mkSpan (mkPtok 36 "repeat" 30 20 61) (mkPtok 40 "," 31 12 65)) (Some (mkPtok 36 "repeat" 30 20 61)) (mkMetaDecl (mkSpan (mkPtok 24 "int8" 31 0 63) (mkPtok 40 "," 31 12 65)) (TyBasic (mkSpan (mkPtok 24 "int8" 31 0 63) (mkPtok 24 "int8" 31 0 63)) (mkBasicType (mkSpan (mkPtok 24 "int8" 31 0 63) (mkPtok 24 "int8" 31 0 63)) (mkPtok 24 "int8" 31 0 63))) (mkPtok 42 "Header" 31 5 64) None (mkPtok 40 "," 31 12 65)))); (mkFieldWithAttr (mkSpan (mkPtok 36 "repeat" 31 14 66) (mkPtok 40 "," 33 29 77)) [] (InerObjectField (mkSpan (mkPtok 36 "repeat" 31 14 66) (mkPtok 40 "," 33 29 77)) (Some (mkPtok 36 "repeat" 31 14 66)) (InerObjectDecl (mkSpan (mkPtok 42 "crc" 31 21 67) (mkPtok 3 "}" 33 27 76)) (mkPtok 42 "crc" 31 21 67) (mkPtok 2 "{" 31 25 68) [(CheckSumField (mkSpan (mkPtok 24 "int8" 32 0 69) (mkPtok 40 "," 33 25 75)) (mkChecksumFieldDecl (mkSpan (mkPtok 24 "int8" 32 0 69) (mkPtok 40 "," 33 25 75)) (Some (TyBasic (mkSpan (mkPtok 24 "int8" 32 0 69) (mkPtok 24 "int8" 32 0 69)) (mkBasicType (mkSpan (mkPtok 24 "int8" 32 0 69) (mkPtok 24 "int8" 32 0 69)) (mkPtok 24 "int8" 32 0 69)))) (mkPtok 42 "i64_" 32 5 70) (mkCalculatedFrom (mkSpan (mkPtok 5 "@calculatedFrom(" 33 0 72) (mkPtok 6 ")" 33 23 74)) (mkPtok 5 "@calculatedFrom(" 33 0 72) (mkPtok 31 """{,}""" 33 17 73) (mkPtok 6 ")" 33 23 74)) None (mkPtok 40 "," 33 25 75)))] (mkPtok 3 "}" 33 27 76)) (mkPtok 40 "," 33 29 77))); (mkFieldWithAttr (mkSpan (mkPtok 36 "repeat" 33 30 78) (mkPtok 40 "," 34 7 82)) [] (ObjectField (mkSpan (mkPtok 36 "repeat" 33 30 78) (mkPtok 40 "," 34 7 82)) (Some (mkPtok 36 "repeat" 33 30 78)) (mkPtok 42 "_x" 33 37 79) (Some (mkPtok 42 "i8i8" 33 40 80)) (Some (mkPtok 43 (string_of_bytes [96; 108; 105; 110; 101; 49; 10; 108; 105; 110; 101; 50; 96]%N) 33 45 81)) (mkPtok 40 "," 34 7 82))); (mkFieldWithAttr (mkSpan (mkPtok 29 "float64" 34 9 83) (mkPtok 40 "," 35 8 86)) [] (MetaField (mkSpan (mkPtok 29 "float64" 34 9 83) (mkPtok 40 "," 35 8 86)) None (mkMetaDecl (mkSpan (mkPtok 29 "float64" 34 9 83) (mkPtok 40 "," 35 8 86)) (TyBasic (mkSpan (mkPtok 29 "float64" 34 9 83) (mkPtok 29 "float64" 34 9 83)) (mkBasicType (mkSpan (mkPtok 29 "float64" 34 9 83) (mkPtok 29 "float64" 34 9 83)) (mkPtok 29 "float64" 34 9 83))) (mkPtok 42 "stringy" 35 0 85) None (mkPtok 40 "," 35 8 86)))); (mkFieldWithAttr (mkSpan (mkPtok 42 "MetaDataX" 35 10 87) (mkPtok 40 "," 57 4 154)) [] (InerObjectField (mkSpan (mkPtok 42 "MetaDataX" 35 10 87) (mkPtok 40 "," 57 4 154)) None (InerObjectDecl (mkSpan (mkPtok 42 "MetaDataX" 35 10 87) (mkPtok 3 "}" 57 2 153)) (mkPtok 42 "MetaDataX" 35 10 87) (mkPtok 2 "{" 35 20 88) [(InerObjectField (mkSpan (mkPtok 42 "charz" 35 22 89) (mkPtok 40 "," 57 0 152)) None (InerObjectDecl (mkSpan (mkPtok 42 "charz" 35 22 89) (mkPtok 3 "}" 54 3 149)) (mkPtok 42 "charz" 35 22 89) (mkPtok 2 "{" 36 4 90) [(MetaField (mkSpan (mkPtok 25 "int16" 36 6 91) (mkPtok 40 "," 36 20 93)) None (mkMetaDecl (mkSpan (mkPtok 25 "int16" 36 6 91) (mkPtok 40 "," 36 20 93)) (TyBasic (mkSpan (mkPtok 25 "int16" 36 6 91) (mkPtok 25 "int16" 36 6 91)) (mkBasicType (mkSpan (mkPtok 25 "int16" 36 6 91) (mkPtok 25 "int16" 36 6 91)) (mkPtok 25 "int16" 36 6 91))) (mkPtok 42 "matchKey" 36 12 92) None (mkPtok 40 "," 36 20 93))); (ObjectField (mkSpan (mkPtok 36 "repeat" 36 22 94) (mkPtok 40 "," 37 8 96)) (Some (mkPtok 36 "repeat" 36 22 94)) (mkPtok 42 "i64_" 37 4 95) None None (mkPtok 40 "," 37 8 96)); (MetaField (mkSpan (mkPtok 12 "char[" 38 4 97) (mkPtok 40 "," 39 2 102)) None (mkMetaDecl (mkSpan (mkPtok 12 "char[" 38 4 97) (mkPtok 40 "," 39 2 102)) (TyFixed (mkSpan (mkPtok 12 "char[" 38 4 97) (mkPtok 13 "]" 38 12 99)) (mkFixedString (mkSpan (mkPtok 12 "char[" 38 4 97) (mkPtok 13 "]" 38 12 99)) (mkPtok 12 "char[" 38 4 97) (mkPtok 30 "00" 38 10 98) (mkPtok 13 "]" 38 12 99))) (mkPtok 42 "Z9_" 38 14 100) (Some (mkPtok 43 (string_of_bytes [96; 10; 96]%N) 38 18 101)) (mkPtok 40 "," 39 2 102))); (MatchField (mkSpan (mkPtok 38 "match" 40 4 103) (mkPtok 40 "," 54 0 148)) (mkMatchFieldDecl (mkSpan (mkPtok 38 "match" 40 4 103) (mkPtok 3 "}" 51 19 145)) (mkPtok 38 "match" 40 4 103) (mkPtok 42 "As" 40 10 104) (mkPtok 17 "as" 42 4 106) (mkPtok 42 "Packet" 42 7 107) (mkPtok 2 "{" 42 14 108) [(mkMatchPair (mkSpan (mkPtok 30 "3" 42 16 109) (mkPtok 40 "," 42 24 112)) (MKDigits (mkPtok 30 "3" 42 16 109)) (mkPtok 39 ":" 42 18 110) (mkPtok 42 "crc" 42 20 111) (Some (mkPtok 40 "," 42 24 112))); (mkMatchPair (mkSpan (mkPtok 18 "[" 42 26 113) (mkPtok 40 "," 48 0 123)) (MKList (mkKeyList (mkSpan (mkPtok 18 "[" 42 26 113) (mkPtok 13 "]" 47 0 119)) (mkPtok 18 "[" 42 26 113) (mkPtok 30 "1" 45 0 116) [((mkPtok 40 "," 45 2 117), (mkPtok 30 "00" 46 0 118))] (mkPtok 13 "]" 47 0 119))) (mkPtok 39 ":" 47 1 120) (mkPtok 42 "Header" 47 3 121) (Some (mkPtok 40 "," 48 0 123))); (mkMatchPair (mkSpan (mkPtok 30 "255" 48 2 124) (mkPtok 40 "," 48 10 127)) (MKDigits (mkPtok 30 "255" 48 2 124)) (mkPtok 39 ":" 48 6 125) (mkPtok 42 "_x" 48 7 126) (Some (mkPtok 40 "," 48 10 127))); (mkMatchPair (mkSpan (mkPtok 30 "42" 48 12 128) (mkPtok 40 "," 49 0 131)) (MKDigits (mkPtok 30 "42" 48 12 128)) (mkPtok 39 ":" 48 15 129) (mkPtok 42 "body" 48 17 130) (Some (mkPtok 40 "," 49 0 131))); (mkMatchPair (mkSpan (mkPtok 18 "[" 49 2 132) (mkPtok 42 "chars" 49 9 136)) (MKList (mkKeyList (mkSpan (mkPtok 18 "[" 49 2 132) (mkPtok 13 "]" 49 5 134)) (mkPtok 18 "[" 49 2 132) (mkPtok 30 "0" 49 3 133) [] (mkPtok 13 "]" 49 5 134))) (mkPtok 39 ":" 49 7 135) (mkPtok 42 "chars" 49 9 136) None); (mkMatchPair (mkSpan (mkPtok 18 "[" 50 4 137) (mkPtok 40 "," 51 17 144)) (MKList (mkKeyList (mkSpan (mkPtok 18 "[" 50 4 137) (mkPtok 13 "]" 51 8 141)) (mkPtok 18 "[" 50 4 137) (mkPtok 30 "4294967296" 50 6 138) [((mkPtok 40 "," 51 0 139), (mkPtok 30 "65535" 51 2 140))] (mkPtok 13 "]" 51 8 141))) (mkPtok 39 ":" 51 10 142) (mkPtok 42 "chars" 51 11 143) (Some (mkPtok 40 "," 51 17 144)))] (mkPtok 3 "}" 51 19 145)) (mkPtok 40 "," 54 0 148))] (mkPtok 3 "}" 54 3 149)) (mkPtok 40 "," 57 0 152))] (mkPtok 3 "}" 57 2 153)) (mkPtok 40 "," 57 4 154)))] (mkPtok 3 "}" 57 6 155))); (DMeta (mkMetaDef (mkSpan (mkPtok 37 "MetaData" 57 8 156) (mkPtok 3 "}" 62 14 171)) (mkPtok 37 "MetaData" 57 8 156) (mkPtok 42 "falsey" 57 17 157) (mkPtok 2 "{" 57 24 158) [(MIDecl (mkMetaDecl (mkSpan (mkPtok 12 "char[" 58 0 159) (mkPtok 40 "," 60 7 163)) (TyFixed (mkSpan (mkPtok 12 "char[" 58 0 159) (mkPtok 13 "]" 60 0 161)) (mkFixedString (mkSpan (mkPtok 12 "char[" 58 0 159) (mkPtok 13 "]" 60 0 161)) (mkPtok 12 "char[" 58 0 159) (mkPtok 30 "255" 59 0 160) (mkPtok 13 "]" 60 0 161))) (mkPtok 42 "u128" 60 2 162) None (mkPtok 40 "," 60 7 163))); (MIDecl (mkMetaDecl (mkSpan (mkPtok 20 "u8" 60 9 164) (mkPtok 40 "," 61 0 167)) (TyBasic (mkSpan (mkPtok 20 "u8" 60 9 164) (mkPtok 20 "u8" 60 9 164)) (mkBasicType (mkSpan (mkPtok 20 "u8" 60 9 164) (mkPtok 20 "u8" 60 9 164)) (mkPtok 20 "u8" 60 9 164))) (mkPtok 42 "Header" 60 12 165) (Some (mkPtok 43 (string_of_bytes [96; 116; 97; 98; 9; 104; 101; 114; 101; 96]%N) 60 18 166)) (mkPtok 40 "," 61 0 167))); (MIDecl (mkMetaDecl (mkSpan (mkPtok 15 "string" 62 0 168) (mkPtok 40 "," 62 13 170)) (TyDynamic (mkSpan (mkPtok 15 "string" 62 0 168) (mkPtok 15 "string" 62 0 168)) (mkDynamicString (mkSpan (mkPtok 15 "string" 62 0 168) (mkPtok 15 "string" 62 0 168)) (mkPtok 15 "string" 62 0 168))) (mkPtok 42 "float" 62 7 169) None (mkPtok 40 "," 62 13 170)))] (mkPtok 3 "}" 62 14 171))); (DPacket (mkPacketDef (mkSpan (mkPtok 34 "root" 62 16 172) (mkPtok 3 "}" 133 22 393)) (Some (mkPtok 34 "root" 62 16 172)) (mkPtok 35 "packet" 62 21 173) (mkPtok 42 "int" 62 28 174) (mkPtok 2 "{" 62 32 175) [(mkFieldWithAttr (mkSpan (mkPtok 42 "Logon" 62 34 176) (mkPtok 40 "," 62 46 178)) [] (ObjectField (mkSpan (mkPtok 42 "Logon" 62 34 176) (mkPtok 40 "," 62 46 178)) None (mkPtok 42 "Logon" 62 34 176) (Some (mkPtok 42 "i64_" 62 40 177)) None (mkPtok 40 "," 62 46 178))); (mkFieldWithAttr (mkSpan (mkPtok 5 "@calculatedFrom(" 63 4 179) (mkPtok 40 "," 73 4 213)) [(FACalculatedFrom (mkSpan (mkPtok 5 "@calculatedFrom(" 63 4 179) (mkPtok 6 ")" 65 0 181)) (mkCalculatedFrom (mkSpan (mkPtok 5 "@calculatedFrom(" 63 4 179) (mkPtok 6 ")" 65 0 181)) (mkPtok 5 "@calculatedFrom(" 63 4 179) (mkPtok 31 """1""" 64 0 180) (mkPtok 6 ")" 65 0 181)))] (InerObjectField (mkSpan (mkPtok 42 "zchar" 65 2 182) (mkPtok 40 "," 73 4 213)) None (InerObjectDecl (mkSpan (mkPtok 42 "zchar" 65 2 182) (mkPtok 3 "}" 71 8 211)) (mkPtok 42 "zchar" 65 2 182) (mkPtok 2 "{" 65 8 183) [(InerObjectField (mkSpan (mkPtok 42 "u" 65 10 184) (mkPtok 40 "," 67 14 192)) None (InerObjectDecl (mkSpan (mkPtok 42 "u" 65 10 184) (mkPtok 3 "}" 67 12 191)) (mkPtok 42 "u" 65 10 184) (mkPtok 2 "{" 65 12 185) [(MetaField (mkSpan (mkPtok 14 "zchar[" 66 4 186) (mkPtok 40 "," 67 10 190)) None (mkMetaDecl (mkSpan (mkPtok 14 "zchar[" 66 4 186) (mkPtok 40 "," 67 10 190)) (TyFixed (mkSpan (mkPtok 14 "zchar[" 66 4 186) (mkPtok 13 "]" 67 4 188)) (mkFixedString (mkSpan (mkPtok 14 "zchar[" 66 4 186) (mkPtok 13 "]" 67 4 188)) (mkPtok 14 "zchar[" 66 4 186) (mkPtok 30 "255" 67 0 187) (mkPtok 13 "]" 67 4 188))) (mkPtok 42 "Pad" 67 6 189) None (mkPtok 40 "," 67 10 190)))] (mkPtok 3 "}" 67 12 191)) (mkPtok 40 "," 67 14 192)); (InerObjectField (mkSpan (mkPtok 42 "stringy" 67 16 193) (mkPtok 40 "," 69 2 200)) None (InerObjectDecl (mkSpan (mkPtok 42 "stringy" 67 16 193) (mkPtok 3 "}" 69 0 199)) (mkPtok 42 "stringy" 67 16 193) (mkPtok 2 "{" 67 24 194) [(ObjectField (mkSpan (mkPtok 42 "Pad" 68 4 195) (mkPtok 40 "," 68 25 198)) None (mkPtok 42 "Pad" 68 4 195) (Some (mkPtok 42 "metadata" 68 8 196)) (Some (mkPtok 43 "`u8 x,`" 68 17 197)) (mkPtok 40 "," 68 25 198))] (mkPtok 3 "}" 69 0 199)) (mkPtok 40 "," 69 2 200)); (MetaField (mkSpan (mkPtok 36 "repeat" 69 4 201) (mkPtok 40 "," 69 22 204)) (Some (mkPtok 36 "repeat" 69 4 201)) (mkMetaDecl (mkSpan (mkPtok 15 "string" 69 11 202) (mkPtok 40 "," 69 22 204)) (TyDynamic (mkSpan (mkPtok 15 "string" 69 11 202) (mkPtok 15 "string" 69 11 202)) (mkDynamicString (mkSpan (mkPtok 15 "string" 69 11 202) (mkPtok 15 "string" 69 11 202)) (mkPtok 15 "string" 69 11 202))) (mkPtok 42 "i8i8" 69 18 203) None (mkPtok 40 "," 69 22 204))); (CheckSumField (mkSpan (mkPtok 16 "char[]" 69 24 205) (mkPtok 40 "," 71 7 210)) (mkChecksumFieldDecl (mkSpan (mkPtok 16 "char[]" 69 24 205) (mkPtok 40 "," 71 7 210)) (Some (TyDynamic (mkSpan (mkPtok 16 "char[]" 69 24 205) (mkPtok 16 "char[]" 69 24 205)) (mkDynamicString (mkSpan (mkPtok 16 "char[]" 69 24 205) (mkPtok 16 "char[]" 69 24 205)) (mkPtok 16 "char[]" 69 24 205)))) (mkPtok 42 "As" 70 4 206) (mkCalculatedFrom (mkSpan (mkPtok 5 "@calculatedFrom(" 70 6 207) (mkPtok 6 ")" 71 5 209)) (mkPtok 5 "@calculatedFrom(" 70 6 207) (mkPtok 31 """\n""" 71 0 208) (mkPtok 6 ")" 71 5 209)) None (mkPtok 40 "," 71 7 210)))] (mkPtok 3 "}" 71 8 211)) (mkPtok 40 "," 73 4 213))); (mkFieldWithAttr (mkSpan (mkPtok 7 "@lengthOf(" 73 6 214) (mkPtok 40 "," 76 6 223)) [(FALengthOf (mkSpan (mkPtok 7 "@lengthOf(" 73 6 214) (mkPtok 6 ")" 74 0 217)) (mkLengthOf (mkSpan (mkPtok 7 "@lengthOf(" 73 6 214) (mkPtok 6 ")" 74 0 217)) (mkPtok 7 "@lengthOf(" 73 6 214) (mkPtok 42 "packetx" 73 17 215) (mkPtok 6 ")" 74 0 217))); (FALengthOf (mkSpan (mkPtok 7 "@lengthOf(" 74 2 218) (mkPtok 6 ")" 75 9 220)) (mkLengthOf (mkSpan (mkPtok 7 "@lengthOf(" 74 2 218) (mkPtok 6 ")" 75 9 220)) (mkPtok 7 "@lengthOf(" 74 2 218) (mkPtok 42 "i64_" 75 4 219) (mkPtok 6 ")" 75 9 220)))] (ObjectField (mkSpan (mkPtok 42 "body" 75 11 221) (mkPtok 40 "," 76 6 223)) None (mkPtok 42 "body" 75 11 221) None (Some (mkPtok 43 (string_of_bytes [96; 108; 105; 110; 101; 49; 10; 108; 105; 110; 101; 50; 96]%N) 75 16 222)) (mkPtok 40 "," 76 6 223))); (mkFieldWithAttr (mkSpan (mkPtok 7 "@lengthOf(" 76 7 224) (mkPtok 40 "," 98 2 271)) [(FALengthOf (mkSpan (mkPtok 7 "@lengthOf(" 76 7 224) (mkPtok 6 ")" 76 22 226)) (mkLengthOf (mkSpan (mkPtok 7 "@lengthOf(" 76 7 224) (mkPtok 6 ")" 76 22 226)) (mkPtok 7 "@lengthOf(" 76 7 224) (mkPtok 42 "roots" 76 17 225) (mkPtok 6 ")" 76 22 226)))] (MatchField (mkSpan (mkPtok 38 "match" 76 23 227) (mkPtok 40 "," 98 2 271)) (mkMatchFieldDecl (mkSpan (mkPtok 38 "match" 76 23 227) (mkPtok 3 "}" 98 0 270)) (mkPtok 38 "match" 76 23 227) (mkPtok 42 "MetaDataX" 79 0 230) (mkPtok 17 "as" 79 10 231) (mkPtok 42 "uint8x" 79 13 232) (mkPtok 2 "{" 79 20 233) [(mkMatchPair (mkSpan (mkPtok 18 "[" 80 0 235) (mkPtok 40 "," 88 0 248)) (MKList (mkKeyList (mkSpan (mkPtok 18 "[" 80 0 235) (mkPtok 13 "]" 86 2 244)) (mkPtok 18 "[" 80 0 235) (mkPtok 30 "007" 80 2 236) [((mkPtok 40 "," 83 0 239), (mkPtok 30 "255" 84 0 241)); ((mkPtok 40 "," 85 4 242), (mkPtok 30 "00" 86 0 243))] (mkPtok 13 "]" 86 2 244))) (mkPtok 39 ":" 87 4 245) (mkPtok 42 "body" 87 6 246) (Some (mkPtok 40 "," 88 0 248))); (mkMatchPair (mkSpan (mkPtok 18 "[" 88 2 249) (mkPtok 40 "," 97 0 269)) (MKList (mkKeyList (mkSpan (mkPtok 18 "[" 88 2 249) (mkPtok 13 "]" 96 4 266)) (mkPtok 18 "[" 88 2 249) (mkPtok 30 "65535" 88 4 250) [((mkPtok 40 "," 88 10 251), (mkPtok 31 """1""" 88 12 252)); ((mkPtok 40 "," 88 15 253), (mkPtok 30 "1" 89 0 255)); ((mkPtok 40 "," 89 3 256), (mkPtok 31 """\n""" 90 0 257)); ((mkPtok 40 "," 91 0 259), (mkPtok 30 "1" 91 2 260)); ((mkPtok 40 "," 91 4 261), (mkPtok 31 """CRC32""" 92 4 262)); ((mkPtok 40 "," 93 4 263), (mkPtok 30 "0" 95 4 265))] (mkPtok 13 "]" 96 4 266))) (mkPtok 39 ":" 96 6 267) (mkPtok 42 "trueish" 96 7 268) (Some (mkPtok 40 "," 97 0 269)))] (mkPtok 3 "}" 98 0 270)) (mkPtok 40 "," 98 2 271))); (mkFieldWithAttr (mkSpan (mkPtok 23 "uint64" 98 4 272) (mkPtok 40 "," 99 0 274)) [] (MetaField (mkSpan (mkPtok 23 "uint64" 98 4 272) (mkPtok 40 "," 99 0 274)) None (mkMetaDecl (mkSpan (mkPtok 23 "uint64" 98 4 272) (mkPtok 40 "," 99 0 274)) (TyBasic (mkSpan (mkPtok 23 "uint64" 98 4 272) (mkPtok 23 "uint64" 98 4 272)) (mkBasicType (mkSpan (mkPtok 23 "uint64" 98 4 272) (mkPtok 23 "uint64" 98 4 272)) (mkPtok 23 "uint64" 98 4 272))) (mkPtok 42 "Foo" 98 11 273) None (mkPtok 40 "," 99 0 274)))); (mkFieldWithAttr (mkSpan (mkPtok 42 "zchar" 99 2 275) (mkPtok 40 "," 116 8 340)) [] (InerObjectField (mkSpan (mkPtok 42 "zchar" 99 2 275) (mkPtok 40 "," 116 8 340)) None (InerObjectDecl (mkSpan (mkPtok 42 "zchar" 99 2 275) (mkPtok 3 "}" 116 7 339)) (mkPtok 42 "zchar" 99 2 275) (mkPtok 2 "{" 99 8 276) [(LengthField (mkSpan (mkPtok 42 "metadata" 99 9 277) (mkPtok 40 "," 102 6 283)) (mkLengthFieldDecl (mkSpan (mkPtok 42 "metadata" 99 9 277) (mkPtok 40 "," 102 6 283)) None (mkPtok 42 "metadata" 99 9 277) (mkLengthOf (mkSpan (mkPtok 7 "@lengthOf(" 100 0 278) (mkPtok 6 ")" 100 13 280)) (mkPtok 7 "@lengthOf(" 100 0 278) (mkPtok 42 "Pad" 100 10 279) (mkPtok 6 ")" 100 13 280)) (Some (mkPtok 43 (string_of_bytes [96; 99; 114; 108; 102; 13; 10; 108; 105; 110; 101; 96]%N) 101 0 282)) (mkPtok 40 "," 102 6 283))); (MatchField (mkSpan (mkPtok 38 "match" 103 4 284) (mkPtok 40 "," 112 5 322)) (mkMatchFieldDecl (mkSpan (mkPtok 38 "match" 103 4 284) (mkPtok 3 "}" 112 4 321)) (mkPtok 38 "match" 103 4 284) (mkPtok 42 "u" 103 10 285) (mkPtok 17 "as" 103 12 286) (mkPtok 42 "charz" 103 15 287) (mkPtok 2 "{" 103 21 288) [(mkMatchPair (mkSpan (mkPtok 30 "65535" 103 23 289) (mkPtok 42 "int" 105 4 292)) (MKDigits (mkPtok 30 "65535" 103 23 289)) (mkPtok 39 ":" 103 29 290) (mkPtok 42 "int" 105 4 292) None); (mkMatchPair (mkSpan (mkPtok 18 "[" 106 0 293) (mkPtok 40 "," 110 3 300)) (MKList (mkKeyList (mkSpan (mkPtok 18 "[" 106 0 293) (mkPtok 13 "]" 106 5 295)) (mkPtok 18 "[" 106 0 293) (mkPtok 31 """1""" 106 2 294) [] (mkPtok 13 "]" 106 5 295))) (mkPtok 39 ":" 107 0 296) (mkPtok 42 "a1" 110 0 299) (Some (mkPtok 40 "," 110 3 300))); (mkMatchPair (mkSpan (mkPtok 18 "[" 110 5 301) (mkPtok 40 "," 111 19 314)) (MKList (mkKeyList (mkSpan (mkPtok 18 "[" 110 5 301) (mkPtok 13 "]" 111 7 311)) (mkPtok 18 "[" 110 5 301) (mkPtok 30 "4294967296" 110 6 302) [((mkPtok 40 "," 110 17 303), (mkPtok 30 "00" 110 19 304)); ((mkPtok 40 "," 110 21 305), (mkPtok 31 (string_of_bytes [34; 195; 169; 116; 195; 169; 34]%N) 110 22 306)); ((mkPtok 40 "," 110 28 307), (mkPtok 31 (string_of_bytes [34; 230; 182; 136; 230; 129; 175; 34]%N) 110 30 308)); ((mkPtok 40 "," 110 35 309), (mkPtok 30 "00" 111 4 310))] (mkPtok 13 "]" 111 7 311))) (mkPtok 39 ":" 111 8 312) (mkPtok 42 "matchKey" 111 10 313) (Some (mkPtok 40 "," 111 19 314))); (mkMatchPair (mkSpan (mkPtok 18 "[" 111 21 315) (mkPtok 40 "," 111 39 320)) (MKList (mkKeyList (mkSpan (mkPtok 18 "[" 111 21 315) (mkPtok 13 "]" 111 29 317)) (mkPtok 18 "[" 111 21 315) (mkPtok 31 """a\\""" 111 23 316) [] (mkPtok 13 "]" 111 29 317))) (mkPtok 39 ":" 111 31 318) (mkPtok 42 "Logon" 111 33 319) (Some (mkPtok 40 "," 111 39 320)))] (mkPtok 3 "}" 112 4 321)) (mkPtok 40 "," 112 5 322)); (InerObjectField (mkSpan (mkPtok 36 "repeat" 113 0 323) (mkPtok 40 "," 116 4 338)) (Some (mkPtok 36 "repeat" 113 0 323)) (InerObjectDecl (mkSpan (mkPtok 42 "rootA" 113 7 324) (mkPtok 3 "}" 116 2 337)) (mkPtok 42 "rootA" 113 7 324) (mkPtok 2 "{" 113 13 325) [(LengthField (mkSpan (mkPtok 25 "int16" 113 15 326) (mkPtok 40 "," 115 1 332)) (mkLengthFieldDecl (mkSpan (mkPtok 25 "int16" 113 15 326) (mkPtok 40 "," 115 1 332)) (Some (TyBasic (mkSpan (mkPtok 25 "int16" 113 15 326) (mkPtok 25 "int16" 113 15 326)) (mkBasicType (mkSpan (mkPtok 25 "int16" 113 15 326) (mkPtok 25 "int16" 113 15 326)) (mkPtok 25 "int16" 113 15 326)))) (mkPtok 42 "Foo" 114 0 327) (mkLengthOf (mkSpan (mkPtok 7 "@lengthOf(" 114 4 328) (mkPtok 6 ")" 115 0 331)) (mkPtok 7 "@lengthOf(" 114 4 328) (mkPtok 42 "rootA" 114 15 329) (mkPtok 6 ")" 115 0 331)) None (mkPtok 40 "," 115 1 332))); (ObjectField (mkSpan (mkPtok 42 "options1" 115 2 333) (mkPtok 40 "," 116 0 336)) None (mkPtok 42 "options1" 115 2 333) None (Some (mkPtok 43 "`u8 x,`" 115 11 334)) (mkPtok 40 "," 116 0 336))] (mkPtok 3 "}" 116 2 337)) (mkPtok 40 "," 116 4 338))] (mkPtok 3 "}" 116 7 339)) (mkPtok 40 "," 116 8 340))); (mkFieldWithAttr (mkSpan (mkPtok 38 "match" 116 11 341) (mkPtok 40 "," 133 0 389)) [] (MatchField (mkSpan (mkPtok 38 "match" 116 11 341) (mkPtok 40 "," 133 0 389)) (mkMatchFieldDecl (mkSpan (mkPtok 38 "match" 116 11 341) (mkPtok 3 "}" 132 11 388)) (mkPtok 38 "match" 116 11 341) (mkPtok 42 "chars" 116 17 342) (mkPtok 17 "as" 116 23 343) (mkPtok 42 "u" 116 26 344) (mkPtok 2 "{" 119 0 347) [(mkMatchPair (mkSpan (mkPtok 18 "[" 119 2 348) (mkPtok 40 "," 124 15 367)) (MKList (mkKeyList (mkSpan (mkPtok 18 "[" 119 2 348) (mkPtok 13 "]" 124 0 364)) (mkPtok 18 "[" 119 2 348) (mkPtok 31 """it's""" 120 0 350) [((mkPtok 40 "," 120 7 351), (mkPtok 30 "007" 120 9 352)); ((mkPtok 40 "," 120 13 353), (mkPtok 31 (string_of_bytes [34; 195; 169; 116; 195; 169; 34]%N) 120 15 354)); ((mkPtok 40 "," 120 20 355), (mkPtok 31 """abc""" 120 22 356)); ((mkPtok 40 "," 120 28 357), (mkPtok 31 """\n""" 120 29 358)); ((mkPtok 40 "," 120 34 359), (mkPtok 31 """""" 123 0 362))] (mkPtok 13 "]" 124 0 364))) (mkPtok 39 ":" 124 2 365) (mkPtok 42 "repeatCount" 124 4 366) (Some (mkPtok 40 "," 124 15 367))); (mkMatchPair (mkSpan (mkPtok 30 "65535" 125 0 368) (mkPtok 40 "," 128 0 372)) (MKDigits (mkPtok 30 "65535" 125 0 368)) (mkPtok 39 ":" 127 4 370) (mkPtok 42 "Z9_" 127 5 371) (Some (mkPtok 40 "," 128 0 372))); (mkMatchPair (mkSpan (mkPtok 18 "[" 128 2 373) (mkPtok 40 "," 129 19 384)) (MKList (mkKeyList (mkSpan (mkPtok 18 "[" 128 2 373) (mkPtok 13 "]" 129 7 381)) (mkPtok 18 "[" 128 2 373) (mkPtok 30 "007" 128 4 374) [((mkPtok 40 "," 128 9 375), (mkPtok 31 """abc""" 128 11 376)); ((mkPtok 40 "," 128 16 377), (mkPtok 31 """// no comment""" 128 17 378)); ((mkPtok 40 "," 129 0 379), (mkPtok 31 (string_of_bytes [34; 230; 182; 136; 230; 129; 175; 34]%N) 129 2 380))] (mkPtok 13 "]" 129 7 381))) (mkPtok 39 ":" 129 9 382) (mkPtok 42 "falsey" 129 12 383) (Some (mkPtok 40 "," 129 19 384))); (mkMatchPair (mkSpan (mkPtok 30 "00" 130 0 385) (mkPtok 42 "string_" 132 4 387)) (MKDigits (mkPtok 30 "00" 130 0 385)) (mkPtok 39 ":" 131 0 386) (mkPtok 42 "string_" 132 4 387) None)] (mkPtok 3 "}" 132 11 388)) (mkPtok 40 "," 133 0 389))); (mkFieldWithAttr (mkSpan (mkPtok 19 "char" 133 3 390) (mkPtok 40 "," 133 20 392)) [] (MetaField (mkSpan (mkPtok 19 "char" 133 3 390) (mkPtok 40 "," 133 20 392)) None (mkMetaDecl (mkSpan (mkPtok 19 "char" 133 3 390) (mkPtok 40 "," 133 20 392)) (TyBasic (mkSpan (mkPtok 19 "char" 133 3 390) (mkPtok 19 "char" 133 3 390)) (mkBasicType (mkSpan (mkPtok 19 "char" 133 3 390) (mkPtok 19 "char" 133 3 390)) (mkPtok 19 "char" 133 3 390))) (mkPtok 42 "repeatCount" 133 8 391) None (mkPtok 40 "," 133 20 392))))] (mkPtok 3 "}" 133 22 393))); (DPacket (mkPacketDef (mkSpan (mkPtok 35 "packet" 133 24 394) (mkPtok 3 "}" 159 2 497)) None (mkPtok 35 "packet" 133 24 394) (mkPtok 42 "Foo" 133 31 395) (mkPtok 2 "{" 133 35 396) [(mkFieldWithAttr (mkSpan (mkPtok 16 "char[]" 133 36 397) (mkPtok 40 "," 136 0 403)) [] (CheckSumField (mkSpan (mkPtok 16 "char[]" 133 36 397) (mkPtok 40 "," 136 0 403)) (mkChecksumFieldDecl (mkSpan (mkPtok 16 "char[]" 133 36 397) (mkPtok 40 "," 136 0 403)) (Some (TyDynamic (mkSpan (mkPtok 16 "char[]" 133 36 397) (mkPtok 16 "char[]" 133 36 397)) (mkDynamicString (mkSpan (mkPtok 16 "char[]" 133 36 397) (mkPtok 16 "char[]" 133 36 397)) (mkPtok 16 "char[]" 133 36 397)))) (mkPtok 42 "a1" 134 0 398) (mkCalculatedFrom (mkSpan (mkPtok 5 "@calculatedFrom(" 134 3 399) (mkPtok 6 ")" 134 22 401)) (mkPtok 5 "@calculatedFrom(" 134 3 399) (mkPtok 31 """""" 134 20 400) (mkPtok 6 ")" 134 22 401)) (Some (mkPtok 43 (string_of_bytes [96; 108; 105; 110; 101; 49; 10; 108; 105; 110; 101; 50; 96]%N) 134 23 402)) (mkPtok 40 "," 136 0 403)))); (mkFieldWithAttr (mkSpan (mkPtok 21 "uint16" 136 2 404) (mkPtok 40 "," 139 14 409)) [] (MetaField (mkSpan (mkPtok 21 "uint16" 136 2 404) (mkPtok 40 "," 139 14 409)) None (mkMetaDecl (mkSpan (mkPtok 21 "uint16" 136 2 404) (mkPtok 40 "," 139 14 409)) (TyBasic (mkSpan (mkPtok 21 "uint16" 136 2 404) (mkPtok 21 "uint16" 136 2 404)) (mkBasicType (mkSpan (mkPtok 21 "uint16" 136 2 404) (mkPtok 21 "uint16" 136 2 404)) (mkPtok 21 "uint16" 136 2 404))) (mkPtok 42 "MetaDataX" 137 0 406) (Some (mkPtok 43 "`say ""hi""`" 139 4 408)) (mkPtok 40 "," 139 14 409)))); (mkFieldWithAttr (mkSpan (mkPtok 16 "char[]" 139 15 410) (mkPtok 40 "," 139 24 412)) [] (MetaField (mkSpan (mkPtok 16 "char[]" 139 15 410) (mkPtok 40 "," 139 24 412)) None (mkMetaDecl (mkSpan (mkPtok 16 "char[]" 139 15 410) (mkPtok 40 "," 139 24 412)) (TyDynamic (mkSpan (mkPtok 16 "char[]" 139 15 410) (mkPtok 16 "char[]" 139 15 410)) (mkDynamicString (mkSpan (mkPtok 16 "char[]" 139 15 410) (mkPtok 16 "char[]" 139 15 410)) (mkPtok 16 "char[]" 139 15 410))) (mkPtok 42 "A" 139 22 411) None (mkPtok 40 "," 139 24 412)))); (mkFieldWithAttr (mkSpan (mkPtok 29 "f64" 142 0 415) (mkPtok 40 "," 142 25 420)) [] (LengthField (mkSpan (mkPtok 29 "f64" 142 0 415) (mkPtok 40 "," 142 25 420)) (mkLengthFieldDecl (mkSpan (mkPtok 29 "f64" 142 0 415) (mkPtok 40 "," 142 25 420)) (Some (TyBasic (mkSpan (mkPtok 29 "f64" 142 0 415) (mkPtok 29 "f64" 142 0 415)) (mkBasicType (mkSpan (mkPtok 29 "f64" 142 0 415) (mkPtok 29 "f64" 142 0 415)) (mkPtok 29 "f64" 142 0 415)))) (mkPtok 42 "int" 142 4 416) (mkLengthOf (mkSpan (mkPtok 7 "@lengthOf(" 142 8 417) (mkPtok 6 ")" 142 23 419)) (mkPtok 7 "@lengthOf(" 142 8 417) (mkPtok 42 "Pad" 142 18 418) (mkPtok 6 ")" 142 23 419)) None (mkPtok 40 "," 142 25 420)))); (mkFieldWithAttr (mkSpan (mkPtok 22 "u32" 142 27 421) (mkPtok 40 "," 144 0 423)) [] (MetaField (mkSpan (mkPtok 22 "u32" 142 27 421) (mkPtok 40 "," 144 0 423)) None (mkMetaDecl (mkSpan (mkPtok 22 "u32" 142 27 421) (mkPtok 40 "," 144 0 423)) (TyBasic (mkSpan (mkPtok 22 "u32" 142 27 421) (mkPtok 22 "u32" 142 27 421)) (mkBasicType (mkSpan (mkPtok 22 "u32" 142 27 421) (mkPtok 22 "u32" 142 27 421)) (mkPtok 22 "u32" 142 27 421))) (mkPtok 42 "BodyLength" 143 4 422) None (mkPtok 40 "," 144 0 423)))); (mkFieldWithAttr (mkSpan (mkPtok 29 "float64" 144 2 424) (mkPtok 40 "," 149 6 432)) [] (LengthField (mkSpan (mkPtok 29 "float64" 144 2 424) (mkPtok 40 "," 149 6 432)) (mkLengthFieldDecl (mkSpan (mkPtok 29 "float64" 144 2 424) (mkPtok 40 "," 149 6 432)) (Some (TyBasic (mkSpan (mkPtok 29 "float64" 144 2 424) (mkPtok 29 "float64" 144 2 424)) (mkBasicType (mkSpan (mkPtok 29 "float64" 144 2 424) (mkPtok 29 "float64" 144 2 424)) (mkPtok 29 "float64" 144 2 424)))) (mkPtok 42 "trueish" 145 0 425) (mkLengthOf (mkSpan (mkPtok 7 "@lengthOf(" 145 8 426) (mkPtok 6 ")" 145 27 428)) (mkPtok 7 "@lengthOf(" 145 8 426) (mkPtok 42 "lengthOf" 145 18 427) (mkPtok 6 ")" 145 27 428)) (Some (mkPtok 43 (string_of_bytes [96; 99; 114; 108; 102; 13; 10; 108; 105; 110; 101; 96]%N) 148 0 431)) (mkPtok 40 "," 149 6 432)))); (mkFieldWithAttr (mkSpan (mkPtok 9 "@tag(" 149 8 433) (mkPtok 40 "," 158 7 492)) [(FATag (mkSpan (mkPtok 9 "@tag(" 149 8 433) (mkPtok 6 ")" 149 17 435)) (mkTagAttr (mkSpan (mkPtok 9 "@tag(" 149 8 433) (mkPtok 6 ")" 149 17 435)) (mkPtok 9 "@tag(" 149 8 433) (mkPtok 30 "255" 149 13 434) (mkPtok 6 ")" 149 17 435)))] (MatchField (mkSpan (mkPtok 38 "match" 149 19 436) (mkPtok 40 "," 158 7 492)) (mkMatchFieldDecl (mkSpan (mkPtok 38 "match" 149 19 436) (mkPtok 3 "}" 158 5 491)) (mkPtok 38 "match" 149 19 436) (mkPtok 42 "Z9_" 149 25 437) (mkPtok 17 "as" 149 29 438) (mkPtok 42 "tag" 149 32 439) (mkPtok 2 "{" 149 36 440) [(mkMatchPair (mkSpan (mkPtok 18 "[" 149 38 441) (mkPtok 40 "," 150 8 453)) (MKList (mkKeyList (mkSpan (mkPtok 18 "[" 149 38 441) (mkPtok 13 "]" 150 0 450)) (mkPtok 18 "[" 149 38 441) (mkPtok 31 """a\""b""" 149 40 442) [((mkPtok 40 "," 149 46 443), (mkPtok 30 "4294967296" 149 47 444)); ((mkPtok 40 "," 149 59 445), (mkPtok 31 """{,}""" 149 62 446)); ((mkPtok 40 "," 149 68 447), (mkPtok 31 """{,}""" 149 69 448))] (mkPtok 13 "]" 150 0 450))) (mkPtok 39 ":" 150 2 451) (mkPtok 42 "Pad" 150 4 452) (Some (mkPtok 40 "," 150 8 453))); (mkMatchPair (mkSpan (mkPtok 30 "1" 150 10 454) (mkPtok 40 "," 150 23 457)) (MKDigits (mkPtok 30 "1" 150 10 454)) (mkPtok 39 ":" 150 12 455) (mkPtok 42 "lengthOf" 150 14 456) (Some (mkPtok 40 "," 150 23 457))); (mkMatchPair (mkSpan (mkPtok 30 "0123456789" 150 25 458) (mkPtok 40 "," 150 48 461)) (MKDigits (mkPtok 30 "0123456789" 150 25 458)) (mkPtok 39 ":" 150 36 459) (mkPtok 42 "msg_type" 150 38 460) (Some (mkPtok 40 "," 150 48 461))); (mkMatchPair (mkSpan (mkPtok 31 """// no comment""" 150 50 462) (mkPtok 40 "," 151 14 465)) (MKString (mkPtok 31 """// no comment""" 150 50 462)) (mkPtok 39 ":" 150 65 463) (mkPtok 42 "BodyLength" 151 4 464) (Some (mkPtok 40 "," 151 14 465))); (mkMatchPair (mkSpan (mkPtok 18 "[" 151 16 466) (mkPtok 42 "string_" 151 26 470)) (MKList (mkKeyList (mkSpan (mkPtok 18 "[" 151 16 466) (mkPtok 13 "]" 151 22 468)) (mkPtok 18 "[" 151 16 466) (mkPtok 31 """1""" 151 18 467) [] (mkPtok 13 "]" 151 22 468))) (mkPtok 39 ":" 151 24 469) (mkPtok 42 "string_" 151 26 470) None); (mkMatchPair (mkSpan (mkPtok 18 "[" 151 34 471) (mkPtok 42 "asx" 158 2 490)) (MKList (mkKeyList (mkSpan (mkPtok 18 "[" 151 34 471) (mkPtok 13 "]" 157 4 487)) (mkPtok 18 "[" 151 34 471) (mkPtok 30 "3" 151 35 472) [((mkPtok 40 "," 151 37 473), (mkPtok 30 "0" 151 39 474)); ((mkPtok 40 "," 151 40 475), (mkPtok 30 "1" 151 41 476)); ((mkPtok 40 "," 151 43 477), (mkPtok 30 "1" 151 45 478)); ((mkPtok 40 "," 152 0 479), (mkPtok 31 (string_of_bytes [34; 92; 195; 169; 34]%N) 152 2 480)); ((mkPtok 40 "," 153 0 482), (mkPtok 31 """""" 154 4 483)); ((mkPtok 40 "," 155 4 484), (mkPtok 30 "00" 155 6 485))] (mkPtok 13 "]" 157 4 487))) (mkPtok 39 ":" 158 0 489) (mkPtok 42 "asx" 158 2 490) None)] (mkPtok 3 "}" 158 5 491)) (mkPtok 40 "," 158 7 492))); (mkFieldWithAttr (mkSpan (mkPtok 42 "body" 158 9 493) (mkPtok 40 "," 159 0 496)) [] (ObjectField (mkSpan (mkPtok 42 "body" 158 9 493) (mkPtok 40 "," 159 0 496)) None (mkPtok 42 "body" 158 9 493) None (Some (mkPtok 43 "`say ""hi""`" 158 14 494)) (mkPtok 40 "," 159 0 496)))] (mkPtok 3 "}" 159 2 497))); (DOption (mkOptionDef (mkSpan (mkPtok 1 "options" 159 3 498) (mkPtok 3 "}" 164 17 514)) (mkPtok 1 "options" 159 3 498) (mkPtok 2 "{" 159 11 499) [(mkOptionDecl (mkSpan (mkPtok 42 "x" 159 13 500) (mkPtok 41 ";" 160 0 503)) (mkPtok 42 "x" 159 13 500) (mkPtok 4 "=" 159 15 501) (VPaddingChar (mkSpan (mkPtok 33 "'0'" 159 16 502) (mkPtok 33 "'0'" 159 16 502)) (mkPtok 33 "'0'" 159 16 502)) (Some (mkPtok 41 ";" 160 0 503))); (mkOptionDecl (mkSpan (mkPtok 42 "u8x" 160 2 504) (mkPtok 41 ";" 161 5 508)) (mkPtok 42 "u8x" 160 2 504) (mkPtok 4 "=" 161 0 506) (VType (mkSpan (mkPtok 23 "u64" 161 2 507) (mkPtok 23 "u64" 161 2 507)) (TyBasic (mkSpan (mkPtok 23 "u64" 161 2 507) (mkPtok 23 "u64" 161 2 507)) (mkBasicType (mkSpan (mkPtok 23 "u64" 161 2 507) (mkPtok 23 "u64" 161 2 507)) (mkPtok 23 "u64" 161 2 507)))) (Some (mkPtok 41 ";" 161 5 508))); (mkOptionDecl (mkSpan (mkPtok 42 "string_" 164 0 511) (mkPtok 31 """a\""b""" 164 10 513)) (mkPtok 42 "string_" 164 0 511) (mkPtok 4 "=" 164 8 512) (VString (mkSpan (mkPtok 31 """a\""b""" 164 10 513) (mkPtok 31 """a\""b""" 164 10 513)) (mkPtok 31 """a\""b""" 164 10 513)) None)] (mkPtok 3 "}" 164 17 514)))])).
-Eval vm_compute in ("<<<M318>>>" ++ check (runes_of_ascii "  packet
-    Packet { i8 MetaDataX , }
-    root packet
-    a1
-{ rootA @lengthOf( uint8x )
+x_y_z
     ,
-    repeatCount
-{
-char[]u , u16
-msg_type
-`a\` ,
+a1
+{ f32 crc// `tick` ""quote"" 'q'
+@lengthOf(repeatCount  ) //
+, lengthOf
+    int
+`" ++ [28040; 24687; 31867; 22411]%N ++ runes_of_ascii "`
+,
+match pack as repeatCount {""1"":calculatedFrom
+,
+4294967296 // @lengthOf(
+: charz }
+, } , @tag( 255)
+@lengthOf( float ) repeat i32 options1	, @lengthOf(
+    msg_type) @leftPad
+(
+) @lengthOf(	body)
+uint8x body , }root packet
+    // c
+    x
+    { @tag(
+    7) repeat f32a rootA `line1
+line2`, @leftPad
+    (
+'\x00' )@calculatedFrom(
+""it's"" )
+    @lengthOf( i64_)
+// packet A { u8 x, }
+// " ++ [27880; 37322]%N ++ runes_of_ascii "
+repeat roots { metadata // " ++ [128512]%N ++ runes_of_ascii " emoji
+{ repeat calculatedFrom {f32
+x , uint64 A,
+    match
+// " ++ [128512]%N ++ runes_of_ascii " emoji
+// c
+leftPad
+as Pad { ""a	b""
+    : leftPad , 255 //	t
+:u8x , }  , } ,}  ,// c
+repeat char[ 0123456789]
+    //	t
+    falsey,	char[ 0 ] trueish
+@calculatedFrom(
+    ""packet""
+) ,	int16 repeatCount
+, } ,
+Packet @lengthOf(
+int )`line1
+line2`
+    ,	uint16 i64_ , Header { // 50% %s
+string metadata,
+    // `tick` ""quote"" 'q'
+    repeat Pad
+    pack, crc@lengthOf( Z9_	) `" ++ [233]%N ++ runes_of_ascii "`
+,
+}//x
+, @lengthOf( x_y_z ) @lengthOf( A ) @tag( 65535 )
+int8 Logon
+@calculatedFrom( ""`tick`""
+) `line1
+line2` , @calculatedFrom( ""packet"" ) u8x
+Foo`100% of %d`,roots
+@calculatedFrom(
+// `tick` ""quote"" 'q'
+//	t
+""\n""
+    ),x_y_z{ zchar[ 42// trailing space 
+]
+charz @lengthOf( u128
+) , leftPad
+`say ""hi""` ,}	,
     }
+")).
+Eval vm_compute in ("<<<M798>>>" ++ check (runes_of_ascii "// packet A { u8 x, }
+MetaData repeatCount { // @lengthOf(
+Z9_ int`a\`
+    , } options {Pad=
+' '
+    ; /// triple
+A =  ""\" ++ [233]%N ++ runes_of_ascii """
+; As=
+    uint64  ;//	t
+}root packet
+    f32a{}
+")).
+Eval vm_compute in ("<<<M830>>>" ++ check (runes_of_ascii "MetaData Packet
+{ Z9_ zchar , Packet falsey
+,
+    //x
+    } 	 ")).
+Eval vm_compute in ("<<<M862>>>" ++ check (runes_of_ascii "root
+    packet
+    u8x { } //
+packet Header
+{ @calculatedFrom( ""{,}""/// triple
+)
+repeat a1
+body	`// not a comment` ,
+} root packet o // c
+{
+    uint8 Header`" ++ [233]%N ++ runes_of_ascii "` , }packet tag {
+repeat x_y_z { uint16
+msg_type //x
+,
+}
+, }	root packet Z9_ {zchar[
+4294967296]
+    options1 ,
+// @lengthOf(
+// packet A { u8 x, }
+@tag(
+    // `tick` ""quote"" 'q'
+    0123456789 ) u32
+    i64_
+    @calculatedFrom( ""abc"" )	`a\` , match leftPad  as // 50% %s
+packetx { 00
+: metadata
+    ,
+    65535: chars, ""// no comment""
+    :  options1,},// packet A { u8 x, }
+repeat zchar[1
+]
+    pack
+    ,	@lengthOf(trueish )	repeat i32
+    crc
+    `
+` , int16 crc@lengthOf( zchar )
 , }
 ")).
-Eval vm_compute in ("<<<M350>>>" ++ check (runes_of_ascii "
-packet a1
-    /// triple
-    { uint8 As ,// `tick` ""quote"" 'q'
-char[ 1] chars
-    @lengthOf(
-    msg_type )  , repeat char[ 1 ] x_y_z `two words`
-    //x
-    , // c
-@tag(00
+Eval vm_compute in ("<<<M894>>>" ++ check (runes_of_ascii "
+")).
+Eval vm_compute in ("<<<M926>>>" ++ check (runes_of_ascii "packet a1{ @calculatedFrom( ""a\\"" ) // " ++ [128512]%N ++ runes_of_ascii " emoji
+match
+    u8x as
+    Foo {[ 007 , 255
+, ""it's""
+] : T , } ,
+    // c
+    @leftPad ('\x00' // trailing space 
 )
-int32
-i8i8
-    , u64 trueish ,
-    // @lengthOf(
-    @lengthOf(
-    body )int16 float @lengthOf( tag )
-    , // " ++ [128512]%N ++ runes_of_ascii " emoji
-x // trailing space 
-@calculatedFrom( ""`tick`""	) ,
-} MetaData x_y_z
-    {	char[
-10
-    ]chars,Z9_ pack`
-`  ,  string As
-, //x
+u ,
+    @tag( 4294967296
+)
+char[
+0
+    ] Packet `a\` , int32 a1
+, }packet // c
+Packet { @leftPad
+( ' ')float64 repeatCount @lengthOf( len ) ,  @lengthOf( asx )
+    zchar[ 4294967296 ]Logon
+, @calculatedFrom( ""\" ++ [233]%N ++ runes_of_ascii """ /// triple
+)repeat tag
 len
-    int ,A Z9_  , }	options { o = 0123456789 ; _x	= ' '
-;
-}")).
-Eval vm_compute in ("<<<M382>>>" ++ check (runes_of_ascii "  packet
-    // a // b
-    MetaDataX {
-match _x as roots {
-""`tick`"" :o , [00, // `tick` ""quote"" 'q'
-0123456789
-, 1 ,
-    0123456789,""a\\""  ,
-    ""`tick`""  , 007
-,
-    // " ++ [27880; 37322]%N ++ runes_of_ascii "
-    ""// no comment""]
-: Logon , }	, f32 len @calculatedFrom(
-""{,}"" // c
-) `" ++ [233]%N ++ runes_of_ascii "` , // a // b
-@calculatedFrom( """") @leftPad
-( '\x00') i32 calculatedFrom@lengthOf(
-    Packet)
-    // @lengthOf(
-    `line1
-line2`
-    , @calculatedFrom( ""\" ++ [233]%N ++ runes_of_ascii """	)
-match asx as	As { ""it's"" :_x,""x y""  : calculatedFrom, ""packet"" :
-    Pad
-, } ,  char[] x, char[] matchKey,trueish lengthOf ,@lengthOf(roots	) repeat len // c
-, @lengthOf( crc) repeat
-//
-// " ++ [27880; 37322]%N ++ runes_of_ascii "
-char[]u128 `tab	here`, repeat u64 Header
-    //
-    , }
-")).
-Eval vm_compute in ("<<<M414>>>" ++ check (runes_of_ascii "options
-{ u128// packet A { u8 x, }
-=
-    ""x y""
-    } packet // a // b
-rootA// @lengthOf(
-{
-    // " ++ [27880; 37322]%N ++ runes_of_ascii "
-    }packet metadata {@tag(007
-    // " ++ [128512]%N ++ runes_of_ascii " emoji
-    )
-repeat u8
-A
-`// not a comment`, }
-")).
-Eval vm_compute in ("<<<M446>>>" ++ check (runes_of_ascii "// @lengthOf(
-MetaData Pad
-    { }
-MetaData
-msg_type { // packet A { u8 x, }
-packetx i64_ , char[ 1 ] Foo
-`" ++ [233]%N ++ runes_of_ascii "`	, } MetaData o  { }
-    // `tick` ""quote"" 'q'
-    options //x
-{ MetaDataX =u32 ;
-// @lengthOf(
+    , repeatCount @calculatedFrom( ""x y""	) // " ++ [128512]%N ++ runes_of_ascii " emoji
+, } packet pack {
+    @calculatedFrom(""\n"" )	u , }	packet f32a
+    { @tag(10 )
+char[255]  body@calculatedFrom( ""CRC32""  ) , Foo`100% of %d` , @leftPad (  '\x00'//x
+) //	t
+char[] stringy,
+    @leftPad
+// " ++ [128512]%N ++ runes_of_ascii " emoji
 //x
-trueish
+( '\x00'
+    ) zchar[
+42 ]i8i8 , leftPad @lengthOf(  zchar
+    ) ,
+@rightPad ( '0' )
+@rightPad
+(	' ') @lengthOf(
+Packet) charz ,
+} options {
+    Pad =
+""\n""
+    // `tick` ""quote"" 'q'
+    int ='0' ;
+options1
+    =
+0 ;	}
+")).
+Eval vm_compute in ("<<<M958>>>" ++ check (runes_of_ascii "options
+    {} packet
+    Pad { repeat
     //	t
-    ='0'	options1 = 65535 ; Pad ='0'
-; x_y_z =
-    //x
-    ""a\""b""
-    } packet chars
+    packetx rootA `" ++ [233]%N ++ runes_of_ascii "` , char[ 255 ] asx `u8 x,` , }
+packet f32a {/// triple
+repeat len
+, //x
+match calculatedFrom  as  u128{
+// " ++ [128512]%N ++ runes_of_ascii " emoji
+// " ++ [128512]%N ++ runes_of_ascii " emoji
+0123456789:crc ,	[ 0 , 10 ,
+""" ++ [128512]%N ++ runes_of_ascii """ , 65535 ,
+// 50% %s
+//
+7 , ""it's""
+, 0123456789
+]
+: i64_, 0123456789 : msg_type // " ++ [27880; 37322]%N ++ runes_of_ascii "
+,
+    } , } options { Z9_ =string ;
+matchKey =
+    ""packet"" }")).
+Eval vm_compute in ("<<<T958>>>" ++ terms [mkTok 1 "options" 1 0 false; mkTok 2 "{" 2 4 false; mkTok 3 "}" 2 5 false; mkTok 35 "packet" 2 7 false; mkTok 42 "Pad" 3 4 false; mkTok 2 "{" 3 8 false; mkTok 36 "repeat" 3 10 false; mkTok 44 (string_of_bytes [47; 47; 9; 116]%N) 4 4 true; mkTok 42 "packetx" 5 4 false; mkTok 42 "rootA" 5 12 false; mkTok 43 (string_of_bytes [96; 195; 169; 96]%N) 5 18 false; mkTok 40 "," 5 22 false; mkTok 12 "char[" 5 24 false; mkTok 30 "255" 5 30 false; mkTok 13 "]" 5 34 false; mkTok 42 "asx" 5 36 false; mkTok 43 "`u8 x,`" 5 40 false; mkTok 40 "," 5 48 false; mkTok 3 "}" 5 50 false; mkTok 35 "packet" 6 0 false; mkTok 42 "f32a" 6 7 false; mkTok 2 "{" 6 12 false; mkTok 44 "/// triple" 6 13 true; mkTok 36 "repeat" 7 0 false; mkTok 42 "len" 7 7 false; mkTok 40 "," 8 0 false; mkTok 44 "//x" 8 2 true; mkTok 38 "match" 9 0 false; mkTok 42 "calculatedFrom" 9 6 false; mkTok 17 "as" 9 22 false; mkTok 42 "u128" 9 26 false; mkTok 2 "{" 9 30 false; mkTok 44 (string_of_bytes [47; 47; 32; 240; 159; 152; 128; 32; 101; 109; 111; 106; 105]%N) 10 0 true; mkTok 44 (string_of_bytes [47; 47; 32; 240; 159; 152; 128; 32; 101; 109; 111; 106; 105]%N) 11 0 true; mkTok 30 "0123456789" 12 0 false; mkTok 39 ":" 12 10 false; mkTok 42 "crc" 12 11 false; mkTok 40 "," 12 15 false; mkTok 18 "[" 12 17 false; mkTok 30 "0" 12 19 false; mkTok 40 "," 12 21 false; mkTok 30 "10" 12 23 false; mkTok 40 "," 12 26 false; mkTok 31 (string_of_bytes [34; 240; 159; 152; 128; 34]%N) 13 0 false; mkTok 40 "," 13 4 false; mkTok 30 "65535" 13 6 false; mkTok 40 "," 13 12 false; mkTok 44 "// 50% %s" 14 0 true; mkTok 44 "//" 15 0 true; mkTok 30 "7" 16 0 false; mkTok 40 "," 16 2 false; mkTok 31 """it's""" 16 4 false; mkTok 40 "," 17 0 false; mkTok 30 "0123456789" 17 2 false; mkTok 13 "]" 18 0 false; mkTok 39 ":" 19 0 false; mkTok 42 "i64_" 19 2 false; mkTok 40 "," 19 6 false; mkTok 30 "0123456789" 19 8 false; mkTok 39 ":" 19 19 false; mkTok 42 "msg_type" 19 21 false; mkTok 44 (string_of_bytes [47; 47; 32; 230; 179; 168; 233; 135; 138]%N) 19 30 true; mkTok 40 "," 20 0 false; mkTok 3 "}" 21 4 false; mkTok 40 "," 21 6 false; mkTok 3 "}" 21 8 false; mkTok 1 "options" 21 10 false; mkTok 2 "{" 21 18 false; mkTok 42 "Z9_" 21 20 false; mkTok 4 "=" 21 24 false; mkTok 15 "string" 21 25 false; mkTok 41 ";" 21 32 false; mkTok 42 "matchKey" 22 0 false; mkTok 4 "=" 22 9 false; mkTok 31 """packet""" 23 4 false; mkTok 3 "}" 23 13 false; mkTok 0 "<EOF>" 23 14 false] (mkPacket (mkPtok 1 "options" 1 0 0) (Some (mkPtok 3 "}" 23 13 75)) [(DOption (mkOptionDef (mkSpan (mkPtok 1 "options" 1 0 0) (mkPtok 3 "}" 2 5 2)) (mkPtok 1 "options" 1 0 0) (mkPtok 2 "{" 2 4 1) [] (mkPtok 3 "}" 2 5 2))); (DPacket (mkPacketDef (mkSpan (mkPtok 35 "packet" 2 7 3) (mkPtok 3 "}" 5 50 18)) None (mkPtok 35 "packet" 2 7 3) (mkPtok 42 "Pad" 3 4 4) (mkPtok 2 "{" 3 8 5) [(mkFieldWithAttr (mkSpan (mkPtok 36 "repeat" 3 10 6) (mkPtok 40 "," 5 22 11)) [] (ObjectField (mkSpan (mkPtok 36 "repeat" 3 10 6) (mkPtok 40 "," 5 22 11)) (Some (mkPtok 36 "repeat" 3 10 6)) (mkPtok 42 "packetx" 5 4 8) (Some (mkPtok 42 "rootA" 5 12 9)) (Some (mkPtok 43 (string_of_bytes [96; 195; 169; 96]%N) 5 18 10)) (mkPtok 40 "," 5 22 11))); (mkFieldWithAttr (mkSpan (mkPtok 12 "char[" 5 24 12) (mkPtok 40 "," 5 48 17)) [] (MetaField (mkSpan (mkPtok 12 "char[" 5 24 12) (mkPtok 40 "," 5 48 17)) None (mkMetaDecl (mkSpan (mkPtok 12 "char[" 5 24 12) (mkPtok 40 "," 5 48 17)) (TyFixed (mkSpan (mkPtok 12 "char[" 5 24 12) (mkPtok 13 "]" 5 34 14)) (mkFixedString (mkSpan (mkPtok 12 "char[" 5 24 12) (mkPtok 13 "]" 5 34 14)) (mkPtok 12 "char[" 5 24 12) (mkPtok 30 "255" 5 30 13) (mkPtok 13 "]" 5 34 14))) (mkPtok 42 "asx" 5 36 15) (Some (mkPtok 43 "`u8 x,`" 5 40 16)) (mkPtok 40 "," 5 48 17))))] (mkPtok 3 "}" 5 50 18))); (DPacket (mkPacketDef (mkSpan (mkPtok 35 "packet" 6 0 19) (mkPtok 3 "}" 21 8 65)) None (mkPtok 35 "packet" 6 0 19) (mkPtok 42 "f32a" 6 7 20) (mkPtok 2 "{" 6 12 21) [(mkFieldWithAttr (mkSpan (mkPtok 36 "repeat" 7 0 23) (mkPtok 40 "," 8 0 25)) [] (ObjectField (mkSpan (mkPtok 36 "repeat" 7 0 23) (mkPtok 40 "," 8 0 25)) (Some (mkPtok 36 "repeat" 7 0 23)) (mkPtok 42 "len" 7 7 24) None None (mkPtok 40 "," 8 0 25))); (mkFieldWithAttr (mkSpan (mkPtok 38 "match" 9 0 27) (mkPtok 40 "," 21 6 64)) [] (MatchField (mkSpan (mkPtok 38 "match" 9 0 27) (mkPtok 40 "," 21 6 64)) (mkMatchFieldDecl (mkSpan (mkPtok 38 "match" 9 0 27) (mkPtok 3 "}" 21 4 63)) (mkPtok 38 "match" 9 0 27) (mkPtok 42 "calculatedFrom" 9 6 28) (mkPtok 17 "as" 9 22 29) (mkPtok 42 "u128" 9 26 30) (mkPtok 2 "{" 9 30 31) [(mkMatchPair (mkSpan (mkPtok 30 "0123456789" 12 0 34) (mkPtok 40 "," 12 15 37)) (MKDigits (mkPtok 30 "0123456789" 12 0 34)) (mkPtok 39 ":" 12 10 35) (mkPtok 42 "crc" 12 11 36) (Some (mkPtok 40 "," 12 15 37))); (mkMatchPair (mkSpan (mkPtok 18 "[" 12 17 38) (mkPtok 40 "," 19 6 57)) (MKList (mkKeyList (mkSpan (mkPtok 18 "[" 12 17 38) (mkPtok 13 "]" 18 0 54)) (mkPtok 18 "[" 12 17 38) (mkPtok 30 "0" 12 19 39) [((mkPtok 40 "," 12 21 40), (mkPtok 30 "10" 12 23 41)); ((mkPtok 40 "," 12 26 42), (mkPtok 31 (string_of_bytes [34; 240; 159; 152; 128; 34]%N) 13 0 43)); ((mkPtok 40 "," 13 4 44), (mkPtok 30 "65535" 13 6 45)); ((mkPtok 40 "," 13 12 46), (mkPtok 30 "7" 16 0 49)); ((mkPtok 40 "," 16 2 50), (mkPtok 31 """it's""" 16 4 51)); ((mkPtok 40 "," 17 0 52), (mkPtok 30 "0123456789" 17 2 53))] (mkPtok 13 "]" 18 0 54))) (mkPtok 39 ":" 19 0 55) (mkPtok 42 "i64_" 19 2 56) (Some (mkPtok 40 "," 19 6 57))); (mkMatchPair (mkSpan (mkPtok 30 "0123456789" 19 8 58) (mkPtok 40 "," 20 0 62)) (MKDigits (mkPtok 30 "0123456789" 19 8 58)) (mkPtok 39 ":" 19 19 59) (mkPtok 42 "msg_type" 19 21 60) (Some (mkPtok 40 "," 20 0 62)))] (mkPtok 3 "}" 21 4 63)) (mkPtok 40 "," 21 6 64)))] (mkPtok 3 "}" 21 8 65))); (DOption (mkOptionDef (mkSpan (mkPtok 1 "options" 21 10 66) (mkPtok 3 "}" 23 13 75)) (mkPtok 1 "options" 21 10 66) (mkPtok 2 "{" 21 18 67) [(mkOptionDecl (mkSpan (mkPtok 42 "Z9_" 21 20 68) (mkPtok 41 ";" 21 32 71)) (mkPtok 42 "Z9_" 21 20 68) (mkPtok 4 "=" 21 24 69) (VType (mkSpan (mkPtok 15 "string" 21 25 70) (mkPtok 15 "string" 21 25 70)) (TyDynamic (mkSpan (mkPtok 15 "string" 21 25 70) (mkPtok 15 "string" 21 25 70)) (mkDynamicString (mkSpan (mkPtok 15 "string" 21 25 70) (mkPtok 15 "string" 21 25 70)) (mkPtok 15 "string" 21 25 70)))) (Some (mkPtok 41 ";" 21 32 71))); (mkOptionDecl (mkSpan (mkPtok 42 "matchKey" 22 0 72) (mkPtok 31 """packet""" 23 4 74)) (mkPtok 42 "matchKey" 22 0 72) (mkPtok 4 "=" 22 9 73) (VString (mkSpan (mkPtok 31 """packet""" 23 4 74) (mkPtok 31 """packet""" 23 4 74)) (mkPtok 31 """packet""" 23 4 74)) None)] (mkPtok 3 "}" 23 13 75)))])).
+Eval vm_compute in ("<<<M990>>>" ++ check (runes_of_ascii "root packet BodyLength{ string
+MetaDataX,
+}")).
+Eval vm_compute in ("<<<M1022>>>" ++ check (runes_of_ascii "packet
+    x_y_z { msg_type  matchKey `doc` , }
+")).
+Eval vm_compute in ("<<<M1054>>>" ++ check (runes_of_ascii "root
+packet
+    // @lengthOf(
+    x { @calculatedFrom( """ ++ [233]%N ++ runes_of_ascii "t" ++ [233]%N ++ runes_of_ascii """)
+// `tick` ""quote"" 'q'
+// 50% %s
+Header tag
+    // packet A { u8 x, }
+    `
+`
+,	pack
+BodyLength  `" ++ [233]%N ++ runes_of_ascii "` ,/// triple
+@tag(7) Packet ,} packet
+BodyLength { BodyLength	,} packet float{ match
+packetx // " ++ [27880; 37322]%N ++ runes_of_ascii "
+as u{ [
+10, """ ++ [128512]%N ++ runes_of_ascii """
+, 255 , ""// no comment""
+, 42 //x
+,
+    // a // b
+    00 // `tick` ""quote"" 'q'
+,
+/// triple
+// a // b
+""{,}"" ,
+""" ++ [28040; 24687]%N ++ runes_of_ascii """ ]
+    : Packet // " ++ [128512]%N ++ runes_of_ascii " emoji
+,
+    }, @rightPad
+('0'
+    )
+    repeat  uint16 chars //
+,
+    @calculatedFrom(	""" ++ [233]%N ++ runes_of_ascii "t" ++ [233]%N ++ runes_of_ascii """
+)
+string
+leftPad
+,match len as stringy
+    { 3 //	t
+: pack , }
+    ,repeat
+    // " ++ [27880; 37322]%N ++ runes_of_ascii "
+    u8
+Foo
+,	roots @lengthOf( len
+    ) `it's` ,
+// a // b
 // trailing space 
-//	t
-{ @calculatedFrom(
-    ""a\\"" ) //	t
+@lengthOf(u128 ) char[255 ]	string_, zchar[0123456789 ] stringy
+    , @tag(	10 //x
+)match metadata
+as A{ 0123456789: lengthOf ,
+10:
+    o
+,
+// packet A { u8 x, }
+// 50% %s
+[ ""a	b"" // a // b
+,00
+,3 , 007 ,
+""a\""b"" , 10
+] : chars
+, 42 :
+    u""" ++ [28040; 24687]%N ++ runes_of_ascii """ :
+f32a
+, 7 :
+    u8x  , } // a // b
+,
+    }
+root packet
+    //x
+    u { repeat o{ repeat crc { int8 i8i8
+    // a // b
+    @calculatedFrom(""x y"" )  `tab	here` , repeat falsey { uint32 crc
+@lengthOf(
+    MetaDataX
+)  `100% of %d` , }
+,
+    }
+    , }
+, }
+")).
+Eval vm_compute in ("<<<M1086>>>" ++ check (runes_of_ascii "// `tick` ""quote"" 'q'
+options{ u // `tick` ""quote"" 'q'
+= false ;pack = 4294967296 u128 // " ++ [128512]%N ++ runes_of_ascii " emoji
+= i8;
+// a // b
+// 50% %s
+roots
+= ""packet"";
+falsey // 50% %s
+=  007
+;	} options {
+    // @lengthOf(
+    BodyLength = true ; metadata =  true x /// triple
+=  uint16 ; }
+")).
+Eval vm_compute in ("<<<M1118>>>" ++ check (runes_of_ascii "//
+packet Packet { repeat char[] len,zchar As
+    `line1
+line2` , @lengthOf( charz
+// " ++ [27880; 37322]%N ++ runes_of_ascii "
+// `tick` ""quote"" 'q'
+) repeat int8 metadata, /// triple
+}")).
+Eval vm_compute in ("<<<M1150>>>" ++ check (runes_of_ascii "root packet charz { @calculatedFrom( """ ++ [233]%N ++ runes_of_ascii "t" ++ [233]%N ++ runes_of_ascii """ )Foo
+    x `u8 x,` ,
+    rootA @lengthOf(leftPad) , zchar[
+0123456789 ]	MetaDataX
+    `" ++ [28040; 24687; 31867; 22411]%N ++ runes_of_ascii "`,
+@tag(7 )packetx
+    // trailing space 
+    @calculatedFrom( ""CRC32""
+) `it's`
+,	@lengthOf(falsey ) repeat zchar[ 4294967296
+]
+    string_ ,@lengthOf( options1  ) int
+{ int64
+//x
+// 50% %s
+u
+@calculatedFrom( ""1""
+) `line1
+line2`
+    ,	repeat zchar[  00 /// triple
+]falsey , char[]	stringy @calculatedFrom( ""it's"" )// @lengthOf(
+`crlf
+line`	, // a // b
+i16 A , } ,@calculatedFrom(
+""`tick`"" )f64 BodyLength @lengthOf( /// triple
+len	)  `crlf
+line`
+    , } MetaData msg_type{uint64
+// trailing space 
+// a // b
+roots `100% of %d`
+, } options { packetx= true
+    }MetaData uint8x{}root packet
+// trailing space 
+//
+crc { // trailing space 
+char[
+// `tick` ""quote"" 'q'
+// " ++ [27880; 37322]%N ++ runes_of_ascii "
+4294967296
+    ]i64_ , @leftPad ( '0'
+) @lengthOf(
+    msg_type) repeat Foo`line1
+line2` ,
+asx i64_ //	t
+`two words` ,@tag( 7
+    ) Packet , repeat // c
+i64 u8x`say ""hi""`
+    ,zchar[ 7 ] x_y_z ,// `tick` ""quote"" 'q'
+match Foo as
+    Pad { // c
+[""abc"" ,
+""""
+    ]:options1 ,
+""a	b"":	crc , 42:rootA
+, // " ++ [128512]%N ++ runes_of_ascii " emoji
+}// " ++ [128512]%N ++ runes_of_ascii " emoji
+,	@lengthOf( // trailing space 
+Header)body int// 50% %s
+, @tag(
+1 )@calculatedFrom(""" ++ [233]%N ++ runes_of_ascii "t" ++ [233]%N ++ runes_of_ascii """ ) char[
+255 ]
+    // 50% %s
+    charz	@lengthOf( A ) , /// triple
+uint64
+// @lengthOf(
+/// triple
+Packet
+@calculatedFrom( ""1"")`100% of %d`
+,}")).
+Eval vm_compute in ("<<<M1182>>>" ++ check (runes_of_ascii "packet  rootA {}
+    packet lengthOf /// triple
+{
+    @calculatedFrom(
+""a\""b""
+    )
+    @leftPad (
+'\x00' ) //
+Logon {x@calculatedFrom(""a	b""
+    ) , } , }
+    // c
+    packet //
+Pad { // " ++ [27880; 37322]%N ++ runes_of_ascii "
+@leftPad (
+// @lengthOf(
+/// triple
+) @lengthOf( u128
+) // @lengthOf(
+@rightPad ( ' ') T @lengthOf( Foo )
+    //	t
+    `{ , }`, }
+")).
+Eval vm_compute in ("<<<T1182>>>" ++ terms [mkTok 35 "packet" 1 0 false; mkTok 42 "rootA" 1 8 false; mkTok 2 "{" 1 14 false; mkTok 3 "}" 1 15 false; mkTok 35 "packet" 2 4 false; mkTok 42 "lengthOf" 2 11 false; mkTok 44 "/// triple" 2 20 true; mkTok 2 "{" 3 0 false; mkTok 5 "@calculatedFrom(" 4 4 false; mkTok 31 """a\""b""" 5 0 false; mkTok 6 ")" 6 4 false; mkTok 32 "@leftPad" 7 4 false; mkTok 8 "(" 7 13 false; mkTok 33 "'\x00'" 8 0 false; mkTok 6 ")" 8 7 false; mkTok 44 "//" 8 9 true; mkTok 42 "Logon" 9 0 false; mkTok 2 "{" 9 6 false; mkTok 42 "x" 9 7 false; mkTok 5 "@calculatedFrom(" 9 8 false; mkTok 31 (string_of_bytes [34; 97; 9; 98; 34]%N) 9 24 false; mkTok 6 ")" 10 4 false; mkTok 40 "," 10 6 false; mkTok 3 "}" 10 8 false; mkTok 40 "," 10 10 false; mkTok 3 "}" 10 12 false; mkTok 44 "// c" 11 4 true; mkTok 35 "packet" 12 4 false; mkTok 44 "//" 12 11 true; mkTok 42 "Pad" 13 0 false; mkTok 2 "{" 13 4 false; mkTok 44 (string_of_bytes [47; 47; 32; 230; 179; 168; 233; 135; 138]%N) 13 6 true; mkTok 32 "@leftPad" 14 0 false; mkTok 8 "(" 14 9 false; mkTok 44 "// @lengthOf(" 15 0 true; mkTok 44 "/// triple" 16 0 true; mkTok 6 ")" 17 0 false; mkTok 7 "@lengthOf(" 17 2 false; mkTok 42 "u128" 17 13 false; mkTok 6 ")" 18 0 false; mkTok 44 "// @lengthOf(" 18 2 true; mkTok 32 "@rightPad" 19 0 false; mkTok 8 "(" 19 10 false; mkTok 33 "' '" 19 12 false; mkTok 6 ")" 19 15 false; mkTok 42 "T" 19 17 false; mkTok 7 "@lengthOf(" 19 19 false; mkTok 42 "Foo" 19 30 false; mkTok 6 ")" 19 34 false; mkTok 44 (string_of_bytes [47; 47; 9; 116]%N) 20 4 true; mkTok 43 "`{ , }`" 21 4 false; mkTok 40 "," 21 11 false; mkTok 3 "}" 21 13 false; mkTok 0 "<EOF>" 22 0 false] (mkPacket (mkPtok 35 "packet" 1 0 0) (Some (mkPtok 3 "}" 21 13 52)) [(DPacket (mkPacketDef (mkSpan (mkPtok 35 "packet" 1 0 0) (mkPtok 3 "}" 1 15 3)) None (mkPtok 35 "packet" 1 0 0) (mkPtok 42 "rootA" 1 8 1) (mkPtok 2 "{" 1 14 2) [] (mkPtok 3 "}" 1 15 3))); (DPacket (mkPacketDef (mkSpan (mkPtok 35 "packet" 2 4 4) (mkPtok 3 "}" 10 12 25)) None (mkPtok 35 "packet" 2 4 4) (mkPtok 42 "lengthOf" 2 11 5) (mkPtok 2 "{" 3 0 7) [(mkFieldWithAttr (mkSpan (mkPtok 5 "@calculatedFrom(" 4 4 8) (mkPtok 40 "," 10 10 24)) [(FACalculatedFrom (mkSpan (mkPtok 5 "@calculatedFrom(" 4 4 8) (mkPtok 6 ")" 6 4 10)) (mkCalculatedFrom (mkSpan (mkPtok 5 "@calculatedFrom(" 4 4 8) (mkPtok 6 ")" 6 4 10)) (mkPtok 5 "@calculatedFrom(" 4 4 8) (mkPtok 31 """a\""b""" 5 0 9) (mkPtok 6 ")" 6 4 10))); (FAPadding (mkSpan (mkPtok 32 "@leftPad" 7 4 11) (mkPtok 6 ")" 8 7 14)) (mkPaddingAttr (mkSpan (mkPtok 32 "@leftPad" 7 4 11) (mkPtok 6 ")" 8 7 14)) (mkPtok 32 "@leftPad" 7 4 11) (mkPtok 8 "(" 7 13 12) (Some (mkPtok 33 "'\x00'" 8 0 13)) (mkPtok 6 ")" 8 7 14)))] (InerObjectField (mkSpan (mkPtok 42 "Logon" 9 0 16) (mkPtok 40 "," 10 10 24)) None (InerObjectDecl (mkSpan (mkPtok 42 "Logon" 9 0 16) (mkPtok 3 "}" 10 8 23)) (mkPtok 42 "Logon" 9 0 16) (mkPtok 2 "{" 9 6 17) [(CheckSumField (mkSpan (mkPtok 42 "x" 9 7 18) (mkPtok 40 "," 10 6 22)) (mkChecksumFieldDecl (mkSpan (mkPtok 42 "x" 9 7 18) (mkPtok 40 "," 10 6 22)) None (mkPtok 42 "x" 9 7 18) (mkCalculatedFrom (mkSpan (mkPtok 5 "@calculatedFrom(" 9 8 19) (mkPtok 6 ")" 10 4 21)) (mkPtok 5 "@calculatedFrom(" 9 8 19) (mkPtok 31 (string_of_bytes [34; 97; 9; 98; 34]%N) 9 24 20) (mkPtok 6 ")" 10 4 21)) None (mkPtok 40 "," 10 6 22)))] (mkPtok 3 "}" 10 8 23)) (mkPtok 40 "," 10 10 24)))] (mkPtok 3 "}" 10 12 25))); (DPacket (mkPacketDef (mkSpan (mkPtok 35 "packet" 12 4 27) (mkPtok 3 "}" 21 13 52)) None (mkPtok 35 "packet" 12 4 27) (mkPtok 42 "Pad" 13 0 29) (mkPtok 2 "{" 13 4 30) [(mkFieldWithAttr (mkSpan (mkPtok 32 "@leftPad" 14 0 32) (mkPtok 40 "," 21 11 51)) [(FAPadding (mkSpan (mkPtok 32 "@leftPad" 14 0 32) (mkPtok 6 ")" 17 0 36)) (mkPaddingAttr (mkSpan (mkPtok 32 "@leftPad" 14 0 32) (mkPtok 6 ")" 17 0 36)) (mkPtok 32 "@leftPad" 14 0 32) (mkPtok 8 "(" 14 9 33) None (mkPtok 6 ")" 17 0 36))); (FALengthOf (mkSpan (mkPtok 7 "@lengthOf(" 17 2 37) (mkPtok 6 ")" 18 0 39)) (mkLengthOf (mkSpan (mkPtok 7 "@lengthOf(" 17 2 37) (mkPtok 6 ")" 18 0 39)) (mkPtok 7 "@lengthOf(" 17 2 37) (mkPtok 42 "u128" 17 13 38) (mkPtok 6 ")" 18 0 39))); (FAPadding (mkSpan (mkPtok 32 "@rightPad" 19 0 41) (mkPtok 6 ")" 19 15 44)) (mkPaddingAttr (mkSpan (mkPtok 32 "@rightPad" 19 0 41) (mkPtok 6 ")" 19 15 44)) (mkPtok 32 "@rightPad" 19 0 41) (mkPtok 8 "(" 19 10 42) (Some (mkPtok 33 "' '" 19 12 43)) (mkPtok 6 ")" 19 15 44)))] (LengthField (mkSpan (mkPtok 42 "T" 19 17 45) (mkPtok 40 "," 21 11 51)) (mkLengthFieldDecl (mkSpan (mkPtok 42 "T" 19 17 45) (mkPtok 40 "," 21 11 51)) None (mkPtok 42 "T" 19 17 45) (mkLengthOf (mkSpan (mkPtok 7 "@lengthOf(" 19 19 46) (mkPtok 6 ")" 19 34 48)) (mkPtok 7 "@lengthOf(" 19 19 46) (mkPtok 42 "Foo" 19 30 47) (mkPtok 6 ")" 19 34 48)) (Some (mkPtok 43 "`{ , }`" 21 4 50)) (mkPtok 40 "," 21 11 51))))] (mkPtok 3 "}" 21 13 52)))])).
+Eval vm_compute in ("<<<M1214>>>" ++ check (runes_of_ascii "MetaData
+pack
+{ u8 _x
+    //x
+    ,
+    //	t
+    zchar
+    uint8x`two words`  ,  chars  i8i8 // trailing space 
+,	}
+MetaData
+chars{
+    //
+    i64 pack	`` ,
+} packet _x
+{
+    }
+
+")).
+Eval vm_compute in ("<<<M1246>>>" ++ check (runes_of_ascii "// c
+packet trueish{ match lengthOf	as a1 {
+/// triple
+// c
+""{,}""
+: o ,
+} ,	match x  as string_ //	t
+{ [
+10, ""a\\""
+    ]
+:options1
+    },
+    // trailing space 
+    } // 50% %s")).
+Eval vm_compute in ("<<<M1278>>>" ++ check (runes_of_ascii "MetaData charz { msg_type //x
+metadata`two words` ,
+    //
+    char[  7 ] uint8x `two words` , i16 leftPad ,
+// " ++ [128512]%N ++ runes_of_ascii " emoji
+// c
+float64	repeatCount
+`` // c
+, } options
+{
+    o = false
+    ; packetx =	true ;
+float=
+    //x
+    ""it's""
+; f32a =
+//
+// " ++ [128512]%N ++ runes_of_ascii " emoji
+""\n"";
+Z9_=0 }
+")).
+Eval vm_compute in ("<<<M1310>>>" ++ check (runes_of_ascii "
+")).
+Eval vm_compute in ("<<<M1342>>>" ++ check (runes_of_ascii "// 50% %s
+options
+    // c
+    {
+    f32a = '\x00' ; lengthOf = ' ' ;}")).
+Eval vm_compute in ("<<<M1374>>>" ++ check (runes_of_ascii "
+")).
+Eval vm_compute in ("<<<M1406>>>" ++ check (runes_of_ascii "  packet // `tick` ""quote"" 'q'
+i64_ { // " ++ [128512]%N ++ runes_of_ascii " emoji
+@tag(  255
+) uint16 u128 , } packet options1
+    {
 match
 //x
 // trailing space 
-charz as  Foo { [4294967296 ,
-    ""CRC32"" ,
-// @lengthOf(
-// c
-3
-, ""a\""b""
-,
-    // a // b
-    ""CRC32""] :
-// trailing space 
-// c
-i8i8
-,
-} , @calculatedFrom(""" ++ [233]%N ++ runes_of_ascii "t" ++ [233]%N ++ runes_of_ascii """
-) char[] chars @calculatedFrom(""// no comment"" ) , char[]
-    x_y_z//
-,
-@lengthOf(
-trueish
-) @lengthOf( packetx) @lengthOf( packetx  ) Logon
-    @calculatedFrom( ""it's""	)
-, string
-_x  , uint32 packetx ,
-    repeat MetaDataX`tab	here`
-    ,
-}
-")).
-Eval vm_compute in ("<<<M478>>>" ++ check (runes_of_ascii "packet f32a
-{ @calculatedFrom( // " ++ [27880; 37322]%N ++ runes_of_ascii "
-""" ++ [128512]%N ++ runes_of_ascii """ )	char[65535
-    ] Logon , }
-    packet calculatedFrom { char[ 00
-// c
-// @lengthOf(
-]
-    x `u8 x,` , repeat u8x{
-repeat float64
-Packet ,} ,
-    repeat
-    Z9_ leftPad, @calculatedFrom(""{,}"" )  repeat	Header	Foo , @tag(
-    4294967296)
-    @calculatedFrom(
-""it's"" )@lengthOf(Logon )char[ 10
-    /// triple
-    ] len ``, char[ 7
-    ] lengthOf
-// a // b
-// " ++ [128512]%N ++ runes_of_ascii " emoji
-@calculatedFrom( """ ++ [28040; 24687]%N ++ runes_of_ascii """ ) `
-`,
-    // @lengthOf(
-    @lengthOf(i8i8
-)  repeat //	t
-string_ trueish `doc`
-    ,
-    // " ++ [27880; 37322]%N ++ runes_of_ascii "
-    match BodyLength // a // b
-as //	t
-rootA // @lengthOf(
-{
-""packet"": uint8x , }, match u128  as float {""" ++ [233]%N ++ runes_of_ascii "t" ++ [233]%N ++ runes_of_ascii """
-: stringy	""packet"" : lengthOf , """ ++ [233]%N ++ runes_of_ascii "t" ++ [233]%N ++ runes_of_ascii """
+Logon as Z9_ { [ 1 , 1 ] /// triple
 :
-    // " ++ [27880; 37322]%N ++ runes_of_ascii "
-    lengthOf,""" ++ [128512]%N ++ runes_of_ascii """ :
-    lengthOf,""it's"" :As [""// no comment""	]  : int
-// " ++ [27880; 37322]%N ++ runes_of_ascii "
+    crc""a	b"" :
+roots ,""CRC32""//
+: MetaDataX , }, @lengthOf( uint8x // @lengthOf(
+)// `tick` ""quote"" 'q'
+@leftPad ( '0'
+    ) crc @calculatedFrom( ""it's"" ) , zchar[
+// c
 /// triple
-,},
-    }	root packet // " ++ [27880; 37322]%N ++ runes_of_ascii "
-_x	{Header `say ""hi""` ,
-@leftPad ( '\x00' )@lengthOf( Packet
-    ) @rightPad	( ' '  )string msg_type
-    @calculatedFrom( """ ++ [233]%N ++ runes_of_ascii "t" ++ [233]%N ++ runes_of_ascii """// " ++ [128512]%N ++ runes_of_ascii " emoji
-) `tab	here` ,
-i64
-zchar //	t
-`crlf
-line`
-,i32
-x_y_z, @tag( 7  ) @leftPad
-(' ' )
-@calculatedFrom(
-//
-//	t
-""1""
-    )falsey`two words` , } // " ++ [27880; 37322]%N ++ runes_of_ascii "
-packet metadata { f64 u8x,
-u16  o `crlf
-line`
-    ,  msg_type {
-u8 a1 @lengthOf( u ) `it's`  ,// trailing space 
-}
-,@lengthOf( rootA /// triple
-) f32a { repeat
-    u16 uint8x, }
-,//
-}
-    options {
-} // " ++ [128512]%N ++ runes_of_ascii " emoji")).
-Eval vm_compute in ("<<<M510>>>" ++ check (runes_of_ascii "
-packet	packetx{
-    @leftPad
-    /// triple
-    (
-'0' )	@lengthOf(  T ) @calculatedFrom( ""\" ++ [233]%N ++ runes_of_ascii """ )
-match i64_
-    as tag// " ++ [128512]%N ++ runes_of_ascii " emoji
-{
-    ""abc""// packet A { u8 x, }
-:Header , [7
-] :
-chars,	""a	b"" :	f32a , ""\" ++ [233]%N ++ runes_of_ascii """ :f32a ,	""CRC32"" : zchar , ""abc""  : Z9_, } , }
-")).
-Eval vm_compute in ("<<<T510>>>" ++ terms [mkTok 35 "packet" 2 0 false; mkTok 42 "packetx" 2 7 false; mkTok 2 "{" 2 14 false; mkTok 32 "@leftPad" 3 4 false; mkTok 44 "/// triple" 4 4 true; mkTok 8 "(" 5 4 false; mkTok 33 "'0'" 6 0 false; mkTok 6 ")" 6 4 false; mkTok 7 "@lengthOf(" 6 6 false; mkTok 42 "T" 6 18 false; mkTok 6 ")" 6 20 false; mkTok 5 "@calculatedFrom(" 6 22 false; mkTok 31 (string_of_bytes [34; 92; 195; 169; 34]%N) 6 39 false; mkTok 6 ")" 6 44 false; mkTok 38 "match" 7 0 false; mkTok 42 "i64_" 7 6 false; mkTok 17 "as" 8 4 false; mkTok 42 "tag" 8 7 false; mkTok 44 (string_of_bytes [47; 47; 32; 240; 159; 152; 128; 32; 101; 109; 111; 106; 105]%N) 8 10 true; mkTok 2 "{" 9 0 false; mkTok 31 """abc""" 10 4 false; mkTok 44 "// packet A { u8 x, }" 10 9 true; mkTok 39 ":" 11 0 false; mkTok 42 "Header" 11 1 false; mkTok 40 "," 11 8 false; mkTok 18 "[" 11 10 false; mkTok 30 "7" 11 11 false; mkTok 13 "]" 12 0 false; mkTok 39 ":" 12 2 false; mkTok 42 "chars" 13 0 false; mkTok 40 "," 13 5 false; mkTok 31 (string_of_bytes [34; 97; 9; 98; 34]%N) 13 7 false; mkTok 39 ":" 13 13 false; mkTok 42 "f32a" 13 15 false; mkTok 40 "," 13 20 false; mkTok 31 (string_of_bytes [34; 92; 195; 169; 34]%N) 13 22 false; mkTok 39 ":" 13 27 false; mkTok 42 "f32a" 13 28 false; mkTok 40 "," 13 33 false; mkTok 31 """CRC32""" 13 35 false; mkTok 39 ":" 13 43 false; mkTok 42 "zchar" 13 45 false; mkTok 40 "," 13 51 false; mkTok 31 """abc""" 13 53 false; mkTok 39 ":" 13 60 false; mkTok 42 "Z9_" 13 62 false; mkTok 40 "," 13 65 false; mkTok 3 "}" 13 67 false; mkTok 40 "," 13 69 false; mkTok 3 "}" 13 71 false; mkTok 0 "<EOF>" 14 0 false] (mkPacket (mkPtok 35 "packet" 2 0 0) (Some (mkPtok 3 "}" 13 71 49)) [(DPacket (mkPacketDef (mkSpan (mkPtok 35 "packet" 2 0 0) (mkPtok 3 "}" 13 71 49)) None (mkPtok 35 "packet" 2 0 0) (mkPtok 42 "packetx" 2 7 1) (mkPtok 2 "{" 2 14 2) [(mkFieldWithAttr (mkSpan (mkPtok 32 "@leftPad" 3 4 3) (mkPtok 40 "," 13 69 48)) [(FAPadding (mkSpan (mkPtok 32 "@leftPad" 3 4 3) (mkPtok 6 ")" 6 4 7)) (mkPaddingAttr (mkSpan (mkPtok 32 "@leftPad" 3 4 3) (mkPtok 6 ")" 6 4 7)) (mkPtok 32 "@leftPad" 3 4 3) (mkPtok 8 "(" 5 4 5) (Some (mkPtok 33 "'0'" 6 0 6)) (mkPtok 6 ")" 6 4 7))); (FALengthOf (mkSpan (mkPtok 7 "@lengthOf(" 6 6 8) (mkPtok 6 ")" 6 20 10)) (mkLengthOf (mkSpan (mkPtok 7 "@lengthOf(" 6 6 8) (mkPtok 6 ")" 6 20 10)) (mkPtok 7 "@lengthOf(" 6 6 8) (mkPtok 42 "T" 6 18 9) (mkPtok 6 ")" 6 20 10))); (FACalculatedFrom (mkSpan (mkPtok 5 "@calculatedFrom(" 6 22 11) (mkPtok 6 ")" 6 44 13)) (mkCalculatedFrom (mkSpan (mkPtok 5 "@calculatedFrom(" 6 22 11) (mkPtok 6 ")" 6 44 13)) (mkPtok 5 "@calculatedFrom(" 6 22 11) (mkPtok 31 (string_of_bytes [34; 92; 195; 169; 34]%N) 6 39 12) (mkPtok 6 ")" 6 44 13)))] (MatchField (mkSpan (mkPtok 38 "match" 7 0 14) (mkPtok 40 "," 13 69 48)) (mkMatchFieldDecl (mkSpan (mkPtok 38 "match" 7 0 14) (mkPtok 3 "}" 13 67 47)) (mkPtok 38 "match" 7 0 14) (mkPtok 42 "i64_" 7 6 15) (mkPtok 17 "as" 8 4 16) (mkPtok 42 "tag" 8 7 17) (mkPtok 2 "{" 9 0 19) [(mkMatchPair (mkSpan (mkPtok 31 """abc""" 10 4 20) (mkPtok 40 "," 11 8 24)) (MKString (mkPtok 31 """abc""" 10 4 20)) (mkPtok 39 ":" 11 0 22) (mkPtok 42 "Header" 11 1 23) (Some (mkPtok 40 "," 11 8 24))); (mkMatchPair (mkSpan (mkPtok 18 "[" 11 10 25) (mkPtok 40 "," 13 5 30)) (MKList (mkKeyList (mkSpan (mkPtok 18 "[" 11 10 25) (mkPtok 13 "]" 12 0 27)) (mkPtok 18 "[" 11 10 25) (mkPtok 30 "7" 11 11 26) [] (mkPtok 13 "]" 12 0 27))) (mkPtok 39 ":" 12 2 28) (mkPtok 42 "chars" 13 0 29) (Some (mkPtok 40 "," 13 5 30))); (mkMatchPair (mkSpan (mkPtok 31 (string_of_bytes [34; 97; 9; 98; 34]%N) 13 7 31) (mkPtok 40 "," 13 20 34)) (MKString (mkPtok 31 (string_of_bytes [34; 97; 9; 98; 34]%N) 13 7 31)) (mkPtok 39 ":" 13 13 32) (mkPtok 42 "f32a" 13 15 33) (Some (mkPtok 40 "," 13 20 34))); (mkMatchPair (mkSpan (mkPtok 31 (string_of_bytes [34; 92; 195; 169; 34]%N) 13 22 35) (mkPtok 40 "," 13 33 38)) (MKString (mkPtok 31 (string_of_bytes [34; 92; 195; 169; 34]%N) 13 22 35)) (mkPtok 39 ":" 13 27 36) (mkPtok 42 "f32a" 13 28 37) (Some (mkPtok 40 "," 13 33 38))); (mkMatchPair (mkSpan (mkPtok 31 """CRC32""" 13 35 39) (mkPtok 40 "," 13 51 42)) (MKString (mkPtok 31 """CRC32""" 13 35 39)) (mkPtok 39 ":" 13 43 40) (mkPtok 42 "zchar" 13 45 41) (Some (mkPtok 40 "," 13 51 42))); (mkMatchPair (mkSpan (mkPtok 31 """abc""" 13 53 43) (mkPtok 40 "," 13 65 46)) (MKString (mkPtok 31 """abc""" 13 53 43)) (mkPtok 39 ":" 13 60 44) (mkPtok 42 "Z9_" 13 62 45) (Some (mkPtok 40 "," 13 65 46)))] (mkPtok 3 "}" 13 67 47)) (mkPtok 40 "," 13 69 48)))] (mkPtok 3 "}" 13 71 49)))])).
-Eval vm_compute in ("<<<M542>>>" ++ check (runes_of_ascii "root packet i64_ {tag
-Pad, } root packet
-    charz {
-}")).
-Eval vm_compute in ("<<<M574>>>" ++ check (runes_of_ascii "options
-    // c
-    {
-    chars =
-    '0' ; Pad // " ++ [27880; 37322]%N ++ runes_of_ascii "
-= 42 ;
-    } packet
-    roots
-{@calculatedFrom( """ ++ [28040; 24687]%N ++ runes_of_ascii """ ) @calculatedFrom(// a // b
-""// no comment"" ) chars, }
-    packet body { @lengthOf( x  ) match msg_type as x_y_z { 0123456789 :  uint8x
-, // packet A { u8 x, }
-""`tick`"" :
-i64_ // packet A { u8 x, }
-00 //
-:
-    a1
-""{,}"" :Header,	[255]	: falsey ,
-}
-, @calculatedFrom( ""\n"" ) @rightPad
-() @lengthOf( BodyLength) i16	A @lengthOf( uint8x ),char[] Foo @lengthOf(
-T )
-, @leftPad
-    (  '0' ) _x {Logon// trailing space 
-@lengthOf( //x
-u
-), } , @leftPad	( '\x00'
-) char[ 4294967296 ]
-    trueish @calculatedFrom(""x y"" )
-`" ++ [233]%N ++ runes_of_ascii "` ,@rightPad	(
-    ' ')
-    // packet A { u8 x, }
-    match msg_type as pack {[
-""a\""b"" , ""`tick`""]	: asx
-,""x y"" :  a1 // `tick` ""quote"" 'q'
+4294967296 ] leftPad `two words` ,
+    repeat falsey ,u8 o @calculatedFrom( ""x y"" )
+    , @tag( 3
+)
+    @calculatedFrom( ""CRC32"" ) @lengthOf( lengthOf
+)
+    repeat string
+uint8x ,	char[] chars
+    , }")).
+Eval vm_compute in ("<<<T1406>>>" ++ terms [mkTok 35 "packet" 1 2 false; mkTok 44 "// `tick` ""quote"" 'q'" 1 9 true; mkTok 42 "i64_" 2 0 false; mkTok 2 "{" 2 5 false; mkTok 44 (string_of_bytes [47; 47; 32; 240; 159; 152; 128; 32; 101; 109; 111; 106; 105]%N) 2 7 true; mkTok 9 "@tag(" 3 0 false; mkTok 30 "255" 3 7 false; mkTok 6 ")" 4 0 false; mkTok 21 "uint16" 4 2 false; mkTok 42 "u128" 4 9 false; mkTok 40 "," 4 14 false; mkTok 3 "}" 4 16 false; mkTok 35 "packet" 4 18 false; mkTok 42 "options1" 4 25 false; mkTok 2 "{" 5 4 false; mkTok 38 "match" 6 0 false; mkTok 44 "//x" 7 0 true; mkTok 44 "// trailing space " 8 0 true; mkTok 42 "Logon" 9 0 false; mkTok 17 "as" 9 6 false; mkTok 42 "Z9_" 9 9 false; mkTok 2 "{" 9 13 false; mkTok 18 "[" 9 15 false; mkTok 30 "1" 9 17 false; mkTok 40 "," 9 19 false; mkTok 30 "1" 9 21 false; mkTok 13 "]" 9 23 false; mkTok 44 "/// triple" 9 25 true; mkTok 39 ":" 10 0 false; mkTok 42 "crc" 11 4 false; mkTok 31 (string_of_bytes [34; 97; 9; 98; 34]%N) 11 7 false; mkTok 39 ":" 11 13 false; mkTok 42 "roots" 12 0 false; mkTok 40 "," 12 6 false; mkTok 31 """CRC32""" 12 7 false; mkTok 44 "//" 12 14 true; mkTok 39 ":" 13 0 false; mkTok 42 "MetaDataX" 13 2 false; mkTok 40 "," 13 12 false; mkTok 3 "}" 13 14 false; mkTok 40 "," 13 15 false; mkTok 7 "@lengthOf(" 13 17 false; mkTok 42 "uint8x" 13 28 false; mkTok 44 "// @lengthOf(" 13 35 true; mkTok 6 ")" 14 0 false; mkTok 44 "// `tick` ""quote"" 'q'" 14 1 true; mkTok 32 "@leftPad" 15 0 false; mkTok 8 "(" 15 9 false; mkTok 33 "'0'" 15 11 false; mkTok 6 ")" 16 4 false; mkTok 42 "crc" 16 6 false; mkTok 5 "@calculatedFrom(" 16 10 false; mkTok 31 """it's""" 16 27 false; mkTok 6 ")" 16 34 false; mkTok 40 "," 16 36 false; mkTok 14 "zchar[" 16 38 false; mkTok 44 "// c" 17 0 true; mkTok 44 "/// triple" 18 0 true; mkTok 30 "4294967296" 19 0 false; mkTok 13 "]" 19 11 false; mkTok 42 "leftPad" 19 13 false; mkTok 43 "`two words`" 19 21 false; mkTok 40 "," 19 33 false; mkTok 36 "repeat" 20 4 false; mkTok 42 "falsey" 20 11 false; mkTok 40 "," 20 18 false; mkTok 20 "u8" 20 19 false; mkTok 42 "o" 20 22 false; mkTok 5 "@calculatedFrom(" 20 24 false; mkTok 31 """x y""" 20 41 false; mkTok 6 ")" 20 47 false; mkTok 40 "," 21 4 false; mkTok 9 "@tag(" 21 6 false; mkTok 30 "3" 21 12 false; mkTok 6 ")" 22 0 false; mkTok 5 "@calculatedFrom(" 23 4 false; mkTok 31 """CRC32""" 23 21 false; mkTok 6 ")" 23 29 false; mkTok 7 "@lengthOf(" 23 31 false; mkTok 42 "lengthOf" 23 42 false; mkTok 6 ")" 24 0 false; mkTok 36 "repeat" 25 4 false; mkTok 15 "string" 25 11 false; mkTok 42 "uint8x" 26 0 false; mkTok 40 "," 26 7 false; mkTok 16 "char[]" 26 9 false; mkTok 42 "chars" 26 16 false; mkTok 40 "," 27 4 false; mkTok 3 "}" 27 6 false; mkTok 0 "<EOF>" 27 7 false] (mkPacket (mkPtok 35 "packet" 1 2 0) (Some (mkPtok 3 "}" 27 6 88)) [(DPacket (mkPacketDef (mkSpan (mkPtok 35 "packet" 1 2 0) (mkPtok 3 "}" 4 16 11)) None (mkPtok 35 "packet" 1 2 0) (mkPtok 42 "i64_" 2 0 2) (mkPtok 2 "{" 2 5 3) [(mkFieldWithAttr (mkSpan (mkPtok 9 "@tag(" 3 0 5) (mkPtok 40 "," 4 14 10)) [(FATag (mkSpan (mkPtok 9 "@tag(" 3 0 5) (mkPtok 6 ")" 4 0 7)) (mkTagAttr (mkSpan (mkPtok 9 "@tag(" 3 0 5) (mkPtok 6 ")" 4 0 7)) (mkPtok 9 "@tag(" 3 0 5) (mkPtok 30 "255" 3 7 6) (mkPtok 6 ")" 4 0 7)))] (MetaField (mkSpan (mkPtok 21 "uint16" 4 2 8) (mkPtok 40 "," 4 14 10)) None (mkMetaDecl (mkSpan (mkPtok 21 "uint16" 4 2 8) (mkPtok 40 "," 4 14 10)) (TyBasic (mkSpan (mkPtok 21 "uint16" 4 2 8) (mkPtok 21 "uint16" 4 2 8)) (mkBasicType (mkSpan (mkPtok 21 "uint16" 4 2 8) (mkPtok 21 "uint16" 4 2 8)) (mkPtok 21 "uint16" 4 2 8))) (mkPtok 42 "u128" 4 9 9) None (mkPtok 40 "," 4 14 10))))] (mkPtok 3 "}" 4 16 11))); (DPacket (mkPacketDef (mkSpan (mkPtok 35 "packet" 4 18 12) (mkPtok 3 "}" 27 6 88)) None (mkPtok 35 "packet" 4 18 12) (mkPtok 42 "options1" 4 25 13) (mkPtok 2 "{" 5 4 14) [(mkFieldWithAttr (mkSpan (mkPtok 38 "match" 6 0 15) (mkPtok 40 "," 13 15 40)) [] (MatchField (mkSpan (mkPtok 38 "match" 6 0 15) (mkPtok 40 "," 13 15 40)) (mkMatchFieldDecl (mkSpan (mkPtok 38 "match" 6 0 15) (mkPtok 3 "}" 13 14 39)) (mkPtok 38 "match" 6 0 15) (mkPtok 42 "Logon" 9 0 18) (mkPtok 17 "as" 9 6 19) (mkPtok 42 "Z9_" 9 9 20) (mkPtok 2 "{" 9 13 21) [(mkMatchPair (mkSpan (mkPtok 18 "[" 9 15 22) (mkPtok 42 "crc" 11 4 29)) (MKList (mkKeyList (mkSpan (mkPtok 18 "[" 9 15 22) (mkPtok 13 "]" 9 23 26)) (mkPtok 18 "[" 9 15 22) (mkPtok 30 "1" 9 17 23) [((mkPtok 40 "," 9 19 24), (mkPtok 30 "1" 9 21 25))] (mkPtok 13 "]" 9 23 26))) (mkPtok 39 ":" 10 0 28) (mkPtok 42 "crc" 11 4 29) None); (mkMatchPair (mkSpan (mkPtok 31 (string_of_bytes [34; 97; 9; 98; 34]%N) 11 7 30) (mkPtok 40 "," 12 6 33)) (MKString (mkPtok 31 (string_of_bytes [34; 97; 9; 98; 34]%N) 11 7 30)) (mkPtok 39 ":" 11 13 31) (mkPtok 42 "roots" 12 0 32) (Some (mkPtok 40 "," 12 6 33))); (mkMatchPair (mkSpan (mkPtok 31 """CRC32""" 12 7 34) (mkPtok 40 "," 13 12 38)) (MKString (mkPtok 31 """CRC32""" 12 7 34)) (mkPtok 39 ":" 13 0 36) (mkPtok 42 "MetaDataX" 13 2 37) (Some (mkPtok 40 "," 13 12 38)))] (mkPtok 3 "}" 13 14 39)) (mkPtok 40 "," 13 15 40))); (mkFieldWithAttr (mkSpan (mkPtok 7 "@lengthOf(" 13 17 41) (mkPtok 40 "," 16 36 54)) [(FALengthOf (mkSpan (mkPtok 7 "@lengthOf(" 13 17 41) (mkPtok 6 ")" 14 0 44)) (mkLengthOf (mkSpan (mkPtok 7 "@lengthOf(" 13 17 41) (mkPtok 6 ")" 14 0 44)) (mkPtok 7 "@lengthOf(" 13 17 41) (mkPtok 42 "uint8x" 13 28 42) (mkPtok 6 ")" 14 0 44))); (FAPadding (mkSpan (mkPtok 32 "@leftPad" 15 0 46) (mkPtok 6 ")" 16 4 49)) (mkPaddingAttr (mkSpan (mkPtok 32 "@leftPad" 15 0 46) (mkPtok 6 ")" 16 4 49)) (mkPtok 32 "@leftPad" 15 0 46) (mkPtok 8 "(" 15 9 47) (Some (mkPtok 33 "'0'" 15 11 48)) (mkPtok 6 ")" 16 4 49)))] (CheckSumField (mkSpan (mkPtok 42 "crc" 16 6 50) (mkPtok 40 "," 16 36 54)) (mkChecksumFieldDecl (mkSpan (mkPtok 42 "crc" 16 6 50) (mkPtok 40 "," 16 36 54)) None (mkPtok 42 "crc" 16 6 50) (mkCalculatedFrom (mkSpan (mkPtok 5 "@calculatedFrom(" 16 10 51) (mkPtok 6 ")" 16 34 53)) (mkPtok 5 "@calculatedFrom(" 16 10 51) (mkPtok 31 """it's""" 16 27 52) (mkPtok 6 ")" 16 34 53)) None (mkPtok 40 "," 16 36 54)))); (mkFieldWithAttr (mkSpan (mkPtok 14 "zchar[" 16 38 55) (mkPtok 40 "," 19 33 62)) [] (MetaField (mkSpan (mkPtok 14 "zchar[" 16 38 55) (mkPtok 40 "," 19 33 62)) None (mkMetaDecl (mkSpan (mkPtok 14 "zchar[" 16 38 55) (mkPtok 40 "," 19 33 62)) (TyFixed (mkSpan (mkPtok 14 "zchar[" 16 38 55) (mkPtok 13 "]" 19 11 59)) (mkFixedString (mkSpan (mkPtok 14 "zchar[" 16 38 55) (mkPtok 13 "]" 19 11 59)) (mkPtok 14 "zchar[" 16 38 55) (mkPtok 30 "4294967296" 19 0 58) (mkPtok 13 "]" 19 11 59))) (mkPtok 42 "leftPad" 19 13 60) (Some (mkPtok 43 "`two words`" 19 21 61)) (mkPtok 40 "," 19 33 62)))); (mkFieldWithAttr (mkSpan (mkPtok 36 "repeat" 20 4 63) (mkPtok 40 "," 20 18 65)) [] (ObjectField (mkSpan (mkPtok 36 "repeat" 20 4 63) (mkPtok 40 "," 20 18 65)) (Some (mkPtok 36 "repeat" 20 4 63)) (mkPtok 42 "falsey" 20 11 64) None None (mkPtok 40 "," 20 18 65))); (mkFieldWithAttr (mkSpan (mkPtok 20 "u8" 20 19 66) (mkPtok 40 "," 21 4 71)) [] (CheckSumField (mkSpan (mkPtok 20 "u8" 20 19 66) (mkPtok 40 "," 21 4 71)) (mkChecksumFieldDecl (mkSpan (mkPtok 20 "u8" 20 19 66) (mkPtok 40 "," 21 4 71)) (Some (TyBasic (mkSpan (mkPtok 20 "u8" 20 19 66) (mkPtok 20 "u8" 20 19 66)) (mkBasicType (mkSpan (mkPtok 20 "u8" 20 19 66) (mkPtok 20 "u8" 20 19 66)) (mkPtok 20 "u8" 20 19 66)))) (mkPtok 42 "o" 20 22 67) (mkCalculatedFrom (mkSpan (mkPtok 5 "@calculatedFrom(" 20 24 68) (mkPtok 6 ")" 20 47 70)) (mkPtok 5 "@calculatedFrom(" 20 24 68) (mkPtok 31 """x y""" 20 41 69) (mkPtok 6 ")" 20 47 70)) None (mkPtok 40 "," 21 4 71)))); (mkFieldWithAttr (mkSpan (mkPtok 9 "@tag(" 21 6 72) (mkPtok 40 "," 26 7 84)) [(FATag (mkSpan (mkPtok 9 "@tag(" 21 6 72) (mkPtok 6 ")" 22 0 74)) (mkTagAttr (mkSpan (mkPtok 9 "@tag(" 21 6 72) (mkPtok 6 ")" 22 0 74)) (mkPtok 9 "@tag(" 21 6 72) (mkPtok 30 "3" 21 12 73) (mkPtok 6 ")" 22 0 74))); (FACalculatedFrom (mkSpan (mkPtok 5 "@calculatedFrom(" 23 4 75) (mkPtok 6 ")" 23 29 77)) (mkCalculatedFrom (mkSpan (mkPtok 5 "@calculatedFrom(" 23 4 75) (mkPtok 6 ")" 23 29 77)) (mkPtok 5 "@calculatedFrom(" 23 4 75) (mkPtok 31 """CRC32""" 23 21 76) (mkPtok 6 ")" 23 29 77))); (FALengthOf (mkSpan (mkPtok 7 "@lengthOf(" 23 31 78) (mkPtok 6 ")" 24 0 80)) (mkLengthOf (mkSpan (mkPtok 7 "@lengthOf(" 23 31 78) (mkPtok 6 ")" 24 0 80)) (mkPtok 7 "@lengthOf(" 23 31 78) (mkPtok 42 "lengthOf" 23 42 79) (mkPtok 6 ")" 24 0 80)))] (MetaField (mkSpan (mkPtok 36 "repeat" 25 4 81) (mkPtok 40 "," 26 7 84)) (Some (mkPtok 36 "repeat" 25 4 81)) (mkMetaDecl (mkSpan (mkPtok 15 "string" 25 11 82) (mkPtok 40 "," 26 7 84)) (TyDynamic (mkSpan (mkPtok 15 "string" 25 11 82) (mkPtok 15 "string" 25 11 82)) (mkDynamicString (mkSpan (mkPtok 15 "string" 25 11 82) (mkPtok 15 "string" 25 11 82)) (mkPtok 15 "string" 25 11 82))) (mkPtok 42 "uint8x" 26 0 83) None (mkPtok 40 "," 26 7 84)))); (mkFieldWithAttr (mkSpan (mkPtok 16 "char[]" 26 9 85) (mkPtok 40 "," 27 4 87)) [] (MetaField (mkSpan (mkPtok 16 "char[]" 26 9 85) (mkPtok 40 "," 27 4 87)) None (mkMetaDecl (mkSpan (mkPtok 16 "char[]" 26 9 85) (mkPtok 40 "," 27 4 87)) (TyDynamic (mkSpan (mkPtok 16 "char[]" 26 9 85) (mkPtok 16 "char[]" 26 9 85)) (mkDynamicString (mkSpan (mkPtok 16 "char[]" 26 9 85) (mkPtok 16 "char[]" 26 9 85)) (mkPtok 16 "char[]" 26 9 85))) (mkPtok 42 "chars" 26 16 86) None (mkPtok 40 "," 27 4 87))))] (mkPtok 3 "}" 27 6 88)))])).
+Eval vm_compute in ("<<<M1438>>>" ++ check (runes_of_ascii "  MetaData int {} root  packet MetaDataX { uint64 u
 ,
-    """ ++ [128512]%N ++ runes_of_ascii """	:
-    MetaDataX 42 :Foo	007//x
-: trueish
-/// triple
+u8 calculatedFrom// packet A { u8 x, }
+@lengthOf(tag
+)
+//x
 // @lengthOf(
-""it's"" : string_	}	, repeat Header`
-`, @tag(
-00) f32
-options1 @lengthOf( calculatedFrom) ,zchar[255 ] Logon, } root
-packet packetx { @lengthOf(	calculatedFrom ) metadata	x_y_z, }
-packet leftPad { match roots  as
-falsey {
-""x y"" : u ,""x y"" : msg_type }
-    ,repeat int64 leftPad
-,
-u @calculatedFrom( ""x y"" ) `tab	here`
-, @calculatedFrom(
-""packet"" ) match
-// " ++ [27880; 37322]%N ++ runes_of_ascii "
-// `tick` ""quote"" 'q'
-matchKey as BodyLength{ 255 :
-a1 007: T , // `tick` ""quote"" 'q'
-""`tick`""
-//	t
-// a // b
-:
-rootA, [ ""a\\""	,
-1
-,255,7 // packet A { u8 x, }
-, 1 , ""it's""
-, 1, 42]
-:x_y_z
-,
-    42 :
-i64_//x
-, }//
-, float64 x_y_z
-    `doc`
-,
-    uint8x //x
-,string
+`it's`	,
+As o`it's`, float64 string_
+    , @tag( 42 )
+@lengthOf( T)
+    @calculatedFrom( ""abc"")
+    match uint8x
+as len
+{ // `tick` ""quote"" 'q'
+[""\n"" , ""a\""b""
+    ,
+42,
+    ""// no comment"", """" ,  0123456789 , //x
+""{,}"" ,
+""a\""b""] : matchKey	, [
+    ""\" ++ [233]%N ++ runes_of_ascii """	, ""\" ++ [233]%N ++ runes_of_ascii """ , 3 , """" ]
+:// `tick` ""quote"" 'q'
+_x ,  }, MetaDataX , match
+    MetaDataX	as _x	{ 0 : // @lengthOf(
+uint8x
+, // trailing space 
+} ,@leftPad
+('\x00' ) uint16 roots
+    @calculatedFrom(""abc""
+    // " ++ [27880; 37322]%N ++ runes_of_ascii "
+    )
+    ,// packet A { u8 x, }
+@rightPad
+(  ' ' ) int32 leftPad
+    @calculatedFrom( ""packet"" ) `a\`, } packet	len{ len
+,@lengthOf(
     float
-//x
-// " ++ [27880; 37322]%N ++ runes_of_ascii "
-@calculatedFrom( ""\n"") ,
-@lengthOf(
+)@calculatedFrom(	""" ++ [28040; 24687]%N ++ runes_of_ascii """  )  @tag(  4294967296
+)
+uint8//	t
+metadata // " ++ [128512]%N ++ runes_of_ascii " emoji
+@calculatedFrom( ""`tick`""
+)// packet A { u8 x, }
+`" ++ [28040; 24687; 31867; 22411]%N ++ runes_of_ascii "` ,
+@lengthOf( //x
+BodyLength // 50% %s
+) zchar[ 007
+]Z9_ , _x{char[]i8i8 `doc` , } , repeatCount  @calculatedFrom(""`tick`"" ) ,match
+    i8i8 as tag
+{ 7 : Pad,} , u8 lengthOf //
+`{ , }` ,
+@tag(
     // `tick` ""quote"" 'q'
-    o
-)stringy //
-@lengthOf(
-rootA ) , } //x")).
-Eval vm_compute in ("<<<M606>>>" ++ check (runes_of_ascii "
+    00 ) // " ++ [128512]%N ++ runes_of_ascii " emoji
+_x _x ,  } packet lengthOf
+{ repeat calculatedFrom , @tag( 42 )
+// @lengthOf(
+// " ++ [27880; 37322]%N ++ runes_of_ascii "
+match asx as A { ""\" ++ [233]%N ++ runes_of_ascii """ : int	""abc"" :
+falsey , """ ++ [128512]%N ++ runes_of_ascii """// `tick` ""quote"" 'q'
+: falsey , [""x y"", 42 ] : charz
+    // @lengthOf(
+    } , } // `tick` ""quote"" 'q'")).
+Eval vm_compute in ("<<<M1470>>>" ++ check (runes_of_ascii "options/// triple
+{ MetaDataX =
+// 50% %s
+// @lengthOf(
+65535 ; }
+    root
+    packet
+chars
+    { match
+    leftPad
+as charz { 65535:
+T ,	}
+    // packet A { u8 x, }
+    ,  string_
+    @lengthOf( // " ++ [128512]%N ++ runes_of_ascii " emoji
+float
+)
+    , BodyLength float // c
+,@tag( 0123456789
+    )
+repeat
+    f32 rootA`two words`
+,	}	options { a1 =0 body = false f32a
+= ""`tick`""x= // `tick` ""quote"" 'q'
+char[ 4294967296  ]
+; }
 ")).
-Eval vm_compute in ("<<<M638>>>" ++ check (runes_of_ascii "packet falsey { @tag(
-    1 ) repeat zchar[00
-    ] tag,
-    }
-")).
-Eval vm_compute in ("<<<M670>>>" ++ check (runes_of_ascii "packet i8i8 { } packet options1{
-    @lengthOf( uint8x
-    ) pack @lengthOf(MetaDataX
-) // c
-, uint8x `say ""hi""`, }")).
-Eval vm_compute in ("<<<M702>>>" ++ check (runes_of_ascii "packet u8x{@calculatedFrom( """ ++ [128512]%N ++ runes_of_ascii """ )
-rootA @lengthOf(stringy ), lengthOf ,@lengthOf(  u8x )
-    i64_ @calculatedFrom( ""a\""b""//x
-) ,
-@lengthOf( matchKey )
-@lengthOf( rootA	) float32 trueish
-,  } // " ++ [27880; 37322]%N)).
-Eval vm_compute in ("<<<M734>>>" ++ check (runes_of_ascii "options { msg_type
-=65535
-    ; a1 = """ ++ [128512]%N ++ runes_of_ascii """
-; Foo
-=  ""\" ++ [233]%N ++ runes_of_ascii """matchKey
-=
-'0'
-; chars = """ ++ [28040; 24687]%N ++ runes_of_ascii """
-    //	t
-    } packet lengthOf {
-// c
-//x
-} MetaData body
-{
-    A len // packet A { u8 x, }
-`" ++ [28040; 24687; 31867; 22411]%N ++ runes_of_ascii "` ,}
-packet
-    o{
-@rightPad //x
-(
-'\x00' ) int
-// `tick` ""quote"" 'q'
-// packet A { u8 x, }
-roots , repeat
-    u8x
-`tab	here`	,
-i32 x_y_z @lengthOf( Logon
-) `line1
-line2`,
-    _x
-Z9_ , @lengthOf(
-zchar )  i32 msg_type `doc`
-,	@rightPad ( ' '	) i8 options1
+Eval vm_compute in ("<<<M1502>>>" ++ check (runes_of_ascii "packet charz
+{	@tag( 1 ) match T as _x{ 1
+    : a1 ,  }
     //
     ,
-@lengthOf(packetx) charz
-@lengthOf(
-// packet A { u8 x, }
-// trailing space 
-o
-    ) , @rightPad ( ' ' ) match /// triple
-packetx as leftPad{
-    [ ""{,}""  ,
-""" ++ [128512]%N ++ runes_of_ascii """
-    ]:
-    charz	,
-    } ,	}
-")).
-Eval vm_compute in ("<<<T734>>>" ++ terms [mkTok 1 "options" 1 0 false; mkTok 2 "{" 1 8 false; mkTok 42 "msg_type" 1 10 false; mkTok 4 "=" 2 0 false; mkTok 30 "65535" 2 1 false; mkTok 41 ";" 3 4 false; mkTok 42 "a1" 3 6 false; mkTok 4 "=" 3 9 false; mkTok 31 (string_of_bytes [34; 240; 159; 152; 128; 34]%N) 3 11 false; mkTok 41 ";" 4 0 false; mkTok 42 "Foo" 4 2 false; mkTok 4 "=" 5 0 false; mkTok 31 (string_of_bytes [34; 92; 195; 169; 34]%N) 5 3 false; mkTok 42 "matchKey" 5 7 false; mkTok 4 "=" 6 0 false; mkTok 33 "'0'" 7 0 false; mkTok 41 ";" 8 0 false; mkTok 42 "chars" 8 2 false; mkTok 4 "=" 8 8 false; mkTok 31 (string_of_bytes [34; 230; 182; 136; 230; 129; 175; 34]%N) 8 10 false; mkTok 44 (string_of_bytes [47; 47; 9; 116]%N) 9 4 true; mkTok 3 "}" 10 4 false; mkTok 35 "packet" 10 6 false; mkTok 42 "lengthOf" 10 13 false; mkTok 2 "{" 10 22 false; mkTok 44 "// c" 11 0 true; mkTok 44 "//x" 12 0 true; mkTok 3 "}" 13 0 false; mkTok 37 "MetaData" 13 2 false; mkTok 42 "body" 13 11 false; mkTok 2 "{" 14 0 false; mkTok 42 "A" 15 4 false; mkTok 42 "len" 15 6 false; mkTok 44 "// packet A { u8 x, }" 15 10 true; mkTok 43 (string_of_bytes [96; 230; 182; 136; 230; 129; 175; 231; 177; 187; 229; 158; 139; 96]%N) 16 0 false; mkTok 40 "," 16 7 false; mkTok 3 "}" 16 8 false; mkTok 35 "packet" 17 0 false; mkTok 42 "o" 18 4 false; mkTok 2 "{" 18 5 false; mkTok 32 "@rightPad" 19 0 false; mkTok 44 "//x" 19 10 true; mkTok 8 "(" 20 0 false; mkTok 33 "'\x00'" 21 0 false; mkTok 6 ")" 21 7 false; mkTok 42 "int" 21 9 false; mkTok 44 "// `tick` ""quote"" 'q'" 22 0 true; mkTok 44 "// packet A { u8 x, }" 23 0 true; mkTok 42 "roots" 24 0 false; mkTok 40 "," 24 6 false; mkTok 36 "repeat" 24 8 false; mkTok 42 "u8x" 25 4 false; mkTok 43 (string_of_bytes [96; 116; 97; 98; 9; 104; 101; 114; 101; 96]%N) 26 0 false; mkTok 40 "," 26 11 false; mkTok 26 "i32" 27 0 false; mkTok 42 "x_y_z" 27 4 false; mkTok 7 "@lengthOf(" 27 10 false; mkTok 42 "Logon" 27 21 false; mkTok 6 ")" 28 0 false; mkTok 43 (string_of_bytes [96; 108; 105; 110; 101; 49; 10; 108; 105; 110; 101; 50; 96]%N) 28 2 false; mkTok 40 "," 29 6 false; mkTok 42 "_x" 30 4 false; mkTok 42 "Z9_" 31 0 false; mkTok 40 "," 31 4 false; mkTok 7 "@lengthOf(" 31 6 false; mkTok 42 "zchar" 32 0 false; mkTok 6 ")" 32 6 false; mkTok 26 "i32" 32 9 false; mkTok 42 "msg_type" 32 13 false; mkTok 43 "`doc`" 32 22 false; mkTok 40 "," 33 0 false; mkTok 32 "@rightPad" 33 2 false; mkTok 8 "(" 33 12 false; mkTok 33 "' '" 33 14 false; mkTok 6 ")" 33 18 false; mkTok 24 "i8" 33 20 false; mkTok 42 "options1" 33 23 false; mkTok 44 "//" 34 4 true; mkTok 40 "," 35 4 false; mkTok 7 "@lengthOf(" 36 0 false; mkTok 42 "packetx" 36 10 false; mkTok 6 ")" 36 17 false; mkTok 42 "charz" 36 19 false; mkTok 7 "@lengthOf(" 37 0 false; mkTok 44 "// packet A { u8 x, }" 38 0 true; mkTok 44 "// trailing space " 39 0 true; mkTok 42 "o" 40 0 false; mkTok 6 ")" 41 4 false; mkTok 40 "," 41 6 false; mkTok 32 "@rightPad" 41 8 false; mkTok 8 "(" 41 18 false; mkTok 33 "' '" 41 20 false; mkTok 6 ")" 41 24 false; mkTok 38 "match" 41 26 false; mkTok 44 "/// triple" 41 32 true; mkTok 42 "packetx" 42 0 false; mkTok 17 "as" 42 8 false; mkTok 42 "leftPad" 42 11 false; mkTok 2 "{" 42 18 false; mkTok 18 "[" 43 4 false; mkTok 31 """{,}""" 43 6 false; mkTok 40 "," 43 13 false; mkTok 31 (string_of_bytes [34; 240; 159; 152; 128; 34]%N) 44 0 false; mkTok 13 "]" 45 4 false; mkTok 39 ":" 45 5 false; mkTok 42 "charz" 46 4 false; mkTok 40 "," 46 10 false; mkTok 3 "}" 47 4 false; mkTok 40 "," 47 6 false; mkTok 3 "}" 47 8 false; mkTok 0 "<EOF>" 48 0 false] (mkPacket (mkPtok 1 "options" 1 0 0) (Some (mkPtok 3 "}" 47 8 109)) [(DOption (mkOptionDef (mkSpan (mkPtok 1 "options" 1 0 0) (mkPtok 3 "}" 10 4 21)) (mkPtok 1 "options" 1 0 0) (mkPtok 2 "{" 1 8 1) [(mkOptionDecl (mkSpan (mkPtok 42 "msg_type" 1 10 2) (mkPtok 41 ";" 3 4 5)) (mkPtok 42 "msg_type" 1 10 2) (mkPtok 4 "=" 2 0 3) (VDigits (mkSpan (mkPtok 30 "65535" 2 1 4) (mkPtok 30 "65535" 2 1 4)) (mkPtok 30 "65535" 2 1 4)) (Some (mkPtok 41 ";" 3 4 5))); (mkOptionDecl (mkSpan (mkPtok 42 "a1" 3 6 6) (mkPtok 41 ";" 4 0 9)) (mkPtok 42 "a1" 3 6 6) (mkPtok 4 "=" 3 9 7) (VString (mkSpan (mkPtok 31 (string_of_bytes [34; 240; 159; 152; 128; 34]%N) 3 11 8) (mkPtok 31 (string_of_bytes [34; 240; 159; 152; 128; 34]%N) 3 11 8)) (mkPtok 31 (string_of_bytes [34; 240; 159; 152; 128; 34]%N) 3 11 8)) (Some (mkPtok 41 ";" 4 0 9))); (mkOptionDecl (mkSpan (mkPtok 42 "Foo" 4 2 10) (mkPtok 31 (string_of_bytes [34; 92; 195; 169; 34]%N) 5 3 12)) (mkPtok 42 "Foo" 4 2 10) (mkPtok 4 "=" 5 0 11) (VString (mkSpan (mkPtok 31 (string_of_bytes [34; 92; 195; 169; 34]%N) 5 3 12) (mkPtok 31 (string_of_bytes [34; 92; 195; 169; 34]%N) 5 3 12)) (mkPtok 31 (string_of_bytes [34; 92; 195; 169; 34]%N) 5 3 12)) None); (mkOptionDecl (mkSpan (mkPtok 42 "matchKey" 5 7 13) (mkPtok 41 ";" 8 0 16)) (mkPtok 42 "matchKey" 5 7 13) (mkPtok 4 "=" 6 0 14) (VPaddingChar (mkSpan (mkPtok 33 "'0'" 7 0 15) (mkPtok 33 "'0'" 7 0 15)) (mkPtok 33 "'0'" 7 0 15)) (Some (mkPtok 41 ";" 8 0 16))); (mkOptionDecl (mkSpan (mkPtok 42 "chars" 8 2 17) (mkPtok 31 (string_of_bytes [34; 230; 182; 136; 230; 129; 175; 34]%N) 8 10 19)) (mkPtok 42 "chars" 8 2 17) (mkPtok 4 "=" 8 8 18) (VString (mkSpan (mkPtok 31 (string_of_bytes [34; 230; 182; 136; 230; 129; 175; 34]%N) 8 10 19) (mkPtok 31 (string_of_bytes [34; 230; 182; 136; 230; 129; 175; 34]%N) 8 10 19)) (mkPtok 31 (string_of_bytes [34; 230; 182; 136; 230; 129; 175; 34]%N) 8 10 19)) None)] (mkPtok 3 "}" 10 4 21))); (DPacket (mkPacketDef (mkSpan (mkPtok 35 "packet" 10 6 22) (mkPtok 3 "}" 13 0 27)) None (mkPtok 35 "packet" 10 6 22) (mkPtok 42 "lengthOf" 10 13 23) (mkPtok 2 "{" 10 22 24) [] (mkPtok 3 "}" 13 0 27))); (DMeta (mkMetaDef (mkSpan (mkPtok 37 "MetaData" 13 2 28) (mkPtok 3 "}" 16 8 36)) (mkPtok 37 "MetaData" 13 2 28) (mkPtok 42 "body" 13 11 29) (mkPtok 2 "{" 14 0 30) [(MIRef (mkRefMetaDecl (mkSpan (mkPtok 42 "A" 15 4 31) (mkPtok 40 "," 16 7 35)) (mkPtok 42 "A" 15 4 31) (mkPtok 42 "len" 15 6 32) (Some (mkPtok 43 (string_of_bytes [96; 230; 182; 136; 230; 129; 175; 231; 177; 187; 229; 158; 139; 96]%N) 16 0 34)) (mkPtok 40 "," 16 7 35)))] (mkPtok 3 "}" 16 8 36))); (DPacket (mkPacketDef (mkSpan (mkPtok 35 "packet" 17 0 37) (mkPtok 3 "}" 47 8 109)) None (mkPtok 35 "packet" 17 0 37) (mkPtok 42 "o" 18 4 38) (mkPtok 2 "{" 18 5 39) [(mkFieldWithAttr (mkSpan (mkPtok 32 "@rightPad" 19 0 40) (mkPtok 40 "," 24 6 49)) [(FAPadding (mkSpan (mkPtok 32 "@rightPad" 19 0 40) (mkPtok 6 ")" 21 7 44)) (mkPaddingAttr (mkSpan (mkPtok 32 "@rightPad" 19 0 40) (mkPtok 6 ")" 21 7 44)) (mkPtok 32 "@rightPad" 19 0 40) (mkPtok 8 "(" 20 0 42) (Some (mkPtok 33 "'\x00'" 21 0 43)) (mkPtok 6 ")" 21 7 44)))] (ObjectField (mkSpan (mkPtok 42 "int" 21 9 45) (mkPtok 40 "," 24 6 49)) None (mkPtok 42 "int" 21 9 45) (Some (mkPtok 42 "roots" 24 0 48)) None (mkPtok 40 "," 24 6 49))); (mkFieldWithAttr (mkSpan (mkPtok 36 "repeat" 24 8 50) (mkPtok 40 "," 26 11 53)) [] (ObjectField (mkSpan (mkPtok 36 "repeat" 24 8 50) (mkPtok 40 "," 26 11 53)) (Some (mkPtok 36 "repeat" 24 8 50)) (mkPtok 42 "u8x" 25 4 51) None (Some (mkPtok 43 (string_of_bytes [96; 116; 97; 98; 9; 104; 101; 114; 101; 96]%N) 26 0 52)) (mkPtok 40 "," 26 11 53))); (mkFieldWithAttr (mkSpan (mkPtok 26 "i32" 27 0 54) (mkPtok 40 "," 29 6 60)) [] (LengthField (mkSpan (mkPtok 26 "i32" 27 0 54) (mkPtok 40 "," 29 6 60)) (mkLengthFieldDecl (mkSpan (mkPtok 26 "i32" 27 0 54) (mkPtok 40 "," 29 6 60)) (Some (TyBasic (mkSpan (mkPtok 26 "i32" 27 0 54) (mkPtok 26 "i32" 27 0 54)) (mkBasicType (mkSpan (mkPtok 26 "i32" 27 0 54) (mkPtok 26 "i32" 27 0 54)) (mkPtok 26 "i32" 27 0 54)))) (mkPtok 42 "x_y_z" 27 4 55) (mkLengthOf (mkSpan (mkPtok 7 "@lengthOf(" 27 10 56) (mkPtok 6 ")" 28 0 58)) (mkPtok 7 "@lengthOf(" 27 10 56) (mkPtok 42 "Logon" 27 21 57) (mkPtok 6 ")" 28 0 58)) (Some (mkPtok 43 (string_of_bytes [96; 108; 105; 110; 101; 49; 10; 108; 105; 110; 101; 50; 96]%N) 28 2 59)) (mkPtok 40 "," 29 6 60)))); (mkFieldWithAttr (mkSpan (mkPtok 42 "_x" 30 4 61) (mkPtok 40 "," 31 4 63)) [] (ObjectField (mkSpan (mkPtok 42 "_x" 30 4 61) (mkPtok 40 "," 31 4 63)) None (mkPtok 42 "_x" 30 4 61) (Some (mkPtok 42 "Z9_" 31 0 62)) None (mkPtok 40 "," 31 4 63))); (mkFieldWithAttr (mkSpan (mkPtok 7 "@lengthOf(" 31 6 64) (mkPtok 40 "," 33 0 70)) [(FALengthOf (mkSpan (mkPtok 7 "@lengthOf(" 31 6 64) (mkPtok 6 ")" 32 6 66)) (mkLengthOf (mkSpan (mkPtok 7 "@lengthOf(" 31 6 64) (mkPtok 6 ")" 32 6 66)) (mkPtok 7 "@lengthOf(" 31 6 64) (mkPtok 42 "zchar" 32 0 65) (mkPtok 6 ")" 32 6 66)))] (MetaField (mkSpan (mkPtok 26 "i32" 32 9 67) (mkPtok 40 "," 33 0 70)) None (mkMetaDecl (mkSpan (mkPtok 26 "i32" 32 9 67) (mkPtok 40 "," 33 0 70)) (TyBasic (mkSpan (mkPtok 26 "i32" 32 9 67) (mkPtok 26 "i32" 32 9 67)) (mkBasicType (mkSpan (mkPtok 26 "i32" 32 9 67) (mkPtok 26 "i32" 32 9 67)) (mkPtok 26 "i32" 32 9 67))) (mkPtok 42 "msg_type" 32 13 68) (Some (mkPtok 43 "`doc`" 32 22 69)) (mkPtok 40 "," 33 0 70)))); (mkFieldWithAttr (mkSpan (mkPtok 32 "@rightPad" 33 2 71) (mkPtok 40 "," 35 4 78)) [(FAPadding (mkSpan (mkPtok 32 "@rightPad" 33 2 71) (mkPtok 6 ")" 33 18 74)) (mkPaddingAttr (mkSpan (mkPtok 32 "@rightPad" 33 2 71) (mkPtok 6 ")" 33 18 74)) (mkPtok 32 "@rightPad" 33 2 71) (mkPtok 8 "(" 33 12 72) (Some (mkPtok 33 "' '" 33 14 73)) (mkPtok 6 ")" 33 18 74)))] (MetaField (mkSpan (mkPtok 24 "i8" 33 20 75) (mkPtok 40 "," 35 4 78)) None (mkMetaDecl (mkSpan (mkPtok 24 "i8" 33 20 75) (mkPtok 40 "," 35 4 78)) (TyBasic (mkSpan (mkPtok 24 "i8" 33 20 75) (mkPtok 24 "i8" 33 20 75)) (mkBasicType (mkSpan (mkPtok 24 "i8" 33 20 75) (mkPtok 24 "i8" 33 20 75)) (mkPtok 24 "i8" 33 20 75))) (mkPtok 42 "options1" 33 23 76) None (mkPtok 40 "," 35 4 78)))); (mkFieldWithAttr (mkSpan (mkPtok 7 "@lengthOf(" 36 0 79) (mkPtok 40 "," 41 6 88)) [(FALengthOf (mkSpan (mkPtok 7 "@lengthOf(" 36 0 79) (mkPtok 6 ")" 36 17 81)) (mkLengthOf (mkSpan (mkPtok 7 "@lengthOf(" 36 0 79) (mkPtok 6 ")" 36 17 81)) (mkPtok 7 "@lengthOf(" 36 0 79) (mkPtok 42 "packetx" 36 10 80) (mkPtok 6 ")" 36 17 81)))] (LengthField (mkSpan (mkPtok 42 "charz" 36 19 82) (mkPtok 40 "," 41 6 88)) (mkLengthFieldDecl (mkSpan (mkPtok 42 "charz" 36 19 82) (mkPtok 40 "," 41 6 88)) None (mkPtok 42 "charz" 36 19 82) (mkLengthOf (mkSpan (mkPtok 7 "@lengthOf(" 37 0 83) (mkPtok 6 ")" 41 4 87)) (mkPtok 7 "@lengthOf(" 37 0 83) (mkPtok 42 "o" 40 0 86) (mkPtok 6 ")" 41 4 87)) None (mkPtok 40 "," 41 6 88)))); (mkFieldWithAttr (mkSpan (mkPtok 32 "@rightPad" 41 8 89) (mkPtok 40 "," 47 6 108)) [(FAPadding (mkSpan (mkPtok 32 "@rightPad" 41 8 89) (mkPtok 6 ")" 41 24 92)) (mkPaddingAttr (mkSpan (mkPtok 32 "@rightPad" 41 8 89) (mkPtok 6 ")" 41 24 92)) (mkPtok 32 "@rightPad" 41 8 89) (mkPtok 8 "(" 41 18 90) (Some (mkPtok 33 "' '" 41 20 91)) (mkPtok 6 ")" 41 24 92)))] (MatchField (mkSpan (mkPtok 38 "match" 41 26 93) (mkPtok 40 "," 47 6 108)) (mkMatchFieldDecl (mkSpan (mkPtok 38 "match" 41 26 93) (mkPtok 3 "}" 47 4 107)) (mkPtok 38 "match" 41 26 93) (mkPtok 42 "packetx" 42 0 95) (mkPtok 17 "as" 42 8 96) (mkPtok 42 "leftPad" 42 11 97) (mkPtok 2 "{" 42 18 98) [(mkMatchPair (mkSpan (mkPtok 18 "[" 43 4 99) (mkPtok 40 "," 46 10 106)) (MKList (mkKeyList (mkSpan (mkPtok 18 "[" 43 4 99) (mkPtok 13 "]" 45 4 103)) (mkPtok 18 "[" 43 4 99) (mkPtok 31 """{,}""" 43 6 100) [((mkPtok 40 "," 43 13 101), (mkPtok 31 (string_of_bytes [34; 240; 159; 152; 128; 34]%N) 44 0 102))] (mkPtok 13 "]" 45 4 103))) (mkPtok 39 ":" 45 5 104) (mkPtok 42 "charz" 46 4 105) (Some (mkPtok 40 "," 46 10 106)))] (mkPtok 3 "}" 47 4 107)) (mkPtok 40 "," 47 6 108)))] (mkPtok 3 "}" 47 8 109)))])).
-Eval vm_compute in ("<<<M766>>>" ++ check (runes_of_ascii "packet// `tick` ""quote"" 'q'
-A{ match packetx as As {	007 :body , [255
-    ,
-""\" ++ [233]%N ++ runes_of_ascii """,
-65535 ,""a	b"" ]: float[255 , ""a\""b"" ]
-:
-i64_  } , @calculatedFrom( ""\" ++ [233]%N ++ runes_of_ascii """ ) @calculatedFrom(
-""CRC32""
-)//
-Z9_@calculatedFrom( ""it's"" ) `
-` ,} MetaData calculatedFrom
-{
-    i16 len // c
-, zchar[
-    42
-    ]
-    A
-`{ , }`
-,string tag `doc` ,float
-    matchKey,
-char[ 7
-    ] len `
-` ,
-// `tick` ""quote"" 'q'
+// c
 //
-}root packet int {
+char[ 3
+] leftPad  @lengthOf(
+    msg_type ),	@tag( 00) MetaDataX
+//
+// `tick` ""quote"" 'q'
+packetx `say ""hi""` ,
+    match u as zchar
+    // " ++ [128512]%N ++ runes_of_ascii " emoji
+    {
+    [ ""a\""b"" , ""{,}"" ,
+7]  :As , } , // " ++ [27880; 37322]%N ++ runes_of_ascii "
+char[
+255] a1 @calculatedFrom( ""CRC32"" )
+    `two words` ,zchar[ 0 ] As `a\`,
 @lengthOf(
-int)  i8  u @lengthOf(len ),
-} options { }
-")).
-Eval vm_compute in ("<<<M798>>>" ++ check (runes_of_ascii "MetaData	metadata{/// triple
-packetx Packet ,
-    // trailing space 
-    chars body , char[]MetaDataX ,u32
-    stringy ,float32
-packetx `" ++ [28040; 24687; 31867; 22411]%N ++ runes_of_ascii "` , }options {
-    lengthOf
-    = uint16 ; pack
-='0'
-; charz //x
-=
-char[]
-    ;	u // trailing space 
-= f64 ;
-    options1  = float32
-    ; }root // packet A { u8 x, }
-packet charz //x
-{ repeat
-uint32 float, stringy , // packet A { u8 x, }
-uint8x  {chars
-    { match Foo as u8x {""a\\"":
-int // a // b
-,
-    }
-    , string
-Z9_  @calculatedFrom(
-    // packet A { u8 x, }
-    """ ++ [28040; 24687]%N ++ runes_of_ascii """ ) `// not a comment` ,
-match trueish
-as MetaDataX {
-[ 0  ,  ""CRC32"" ,007
-    // a // b
-    ,007	, 0123456789 ] // packet A { u8 x, }
-: Foo
-    255 : falsey
-    , 007 :
-    _x 255 :
-    Header
-    007 :lengthOf""{,}""  : Header , } ,
-}
-, zchar[ 65535  ] leftPad `line1
-line2` , char[ 007
-] Z9_  @lengthOf(
-u8x  ) ,
-} , }
-")).
-Eval vm_compute in ("<<<M830>>>" ++ check (runes_of_ascii "options {repeatCount
-= int64 u8x =
-//	t
+    T)
+Logon
+    // 50% %s
+    len ,repeat _x a1
+    /// triple
+    ,@tag(
+0 )
+calculatedFrom Packet , }
+MetaData//	t
+len { x_y_z matchKey	, calculatedFrom options1`a\`
+    , /// triple
+}	packet
+As {
+repeat msg_type // trailing space 
+rootA
+    ``
+, repeat
+_x leftPad, tag
+, char[] _x @calculatedFrom(""// no comment"") , match x_y_z as
+Foo
+    { [ //	t
+""x y"" // packet A { u8 x, }
+, //	t
+1 ]	: float , } , // a // b
+uint16 leftPad`doc`
+,//x
+@tag(7
+)
+    trueish , asx ,@lengthOf( //
+repeatCount ) char[ 0
+]A@lengthOf( Pad )`100% of %d`, @rightPad
+( ' '// @lengthOf(
+) u16 body , }
+packet  x { match calculatedFrom  as
+    options1{ """ ++ [128512]%N ++ runes_of_ascii """: chars ,
 // packet A { u8 x, }
-' '
-;
-}
-// " ++ [27880; 37322]%N ++ runes_of_ascii "
+/// triple
+} , }")).
+Eval vm_compute in ("<<<M1534>>>" ++ check (runes_of_ascii "root packet Packet { } options { //
+f32a=""abc""; }
+    packet
+    metadata { match metadata as matchKey
+    { 0 : o
+    ""x y"":	T
+[
+""" ++ [28040; 24687]%N ++ runes_of_ascii """ ] :
+    float// a // b
+,  } ,
+    }
 ")).
-Eval vm_compute in ("<<<M862>>>" ++ check (runes_of_ascii "
-options  {u =	uint16
-i8i8 =i8 ; string_ = false ;asx= true lengthOf
+Eval vm_compute in ("<<<M1566>>>" ++ check (runes_of_ascii "options	{ _x = ""\" ++ [233]%N ++ runes_of_ascii """
+; pack =""abc""
+string_ =char[]
+    }
+    options{
+    As
 =
-0123456789
-    ;
+'0'  ;}packet
+    leftPad
+    { @tag(00 )repeat uint64 x //x
+`line1
+line2` ,// packet A { u8 x, }
 }
 ")).
-Eval vm_compute in ("<<<M894>>>" ++ check (runes_of_ascii "
+Eval vm_compute in ("<<<M1598>>>" ++ check (runes_of_ascii "
+ //	t")).
+Eval vm_compute in ("<<<M1630>>>" ++ check (runes_of_ascii "options {
+Logon
+=// " ++ [27880; 37322]%N ++ runes_of_ascii "
+007 x
+= '\x00'lengthOf =
+    // packet A { u8 x, }
+    true ; /// triple
+Logon = ""it's"" ; } packet
+    u {// trailing space 
+} packet _x
+{
+    match MetaDataX
+as// `tick` ""quote"" 'q'
+i8i8{
+""`tick`""
+: stringy ,[ 255 ,
+    42 ,
+    ""`tick`"" , ""1"",// `tick` ""quote"" 'q'
+007 ]
+: tag ,
+""""
+    :Z9_  } , }
+")).
+Eval vm_compute in ("<<<T1630>>>" ++ terms [mkTok 1 "options" 1 0 false; mkTok 2 "{" 1 8 false; mkTok 42 "Logon" 2 0 false; mkTok 4 "=" 3 0 false; mkTok 44 (string_of_bytes [47; 47; 32; 230; 179; 168; 233; 135; 138]%N) 3 1 true; mkTok 30 "007" 4 0 false; mkTok 42 "x" 4 4 false; mkTok 4 "=" 5 0 false; mkTok 33 "'\x00'" 5 2 false; mkTok 42 "lengthOf" 5 8 false; mkTok 4 "=" 5 17 false; mkTok 44 "// packet A { u8 x, }" 6 4 true; mkTok 10 "true" 7 4 false; mkTok 41 ";" 7 9 false; mkTok 44 "/// triple" 7 11 true; mkTok 42 "Logon" 8 0 false; mkTok 4 "=" 8 6 false; mkTok 31 """it's""" 8 8 false; mkTok 41 ";" 8 15 false; mkTok 3 "}" 8 17 false; mkTok 35 "packet" 8 19 false; mkTok 42 "u" 9 4 false; mkTok 2 "{" 9 6 false; mkTok 44 "// trailing space " 9 7 true; mkTok 3 "}" 10 0 false; mkTok 35 "packet" 10 2 false; mkTok 42 "_x" 10 9 false; mkTok 2 "{" 11 0 false; mkTok 38 "match" 12 4 false; mkTok 42 "MetaDataX" 12 10 false; mkTok 17 "as" 13 0 false; mkTok 44 "// `tick` ""quote"" 'q'" 13 2 true; mkTok 42 "i8i8" 14 0 false; mkTok 2 "{" 14 4 false; mkTok 31 """`tick`""" 15 0 false; mkTok 39 ":" 16 0 false; mkTok 42 "stringy" 16 2 false; mkTok 40 "," 16 10 false; mkTok 18 "[" 16 11 false; mkTok 30 "255" 16 13 false; mkTok 40 "," 16 17 false; mkTok 30 "42" 17 4 false; mkTok 40 "," 17 7 false; mkTok 31 """`tick`""" 18 4 false; mkTok 40 "," 18 13 false; mkTok 31 """1""" 18 15 false; mkTok 40 "," 18 18 false; mkTok 44 "// `tick` ""quote"" 'q'" 18 19 true; mkTok 30 "007" 19 0 false; mkTok 13 "]" 19 4 false; mkTok 39 ":" 20 0 false; mkTok 42 "tag" 20 2 false; mkTok 40 "," 20 6 false; mkTok 31 """""" 21 0 false; mkTok 39 ":" 22 4 false; mkTok 42 "Z9_" 22 5 false; mkTok 3 "}" 22 10 false; mkTok 40 "," 22 12 false; mkTok 3 "}" 22 14 false; mkTok 0 "<EOF>" 23 0 false] (mkPacket (mkPtok 1 "options" 1 0 0) (Some (mkPtok 3 "}" 22 14 58)) [(DOption (mkOptionDef (mkSpan (mkPtok 1 "options" 1 0 0) (mkPtok 3 "}" 8 17 19)) (mkPtok 1 "options" 1 0 0) (mkPtok 2 "{" 1 8 1) [(mkOptionDecl (mkSpan (mkPtok 42 "Logon" 2 0 2) (mkPtok 30 "007" 4 0 5)) (mkPtok 42 "Logon" 2 0 2) (mkPtok 4 "=" 3 0 3) (VDigits (mkSpan (mkPtok 30 "007" 4 0 5) (mkPtok 30 "007" 4 0 5)) (mkPtok 30 "007" 4 0 5)) None); (mkOptionDecl (mkSpan (mkPtok 42 "x" 4 4 6) (mkPtok 33 "'\x00'" 5 2 8)) (mkPtok 42 "x" 4 4 6) (mkPtok 4 "=" 5 0 7) (VPaddingChar (mkSpan (mkPtok 33 "'\x00'" 5 2 8) (mkPtok 33 "'\x00'" 5 2 8)) (mkPtok 33 "'\x00'" 5 2 8)) None); (mkOptionDecl (mkSpan (mkPtok 42 "lengthOf" 5 8 9) (mkPtok 41 ";" 7 9 13)) (mkPtok 42 "lengthOf" 5 8 9) (mkPtok 4 "=" 5 17 10) (VTrue (mkSpan (mkPtok 10 "true" 7 4 12) (mkPtok 10 "true" 7 4 12)) (mkPtok 10 "true" 7 4 12)) (Some (mkPtok 41 ";" 7 9 13))); (mkOptionDecl (mkSpan (mkPtok 42 "Logon" 8 0 15) (mkPtok 41 ";" 8 15 18)) (mkPtok 42 "Logon" 8 0 15) (mkPtok 4 "=" 8 6 16) (VString (mkSpan (mkPtok 31 """it's""" 8 8 17) (mkPtok 31 """it's""" 8 8 17)) (mkPtok 31 """it's""" 8 8 17)) (Some (mkPtok 41 ";" 8 15 18)))] (mkPtok 3 "}" 8 17 19))); (DPacket (mkPacketDef (mkSpan (mkPtok 35 "packet" 8 19 20) (mkPtok 3 "}" 10 0 24)) None (mkPtok 35 "packet" 8 19 20) (mkPtok 42 "u" 9 4 21) (mkPtok 2 "{" 9 6 22) [] (mkPtok 3 "}" 10 0 24))); (DPacket (mkPacketDef (mkSpan (mkPtok 35 "packet" 10 2 25) (mkPtok 3 "}" 22 14 58)) None (mkPtok 35 "packet" 10 2 25) (mkPtok 42 "_x" 10 9 26) (mkPtok 2 "{" 11 0 27) [(mkFieldWithAttr (mkSpan (mkPtok 38 "match" 12 4 28) (mkPtok 40 "," 22 12 57)) [] (MatchField (mkSpan (mkPtok 38 "match" 12 4 28) (mkPtok 40 "," 22 12 57)) (mkMatchFieldDecl (mkSpan (mkPtok 38 "match" 12 4 28) (mkPtok 3 "}" 22 10 56)) (mkPtok 38 "match" 12 4 28) (mkPtok 42 "MetaDataX" 12 10 29) (mkPtok 17 "as" 13 0 30) (mkPtok 42 "i8i8" 14 0 32) (mkPtok 2 "{" 14 4 33) [(mkMatchPair (mkSpan (mkPtok 31 """`tick`""" 15 0 34) (mkPtok 40 "," 16 10 37)) (MKString (mkPtok 31 """`tick`""" 15 0 34)) (mkPtok 39 ":" 16 0 35) (mkPtok 42 "stringy" 16 2 36) (Some (mkPtok 40 "," 16 10 37))); (mkMatchPair (mkSpan (mkPtok 18 "[" 16 11 38) (mkPtok 40 "," 20 6 52)) (MKList (mkKeyList (mkSpan (mkPtok 18 "[" 16 11 38) (mkPtok 13 "]" 19 4 49)) (mkPtok 18 "[" 16 11 38) (mkPtok 30 "255" 16 13 39) [((mkPtok 40 "," 16 17 40), (mkPtok 30 "42" 17 4 41)); ((mkPtok 40 "," 17 7 42), (mkPtok 31 """`tick`""" 18 4 43)); ((mkPtok 40 "," 18 13 44), (mkPtok 31 """1""" 18 15 45)); ((mkPtok 40 "," 18 18 46), (mkPtok 30 "007" 19 0 48))] (mkPtok 13 "]" 19 4 49))) (mkPtok 39 ":" 20 0 50) (mkPtok 42 "tag" 20 2 51) (Some (mkPtok 40 "," 20 6 52))); (mkMatchPair (mkSpan (mkPtok 31 """""" 21 0 53) (mkPtok 42 "Z9_" 22 5 55)) (MKString (mkPtok 31 """""" 21 0 53)) (mkPtok 39 ":" 22 4 54) (mkPtok 42 "Z9_" 22 5 55) None)] (mkPtok 3 "}" 22 10 56)) (mkPtok 40 "," 22 12 57)))] (mkPtok 3 "}" 22 14 58)))])).
+Eval vm_compute in ("<<<M1662>>>" ++ check (runes_of_ascii "
+MetaData
+i64_
+    { uint64
+o
+`two words` , repeatCount
+falsey
+`a\` , chars As
+    ,} // @lengthOf(")).
+Eval vm_compute in ("<<<M1694>>>" ++ check (runes_of_ascii "packet// c
+options1	{  i32
+    repeatCount
+    @calculatedFrom( ""{,}"") // packet A { u8 x, }
+, }")).
+Eval vm_compute in ("<<<M1726>>>" ++ check (runes_of_ascii "MetaData packetx {
+char[ 10 ] Logon `doc` // packet A { u8 x, }
+,	}")).
+Eval vm_compute in ("<<<M1758>>>" ++ check (runes_of_ascii "  packet Header
+// packet A { u8 x, }
+// `tick` ""quote"" 'q'
+{ } // " ++ [27880; 37322]%N)).
+Eval vm_compute in ("<<<M1790>>>" ++ check (runes_of_ascii "
+root packet msg_type { @leftPad()zchar[ 3 ]
+o
+@lengthOf(
+chars ),@lengthOf( crc)
+repeat roots , @calculatedFrom(	""1""
+    )x_y_z	, @lengthOf( A)
+u64 BodyLength@calculatedFrom( ""1"" // @lengthOf(
+) ,
+//
+// a // b
+repeat i32 a1 `
+` ,
+    // " ++ [128512]%N ++ runes_of_ascii " emoji
+    @lengthOf(  x
+) match Pad	as len
+    {	[
+3,
+7 ]:falsey
+/// triple
+// `tick` ""quote"" 'q'
+, ""\n"" : x_y_z
+/// triple
+// " ++ [128512]%N ++ runes_of_ascii " emoji
+,	} , @leftPad ( ' '  ) float64 As ,
+match  pack as
+    crc {
+    ""\" ++ [233]%N ++ runes_of_ascii """ : o  ,	} , @tag( 4294967296 )
+    @calculatedFrom( ""it's""
+    )
+    match As as asx	{ ""it's"" : i64_ ,[ 255,	""// no comment"" //
+, ""a	b"" ,	""`tick`"" ] : A
+, } ,zchar[
+    0123456789 ] // a // b
+float , }
+")).
+Eval vm_compute in ("<<<M1822>>>" ++ check (runes_of_ascii "MetaData len
+{	} packet repeatCount {} MetaData/// triple
+chars{ zchar MetaDataX ,
+    // c
+    metadata body ,  o//
+o	, float crc, a1 o ,}")).
+Eval vm_compute in ("<<<M1854>>>" ++ check (runes_of_ascii "// `tick` ""quote"" 'q'
+packet falsey{
+    @tag( 00 )
+    // @lengthOf(
+    f64 falsey @lengthOf(
+// @lengthOf(
+// `tick` ""quote"" 'q'
+MetaDataX ) `" ++ [233]%N ++ runes_of_ascii "`, }
+    // trailing space 
+    packet leftPad
+{
+    uint8	_x `// not a comment`
+    , @tag( 0123456789) Logon { match f32a as
+    Pad // trailing space 
+{ [ ""\n"" ]:
+    msg_type ,
+""" ++ [28040; 24687]%N ++ runes_of_ascii """ :  charz
+} ,repeat
+int8 Packet ,char[]  stringy
+    // 50% %s
+    ,
+    // 50% %s
+    }  ,pack @calculatedFrom( ""\n"" )`100% of %d`
+,u16  trueish
+@calculatedFrom(
+""a\""b"") , }
+")).
+Eval vm_compute in ("<<<T1854>>>" ++ terms [mkTok 44 "// `tick` ""quote"" 'q'" 1 0 true; mkTok 35 "packet" 2 0 false; mkTok 42 "falsey" 2 7 false; mkTok 2 "{" 2 13 false; mkTok 9 "@tag(" 3 4 false; mkTok 30 "00" 3 10 false; mkTok 6 ")" 3 13 false; mkTok 44 "// @lengthOf(" 4 4 true; mkTok 29 "f64" 5 4 false; mkTok 42 "falsey" 5 8 false; mkTok 7 "@lengthOf(" 5 15 false; mkTok 44 "// @lengthOf(" 6 0 true; mkTok 44 "// `tick` ""quote"" 'q'" 7 0 true; mkTok 42 "MetaDataX" 8 0 false; mkTok 6 ")" 8 10 false; mkTok 43 (string_of_bytes [96; 195; 169; 96]%N) 8 12 false; mkTok 40 "," 8 15 false; mkTok 3 "}" 8 17 false; mkTok 44 "// trailing space " 9 4 true; mkTok 35 "packet" 10 4 false; mkTok 42 "leftPad" 10 11 false; mkTok 2 "{" 11 0 false; mkTok 20 "uint8" 12 4 false; mkTok 42 "_x" 12 10 false; mkTok 43 "`// not a comment`" 12 13 false; mkTok 40 "," 13 4 false; mkTok 9 "@tag(" 13 6 false; mkTok 30 "0123456789" 13 12 false; mkTok 6 ")" 13 22 false; mkTok 42 "Logon" 13 24 false; mkTok 2 "{" 13 30 false; mkTok 38 "match" 13 32 false; mkTok 42 "f32a" 13 38 false; mkTok 17 "as" 13 43 false; mkTok 42 "Pad" 14 4 false; mkTok 44 "// trailing space " 14 8 true; mkTok 2 "{" 15 0 false; mkTok 18 "[" 15 2 false; mkTok 31 """\n""" 15 4 false; mkTok 13 "]" 15 9 false; mkTok 39 ":" 15 10 false; mkTok 42 "msg_type" 16 4 false; mkTok 40 "," 16 13 false; mkTok 31 (string_of_bytes [34; 230; 182; 136; 230; 129; 175; 34]%N) 17 0 false; mkTok 39 ":" 17 5 false; mkTok 42 "charz" 17 8 false; mkTok 3 "}" 18 0 false; mkTok 40 "," 18 2 false; mkTok 36 "repeat" 18 3 false; mkTok 24 "int8" 19 0 false; mkTok 42 "Packet" 19 5 false; mkTok 40 "," 19 12 false; mkTok 16 "char[]" 19 13 false; mkTok 42 "stringy" 19 21 false; mkTok 44 "// 50% %s" 20 4 true; mkTok 40 "," 21 4 false; mkTok 44 "// 50% %s" 22 4 true; mkTok 3 "}" 23 4 false; mkTok 40 "," 23 7 false; mkTok 42 "pack" 23 8 false; mkTok 5 "@calculatedFrom(" 23 13 false; mkTok 31 """\n""" 23 30 false; mkTok 6 ")" 23 35 false; mkTok 43 "`100% of %d`" 23 36 false; mkTok 40 "," 24 0 false; mkTok 21 "u16" 24 1 false; mkTok 42 "trueish" 24 6 false; mkTok 5 "@calculatedFrom(" 25 0 false; mkTok 31 """a\""b""" 26 0 false; mkTok 6 ")" 26 6 false; mkTok 40 "," 26 8 false; mkTok 3 "}" 26 10 false; mkTok 0 "<EOF>" 27 0 false] (mkPacket (mkPtok 35 "packet" 2 0 1) (Some (mkPtok 3 "}" 26 10 71)) [(DPacket (mkPacketDef (mkSpan (mkPtok 35 "packet" 2 0 1) (mkPtok 3 "}" 8 17 17)) None (mkPtok 35 "packet" 2 0 1) (mkPtok 42 "falsey" 2 7 2) (mkPtok 2 "{" 2 13 3) [(mkFieldWithAttr (mkSpan (mkPtok 9 "@tag(" 3 4 4) (mkPtok 40 "," 8 15 16)) [(FATag (mkSpan (mkPtok 9 "@tag(" 3 4 4) (mkPtok 6 ")" 3 13 6)) (mkTagAttr (mkSpan (mkPtok 9 "@tag(" 3 4 4) (mkPtok 6 ")" 3 13 6)) (mkPtok 9 "@tag(" 3 4 4) (mkPtok 30 "00" 3 10 5) (mkPtok 6 ")" 3 13 6)))] (LengthField (mkSpan (mkPtok 29 "f64" 5 4 8) (mkPtok 40 "," 8 15 16)) (mkLengthFieldDecl (mkSpan (mkPtok 29 "f64" 5 4 8) (mkPtok 40 "," 8 15 16)) (Some (TyBasic (mkSpan (mkPtok 29 "f64" 5 4 8) (mkPtok 29 "f64" 5 4 8)) (mkBasicType (mkSpan (mkPtok 29 "f64" 5 4 8) (mkPtok 29 "f64" 5 4 8)) (mkPtok 29 "f64" 5 4 8)))) (mkPtok 42 "falsey" 5 8 9) (mkLengthOf (mkSpan (mkPtok 7 "@lengthOf(" 5 15 10) (mkPtok 6 ")" 8 10 14)) (mkPtok 7 "@lengthOf(" 5 15 10) (mkPtok 42 "MetaDataX" 8 0 13) (mkPtok 6 ")" 8 10 14)) (Some (mkPtok 43 (string_of_bytes [96; 195; 169; 96]%N) 8 12 15)) (mkPtok 40 "," 8 15 16))))] (mkPtok 3 "}" 8 17 17))); (DPacket (mkPacketDef (mkSpan (mkPtok 35 "packet" 10 4 19) (mkPtok 3 "}" 26 10 71)) None (mkPtok 35 "packet" 10 4 19) (mkPtok 42 "leftPad" 10 11 20) (mkPtok 2 "{" 11 0 21) [(mkFieldWithAttr (mkSpan (mkPtok 20 "uint8" 12 4 22) (mkPtok 40 "," 13 4 25)) [] (MetaField (mkSpan (mkPtok 20 "uint8" 12 4 22) (mkPtok 40 "," 13 4 25)) None (mkMetaDecl (mkSpan (mkPtok 20 "uint8" 12 4 22) (mkPtok 40 "," 13 4 25)) (TyBasic (mkSpan (mkPtok 20 "uint8" 12 4 22) (mkPtok 20 "uint8" 12 4 22)) (mkBasicType (mkSpan (mkPtok 20 "uint8" 12 4 22) (mkPtok 20 "uint8" 12 4 22)) (mkPtok 20 "uint8" 12 4 22))) (mkPtok 42 "_x" 12 10 23) (Some (mkPtok 43 "`// not a comment`" 12 13 24)) (mkPtok 40 "," 13 4 25)))); (mkFieldWithAttr (mkSpan (mkPtok 9 "@tag(" 13 6 26) (mkPtok 40 "," 23 7 58)) [(FATag (mkSpan (mkPtok 9 "@tag(" 13 6 26) (mkPtok 6 ")" 13 22 28)) (mkTagAttr (mkSpan (mkPtok 9 "@tag(" 13 6 26) (mkPtok 6 ")" 13 22 28)) (mkPtok 9 "@tag(" 13 6 26) (mkPtok 30 "0123456789" 13 12 27) (mkPtok 6 ")" 13 22 28)))] (InerObjectField (mkSpan (mkPtok 42 "Logon" 13 24 29) (mkPtok 40 "," 23 7 58)) None (InerObjectDecl (mkSpan (mkPtok 42 "Logon" 13 24 29) (mkPtok 3 "}" 23 4 57)) (mkPtok 42 "Logon" 13 24 29) (mkPtok 2 "{" 13 30 30) [(MatchField (mkSpan (mkPtok 38 "match" 13 32 31) (mkPtok 40 "," 18 2 47)) (mkMatchFieldDecl (mkSpan (mkPtok 38 "match" 13 32 31) (mkPtok 3 "}" 18 0 46)) (mkPtok 38 "match" 13 32 31) (mkPtok 42 "f32a" 13 38 32) (mkPtok 17 "as" 13 43 33) (mkPtok 42 "Pad" 14 4 34) (mkPtok 2 "{" 15 0 36) [(mkMatchPair (mkSpan (mkPtok 18 "[" 15 2 37) (mkPtok 40 "," 16 13 42)) (MKList (mkKeyList (mkSpan (mkPtok 18 "[" 15 2 37) (mkPtok 13 "]" 15 9 39)) (mkPtok 18 "[" 15 2 37) (mkPtok 31 """\n""" 15 4 38) [] (mkPtok 13 "]" 15 9 39))) (mkPtok 39 ":" 15 10 40) (mkPtok 42 "msg_type" 16 4 41) (Some (mkPtok 40 "," 16 13 42))); (mkMatchPair (mkSpan (mkPtok 31 (string_of_bytes [34; 230; 182; 136; 230; 129; 175; 34]%N) 17 0 43) (mkPtok 42 "charz" 17 8 45)) (MKString (mkPtok 31 (string_of_bytes [34; 230; 182; 136; 230; 129; 175; 34]%N) 17 0 43)) (mkPtok 39 ":" 17 5 44) (mkPtok 42 "charz" 17 8 45) None)] (mkPtok 3 "}" 18 0 46)) (mkPtok 40 "," 18 2 47)); (MetaField (mkSpan (mkPtok 36 "repeat" 18 3 48) (mkPtok 40 "," 19 12 51)) (Some (mkPtok 36 "repeat" 18 3 48)) (mkMetaDecl (mkSpan (mkPtok 24 "int8" 19 0 49) (mkPtok 40 "," 19 12 51)) (TyBasic (mkSpan (mkPtok 24 "int8" 19 0 49) (mkPtok 24 "int8" 19 0 49)) (mkBasicType (mkSpan (mkPtok 24 "int8" 19 0 49) (mkPtok 24 "int8" 19 0 49)) (mkPtok 24 "int8" 19 0 49))) (mkPtok 42 "Packet" 19 5 50) None (mkPtok 40 "," 19 12 51))); (MetaField (mkSpan (mkPtok 16 "char[]" 19 13 52) (mkPtok 40 "," 21 4 55)) None (mkMetaDecl (mkSpan (mkPtok 16 "char[]" 19 13 52) (mkPtok 40 "," 21 4 55)) (TyDynamic (mkSpan (mkPtok 16 "char[]" 19 13 52) (mkPtok 16 "char[]" 19 13 52)) (mkDynamicString (mkSpan (mkPtok 16 "char[]" 19 13 52) (mkPtok 16 "char[]" 19 13 52)) (mkPtok 16 "char[]" 19 13 52))) (mkPtok 42 "stringy" 19 21 53) None (mkPtok 40 "," 21 4 55)))] (mkPtok 3 "}" 23 4 57)) (mkPtok 40 "," 23 7 58))); (mkFieldWithAttr (mkSpan (mkPtok 42 "pack" 23 8 59) (mkPtok 40 "," 24 0 64)) [] (CheckSumField (mkSpan (mkPtok 42 "pack" 23 8 59) (mkPtok 40 "," 24 0 64)) (mkChecksumFieldDecl (mkSpan (mkPtok 42 "pack" 23 8 59) (mkPtok 40 "," 24 0 64)) None (mkPtok 42 "pack" 23 8 59) (mkCalculatedFrom (mkSpan (mkPtok 5 "@calculatedFrom(" 23 13 60) (mkPtok 6 ")" 23 35 62)) (mkPtok 5 "@calculatedFrom(" 23 13 60) (mkPtok 31 """\n""" 23 30 61) (mkPtok 6 ")" 23 35 62)) (Some (mkPtok 43 "`100% of %d`" 23 36 63)) (mkPtok 40 "," 24 0 64)))); (mkFieldWithAttr (mkSpan (mkPtok 21 "u16" 24 1 65) (mkPtok 40 "," 26 8 70)) [] (CheckSumField (mkSpan (mkPtok 21 "u16" 24 1 65) (mkPtok 40 "," 26 8 70)) (mkChecksumFieldDecl (mkSpan (mkPtok 21 "u16" 24 1 65) (mkPtok 40 "," 26 8 70)) (Some (TyBasic (mkSpan (mkPtok 21 "u16" 24 1 65) (mkPtok 21 "u16" 24 1 65)) (mkBasicType (mkSpan (mkPtok 21 "u16" 24 1 65) (mkPtok 21 "u16" 24 1 65)) (mkPtok 21 "u16" 24 1 65)))) (mkPtok 42 "trueish" 24 6 66) (mkCalculatedFrom (mkSpan (mkPtok 5 "@calculatedFrom(" 25 0 67) (mkPtok 6 ")" 26 6 69)) (mkPtok 5 "@calculatedFrom(" 25 0 67) (mkPtok 31 """a\""b""" 26 0 68) (mkPtok 6 ")" 26 6 69)) None (mkPtok 40 "," 26 8 70))))] (mkPtok 3 "}" 26 10 71)))])).
+Eval vm_compute in ("<<<M1886>>>" ++ check (runes_of_ascii "packet
+// packet A { u8 x, }
+// packet A { u8 x, }
+falsey
+{  @tag(7) string Pad , // c
+i8 stringy
+// @lengthOf(
+// 50% %s
+@lengthOf(
+calculatedFrom) `crlf
+line` ,match x
+    as
+    //	t
+    x_y_z{ 1
+    :rootA
+    , } , @rightPad ('0' )i64_
+    @lengthOf(	roots ) `u8 x,` , metadata i8i8 ,@leftPad
+    ( ' '
+    //x
+    ) f64 string_`line1
+line2` , repeat MetaDataX , @rightPad ( '0' )
+zchar[
+7 ] charz@calculatedFrom(
+    """ ++ [233]%N ++ runes_of_ascii "t" ++ [233]%N ++ runes_of_ascii """)`crlf
+line` ,
+string_ {roots
+i8i8 `line1
+line2` , T // @lengthOf(
+{
+    char[]u128
+    `say ""hi""` , } ,
+    float trueish , zchar
+    , } ,
+} MetaData asx { string msg_type , i8 roots //	t
+`{ , }`
+,falsey string_ `two words` ,
+}packet
+calculatedFrom { uint32
+    x_y_z
+    /// triple
+    @calculatedFrom(	""a	b""
+) , @calculatedFrom( """ ++ [233]%N ++ runes_of_ascii "t" ++ [233]%N ++ runes_of_ascii """ )	u64 metadata
+, // `tick` ""quote"" 'q'
+int8 msg_type `
+`
+    ,roots {
+    // c
+    A , match
+    uint8x as repeatCount
+{
+007 : Z9_
+,
+""CRC32"" : MetaDataX ,4294967296 :	f32a ,
+}, match i64_ as rootA{
+65535 : uint8x  , } ,  string body
+    @lengthOf(Logon	) ,  }
+,
+    /// triple
+    i64
+chars @calculatedFrom(""" ++ [28040; 24687]%N ++ runes_of_ascii """ ) ,@rightPad (
+'\x00' )
+    char[
+255]
+u8x // a // b
+`say ""hi""`,msg_type @calculatedFrom( ""a	b"")  `crlf
+line` ,	} packet o { }")).
+Eval vm_compute in ("<<<M1918>>>" ++ check (runes_of_ascii "options { Z9_
+= """ ++ [128512]%N ++ runes_of_ascii """ leftPad = char[0123456789 ] ;
+    o=
+    ""1"" ; }
+    root//x
 packet
-    uint8x { @leftPad( '\x00' ) float32 x_y_z @lengthOf( x ) `a\` ,	int32
-Header,match
-    asx as
-    string_ {"""" :
-    lengthOf, 1 : uint8x , } , repeat /// triple
-a1 { repeat
-zchar[0	] Packet , // trailing space 
-char falsey@calculatedFrom( /// triple
-""1""), }
+    leftPad
+{ repeat u8 u128
+, } root packet asx
+{}  options{ stringy = zchar[
+    4294967296]
+; } // @lengthOf(
+packet
+    As{ }
+")).
+Eval vm_compute in ("<<<M1950>>>" ++ check (runes_of_ascii "packet crc {
+//	t
+// @lengthOf(
+@lengthOf(
+falsey) falsey {BodyLength @lengthOf(
+    trueish
+    ) , Packet {
+char[
+    255]	rootA`doc` , }	,repeat char[ 10 ] stringy  `// not a comment`  , } , }  packet roots { // @lengthOf(
+@tag( 7 ) char[ 0123456789 ]zchar	@lengthOf( float )
+,
+    float32 u8x
+    ,}
+MetaData options1 {
+u64 zchar ,
+packetx Pad, zchar[4294967296 ]
+    Logon
+, char
+    calculatedFrom `u8 x,`, } // trailing space ")).
+Eval vm_compute in ("<<<M1982>>>" ++ check (runes_of_ascii "MetaData T { zchar[ 1 ] A
 ,
     } // " ++ [128512]%N ++ runes_of_ascii " emoji")).
-Eval vm_compute in ("<<<M926>>>" ++ check (runes_of_ascii "options	{ T = // packet A { u8 x, }
-true;_x = false	; A
-= ""{,}"" ; leftPad=	zchar[ 0 ] ; trueish=
-1 ;//
-}")).
-Eval vm_compute in ("<<<M958>>>" ++ check (runes_of_ascii "packet leftPad{	char[]
-matchKey@lengthOf( MetaDataX ) , }
-options
-{
-}
-    packet
-    f32a {
-@lengthOf(
-int
-) @leftPad
-('\x00' )
-@calculatedFrom(
-""\" ++ [233]%N ++ runes_of_ascii """
-    // a // b
-    )  repeat
-    T BodyLength ,@leftPad
-('\x00' )uint16 body @calculatedFrom(  ""{,}"" ) `" ++ [233]%N ++ runes_of_ascii "` , @leftPad	(  ' '
-    // trailing space 
-    )
-    match Z9_ as Foo // a // b
-{ 7
-: MetaDataX
-,
-    4294967296 :// c
-options1 , ""x y"" :
-A} ,	repeat zchar[
-    10 //x
-] f32a
-    `it's`//
-, // trailing space 
-} packet x_y_z{ uint32 _x
-    , MetaDataX { trueish metadata  ,char[
-    // " ++ [128512]%N ++ runes_of_ascii " emoji
-    42 ]
-// " ++ [27880; 37322]%N ++ runes_of_ascii "
-//	t
-falsey, } //x
-, char[] packetx//
-`it's`  , falsey , repeat metadata `it's` ,//x
-@tag(
-42)
-x
-@calculatedFrom(	""x y"" ) , @lengthOf( float // a // b
-)
-    // packet A { u8 x, }
-    repeat Foo{ asx
-// a // b
-// " ++ [128512]%N ++ runes_of_ascii " emoji
-{ repeat char[]crc	`a\`, repeat A ,
-} , u  Packet `say ""hi""`, roots @calculatedFrom(/// triple
-""{,}"" // trailing space 
-) , zchar[ 65535
-]
-f32a @lengthOf( o) ,  }
-    ,
-// @lengthOf(
-// @lengthOf(
-}")).
-Eval vm_compute in ("<<<T958>>>" ++ terms [mkTok 35 "packet" 1 0 false; mkTok 42 "leftPad" 1 7 false; mkTok 2 "{" 1 14 false; mkTok 16 "char[]" 1 16 false; mkTok 42 "matchKey" 2 0 false; mkTok 7 "@lengthOf(" 2 8 false; mkTok 42 "MetaDataX" 2 19 false; mkTok 6 ")" 2 29 false; mkTok 40 "," 2 31 false; mkTok 3 "}" 2 33 false; mkTok 1 "options" 3 0 false; mkTok 2 "{" 4 0 false; mkTok 3 "}" 5 0 false; mkTok 35 "packet" 6 4 false; mkTok 42 "f32a" 7 4 false; mkTok 2 "{" 7 9 false; mkTok 7 "@lengthOf(" 8 0 false; mkTok 42 "int" 9 0 false; mkTok 6 ")" 10 0 false; mkTok 32 "@leftPad" 10 2 false; mkTok 8 "(" 11 0 false; mkTok 33 "'\x00'" 11 1 false; mkTok 6 ")" 11 8 false; mkTok 5 "@calculatedFrom(" 12 0 false; mkTok 31 (string_of_bytes [34; 92; 195; 169; 34]%N) 13 0 false; mkTok 44 "// a // b" 14 4 true; mkTok 6 ")" 15 4 false; mkTok 36 "repeat" 15 7 false; mkTok 42 "T" 16 4 false; mkTok 42 "BodyLength" 16 6 false; mkTok 40 "," 16 17 false; mkTok 32 "@leftPad" 16 18 false; mkTok 8 "(" 17 0 false; mkTok 33 "'\x00'" 17 1 false; mkTok 6 ")" 17 8 false; mkTok 21 "uint16" 17 9 false; mkTok 42 "body" 17 16 false; mkTok 5 "@calculatedFrom(" 17 21 false; mkTok 31 """{,}""" 17 39 false; mkTok 6 ")" 17 45 false; mkTok 43 (string_of_bytes [96; 195; 169; 96]%N) 17 47 false; mkTok 40 "," 17 51 false; mkTok 32 "@leftPad" 17 53 false; mkTok 8 "(" 17 62 false; mkTok 33 "' '" 17 65 false; mkTok 44 "// trailing space " 18 4 true; mkTok 6 ")" 19 4 false; mkTok 38 "match" 20 4 false; mkTok 42 "Z9_" 20 10 false; mkTok 17 "as" 20 14 false; mkTok 42 "Foo" 20 17 false; mkTok 44 "// a // b" 20 21 true; mkTok 2 "{" 21 0 false; mkTok 30 "7" 21 2 false; mkTok 39 ":" 22 0 false; mkTok 42 "MetaDataX" 22 2 false; mkTok 40 "," 23 0 false; mkTok 30 "4294967296" 24 4 false; mkTok 39 ":" 24 15 false; mkTok 44 "// c" 24 16 true; mkTok 42 "options1" 25 0 false; mkTok 40 "," 25 9 false; mkTok 31 """x y""" 25 11 false; mkTok 39 ":" 25 17 false; mkTok 42 "A" 26 0 false; mkTok 3 "}" 26 1 false; mkTok 40 "," 26 3 false; mkTok 36 "repeat" 26 5 false; mkTok 14 "zchar[" 26 12 false; mkTok 30 "10" 27 4 false; mkTok 44 "//x" 27 7 true; mkTok 13 "]" 28 0 false; mkTok 42 "f32a" 28 2 false; mkTok 43 "`it's`" 29 4 false; mkTok 44 "//" 29 10 true; mkTok 40 "," 30 0 false; mkTok 44 "// trailing space " 30 2 true; mkTok 3 "}" 31 0 false; mkTok 35 "packet" 31 2 false; mkTok 42 "x_y_z" 31 9 false; mkTok 2 "{" 31 14 false; mkTok 22 "uint32" 31 16 false; mkTok 42 "_x" 31 23 false; mkTok 40 "," 32 4 false; mkTok 42 "MetaDataX" 32 6 false; mkTok 2 "{" 32 16 false; mkTok 42 "trueish" 32 18 false; mkTok 42 "metadata" 32 26 false; mkTok 40 "," 32 36 false; mkTok 12 "char[" 32 37 false; mkTok 44 (string_of_bytes [47; 47; 32; 240; 159; 152; 128; 32; 101; 109; 111; 106; 105]%N) 33 4 true; mkTok 30 "42" 34 4 false; mkTok 13 "]" 34 7 false; mkTok 44 (string_of_bytes [47; 47; 32; 230; 179; 168; 233; 135; 138]%N) 35 0 true; mkTok 44 (string_of_bytes [47; 47; 9; 116]%N) 36 0 true; mkTok 42 "falsey" 37 0 false; mkTok 40 "," 37 6 false; mkTok 3 "}" 37 8 false; mkTok 44 "//x" 37 10 true; mkTok 40 "," 38 0 false; mkTok 16 "char[]" 38 2 false; mkTok 42 "packetx" 38 9 false; mkTok 44 "//" 38 16 true; mkTok 43 "`it's`" 39 0 false; mkTok 40 "," 39 8 false; mkTok 42 "falsey" 39 10 false; mkTok 40 "," 39 17 false; mkTok 36 "repeat" 39 19 false; mkTok 42 "metadata" 39 26 false; mkTok 43 "`it's`" 39 35 false; mkTok 40 "," 39 42 false; mkTok 44 "//x" 39 43 true; mkTok 9 "@tag(" 40 0 false; mkTok 30 "42" 41 0 false; mkTok 6 ")" 41 2 false; mkTok 42 "x" 42 0 false; mkTok 5 "@calculatedFrom(" 43 0 false; mkTok 31 """x y""" 43 17 false; mkTok 6 ")" 43 23 false; mkTok 40 "," 43 25 false; mkTok 7 "@lengthOf(" 43 27 false; mkTok 42 "float" 43 38 false; mkTok 44 "// a // b" 43 44 true; mkTok 6 ")" 44 0 false; mkTok 44 "// packet A { u8 x, }" 45 4 true; mkTok 36 "repeat" 46 4 false; mkTok 42 "Foo" 46 11 false; mkTok 2 "{" 46 14 false; mkTok 42 "asx" 46 16 false; mkTok 44 "// a // b" 47 0 true; mkTok 44 (string_of_bytes [47; 47; 32; 240; 159; 152; 128; 32; 101; 109; 111; 106; 105]%N) 48 0 true; mkTok 2 "{" 49 0 false; mkTok 36 "repeat" 49 2 false; mkTok 16 "char[]" 49 9 false; mkTok 42 "crc" 49 15 false; mkTok 43 "`a\`" 49 19 false; mkTok 40 "," 49 23 false; mkTok 36 "repeat" 49 25 false; mkTok 42 "A" 49 32 false; mkTok 40 "," 49 34 false; mkTok 3 "}" 50 0 false; mkTok 40 "," 50 2 false; mkTok 42 "u" 50 4 false; mkTok 42 "Packet" 50 7 false; mkTok 43 "`say ""hi""`" 50 14 false; mkTok 40 "," 50 24 false; mkTok 42 "roots" 50 26 false; mkTok 5 "@calculatedFrom(" 50 32 false; mkTok 44 "/// triple" 50 48 true; mkTok 31 """{,}""" 51 0 false; mkTok 44 "// trailing space " 51 6 true; mkTok 6 ")" 52 0 false; mkTok 40 "," 52 2 false; mkTok 14 "zchar[" 52 4 false; mkTok 30 "65535" 52 11 false; mkTok 13 "]" 53 0 false; mkTok 42 "f32a" 54 0 false; mkTok 7 "@lengthOf(" 54 5 false; mkTok 42 "o" 54 16 false; mkTok 6 ")" 54 17 false; mkTok 40 "," 54 19 false; mkTok 3 "}" 54 22 false; mkTok 40 "," 55 4 false; mkTok 44 "// @lengthOf(" 56 0 true; mkTok 44 "// @lengthOf(" 57 0 true; mkTok 3 "}" 58 0 false; mkTok 0 "<EOF>" 58 1 false] (mkPacket (mkPtok 35 "packet" 1 0 0) (Some (mkPtok 3 "}" 58 0 165)) [(DPacket (mkPacketDef (mkSpan (mkPtok 35 "packet" 1 0 0) (mkPtok 3 "}" 2 33 9)) None (mkPtok 35 "packet" 1 0 0) (mkPtok 42 "leftPad" 1 7 1) (mkPtok 2 "{" 1 14 2) [(mkFieldWithAttr (mkSpan (mkPtok 16 "char[]" 1 16 3) (mkPtok 40 "," 2 31 8)) [] (LengthField (mkSpan (mkPtok 16 "char[]" 1 16 3) (mkPtok 40 "," 2 31 8)) (mkLengthFieldDecl (mkSpan (mkPtok 16 "char[]" 1 16 3) (mkPtok 40 "," 2 31 8)) (Some (TyDynamic (mkSpan (mkPtok 16 "char[]" 1 16 3) (mkPtok 16 "char[]" 1 16 3)) (mkDynamicString (mkSpan (mkPtok 16 "char[]" 1 16 3) (mkPtok 16 "char[]" 1 16 3)) (mkPtok 16 "char[]" 1 16 3)))) (mkPtok 42 "matchKey" 2 0 4) (mkLengthOf (mkSpan (mkPtok 7 "@lengthOf(" 2 8 5) (mkPtok 6 ")" 2 29 7)) (mkPtok 7 "@lengthOf(" 2 8 5) (mkPtok 42 "MetaDataX" 2 19 6) (mkPtok 6 ")" 2 29 7)) None (mkPtok 40 "," 2 31 8))))] (mkPtok 3 "}" 2 33 9))); (DOption (mkOptionDef (mkSpan (mkPtok 1 "options" 3 0 10) (mkPtok 3 "}" 5 0 12)) (mkPtok 1 "options" 3 0 10) (mkPtok 2 "{" 4 0 11) [] (mkPtok 3 "}" 5 0 12))); (DPacket (mkPacketDef (mkSpan (mkPtok 35 "packet" 6 4 13) (mkPtok 3 "}" 31 0 77)) None (mkPtok 35 "packet" 6 4 13) (mkPtok 42 "f32a" 7 4 14) (mkPtok 2 "{" 7 9 15) [(mkFieldWithAttr (mkSpan (mkPtok 7 "@lengthOf(" 8 0 16) (mkPtok 40 "," 16 17 30)) [(FALengthOf (mkSpan (mkPtok 7 "@lengthOf(" 8 0 16) (mkPtok 6 ")" 10 0 18)) (mkLengthOf (mkSpan (mkPtok 7 "@lengthOf(" 8 0 16) (mkPtok 6 ")" 10 0 18)) (mkPtok 7 "@lengthOf(" 8 0 16) (mkPtok 42 "int" 9 0 17) (mkPtok 6 ")" 10 0 18))); (FAPadding (mkSpan (mkPtok 32 "@leftPad" 10 2 19) (mkPtok 6 ")" 11 8 22)) (mkPaddingAttr (mkSpan (mkPtok 32 "@leftPad" 10 2 19) (mkPtok 6 ")" 11 8 22)) (mkPtok 32 "@leftPad" 10 2 19) (mkPtok 8 "(" 11 0 20) (Some (mkPtok 33 "'\x00'" 11 1 21)) (mkPtok 6 ")" 11 8 22))); (FACalculatedFrom (mkSpan (mkPtok 5 "@calculatedFrom(" 12 0 23) (mkPtok 6 ")" 15 4 26)) (mkCalculatedFrom (mkSpan (mkPtok 5 "@calculatedFrom(" 12 0 23) (mkPtok 6 ")" 15 4 26)) (mkPtok 5 "@calculatedFrom(" 12 0 23) (mkPtok 31 (string_of_bytes [34; 92; 195; 169; 34]%N) 13 0 24) (mkPtok 6 ")" 15 4 26)))] (ObjectField (mkSpan (mkPtok 36 "repeat" 15 7 27) (mkPtok 40 "," 16 17 30)) (Some (mkPtok 36 "repeat" 15 7 27)) (mkPtok 42 "T" 16 4 28) (Some (mkPtok 42 "BodyLength" 16 6 29)) None (mkPtok 40 "," 16 17 30))); (mkFieldWithAttr (mkSpan (mkPtok 32 "@leftPad" 16 18 31) (mkPtok 40 "," 17 51 41)) [(FAPadding (mkSpan (mkPtok 32 "@leftPad" 16 18 31) (mkPtok 6 ")" 17 8 34)) (mkPaddingAttr (mkSpan (mkPtok 32 "@leftPad" 16 18 31) (mkPtok 6 ")" 17 8 34)) (mkPtok 32 "@leftPad" 16 18 31) (mkPtok 8 "(" 17 0 32) (Some (mkPtok 33 "'\x00'" 17 1 33)) (mkPtok 6 ")" 17 8 34)))] (CheckSumField (mkSpan (mkPtok 21 "uint16" 17 9 35) (mkPtok 40 "," 17 51 41)) (mkChecksumFieldDecl (mkSpan (mkPtok 21 "uint16" 17 9 35) (mkPtok 40 "," 17 51 41)) (Some (TyBasic (mkSpan (mkPtok 21 "uint16" 17 9 35) (mkPtok 21 "uint16" 17 9 35)) (mkBasicType (mkSpan (mkPtok 21 "uint16" 17 9 35) (mkPtok 21 "uint16" 17 9 35)) (mkPtok 21 "uint16" 17 9 35)))) (mkPtok 42 "body" 17 16 36) (mkCalculatedFrom (mkSpan (mkPtok 5 "@calculatedFrom(" 17 21 37) (mkPtok 6 ")" 17 45 39)) (mkPtok 5 "@calculatedFrom(" 17 21 37) (mkPtok 31 """{,}""" 17 39 38) (mkPtok 6 ")" 17 45 39)) (Some (mkPtok 43 (string_of_bytes [96; 195; 169; 96]%N) 17 47 40)) (mkPtok 40 "," 17 51 41)))); (mkFieldWithAttr (mkSpan (mkPtok 32 "@leftPad" 17 53 42) (mkPtok 40 "," 26 3 66)) [(FAPadding (mkSpan (mkPtok 32 "@leftPad" 17 53 42) (mkPtok 6 ")" 19 4 46)) (mkPaddingAttr (mkSpan (mkPtok 32 "@leftPad" 17 53 42) (mkPtok 6 ")" 19 4 46)) (mkPtok 32 "@leftPad" 17 53 42) (mkPtok 8 "(" 17 62 43) (Some (mkPtok 33 "' '" 17 65 44)) (mkPtok 6 ")" 19 4 46)))] (MatchField (mkSpan (mkPtok 38 "match" 20 4 47) (mkPtok 40 "," 26 3 66)) (mkMatchFieldDecl (mkSpan (mkPtok 38 "match" 20 4 47) (mkPtok 3 "}" 26 1 65)) (mkPtok 38 "match" 20 4 47) (mkPtok 42 "Z9_" 20 10 48) (mkPtok 17 "as" 20 14 49) (mkPtok 42 "Foo" 20 17 50) (mkPtok 2 "{" 21 0 52) [(mkMatchPair (mkSpan (mkPtok 30 "7" 21 2 53) (mkPtok 40 "," 23 0 56)) (MKDigits (mkPtok 30 "7" 21 2 53)) (mkPtok 39 ":" 22 0 54) (mkPtok 42 "MetaDataX" 22 2 55) (Some (mkPtok 40 "," 23 0 56))); (mkMatchPair (mkSpan (mkPtok 30 "4294967296" 24 4 57) (mkPtok 40 "," 25 9 61)) (MKDigits (mkPtok 30 "4294967296" 24 4 57)) (mkPtok 39 ":" 24 15 58) (mkPtok 42 "options1" 25 0 60) (Some (mkPtok 40 "," 25 9 61))); (mkMatchPair (mkSpan (mkPtok 31 """x y""" 25 11 62) (mkPtok 42 "A" 26 0 64)) (MKString (mkPtok 31 """x y""" 25 11 62)) (mkPtok 39 ":" 25 17 63) (mkPtok 42 "A" 26 0 64) None)] (mkPtok 3 "}" 26 1 65)) (mkPtok 40 "," 26 3 66))); (mkFieldWithAttr (mkSpan (mkPtok 36 "repeat" 26 5 67) (mkPtok 40 "," 30 0 75)) [] (MetaField (mkSpan (mkPtok 36 "repeat" 26 5 67) (mkPtok 40 "," 30 0 75)) (Some (mkPtok 36 "repeat" 26 5 67)) (mkMetaDecl (mkSpan (mkPtok 14 "zchar[" 26 12 68) (mkPtok 40 "," 30 0 75)) (TyFixed (mkSpan (mkPtok 14 "zchar[" 26 12 68) (mkPtok 13 "]" 28 0 71)) (mkFixedString (mkSpan (mkPtok 14 "zchar[" 26 12 68) (mkPtok 13 "]" 28 0 71)) (mkPtok 14 "zchar[" 26 12 68) (mkPtok 30 "10" 27 4 69) (mkPtok 13 "]" 28 0 71))) (mkPtok 42 "f32a" 28 2 72) (Some (mkPtok 43 "`it's`" 29 4 73)) (mkPtok 40 "," 30 0 75))))] (mkPtok 3 "}" 31 0 77))); (DPacket (mkPacketDef (mkSpan (mkPtok 35 "packet" 31 2 78) (mkPtok 3 "}" 58 0 165)) None (mkPtok 35 "packet" 31 2 78) (mkPtok 42 "x_y_z" 31 9 79) (mkPtok 2 "{" 31 14 80) [(mkFieldWithAttr (mkSpan (mkPtok 22 "uint32" 31 16 81) (mkPtok 40 "," 32 4 83)) [] (MetaField (mkSpan (mkPtok 22 "uint32" 31 16 81) (mkPtok 40 "," 32 4 83)) None (mkMetaDecl (mkSpan (mkPtok 22 "uint32" 31 16 81) (mkPtok 40 "," 32 4 83)) (TyBasic (mkSpan (mkPtok 22 "uint32" 31 16 81) (mkPtok 22 "uint32" 31 16 81)) (mkBasicType (mkSpan (mkPtok 22 "uint32" 31 16 81) (mkPtok 22 "uint32" 31 16 81)) (mkPtok 22 "uint32" 31 16 81))) (mkPtok 42 "_x" 31 23 82) None (mkPtok 40 "," 32 4 83)))); (mkFieldWithAttr (mkSpan (mkPtok 42 "MetaDataX" 32 6 84) (mkPtok 40 "," 38 0 99)) [] (InerObjectField (mkSpan (mkPtok 42 "MetaDataX" 32 6 84) (mkPtok 40 "," 38 0 99)) None (InerObjectDecl (mkSpan (mkPtok 42 "MetaDataX" 32 6 84) (mkPtok 3 "}" 37 8 97)) (mkPtok 42 "MetaDataX" 32 6 84) (mkPtok 2 "{" 32 16 85) [(ObjectField (mkSpan (mkPtok 42 "trueish" 32 18 86) (mkPtok 40 "," 32 36 88)) None (mkPtok 42 "trueish" 32 18 86) (Some (mkPtok 42 "metadata" 32 26 87)) None (mkPtok 40 "," 32 36 88)); (MetaField (mkSpan (mkPtok 12 "char[" 32 37 89) (mkPtok 40 "," 37 6 96)) None (mkMetaDecl (mkSpan (mkPtok 12 "char[" 32 37 89) (mkPtok 40 "," 37 6 96)) (TyFixed (mkSpan (mkPtok 12 "char[" 32 37 89) (mkPtok 13 "]" 34 7 92)) (mkFixedString (mkSpan (mkPtok 12 "char[" 32 37 89) (mkPtok 13 "]" 34 7 92)) (mkPtok 12 "char[" 32 37 89) (mkPtok 30 "42" 34 4 91) (mkPtok 13 "]" 34 7 92))) (mkPtok 42 "falsey" 37 0 95) None (mkPtok 40 "," 37 6 96)))] (mkPtok 3 "}" 37 8 97)) (mkPtok 40 "," 38 0 99))); (mkFieldWithAttr (mkSpan (mkPtok 16 "char[]" 38 2 100) (mkPtok 40 "," 39 8 104)) [] (MetaField (mkSpan (mkPtok 16 "char[]" 38 2 100) (mkPtok 40 "," 39 8 104)) None (mkMetaDecl (mkSpan (mkPtok 16 "char[]" 38 2 100) (mkPtok 40 "," 39 8 104)) (TyDynamic (mkSpan (mkPtok 16 "char[]" 38 2 100) (mkPtok 16 "char[]" 38 2 100)) (mkDynamicString (mkSpan (mkPtok 16 "char[]" 38 2 100) (mkPtok 16 "char[]" 38 2 100)) (mkPtok 16 "char[]" 38 2 100))) (mkPtok 42 "packetx" 38 9 101) (Some (mkPtok 43 "`it's`" 39 0 103)) (mkPtok 40 "," 39 8 104)))); (mkFieldWithAttr (mkSpan (mkPtok 42 "falsey" 39 10 105) (mkPtok 40 "," 39 17 106)) [] (ObjectField (mkSpan (mkPtok 42 "falsey" 39 10 105) (mkPtok 40 "," 39 17 106)) None (mkPtok 42 "falsey" 39 10 105) None None (mkPtok 40 "," 39 17 106))); (mkFieldWithAttr (mkSpan (mkPtok 36 "repeat" 39 19 107) (mkPtok 40 "," 39 42 110)) [] (ObjectField (mkSpan (mkPtok 36 "repeat" 39 19 107) (mkPtok 40 "," 39 42 110)) (Some (mkPtok 36 "repeat" 39 19 107)) (mkPtok 42 "metadata" 39 26 108) None (Some (mkPtok 43 "`it's`" 39 35 109)) (mkPtok 40 "," 39 42 110))); (mkFieldWithAttr (mkSpan (mkPtok 9 "@tag(" 40 0 112) (mkPtok 40 "," 43 25 119)) [(FATag (mkSpan (mkPtok 9 "@tag(" 40 0 112) (mkPtok 6 ")" 41 2 114)) (mkTagAttr (mkSpan (mkPtok 9 "@tag(" 40 0 112) (mkPtok 6 ")" 41 2 114)) (mkPtok 9 "@tag(" 40 0 112) (mkPtok 30 "42" 41 0 113) (mkPtok 6 ")" 41 2 114)))] (CheckSumField (mkSpan (mkPtok 42 "x" 42 0 115) (mkPtok 40 "," 43 25 119)) (mkChecksumFieldDecl (mkSpan (mkPtok 42 "x" 42 0 115) (mkPtok 40 "," 43 25 119)) None (mkPtok 42 "x" 42 0 115) (mkCalculatedFrom (mkSpan (mkPtok 5 "@calculatedFrom(" 43 0 116) (mkPtok 6 ")" 43 23 118)) (mkPtok 5 "@calculatedFrom(" 43 0 116) (mkPtok 31 """x y""" 43 17 117) (mkPtok 6 ")" 43 23 118)) None (mkPtok 40 "," 43 25 119)))); (mkFieldWithAttr (mkSpan (mkPtok 7 "@lengthOf(" 43 27 120) (mkPtok 40 "," 55 4 162)) [(FALengthOf (mkSpan (mkPtok 7 "@lengthOf(" 43 27 120) (mkPtok 6 ")" 44 0 123)) (mkLengthOf (mkSpan (mkPtok 7 "@lengthOf(" 43 27 120) (mkPtok 6 ")" 44 0 123)) (mkPtok 7 "@lengthOf(" 43 27 120) (mkPtok 42 "float" 43 38 121) (mkPtok 6 ")" 44 0 123)))] (InerObjectField (mkSpan (mkPtok 36 "repeat" 46 4 125) (mkPtok 40 "," 55 4 162)) (Some (mkPtok 36 "repeat" 46 4 125)) (InerObjectDecl (mkSpan (mkPtok 42 "Foo" 46 11 126) (mkPtok 3 "}" 54 22 161)) (mkPtok 42 "Foo" 46 11 126) (mkPtok 2 "{" 46 14 127) [(InerObjectField (mkSpan (mkPtok 42 "asx" 46 16 128) (mkPtok 40 "," 50 2 141)) None (InerObjectDecl (mkSpan (mkPtok 42 "asx" 46 16 128) (mkPtok 3 "}" 50 0 140)) (mkPtok 42 "asx" 46 16 128) (mkPtok 2 "{" 49 0 131) [(MetaField (mkSpan (mkPtok 36 "repeat" 49 2 132) (mkPtok 40 "," 49 23 136)) (Some (mkPtok 36 "repeat" 49 2 132)) (mkMetaDecl (mkSpan (mkPtok 16 "char[]" 49 9 133) (mkPtok 40 "," 49 23 136)) (TyDynamic (mkSpan (mkPtok 16 "char[]" 49 9 133) (mkPtok 16 "char[]" 49 9 133)) (mkDynamicString (mkSpan (mkPtok 16 "char[]" 49 9 133) (mkPtok 16 "char[]" 49 9 133)) (mkPtok 16 "char[]" 49 9 133))) (mkPtok 42 "crc" 49 15 134) (Some (mkPtok 43 "`a\`" 49 19 135)) (mkPtok 40 "," 49 23 136))); (ObjectField (mkSpan (mkPtok 36 "repeat" 49 25 137) (mkPtok 40 "," 49 34 139)) (Some (mkPtok 36 "repeat" 49 25 137)) (mkPtok 42 "A" 49 32 138) None None (mkPtok 40 "," 49 34 139))] (mkPtok 3 "}" 50 0 140)) (mkPtok 40 "," 50 2 141)); (ObjectField (mkSpan (mkPtok 42 "u" 50 4 142) (mkPtok 40 "," 50 24 145)) None (mkPtok 42 "u" 50 4 142) (Some (mkPtok 42 "Packet" 50 7 143)) (Some (mkPtok 43 "`say ""hi""`" 50 14 144)) (mkPtok 40 "," 50 24 145)); (CheckSumField (mkSpan (mkPtok 42 "roots" 50 26 146) (mkPtok 40 "," 52 2 152)) (mkChecksumFieldDecl (mkSpan (mkPtok 42 "roots" 50 26 146) (mkPtok 40 "," 52 2 152)) None (mkPtok 42 "roots" 50 26 146) (mkCalculatedFrom (mkSpan (mkPtok 5 "@calculatedFrom(" 50 32 147) (mkPtok 6 ")" 52 0 151)) (mkPtok 5 "@calculatedFrom(" 50 32 147) (mkPtok 31 """{,}""" 51 0 149) (mkPtok 6 ")" 52 0 151)) None (mkPtok 40 "," 52 2 152))); (LengthField (mkSpan (mkPtok 14 "zchar[" 52 4 153) (mkPtok 40 "," 54 19 160)) (mkLengthFieldDecl (mkSpan (mkPtok 14 "zchar[" 52 4 153) (mkPtok 40 "," 54 19 160)) (Some (TyFixed (mkSpan (mkPtok 14 "zchar[" 52 4 153) (mkPtok 13 "]" 53 0 155)) (mkFixedString (mkSpan (mkPtok 14 "zchar[" 52 4 153) (mkPtok 13 "]" 53 0 155)) (mkPtok 14 "zchar[" 52 4 153) (mkPtok 30 "65535" 52 11 154) (mkPtok 13 "]" 53 0 155)))) (mkPtok 42 "f32a" 54 0 156) (mkLengthOf (mkSpan (mkPtok 7 "@lengthOf(" 54 5 157) (mkPtok 6 ")" 54 17 159)) (mkPtok 7 "@lengthOf(" 54 5 157) (mkPtok 42 "o" 54 16 158) (mkPtok 6 ")" 54 17 159)) None (mkPtok 40 "," 54 19 160)))] (mkPtok 3 "}" 54 22 161)) (mkPtok 40 "," 55 4 162)))] (mkPtok 3 "}" 58 0 165)))])).
-Eval vm_compute in ("<<<M990>>>" ++ check (runes_of_ascii "packet options1 { @leftPad
-    (
-    '0' )
-repeat char[1 ] // " ++ [27880; 37322]%N ++ runes_of_ascii "
-roots  `
-` , i32 A`
-`, repeat
-    char[ 3] stringy // `tick` ""quote"" 'q'
-, repeat	f64
-    Z9_
-`tab	here`, }
-    packet T	{
-    @tag( 00	)repeat float
-`say ""hi""`,} /// triple")).
-Eval vm_compute in ("<<<M1022>>>" ++ check (runes_of_ascii "MetaData A
-    {
-//
-// @lengthOf(
-}")).
-Eval vm_compute in ("<<<M1054>>>" ++ check (runes_of_ascii "MetaData
-As
-{
-    u128 packetx
-`" ++ [233]%N ++ runes_of_ascii "` //	t
-, tag	o,zchar[ // c
-255 ] rootA `two words`  , rootA msg_type	`it's`
-, u64 packetx , } MetaData T{
-char[
-3
-    ]
-    _x , }
-// trailing space 
+Eval vm_compute in ("<<<M2014>>>" ++ check (runes_of_ascii "MetaData  { float64 packetx,
+} root packet  metadata {
+char _x @lengthOf( trueish ), @leftPad
+( ' '// " ++ [27880; 37322]%N ++ runes_of_ascii "
+)/// triple
+char[] len`doc` , // packet A { u8 x, }
+repeatCount , }
 ")).
-Eval vm_compute in ("<<<M1086>>>" ++ check (@nil rune)).
-Eval vm_compute in ("<<<M1118>>>" ++ check (runes_of_ascii "// @lengthOf(
-MetaData	msg_type
-{} MetaData Logon { i64 uint8x ,
-o u128  ,}packet
-    body {
-@calculatedFrom( ""a	b"" ) uint8x`` ,} root
-packet  roots{ repeat len f32a `crlf
-line` , @rightPad( '\x00'
-) repeat i8i8
-    { zchar @lengthOf(
-    packetx ) `a\`,
-repeat
-msg_type , char[]
-    o `" ++ [233]%N ++ runes_of_ascii "`	, char[
-// " ++ [27880; 37322]%N ++ runes_of_ascii "
-//
-42
-]
-roots // @lengthOf(
-,
-//x
-// `tick` ""quote"" 'q'
-}  , } MetaData
-    pack
-//	t
-// trailing space 
-{
-repeatCount
-charz , }")).
-Eval vm_compute in ("<<<M1150>>>" ++ check (runes_of_ascii "packet	stringy { // trailing space 
-@lengthOf(rootA ) repeat char[] len`u8 x,`, float32 zchar,@tag(
-    42
-) @tag(
-    255
-) @tag( 10 )
-    repeatCount, repeat leftPad ,} 	 ")).
-Eval vm_compute in ("<<<M1182>>>" ++ check (runes_of_ascii "options { body= false ; }
-// `tick` ""quote"" 'q'
+Eval vm_compute in ("<<<M2046>>>" ++ check (runes_of_ascii "MetaData repeatCount { float64 packetx,
+} packet root  metadata {
+char _x @lengthOf( trueish ), @leftPad
+( ' '// " ++ [27880; 37322]%N ++ runes_of_ascii "
+)/// triple
+char[] len`doc` , // packet A { u8 x, }
+repeatCount , }
 ")).
-Eval vm_compute in ("<<<T1182>>>" ++ terms [mkTok 1 "options" 1 0 false; mkTok 2 "{" 1 8 false; mkTok 42 "body" 1 10 false; mkTok 4 "=" 1 14 false; mkTok 11 "false" 1 16 false; mkTok 41 ";" 1 22 false; mkTok 3 "}" 1 24 false; mkTok 44 "// `tick` ""quote"" 'q'" 2 0 true; mkTok 0 "<EOF>" 3 0 false] (mkPacket (mkPtok 1 "options" 1 0 0) (Some (mkPtok 3 "}" 1 24 6)) [(DOption (mkOptionDef (mkSpan (mkPtok 1 "options" 1 0 0) (mkPtok 3 "}" 1 24 6)) (mkPtok 1 "options" 1 0 0) (mkPtok 2 "{" 1 8 1) [(mkOptionDecl (mkSpan (mkPtok 42 "body" 1 10 2) (mkPtok 41 ";" 1 22 5)) (mkPtok 42 "body" 1 10 2) (mkPtok 4 "=" 1 14 3) (VFalse (mkSpan (mkPtok 11 "false" 1 16 4) (mkPtok 11 "false" 1 16 4)) (mkPtok 11 "false" 1 16 4)) (Some (mkPtok 41 ";" 1 22 5)))] (mkPtok 3 "}" 1 24 6)))])).
-Eval vm_compute in ("<<<M1214>>>" ++ check (runes_of_ascii "
-MetaData msg_type{ trueish i8i8,
-float32 msg_type ,
-options1 BodyLength `two words`, u128 body `u8 x,` , }// trailing space 
-packet
-    // c
-    Logon {
-    repeat
-i32 metadata `
-`
-, @calculatedFrom(""x y"")
-    // c
-    i64_ , i64 int@lengthOf( pack  )
-    ,
-    char[] charz ,
-    // @lengthOf(
-    match
-_x as
-// a // b
-/// triple
-pack { 3
-: body,[ ""// no comment"" ,""a\""b""
-] : uint8x , 3: lengthOf	,
-    } ,
-matchKey , roots
-{ _x @lengthOf(	Pad	)
-,
-repeat
-    a1	_x , } ,
-    string T, @lengthOf(
-//
-// a // b
-Pad )
-match f32a as u // c
-{// a // b
-[10
-    // a // b
-    ,
-    //	t
-    """ ++ [233]%N ++ runes_of_ascii "t" ++ [233]%N ++ runes_of_ascii """, // a // b
-""`tick`"" , 255 ,
-0123456789 , ""1"" ,//
-""a	b""  ,
-3
-    ]
-    :options1 } ,	} MetaData u128{char[ 10 ] tag ,
-pack
-stringy , char
-pack, } root packet Header //
-{match Foo as Logon{  [ """ ++ [233]%N ++ runes_of_ascii "t" ++ [233]%N ++ runes_of_ascii """ ,
-""CRC32"" ]: falsey [ //x
-""" ++ [233]%N ++ runes_of_ascii "t" ++ [233]%N ++ runes_of_ascii """,
-/// triple
-// a // b
-""""
-    ]
-:
-u128, [ 00
-    , ""a\""b"" , 7 , ""it's"",""" ++ [28040; 24687]%N ++ runes_of_ascii """, 00 ,
-// " ++ [128512]%N ++ runes_of_ascii " emoji
-/// triple
-255 , 00 ] :
-asx , ""// no comment"" :charz ,
-""1"" : Packet ,
-[ ""// no comment"" , 1	] :  zchar,
-} , @lengthOf(u8x// a // b
-)@tag(
-    007 // @lengthOf(
-) @lengthOf( pack) u8 _x`doc` ,
-zchar[ 0123456789
-    // a // b
-    ] Packet@lengthOf( o)
-    ,	match chars	as
-msg_type
-    {
-    ""\n""
-    : lengthOf , 0123456789
-// packet A { u8 x, }
-// trailing space 
-:
-a1 , [ 4294967296  ] : stringy ,[ ""`tick`"" ,""`tick`""
-    // `tick` ""quote"" 'q'
-    , 0  ] // @lengthOf(
-:
-    /// triple
-    falsey , [ // `tick` ""quote"" 'q'
-007 ,
-    // a // b
-    65535
-, 65535
-    , 10
-    , ""abc"" ,
-3
-    ] :
-body ,
-} ,zchar[  10 ]
-    // " ++ [27880; 37322]%N ++ runes_of_ascii "
-    Logon, }	packet Packet { } // " ++ [27880; 37322]%N)).
-Eval vm_compute in ("<<<M1246>>>" ++ check (runes_of_ascii "packet MetaDataX
-{repeat tag
-    i64_
-,@calculatedFrom(
-    ""packet"")
-    // trailing space 
-    Packet	`tab	here`
-    , }")).
-Eval vm_compute in ("<<<M1278>>>" ++ check (runes_of_ascii "packet Packet{@tag(
-4294967296
-    )  charz	{ repeat
-char[
-    0123456789] BodyLength ,repeat trueish stringy , }, }options { body = char ; leftPad =uint16
-    //	t
-    ; stringy
-    = true ; packetx
-= true
-// `tick` ""quote"" 'q'
-//
-float=char[ 255 ]}
-// `tick` ""quote"" 'q'
-/// triple
-root packet	len {  @leftPad  ( '0') uint64
-    a1
-    ,} 	 ")).
-Eval vm_compute in ("<<<M1310>>>" ++ check (runes_of_ascii "/// triple
-packet matchKey {// `tick` ""quote"" 'q'
-repeatCount
-`line1
-line2` , @calculatedFrom(
-""1"")
-u128 @calculatedFrom(
-    ""\" ++ [233]%N ++ runes_of_ascii """ ) , // @lengthOf(
-@calculatedFrom( ""abc""	)repeat int
-uint8x , Packet  @lengthOf(trueish ) , @tag( 3 // `tick` ""quote"" 'q'
-) rootA
-    @lengthOf(asx ) `it's`
-,repeat tag // " ++ [128512]%N ++ runes_of_ascii " emoji
-body ,
-    @lengthOf( //	t
-_x )	@calculatedFrom( ""1""
-) @leftPad ( '0'
-    )
-    i8 i64_	@calculatedFrom( ""a\""b"" ) ,}packet x_y_z {
-@tag(  7) match// @lengthOf(
-Z9_  as i64_	{ """"
-: roots , ""`tick`""
-    :
-T,007: zchar , [ // packet A { u8 x, }
-4294967296 ,	7,4294967296 ,
-4294967296 ,""\" ++ [233]%N ++ runes_of_ascii """, // " ++ [27880; 37322]%N ++ runes_of_ascii "
-10 ,255 ]	: pack
-// packet A { u8 x, }
-//
-, 1 : asx
-,""CRC32"" :
-x_y_z } , // a // b
-} options
-    { // c
-}
-root //
-packet packetx{i8i8 @lengthOf( u128 ) , }")).
-Eval vm_compute in ("<<<M1342>>>" ++ check (runes_of_ascii "packet Z9_{
-// trailing space 
-// " ++ [128512]%N ++ runes_of_ascii " emoji
-@calculatedFrom( ""1"" )// packet A { u8 x, }
-matchKey @calculatedFrom(
-""" ++ [128512]%N ++ runes_of_ascii """ ) `tab	here` ,}
-// packet A { u8 x, }
+Eval vm_compute in ("<<<M2078>>>" ++ check (runes_of_ascii "MetaData repeatCount { float64 packetx,
+} root packet  metadata {
+char _x")).
+Eval vm_compute in ("<<<M2110>>>" ++ check (runes_of_ascii "MetaData repeatCount { float64 packetx,
+} root packet  metadata {
+char _x @lengthOf( trueish ), @leftPad
+( ' '// " ++ [27880; 37322]%N ++ runes_of_ascii "
+) )/// triple
+char[] len`doc` , // packet A { u8 x, }
+repeatCount , }
 ")).
-Eval vm_compute in ("<<<M1374>>>" ++ check (runes_of_ascii "root packet a1 { }")).
-Eval vm_compute in ("<<<M1406>>>" ++ check (runes_of_ascii "packet packetx{ stringy{ repeat  matchKey
-    { match
-    falsey as matchKey
-{ 0123456789 :
-float ,
-[
-""abc"" ] :u128
-// " ++ [27880; 37322]%N ++ runes_of_ascii "
-// " ++ [128512]%N ++ runes_of_ascii " emoji
-""x y"" :// " ++ [27880; 37322]%N ++ runes_of_ascii "
-i8i8 } , match  falsey as Foo { 65535// " ++ [128512]%N ++ runes_of_ascii " emoji
-:trueish,
-} ,
-    },  char[]  roots@calculatedFrom(
-    """ ++ [28040; 24687]%N ++ runes_of_ascii """), zchar[ 0123456789
-// " ++ [27880; 37322]%N ++ runes_of_ascii "
-// `tick` ""quote"" 'q'
-]i64_ ,	zchar[ 42 ] MetaDataX
-@lengthOf( len  )
-,  }
-, pack @lengthOf(  crc)//x
-, @tag( 65535 )
-    @leftPad	(
-) @lengthOf(
-    asx ) u8x {repeat uint64 Pad, x_y_z _x `
-`, }
-, MetaDataX stringy,
-    // trailing space 
-    @lengthOf( BodyLength ) string calculatedFrom
-@calculatedFrom(""\n"" )
-    `line1
-line2` , u32
-u8x , @tag(
-    007
-//
-// c
-)
-//
-//
-@lengthOf( // packet A { u8 x, }
-asx
-    ) repeat uint8x { match  float
-as // @lengthOf(
-As{ [ ""1"" ,"""" , 255
-,
-255 ,
-007 , ""1""// " ++ [27880; 37322]%N ++ runes_of_ascii "
-]
-: rootA""1""
-    : msg_type // c
-,
-65535: f32a , ""x y""
-:
-    //
-    leftPad}
-    , }
-    // trailing space 
-    , u8 asx `u8 x,`, len `it's`,}
-//x
-/// triple
-options {
-falsey =
-true }
+Eval vm_compute in ("<<<M2142>>>" ++ check (runes_of_ascii "MetaData repeatCount { float64 packetx,
+} root packet  metadata {
+char _x @lengthOf( trueish ), @leftPad
+( ' '// " ++ [27880; 37322]%N ++ runes_of_ascii "
+)/// triple
+char[] len`doc` , // packet A { u8 x, }
+repeatCount packet }
 ")).
-Eval vm_compute in ("<<<T1406>>>" ++ terms [mkTok 35 "packet" 1 0 false; mkTok 42 "packetx" 1 7 false; mkTok 2 "{" 1 14 false; mkTok 42 "stringy" 1 16 false; mkTok 2 "{" 1 23 false; mkTok 36 "repeat" 1 25 false; mkTok 42 "matchKey" 1 33 false; mkTok 2 "{" 2 4 false; mkTok 38 "match" 2 6 false; mkTok 42 "falsey" 3 4 false; mkTok 17 "as" 3 11 false; mkTok 42 "matchKey" 3 14 false; mkTok 2 "{" 4 0 false; mkTok 30 "0123456789" 4 2 false; mkTok 39 ":" 4 13 false; mkTok 42 "float" 5 0 false; mkTok 40 "," 5 6 false; mkTok 18 "[" 6 0 false; mkTok 31 """abc""" 7 0 false; mkTok 13 "]" 7 6 false; mkTok 39 ":" 7 8 false; mkTok 42 "u128" 7 9 false; mkTok 44 (string_of_bytes [47; 47; 32; 230; 179; 168; 233; 135; 138]%N) 8 0 true; mkTok 44 (string_of_bytes [47; 47; 32; 240; 159; 152; 128; 32; 101; 109; 111; 106; 105]%N) 9 0 true; mkTok 31 """x y""" 10 0 false; mkTok 39 ":" 10 6 false; mkTok 44 (string_of_bytes [47; 47; 32; 230; 179; 168; 233; 135; 138]%N) 10 7 true; mkTok 42 "i8i8" 11 0 false; mkTok 3 "}" 11 5 false; mkTok 40 "," 11 7 false; mkTok 38 "match" 11 9 false; mkTok 42 "falsey" 11 16 false; mkTok 17 "as" 11 23 false; mkTok 42 "Foo" 11 26 false; mkTok 2 "{" 11 30 false; mkTok 30 "65535" 11 32 false; mkTok 44 (string_of_bytes [47; 47; 32; 240; 159; 152; 128; 32; 101; 109; 111; 106; 105]%N) 11 37 true; mkTok 39 ":" 12 0 false; mkTok 42 "trueish" 12 1 false; mkTok 40 "," 12 8 false; mkTok 3 "}" 13 0 false; mkTok 40 "," 13 2 false; mkTok 3 "}" 14 4 false; mkTok 40 "," 14 5 false; mkTok 16 "char[]" 14 8 false; mkTok 42 "roots" 14 16 false; mkTok 5 "@calculatedFrom(" 14 21 false; mkTok 31 (string_of_bytes [34; 230; 182; 136; 230; 129; 175; 34]%N) 15 4 false; mkTok 6 ")" 15 8 false; mkTok 40 "," 15 9 false; mkTok 14 "zchar[" 15 11 false; mkTok 30 "0123456789" 15 18 false; mkTok 44 (string_of_bytes [47; 47; 32; 230; 179; 168; 233; 135; 138]%N) 16 0 true; mkTok 44 "// `tick` ""quote"" 'q'" 17 0 true; mkTok 13 "]" 18 0 false; mkTok 42 "i64_" 18 1 false; mkTok 40 "," 18 6 false; mkTok 14 "zchar[" 18 8 false; mkTok 30 "42" 18 15 false; mkTok 13 "]" 18 18 false; mkTok 42 "MetaDataX" 18 20 false; mkTok 7 "@lengthOf(" 19 0 false; mkTok 42 "len" 19 11 false; mkTok 6 ")" 19 16 false; mkTok 40 "," 20 0 false; mkTok 3 "}" 20 3 false; mkTok 40 "," 21 0 false; mkTok 42 "pack" 21 2 false; mkTok 7 "@lengthOf(" 21 7 false; mkTok 42 "crc" 21 19 false; mkTok 6 ")" 21 22 false; mkTok 44 "//x" 21 23 true; mkTok 40 "," 22 0 false; mkTok 9 "@tag(" 22 2 false; mkTok 30 "65535" 22 8 false; mkTok 6 ")" 22 14 false; mkTok 32 "@leftPad" 23 4 false; mkTok 8 "(" 23 13 false; mkTok 6 ")" 24 0 false; mkTok 7 "@lengthOf(" 24 2 false; mkTok 42 "asx" 25 4 false; mkTok 6 ")" 25 8 false; mkTok 42 "u8x" 25 10 false; mkTok 2 "{" 25 14 false; mkTok 36 "repeat" 25 15 false; mkTok 23 "uint64" 25 22 false; mkTok 42 "Pad" 25 29 false; mkTok 40 "," 25 32 false; mkTok 42 "x_y_z" 25 34 false; mkTok 42 "_x" 25 40 false; mkTok 43 (string_of_bytes [96; 10; 96]%N) 25 43 false; mkTok 40 "," 26 1 false; mkTok 3 "}" 26 3 false; mkTok 40 "," 27 0 false; mkTok 42 "MetaDataX" 27 2 false; mkTok 42 "stringy" 27 12 false; mkTok 40 "," 27 19 false; mkTok 44 "// trailing space " 28 4 true; mkTok 7 "@lengthOf(" 29 4 false; mkTok 42 "BodyLength" 29 15 false; mkTok 6 ")" 29 26 false; mkTok 15 "string" 29 28 false; mkTok 42 "calculatedFrom" 29 35 false; mkTok 5 "@calculatedFrom(" 30 0 false; mkTok 31 """\n""" 30 16 false; mkTok 6 ")" 30 21 false; mkTok 43 (string_of_bytes [96; 108; 105; 110; 101; 49; 10; 108; 105; 110; 101; 50; 96]%N) 31 4 false; mkTok 40 "," 32 7 false; mkTok 22 "u32" 32 9 false; mkTok 42 "u8x" 33 0 false; mkTok 40 "," 33 4 false; mkTok 9 "@tag(" 33 6 false; mkTok 30 "007" 34 4 false; mkTok 44 "//" 35 0 true; mkTok 44 "// c" 36 0 true; mkTok 6 ")" 37 0 false; mkTok 44 "//" 38 0 true; mkTok 44 "//" 39 0 true; mkTok 7 "@lengthOf(" 40 0 false; mkTok 44 "// packet A { u8 x, }" 40 11 true; mkTok 42 "asx" 41 0 false; mkTok 6 ")" 42 4 false; mkTok 36 "repeat" 42 6 false; mkTok 42 "uint8x" 42 13 false; mkTok 2 "{" 42 20 false; mkTok 38 "match" 42 22 false; mkTok 42 "float" 42 29 false; mkTok 17 "as" 43 0 false; mkTok 44 "// @lengthOf(" 43 3 true; mkTok 42 "As" 44 0 false; mkTok 2 "{" 44 2 false; mkTok 18 "[" 44 4 false; mkTok 31 """1""" 44 6 false; mkTok 40 "," 44 10 false; mkTok 31 """""" 44 11 false; mkTok 40 "," 44 14 false; mkTok 30 "255" 44 16 false; mkTok 40 "," 45 0 false; mkTok 30 "255" 46 0 false; mkTok 40 "," 46 4 false; mkTok 30 "007" 47 0 false; mkTok 40 "," 47 4 false; mkTok 31 """1""" 47 6 false; mkTok 44 (string_of_bytes [47; 47; 32; 230; 179; 168; 233; 135; 138]%N) 47 9 true; mkTok 13 "]" 48 0 false; mkTok 39 ":" 49 0 false; mkTok 42 "rootA" 49 2 false; mkTok 31 """1""" 49 7 false; mkTok 39 ":" 50 4 false; mkTok 42 "msg_type" 50 6 false; mkTok 44 "// c" 50 15 true; mkTok 40 "," 51 0 false; mkTok 30 "65535" 52 0 false; mkTok 39 ":" 52 5 false; mkTok 42 "f32a" 52 7 false; mkTok 40 "," 52 12 false; mkTok 31 """x y""" 52 14 false; mkTok 39 ":" 53 0 false; mkTok 44 "//" 54 4 true; mkTok 42 "leftPad" 55 4 false; mkTok 3 "}" 55 11 false; mkTok 40 "," 56 4 false; mkTok 3 "}" 56 6 false; mkTok 44 "// trailing space " 57 4 true; mkTok 40 "," 58 4 false; mkTok 20 "u8" 58 6 false; mkTok 42 "asx" 58 9 false; mkTok 43 "`u8 x,`" 58 13 false; mkTok 40 "," 58 20 false; mkTok 42 "len" 58 22 false; mkTok 43 "`it's`" 58 26 false; mkTok 40 "," 58 32 false; mkTok 3 "}" 58 33 false; mkTok 44 "//x" 59 0 true; mkTok 44 "/// triple" 60 0 true; mkTok 1 "options" 61 0 false; mkTok 2 "{" 61 8 false; mkTok 42 "falsey" 62 0 false; mkTok 4 "=" 62 7 false; mkTok 10 "true" 63 0 false; mkTok 3 "}" 63 5 false; mkTok 0 "<EOF>" 64 0 false] (mkPacket (mkPtok 35 "packet" 1 0 0) (Some (mkPtok 3 "}" 63 5 180)) [(DPacket (mkPacketDef (mkSpan (mkPtok 35 "packet" 1 0 0) (mkPtok 3 "}" 58 33 172)) None (mkPtok 35 "packet" 1 0 0) (mkPtok 42 "packetx" 1 7 1) (mkPtok 2 "{" 1 14 2) [(mkFieldWithAttr (mkSpan (mkPtok 42 "stringy" 1 16 3) (mkPtok 40 "," 21 0 66)) [] (InerObjectField (mkSpan (mkPtok 42 "stringy" 1 16 3) (mkPtok 40 "," 21 0 66)) None (InerObjectDecl (mkSpan (mkPtok 42 "stringy" 1 16 3) (mkPtok 3 "}" 20 3 65)) (mkPtok 42 "stringy" 1 16 3) (mkPtok 2 "{" 1 23 4) [(InerObjectField (mkSpan (mkPtok 36 "repeat" 1 25 5) (mkPtok 40 "," 14 5 43)) (Some (mkPtok 36 "repeat" 1 25 5)) (InerObjectDecl (mkSpan (mkPtok 42 "matchKey" 1 33 6) (mkPtok 3 "}" 14 4 42)) (mkPtok 42 "matchKey" 1 33 6) (mkPtok 2 "{" 2 4 7) [(MatchField (mkSpan (mkPtok 38 "match" 2 6 8) (mkPtok 40 "," 11 7 29)) (mkMatchFieldDecl (mkSpan (mkPtok 38 "match" 2 6 8) (mkPtok 3 "}" 11 5 28)) (mkPtok 38 "match" 2 6 8) (mkPtok 42 "falsey" 3 4 9) (mkPtok 17 "as" 3 11 10) (mkPtok 42 "matchKey" 3 14 11) (mkPtok 2 "{" 4 0 12) [(mkMatchPair (mkSpan (mkPtok 30 "0123456789" 4 2 13) (mkPtok 40 "," 5 6 16)) (MKDigits (mkPtok 30 "0123456789" 4 2 13)) (mkPtok 39 ":" 4 13 14) (mkPtok 42 "float" 5 0 15) (Some (mkPtok 40 "," 5 6 16))); (mkMatchPair (mkSpan (mkPtok 18 "[" 6 0 17) (mkPtok 42 "u128" 7 9 21)) (MKList (mkKeyList (mkSpan (mkPtok 18 "[" 6 0 17) (mkPtok 13 "]" 7 6 19)) (mkPtok 18 "[" 6 0 17) (mkPtok 31 """abc""" 7 0 18) [] (mkPtok 13 "]" 7 6 19))) (mkPtok 39 ":" 7 8 20) (mkPtok 42 "u128" 7 9 21) None); (mkMatchPair (mkSpan (mkPtok 31 """x y""" 10 0 24) (mkPtok 42 "i8i8" 11 0 27)) (MKString (mkPtok 31 """x y""" 10 0 24)) (mkPtok 39 ":" 10 6 25) (mkPtok 42 "i8i8" 11 0 27) None)] (mkPtok 3 "}" 11 5 28)) (mkPtok 40 "," 11 7 29)); (MatchField (mkSpan (mkPtok 38 "match" 11 9 30) (mkPtok 40 "," 13 2 41)) (mkMatchFieldDecl (mkSpan (mkPtok 38 "match" 11 9 30) (mkPtok 3 "}" 13 0 40)) (mkPtok 38 "match" 11 9 30) (mkPtok 42 "falsey" 11 16 31) (mkPtok 17 "as" 11 23 32) (mkPtok 42 "Foo" 11 26 33) (mkPtok 2 "{" 11 30 34) [(mkMatchPair (mkSpan (mkPtok 30 "65535" 11 32 35) (mkPtok 40 "," 12 8 39)) (MKDigits (mkPtok 30 "65535" 11 32 35)) (mkPtok 39 ":" 12 0 37) (mkPtok 42 "trueish" 12 1 38) (Some (mkPtok 40 "," 12 8 39)))] (mkPtok 3 "}" 13 0 40)) (mkPtok 40 "," 13 2 41))] (mkPtok 3 "}" 14 4 42)) (mkPtok 40 "," 14 5 43)); (CheckSumField (mkSpan (mkPtok 16 "char[]" 14 8 44) (mkPtok 40 "," 15 9 49)) (mkChecksumFieldDecl (mkSpan (mkPtok 16 "char[]" 14 8 44) (mkPtok 40 "," 15 9 49)) (Some (TyDynamic (mkSpan (mkPtok 16 "char[]" 14 8 44) (mkPtok 16 "char[]" 14 8 44)) (mkDynamicString (mkSpan (mkPtok 16 "char[]" 14 8 44) (mkPtok 16 "char[]" 14 8 44)) (mkPtok 16 "char[]" 14 8 44)))) (mkPtok 42 "roots" 14 16 45) (mkCalculatedFrom (mkSpan (mkPtok 5 "@calculatedFrom(" 14 21 46) (mkPtok 6 ")" 15 8 48)) (mkPtok 5 "@calculatedFrom(" 14 21 46) (mkPtok 31 (string_of_bytes [34; 230; 182; 136; 230; 129; 175; 34]%N) 15 4 47) (mkPtok 6 ")" 15 8 48)) None (mkPtok 40 "," 15 9 49))); (MetaField (mkSpan (mkPtok 14 "zchar[" 15 11 50) (mkPtok 40 "," 18 6 56)) None (mkMetaDecl (mkSpan (mkPtok 14 "zchar[" 15 11 50) (mkPtok 40 "," 18 6 56)) (TyFixed (mkSpan (mkPtok 14 "zchar[" 15 11 50) (mkPtok 13 "]" 18 0 54)) (mkFixedString (mkSpan (mkPtok 14 "zchar[" 15 11 50) (mkPtok 13 "]" 18 0 54)) (mkPtok 14 "zchar[" 15 11 50) (mkPtok 30 "0123456789" 15 18 51) (mkPtok 13 "]" 18 0 54))) (mkPtok 42 "i64_" 18 1 55) None (mkPtok 40 "," 18 6 56))); (LengthField (mkSpan (mkPtok 14 "zchar[" 18 8 57) (mkPtok 40 "," 20 0 64)) (mkLengthFieldDecl (mkSpan (mkPtok 14 "zchar[" 18 8 57) (mkPtok 40 "," 20 0 64)) (Some (TyFixed (mkSpan (mkPtok 14 "zchar[" 18 8 57) (mkPtok 13 "]" 18 18 59)) (mkFixedString (mkSpan (mkPtok 14 "zchar[" 18 8 57) (mkPtok 13 "]" 18 18 59)) (mkPtok 14 "zchar[" 18 8 57) (mkPtok 30 "42" 18 15 58) (mkPtok 13 "]" 18 18 59)))) (mkPtok 42 "MetaDataX" 18 20 60) (mkLengthOf (mkSpan (mkPtok 7 "@lengthOf(" 19 0 61) (mkPtok 6 ")" 19 16 63)) (mkPtok 7 "@lengthOf(" 19 0 61) (mkPtok 42 "len" 19 11 62) (mkPtok 6 ")" 19 16 63)) None (mkPtok 40 "," 20 0 64)))] (mkPtok 3 "}" 20 3 65)) (mkPtok 40 "," 21 0 66))); (mkFieldWithAttr (mkSpan (mkPtok 42 "pack" 21 2 67) (mkPtok 40 "," 22 0 72)) [] (LengthField (mkSpan (mkPtok 42 "pack" 21 2 67) (mkPtok 40 "," 22 0 72)) (mkLengthFieldDecl (mkSpan (mkPtok 42 "pack" 21 2 67) (mkPtok 40 "," 22 0 72)) None (mkPtok 42 "pack" 21 2 67) (mkLengthOf (mkSpan (mkPtok 7 "@lengthOf(" 21 7 68) (mkPtok 6 ")" 21 22 70)) (mkPtok 7 "@lengthOf(" 21 7 68) (mkPtok 42 "crc" 21 19 69) (mkPtok 6 ")" 21 22 70)) None (mkPtok 40 "," 22 0 72)))); (mkFieldWithAttr (mkSpan (mkPtok 9 "@tag(" 22 2 73) (mkPtok 40 "," 27 0 93)) [(FATag (mkSpan (mkPtok 9 "@tag(" 22 2 73) (mkPtok 6 ")" 22 14 75)) (mkTagAttr (mkSpan (mkPtok 9 "@tag(" 22 2 73) (mkPtok 6 ")" 22 14 75)) (mkPtok 9 "@tag(" 22 2 73) (mkPtok 30 "65535" 22 8 74) (mkPtok 6 ")" 22 14 75))); (FAPadding (mkSpan (mkPtok 32 "@leftPad" 23 4 76) (mkPtok 6 ")" 24 0 78)) (mkPaddingAttr (mkSpan (mkPtok 32 "@leftPad" 23 4 76) (mkPtok 6 ")" 24 0 78)) (mkPtok 32 "@leftPad" 23 4 76) (mkPtok 8 "(" 23 13 77) None (mkPtok 6 ")" 24 0 78))); (FALengthOf (mkSpan (mkPtok 7 "@lengthOf(" 24 2 79) (mkPtok 6 ")" 25 8 81)) (mkLengthOf (mkSpan (mkPtok 7 "@lengthOf(" 24 2 79) (mkPtok 6 ")" 25 8 81)) (mkPtok 7 "@lengthOf(" 24 2 79) (mkPtok 42 "asx" 25 4 80) (mkPtok 6 ")" 25 8 81)))] (InerObjectField (mkSpan (mkPtok 42 "u8x" 25 10 82) (mkPtok 40 "," 27 0 93)) None (InerObjectDecl (mkSpan (mkPtok 42 "u8x" 25 10 82) (mkPtok 3 "}" 26 3 92)) (mkPtok 42 "u8x" 25 10 82) (mkPtok 2 "{" 25 14 83) [(MetaField (mkSpan (mkPtok 36 "repeat" 25 15 84) (mkPtok 40 "," 25 32 87)) (Some (mkPtok 36 "repeat" 25 15 84)) (mkMetaDecl (mkSpan (mkPtok 23 "uint64" 25 22 85) (mkPtok 40 "," 25 32 87)) (TyBasic (mkSpan (mkPtok 23 "uint64" 25 22 85) (mkPtok 23 "uint64" 25 22 85)) (mkBasicType (mkSpan (mkPtok 23 "uint64" 25 22 85) (mkPtok 23 "uint64" 25 22 85)) (mkPtok 23 "uint64" 25 22 85))) (mkPtok 42 "Pad" 25 29 86) None (mkPtok 40 "," 25 32 87))); (ObjectField (mkSpan (mkPtok 42 "x_y_z" 25 34 88) (mkPtok 40 "," 26 1 91)) None (mkPtok 42 "x_y_z" 25 34 88) (Some (mkPtok 42 "_x" 25 40 89)) (Some (mkPtok 43 (string_of_bytes [96; 10; 96]%N) 25 43 90)) (mkPtok 40 "," 26 1 91))] (mkPtok 3 "}" 26 3 92)) (mkPtok 40 "," 27 0 93))); (mkFieldWithAttr (mkSpan (mkPtok 42 "MetaDataX" 27 2 94) (mkPtok 40 "," 27 19 96)) [] (ObjectField (mkSpan (mkPtok 42 "MetaDataX" 27 2 94) (mkPtok 40 "," 27 19 96)) None (mkPtok 42 "MetaDataX" 27 2 94) (Some (mkPtok 42 "stringy" 27 12 95)) None (mkPtok 40 "," 27 19 96))); (mkFieldWithAttr (mkSpan (mkPtok 7 "@lengthOf(" 29 4 98) (mkPtok 40 "," 32 7 107)) [(FALengthOf (mkSpan (mkPtok 7 "@lengthOf(" 29 4 98) (mkPtok 6 ")" 29 26 100)) (mkLengthOf (mkSpan (mkPtok 7 "@lengthOf(" 29 4 98) (mkPtok 6 ")" 29 26 100)) (mkPtok 7 "@lengthOf(" 29 4 98) (mkPtok 42 "BodyLength" 29 15 99) (mkPtok 6 ")" 29 26 100)))] (CheckSumField (mkSpan (mkPtok 15 "string" 29 28 101) (mkPtok 40 "," 32 7 107)) (mkChecksumFieldDecl (mkSpan (mkPtok 15 "string" 29 28 101) (mkPtok 40 "," 32 7 107)) (Some (TyDynamic (mkSpan (mkPtok 15 "string" 29 28 101) (mkPtok 15 "string" 29 28 101)) (mkDynamicString (mkSpan (mkPtok 15 "string" 29 28 101) (mkPtok 15 "string" 29 28 101)) (mkPtok 15 "string" 29 28 101)))) (mkPtok 42 "calculatedFrom" 29 35 102) (mkCalculatedFrom (mkSpan (mkPtok 5 "@calculatedFrom(" 30 0 103) (mkPtok 6 ")" 30 21 105)) (mkPtok 5 "@calculatedFrom(" 30 0 103) (mkPtok 31 """\n""" 30 16 104) (mkPtok 6 ")" 30 21 105)) (Some (mkPtok 43 (string_of_bytes [96; 108; 105; 110; 101; 49; 10; 108; 105; 110; 101; 50; 96]%N) 31 4 106)) (mkPtok 40 "," 32 7 107)))); (mkFieldWithAttr (mkSpan (mkPtok 22 "u32" 32 9 108) (mkPtok 40 "," 33 4 110)) [] (MetaField (mkSpan (mkPtok 22 "u32" 32 9 108) (mkPtok 40 "," 33 4 110)) None (mkMetaDecl (mkSpan (mkPtok 22 "u32" 32 9 108) (mkPtok 40 "," 33 4 110)) (TyBasic (mkSpan (mkPtok 22 "u32" 32 9 108) (mkPtok 22 "u32" 32 9 108)) (mkBasicType (mkSpan (mkPtok 22 "u32" 32 9 108) (mkPtok 22 "u32" 32 9 108)) (mkPtok 22 "u32" 32 9 108))) (mkPtok 42 "u8x" 33 0 109) None (mkPtok 40 "," 33 4 110)))); (mkFieldWithAttr (mkSpan (mkPtok 9 "@tag(" 33 6 111) (mkPtok 40 "," 58 4 164)) [(FATag (mkSpan (mkPtok 9 "@tag(" 33 6 111) (mkPtok 6 ")" 37 0 115)) (mkTagAttr (mkSpan (mkPtok 9 "@tag(" 33 6 111) (mkPtok 6 ")" 37 0 115)) (mkPtok 9 "@tag(" 33 6 111) (mkPtok 30 "007" 34 4 112) (mkPtok 6 ")" 37 0 115))); (FALengthOf (mkSpan (mkPtok 7 "@lengthOf(" 40 0 118) (mkPtok 6 ")" 42 4 121)) (mkLengthOf (mkSpan (mkPtok 7 "@lengthOf(" 40 0 118) (mkPtok 6 ")" 42 4 121)) (mkPtok 7 "@lengthOf(" 40 0 118) (mkPtok 42 "asx" 41 0 120) (mkPtok 6 ")" 42 4 121)))] (InerObjectField (mkSpan (mkPtok 36 "repeat" 42 6 122) (mkPtok 40 "," 58 4 164)) (Some (mkPtok 36 "repeat" 42 6 122)) (InerObjectDecl (mkSpan (mkPtok 42 "uint8x" 42 13 123) (mkPtok 3 "}" 56 6 162)) (mkPtok 42 "uint8x" 42 13 123) (mkPtok 2 "{" 42 20 124) [(MatchField (mkSpan (mkPtok 38 "match" 42 22 125) (mkPtok 40 "," 56 4 161)) (mkMatchFieldDecl (mkSpan (mkPtok 38 "match" 42 22 125) (mkPtok 3 "}" 55 11 160)) (mkPtok 38 "match" 42 22 125) (mkPtok 42 "float" 42 29 126) (mkPtok 17 "as" 43 0 127) (mkPtok 42 "As" 44 0 129) (mkPtok 2 "{" 44 2 130) [(mkMatchPair (mkSpan (mkPtok 18 "[" 44 4 131) (mkPtok 42 "rootA" 49 2 146)) (MKList (mkKeyList (mkSpan (mkPtok 18 "[" 44 4 131) (mkPtok 13 "]" 48 0 144)) (mkPtok 18 "[" 44 4 131) (mkPtok 31 """1""" 44 6 132) [((mkPtok 40 "," 44 10 133), (mkPtok 31 """""" 44 11 134)); ((mkPtok 40 "," 44 14 135), (mkPtok 30 "255" 44 16 136)); ((mkPtok 40 "," 45 0 137), (mkPtok 30 "255" 46 0 138)); ((mkPtok 40 "," 46 4 139), (mkPtok 30 "007" 47 0 140)); ((mkPtok 40 "," 47 4 141), (mkPtok 31 """1""" 47 6 142))] (mkPtok 13 "]" 48 0 144))) (mkPtok 39 ":" 49 0 145) (mkPtok 42 "rootA" 49 2 146) None); (mkMatchPair (mkSpan (mkPtok 31 """1""" 49 7 147) (mkPtok 40 "," 51 0 151)) (MKString (mkPtok 31 """1""" 49 7 147)) (mkPtok 39 ":" 50 4 148) (mkPtok 42 "msg_type" 50 6 149) (Some (mkPtok 40 "," 51 0 151))); (mkMatchPair (mkSpan (mkPtok 30 "65535" 52 0 152) (mkPtok 40 "," 52 12 155)) (MKDigits (mkPtok 30 "65535" 52 0 152)) (mkPtok 39 ":" 52 5 153) (mkPtok 42 "f32a" 52 7 154) (Some (mkPtok 40 "," 52 12 155))); (mkMatchPair (mkSpan (mkPtok 31 """x y""" 52 14 156) (mkPtok 42 "leftPad" 55 4 159)) (MKString (mkPtok 31 """x y""" 52 14 156)) (mkPtok 39 ":" 53 0 157) (mkPtok 42 "leftPad" 55 4 159) None)] (mkPtok 3 "}" 55 11 160)) (mkPtok 40 "," 56 4 161))] (mkPtok 3 "}" 56 6 162)) (mkPtok 40 "," 58 4 164))); (mkFieldWithAttr (mkSpan (mkPtok 20 "u8" 58 6 165) (mkPtok 40 "," 58 20 168)) [] (MetaField (mkSpan (mkPtok 20 "u8" 58 6 165) (mkPtok 40 "," 58 20 168)) None (mkMetaDecl (mkSpan (mkPtok 20 "u8" 58 6 165) (mkPtok 40 "," 58 20 168)) (TyBasic (mkSpan (mkPtok 20 "u8" 58 6 165) (mkPtok 20 "u8" 58 6 165)) (mkBasicType (mkSpan (mkPtok 20 "u8" 58 6 165) (mkPtok 20 "u8" 58 6 165)) (mkPtok 20 "u8" 58 6 165))) (mkPtok 42 "asx" 58 9 166) (Some (mkPtok 43 "`u8 x,`" 58 13 167)) (mkPtok 40 "," 58 20 168)))); (mkFieldWithAttr (mkSpan (mkPtok 42 "len" 58 22 169) (mkPtok 40 "," 58 32 171)) [] (ObjectField (mkSpan (mkPtok 42 "len" 58 22 169) (mkPtok 40 "," 58 32 171)) None (mkPtok 42 "len" 58 22 169) None (Some (mkPtok 43 "`it's`" 58 26 170)) (mkPtok 40 "," 58 32 171)))] (mkPtok 3 "}" 58 33 172))); (DOption (mkOptionDef (mkSpan (mkPtok 1 "options" 61 0 175) (mkPtok 3 "}" 63 5 180)) (mkPtok 1 "options" 61 0 175) (mkPtok 2 "{" 61 8 176) [(mkOptionDecl (mkSpan (mkPtok 42 "falsey" 62 0 177) (mkPtok 10 "true" 63 0 179)) (mkPtok 42 "falsey" 62 0 177) (mkPtok 4 "=" 62 7 178) (VTrue (mkSpan (mkPtok 10 "true" 63 0 179) (mkPtok 10 "true" 63 0 179)) (mkPtok 10 "true" 63 0 179)) None)] (mkPtok 3 "}" 63 5 180)))])).
-Eval vm_compute in ("<<<M1438>>>" ++ check (runes_of_ascii "packet
+Eval vm_compute in ("<<<M2174>>>" ++ check (@nil rune)).
+Eval vm_compute in ("<<<M2206>>>" ++ check (runes_of_ascii "options{
 leftPad
-{ @tag(
-1
-) i8 // a // b
-crc , float64 packetx `" ++ [233]%N ++ runes_of_ascii "` , lengthOf
-@lengthOf( charz
-    // trailing space 
-    ) , repeat
-    Packet ,	@lengthOf( u )  @lengthOf(// " ++ [27880; 37322]%N ++ runes_of_ascii "
-T )
-    repeat u16 uint8x `" ++ [28040; 24687; 31867; 22411]%N ++ runes_of_ascii "`,
-    zchar[  10
-]// a // b
-metadata ``
-    , match // packet A { u8 x, }
-trueish
-    as options1{0123456789
-: rootA
-    ,255: MetaDataX[""a\\"" ,/// triple
-""\n"",00
-, 10 ] : trueish ,	""CRC32"" :
-uint8x, 0 : Z9_ ,  ""1""// c
-: i8i8
-// `tick` ""quote"" 'q'
-// packet A { u8 x, }
-,} , @calculatedFrom( ""it's"" ) uint8 chars `
-` , } options
-    // @lengthOf(
-    {
-    f32a
-= i16 ; // " ++ [128512]%N ++ runes_of_ascii " emoji
-u
-    = ""abc"" }MetaData chars{	i16 lengthOf , Packet msg_type
-    `crlf
-line` ,} // " ++ [27880; 37322]%N)).
-Eval vm_compute in ("<<<M1470>>>" ++ check (runes_of_ascii "packet  Foo {
-@calculatedFrom(
-""`tick`"" ) @rightPad
-    ( ' ' )
-/// triple
-//x
-repeat float { repeatCount
-    , /// triple
-zchar[ 0123456789
-    ]rootA
-@calculatedFrom(	""{,}"")
-, match
-// c
-// a // b
-matchKey
-as T { ""\n"" :o
-//
-// `tick` ""quote"" 'q'
-00 : tag [3 // trailing space 
-, 65535
-    // trailing space 
-    ] : body,	}	,
-} ,
-@rightPad
-    // @lengthOf(
-    (
-    ' ' ) @leftPad
-('0' ) string packetx @calculatedFrom(""x y"" )
-    ,  @lengthOf( charz ) string i64_ `crlf
-line`, @rightPad  ('0' ) repeat string calculatedFrom `tab	here`,}
-")).
-Eval vm_compute in ("<<<M1502>>>" ++ check (runes_of_ascii "// " ++ [27880; 37322]%N ++ runes_of_ascii "
-packet Header{ @tag( 255  )  @lengthOf(	o
-)char[ 3 ]
-string_ , @lengthOf(
-falsey )  repeat body { match uint8x as repeatCount { ""CRC32"":T , [ ""a\\"" , ""it's"" , """" , 0123456789 , 255 , 0123456789,	""`tick`"" ]
-    :	i64_	[ ""it's""
-    ]
-: metadata , // @lengthOf(
-""\n"" :
-x , } ,	} // packet A { u8 x, }
-,
-_x  , @leftPad (
-) repeat Header `
-`,  uint32 charz
-    , @calculatedFrom(
-    """ ++ [28040; 24687]%N ++ runes_of_ascii """
-    ) repeat i64_
-{ pack `line1
-line2` , calculatedFrom @calculatedFrom(
-    ""packet"" ) , }  , charz@lengthOf(
-    trueish )
-, match o as metadata {[ 42 ] : falsey	,
-    ""CRC32"": pack ,[
-255 ,""\" ++ [233]%N ++ runes_of_ascii """, // c
-""`tick`"" ] :  u8x , [ ""it's""  ] : i8i8 , } , } MetaData Pad {
-    // c
-    f64 a1
-    ,} packet roots {
-@lengthOf( string_ ) i8 u
-`line1
-line2` , f32
-    matchKey`doc`
-    , @lengthOf( //	t
-A ) repeatCount Header
-,
-}options // @lengthOf(
-{
-    x_y_z //	t
-= true
-u8x = '0';	}	options { chars
-=""packet"" ;
-    }")).
-Eval vm_compute in ("<<<M1534>>>" ++ check (@nil rune)).
-Eval vm_compute in ("<<<M1566>>>" ++ check (runes_of_ascii "MetaData	roots {char[]i8i8
-,string options1 ,options1 calculatedFrom `doc`
-,
-    _x	rootA `" ++ [233]%N ++ runes_of_ascii "`, } MetaData f32a {
-int float
-, options1 chars
-`// not a comment`, uint64 A , Z9_
-    Z9_ , body
-    charz
-,i64/// triple
-u
-,}")).
-Eval vm_compute in ("<<<M1598>>>" ++ check (runes_of_ascii "
-")).
-Eval vm_compute in ("<<<M1630>>>" ++ check (runes_of_ascii "packet tag { match zchar as
-metadata/// triple
-{ [ 0123456789 , ""abc"" ] : body[ """"
-, ""\n""
-, 00
-    // " ++ [27880; 37322]%N ++ runes_of_ascii "
-    ,
-    """", 00
-, 42 , """ ++ [233]%N ++ runes_of_ascii "t" ++ [233]%N ++ runes_of_ascii """, 0123456789 ]
-:Foo
-, [
-007 , 007 ,4294967296
-,	7  ]
-    // trailing space 
-    : body , 007 :  asx , }
-    ,@tag(
-    007
-)BodyLength repeatCount `
-` // packet A { u8 x, }
-, repeat
-    char[// `tick` ""quote"" 'q'
-7
-] As , A
-    // packet A { u8 x, }
-    @calculatedFrom( ""x y"" ) , u8 trueish // c
-@lengthOf(zchar
-) ,
-}MetaData msg_type {	}
-    MetaData uint8x  {  repeatCount
-leftPad//	t
-,}
-    // a // b
-    packet falsey
-// packet A { u8 x, }
-// packet A { u8 x, }
-{ u128
-    x, } root packet T{
-    i8
-chars @lengthOf( Packet)
-,
-}
-")).
-Eval vm_compute in ("<<<T1630>>>" ++ terms [mkTok 35 "packet" 1 0 false; mkTok 42 "tag" 1 7 false; mkTok 2 "{" 1 11 false; mkTok 38 "match" 1 13 false; mkTok 42 "zchar" 1 19 false; mkTok 17 "as" 1 25 false; mkTok 42 "metadata" 2 0 false; mkTok 44 "/// triple" 2 8 true; mkTok 2 "{" 3 0 false; mkTok 18 "[" 3 2 false; mkTok 30 "0123456789" 3 4 false; mkTok 40 "," 3 15 false; mkTok 31 """abc""" 3 17 false; mkTok 13 "]" 3 23 false; mkTok 39 ":" 3 25 false; mkTok 42 "body" 3 27 false; mkTok 18 "[" 3 31 false; mkTok 31 """""" 3 33 false; mkTok 40 "," 4 0 false; mkTok 31 """\n""" 4 2 false; mkTok 40 "," 5 0 false; mkTok 30 "00" 5 2 false; mkTok 44 (string_of_bytes [47; 47; 32; 230; 179; 168; 233; 135; 138]%N) 6 4 true; mkTok 40 "," 7 4 false; mkTok 31 """""" 8 4 false; mkTok 40 "," 8 6 false; mkTok 30 "00" 8 8 false; mkTok 40 "," 9 0 false; mkTok 30 "42" 9 2 false; mkTok 40 "," 9 5 false; mkTok 31 (string_of_bytes [34; 195; 169; 116; 195; 169; 34]%N) 9 7 false; mkTok 40 "," 9 12 false; mkTok 30 "0123456789" 9 14 false; mkTok 13 "]" 9 25 false; mkTok 39 ":" 10 0 false; mkTok 42 "Foo" 10 1 false; mkTok 40 "," 11 0 false; mkTok 18 "[" 11 2 false; mkTok 30 "007" 12 0 false; mkTok 40 "," 12 4 false; mkTok 30 "007" 12 6 false; mkTok 40 "," 12 10 false; mkTok 30 "4294967296" 12 11 false; mkTok 40 "," 13 0 false; mkTok 30 "7" 13 2 false; mkTok 13 "]" 13 5 false; mkTok 44 "// trailing space " 14 4 true; mkTok 39 ":" 15 4 false; mkTok 42 "body" 15 6 false; mkTok 40 "," 15 11 false; mkTok 30 "007" 15 13 false; mkTok 39 ":" 15 17 false; mkTok 42 "asx" 15 20 false; mkTok 40 "," 15 24 false; mkTok 3 "}" 15 26 false; mkTok 40 "," 16 4 false; mkTok 9 "@tag(" 16 5 false; mkTok 30 "007" 17 4 false; mkTok 6 ")" 18 0 false; mkTok 42 "BodyLength" 18 1 false; mkTok 42 "repeatCount" 18 12 false; mkTok 43 (string_of_bytes [96; 10; 96]%N) 18 24 false; mkTok 44 "// packet A { u8 x, }" 19 2 true; mkTok 40 "," 20 0 false; mkTok 36 "repeat" 20 2 false; mkTok 12 "char[" 21 4 false; mkTok 44 "// `tick` ""quote"" 'q'" 21 9 true; mkTok 30 "7" 22 0 false; mkTok 13 "]" 23 0 false; mkTok 42 "As" 23 2 false; mkTok 40 "," 23 5 false; mkTok 42 "A" 23 7 false; mkTok 44 "// packet A { u8 x, }" 24 4 true; mkTok 5 "@calculatedFrom(" 25 4 false; mkTok 31 """x y""" 25 21 false; mkTok 6 ")" 25 27 false; mkTok 40 "," 25 29 false; mkTok 20 "u8" 25 31 false; mkTok 42 "trueish" 25 34 false; mkTok 44 "// c" 25 42 true; mkTok 7 "@lengthOf(" 26 0 false; mkTok 42 "zchar" 26 10 false; mkTok 6 ")" 27 0 false; mkTok 40 "," 27 2 false; mkTok 3 "}" 28 0 false; mkTok 37 "MetaData" 28 1 false; mkTok 42 "msg_type" 28 10 false; mkTok 2 "{" 28 19 false; mkTok 3 "}" 28 21 false; mkTok 37 "MetaData" 29 4 false; mkTok 42 "uint8x" 29 13 false; mkTok 2 "{" 29 21 false; mkTok 42 "repeatCount" 29 24 false; mkTok 42 "leftPad" 30 0 false; mkTok 44 (string_of_bytes [47; 47; 9; 116]%N) 30 7 true; mkTok 40 "," 31 0 false; mkTok 3 "}" 31 1 false; mkTok 44 "// a // b" 32 4 true; mkTok 35 "packet" 33 4 false; mkTok 42 "falsey" 33 11 false; mkTok 44 "// packet A { u8 x, }" 34 0 true; mkTok 44 "// packet A { u8 x, }" 35 0 true; mkTok 2 "{" 36 0 false; mkTok 42 "u128" 36 2 false; mkTok 42 "x" 37 4 false; mkTok 40 "," 37 5 false; mkTok 3 "}" 37 7 false; mkTok 34 "root" 37 9 false; mkTok 35 "packet" 37 14 false; mkTok 42 "T" 37 21 false; mkTok 2 "{" 37 22 false; mkTok 24 "i8" 38 4 false; mkTok 42 "chars" 39 0 false; mkTok 7 "@lengthOf(" 39 6 false; mkTok 42 "Packet" 39 17 false; mkTok 6 ")" 39 23 false; mkTok 40 "," 40 0 false; mkTok 3 "}" 41 0 false; mkTok 0 "<EOF>" 42 0 false] (mkPacket (mkPtok 35 "packet" 1 0 0) (Some (mkPtok 3 "}" 41 0 117)) [(DPacket (mkPacketDef (mkSpan (mkPtok 35 "packet" 1 0 0) (mkPtok 3 "}" 28 0 84)) None (mkPtok 35 "packet" 1 0 0) (mkPtok 42 "tag" 1 7 1) (mkPtok 2 "{" 1 11 2) [(mkFieldWithAttr (mkSpan (mkPtok 38 "match" 1 13 3) (mkPtok 40 "," 16 4 55)) [] (MatchField (mkSpan (mkPtok 38 "match" 1 13 3) (mkPtok 40 "," 16 4 55)) (mkMatchFieldDecl (mkSpan (mkPtok 38 "match" 1 13 3) (mkPtok 3 "}" 15 26 54)) (mkPtok 38 "match" 1 13 3) (mkPtok 42 "zchar" 1 19 4) (mkPtok 17 "as" 1 25 5) (mkPtok 42 "metadata" 2 0 6) (mkPtok 2 "{" 3 0 8) [(mkMatchPair (mkSpan (mkPtok 18 "[" 3 2 9) (mkPtok 42 "body" 3 27 15)) (MKList (mkKeyList (mkSpan (mkPtok 18 "[" 3 2 9) (mkPtok 13 "]" 3 23 13)) (mkPtok 18 "[" 3 2 9) (mkPtok 30 "0123456789" 3 4 10) [((mkPtok 40 "," 3 15 11), (mkPtok 31 """abc""" 3 17 12))] (mkPtok 13 "]" 3 23 13))) (mkPtok 39 ":" 3 25 14) (mkPtok 42 "body" 3 27 15) None); (mkMatchPair (mkSpan (mkPtok 18 "[" 3 31 16) (mkPtok 40 "," 11 0 36)) (MKList (mkKeyList (mkSpan (mkPtok 18 "[" 3 31 16) (mkPtok 13 "]" 9 25 33)) (mkPtok 18 "[" 3 31 16) (mkPtok 31 """""" 3 33 17) [((mkPtok 40 "," 4 0 18), (mkPtok 31 """\n""" 4 2 19)); ((mkPtok 40 "," 5 0 20), (mkPtok 30 "00" 5 2 21)); ((mkPtok 40 "," 7 4 23), (mkPtok 31 """""" 8 4 24)); ((mkPtok 40 "," 8 6 25), (mkPtok 30 "00" 8 8 26)); ((mkPtok 40 "," 9 0 27), (mkPtok 30 "42" 9 2 28)); ((mkPtok 40 "," 9 5 29), (mkPtok 31 (string_of_bytes [34; 195; 169; 116; 195; 169; 34]%N) 9 7 30)); ((mkPtok 40 "," 9 12 31), (mkPtok 30 "0123456789" 9 14 32))] (mkPtok 13 "]" 9 25 33))) (mkPtok 39 ":" 10 0 34) (mkPtok 42 "Foo" 10 1 35) (Some (mkPtok 40 "," 11 0 36))); (mkMatchPair (mkSpan (mkPtok 18 "[" 11 2 37) (mkPtok 40 "," 15 11 49)) (MKList (mkKeyList (mkSpan (mkPtok 18 "[" 11 2 37) (mkPtok 13 "]" 13 5 45)) (mkPtok 18 "[" 11 2 37) (mkPtok 30 "007" 12 0 38) [((mkPtok 40 "," 12 4 39), (mkPtok 30 "007" 12 6 40)); ((mkPtok 40 "," 12 10 41), (mkPtok 30 "4294967296" 12 11 42)); ((mkPtok 40 "," 13 0 43), (mkPtok 30 "7" 13 2 44))] (mkPtok 13 "]" 13 5 45))) (mkPtok 39 ":" 15 4 47) (mkPtok 42 "body" 15 6 48) (Some (mkPtok 40 "," 15 11 49))); (mkMatchPair (mkSpan (mkPtok 30 "007" 15 13 50) (mkPtok 40 "," 15 24 53)) (MKDigits (mkPtok 30 "007" 15 13 50)) (mkPtok 39 ":" 15 17 51) (mkPtok 42 "asx" 15 20 52) (Some (mkPtok 40 "," 15 24 53)))] (mkPtok 3 "}" 15 26 54)) (mkPtok 40 "," 16 4 55))); (mkFieldWithAttr (mkSpan (mkPtok 9 "@tag(" 16 5 56) (mkPtok 40 "," 20 0 63)) [(FATag (mkSpan (mkPtok 9 "@tag(" 16 5 56) (mkPtok 6 ")" 18 0 58)) (mkTagAttr (mkSpan (mkPtok 9 "@tag(" 16 5 56) (mkPtok 6 ")" 18 0 58)) (mkPtok 9 "@tag(" 16 5 56) (mkPtok 30 "007" 17 4 57) (mkPtok 6 ")" 18 0 58)))] (ObjectField (mkSpan (mkPtok 42 "BodyLength" 18 1 59) (mkPtok 40 "," 20 0 63)) None (mkPtok 42 "BodyLength" 18 1 59) (Some (mkPtok 42 "repeatCount" 18 12 60)) (Some (mkPtok 43 (string_of_bytes [96; 10; 96]%N) 18 24 61)) (mkPtok 40 "," 20 0 63))); (mkFieldWithAttr (mkSpan (mkPtok 36 "repeat" 20 2 64) (mkPtok 40 "," 23 5 70)) [] (MetaField (mkSpan (mkPtok 36 "repeat" 20 2 64) (mkPtok 40 "," 23 5 70)) (Some (mkPtok 36 "repeat" 20 2 64)) (mkMetaDecl (mkSpan (mkPtok 12 "char[" 21 4 65) (mkPtok 40 "," 23 5 70)) (TyFixed (mkSpan (mkPtok 12 "char[" 21 4 65) (mkPtok 13 "]" 23 0 68)) (mkFixedString (mkSpan (mkPtok 12 "char[" 21 4 65) (mkPtok 13 "]" 23 0 68)) (mkPtok 12 "char[" 21 4 65) (mkPtok 30 "7" 22 0 67) (mkPtok 13 "]" 23 0 68))) (mkPtok 42 "As" 23 2 69) None (mkPtok 40 "," 23 5 70)))); (mkFieldWithAttr (mkSpan (mkPtok 42 "A" 23 7 71) (mkPtok 40 "," 25 29 76)) [] (CheckSumField (mkSpan (mkPtok 42 "A" 23 7 71) (mkPtok 40 "," 25 29 76)) (mkChecksumFieldDecl (mkSpan (mkPtok 42 "A" 23 7 71) (mkPtok 40 "," 25 29 76)) None (mkPtok 42 "A" 23 7 71) (mkCalculatedFrom (mkSpan (mkPtok 5 "@calculatedFrom(" 25 4 73) (mkPtok 6 ")" 25 27 75)) (mkPtok 5 "@calculatedFrom(" 25 4 73) (mkPtok 31 """x y""" 25 21 74) (mkPtok 6 ")" 25 27 75)) None (mkPtok 40 "," 25 29 76)))); (mkFieldWithAttr (mkSpan (mkPtok 20 "u8" 25 31 77) (mkPtok 40 "," 27 2 83)) [] (LengthField (mkSpan (mkPtok 20 "u8" 25 31 77) (mkPtok 40 "," 27 2 83)) (mkLengthFieldDecl (mkSpan (mkPtok 20 "u8" 25 31 77) (mkPtok 40 "," 27 2 83)) (Some (TyBasic (mkSpan (mkPtok 20 "u8" 25 31 77) (mkPtok 20 "u8" 25 31 77)) (mkBasicType (mkSpan (mkPtok 20 "u8" 25 31 77) (mkPtok 20 "u8" 25 31 77)) (mkPtok 20 "u8" 25 31 77)))) (mkPtok 42 "trueish" 25 34 78) (mkLengthOf (mkSpan (mkPtok 7 "@lengthOf(" 26 0 80) (mkPtok 6 ")" 27 0 82)) (mkPtok 7 "@lengthOf(" 26 0 80) (mkPtok 42 "zchar" 26 10 81) (mkPtok 6 ")" 27 0 82)) None (mkPtok 40 "," 27 2 83))))] (mkPtok 3 "}" 28 0 84))); (DMeta (mkMetaDef (mkSpan (mkPtok 37 "MetaData" 28 1 85) (mkPtok 3 "}" 28 21 88)) (mkPtok 37 "MetaData" 28 1 85) (mkPtok 42 "msg_type" 28 10 86) (mkPtok 2 "{" 28 19 87) [] (mkPtok 3 "}" 28 21 88))); (DMeta (mkMetaDef (mkSpan (mkPtok 37 "MetaData" 29 4 89) (mkPtok 3 "}" 31 1 96)) (mkPtok 37 "MetaData" 29 4 89) (mkPtok 42 "uint8x" 29 13 90) (mkPtok 2 "{" 29 21 91) [(MIRef (mkRefMetaDecl (mkSpan (mkPtok 42 "repeatCount" 29 24 92) (mkPtok 40 "," 31 0 95)) (mkPtok 42 "repeatCount" 29 24 92) (mkPtok 42 "leftPad" 30 0 93) None (mkPtok 40 "," 31 0 95)))] (mkPtok 3 "}" 31 1 96))); (DPacket (mkPacketDef (mkSpan (mkPtok 35 "packet" 33 4 98) (mkPtok 3 "}" 37 7 106)) None (mkPtok 35 "packet" 33 4 98) (mkPtok 42 "falsey" 33 11 99) (mkPtok 2 "{" 36 0 102) [(mkFieldWithAttr (mkSpan (mkPtok 42 "u128" 36 2 103) (mkPtok 40 "," 37 5 105)) [] (ObjectField (mkSpan (mkPtok 42 "u128" 36 2 103) (mkPtok 40 "," 37 5 105)) None (mkPtok 42 "u128" 36 2 103) (Some (mkPtok 42 "x" 37 4 104)) None (mkPtok 40 "," 37 5 105)))] (mkPtok 3 "}" 37 7 106))); (DPacket (mkPacketDef (mkSpan (mkPtok 34 "root" 37 9 107) (mkPtok 3 "}" 41 0 117)) (Some (mkPtok 34 "root" 37 9 107)) (mkPtok 35 "packet" 37 14 108) (mkPtok 42 "T" 37 21 109) (mkPtok 2 "{" 37 22 110) [(mkFieldWithAttr (mkSpan (mkPtok 24 "i8" 38 4 111) (mkPtok 40 "," 40 0 116)) [] (LengthField (mkSpan (mkPtok 24 "i8" 38 4 111) (mkPtok 40 "," 40 0 116)) (mkLengthFieldDecl (mkSpan (mkPtok 24 "i8" 38 4 111) (mkPtok 40 "," 40 0 116)) (Some (TyBasic (mkSpan (mkPtok 24 "i8" 38 4 111) (mkPtok 24 "i8" 38 4 111)) (mkBasicType (mkSpan (mkPtok 24 "i8" 38 4 111) (mkPtok 24 "i8" 38 4 111)) (mkPtok 24 "i8" 38 4 111)))) (mkPtok 42 "chars" 39 0 112) (mkLengthOf (mkSpan (mkPtok 7 "@lengthOf(" 39 6 113) (mkPtok 6 ")" 39 23 115)) (mkPtok 7 "@lengthOf(" 39 6 113) (mkPtok 42 "Packet" 39 17 114) (mkPtok 6 ")" 39 23 115)) None (mkPtok 40 "," 40 0 116))))] (mkPtok 3 "}" 41 0 117)))])).
-Eval vm_compute in ("<<<M1662>>>" ++ check (runes_of_ascii "options { As = ""1""
-    Header
-=  '\x00' ; u128 =
-    '0' Z9_ = ""\" ++ [233]%N ++ runes_of_ascii """} packet
-//	t
-// " ++ [128512]%N ++ runes_of_ascii " emoji
-matchKey { }
-packet
-    matchKey { @rightPad (
-    '\x00' ) @tag( 0 )@tag(	4294967296) A@calculatedFrom( ""CRC32"" ) //
-`{ , }` , repeat uint8 u8x , u8	A	`` , @tag( //	t
-42 )trueish , }
-")).
-Eval vm_compute in ("<<<M1694>>>" ++ check (runes_of_ascii "packet metadata
-    {@rightPad (
-    // trailing space 
-    '0' ) T u8x , match // packet A { u8 x, }
-pack as uint8x
-{ 4294967296 : repeatCount
-    // `tick` ""quote"" 'q'
-    ,
-    //x
-    00 : Packet 255 : Pad
-,	""`tick`"" :As /// triple
-,  [007, 10 ] :T
-//
-// " ++ [27880; 37322]%N ++ runes_of_ascii "
-, ""1""  :stringy
-,} , @lengthOf(
-    rootA )
-// a // b
-/// triple
-calculatedFrom  @lengthOf(metadata ) , @tag(
-// c
-//
-65535)
-//	t
-//	t
-repeat f64
-msg_type, calculatedFrom `
-`//
-,
-    u
-,  repeat// " ++ [128512]%N ++ runes_of_ascii " emoji
-i8 string_, repeat float32 trueish
-    ,repeat trueish
-{ int64 A , char[ 0123456789 ] crc
-// a // b
-// a // b
-,
-zchar[ 007 ]
-// a // b
-// " ++ [27880; 37322]%N ++ runes_of_ascii "
-stringy
-    `// not a comment` , } , }
-")).
-Eval vm_compute in ("<<<M1726>>>" ++ check (runes_of_ascii "options
-{tag = 255
-; len =
-""a	b""
-// trailing space 
-//	t
+    =65535
 ;
-len= // packet A { u8 x, }
-""\n""; /// triple
-BodyLength= ""packet""
-chars = 0 }
-packet tag { }
-packet
-roots
-    // packet A { u8 x, }
-    { @tag(
-    7 ) repeat f32a
-,
-    } packet uint8x { lengthOf roots
-// packet A { u8 x, }
-// a // b
-`
-`
-    ,int8 BodyLength , char[	255
-    ] x @calculatedFrom(
-""CRC32""	)`u8 x,` , repeat
-u128 , repeat int64 Pad , @calculatedFrom( ""\n"")
-@tag( 007 ) @rightPad
-    ( ' '  )
-    repeat
-char[ 10 ]	u128 , @lengthOf(	trueish
-)repeat A
-{ char[] /// triple
-roots ,}, }
-")).
-Eval vm_compute in ("<<<M1758>>>" ++ check (runes_of_ascii "packet MetaDataX // " ++ [27880; 37322]%N ++ runes_of_ascii "
-{ uint32 lengthOf ``
-    , u16 T , char o //
-@lengthOf( charz )
-    , @rightPad ( '0' ) falsey,} packet calculatedFrom { repeat char
-    Foo
-    // a // b
-    ,	uint64 options1 `two words` , @calculatedFrom( ""\n"" ) int32
-    x  `" ++ [233]%N ++ runes_of_ascii "` ,uint64
-    options1 @lengthOf( tag ) ,}
-")).
-Eval vm_compute in ("<<<M1790>>>" ++ check (runes_of_ascii "options
-{ }")).
-Eval vm_compute in ("<<<M1822>>>" ++ check (@nil rune)).
-Eval vm_compute in ("<<<M1854>>>" ++ check (runes_of_ascii "  MetaData rootA
-{
-zchar[	10]//	t
-MetaDataX `tab	here`,msg_type x_y_z `doc`
-    , u32 uint8x , //	t
-i64_
-i64_ ,
-    matchKey
-    metadata ,
-calculatedFrom zchar ,
-}
-    // a // b
-    options
-{string_= 10 ; options1 = string;
-    // @lengthOf(
-    MetaDataX= char[]
-; leftPad =
-007
-//x
-// c
-; }MetaData x_y_z	{ u leftPad , Foo
-a1  , // a // b
-len//
-crc `u8 x,`
-    , i8i8 x_y_z
-`line1
-line2` ,
-f64	u `say ""hi""` // @lengthOf(
-,
-}")).
-Eval vm_compute in ("<<<T1854>>>" ++ terms [mkTok 37 "MetaData" 1 2 false; mkTok 42 "rootA" 1 11 false; mkTok 2 "{" 2 0 false; mkTok 14 "zchar[" 3 0 false; mkTok 30 "10" 3 7 false; mkTok 13 "]" 3 9 false; mkTok 44 (string_of_bytes [47; 47; 9; 116]%N) 3 10 true; mkTok 42 "MetaDataX" 4 0 false; mkTok 43 (string_of_bytes [96; 116; 97; 98; 9; 104; 101; 114; 101; 96]%N) 4 10 false; mkTok 40 "," 4 20 false; mkTok 42 "msg_type" 4 21 false; mkTok 42 "x_y_z" 4 30 false; mkTok 43 "`doc`" 4 36 false; mkTok 40 "," 5 4 false; mkTok 22 "u32" 5 6 false; mkTok 42 "uint8x" 5 10 false; mkTok 40 "," 5 17 false; mkTok 44 (string_of_bytes [47; 47; 9; 116]%N) 5 19 true; mkTok 42 "i64_" 6 0 false; mkTok 42 "i64_" 7 0 false; mkTok 40 "," 7 5 false; mkTok 42 "matchKey" 8 4 false; mkTok 42 "metadata" 9 4 false; mkTok 40 "," 9 13 false; mkTok 42 "calculatedFrom" 10 0 false; mkTok 42 "zchar" 10 15 false; mkTok 40 "," 10 21 false; mkTok 3 "}" 11 0 false; mkTok 44 "// a // b" 12 4 true; mkTok 1 "options" 13 4 false; mkTok 2 "{" 14 0 false; mkTok 42 "string_" 14 1 false; mkTok 4 "=" 14 8 false; mkTok 30 "10" 14 10 false; mkTok 41 ";" 14 13 false; mkTok 42 "options1" 14 15 false; mkTok 4 "=" 14 24 false; mkTok 15 "string" 14 26 false; mkTok 41 ";" 14 32 false; mkTok 44 "// @lengthOf(" 15 4 true; mkTok 42 "MetaDataX" 16 4 false; mkTok 4 "=" 16 13 false; mkTok 16 "char[]" 16 15 false; mkTok 41 ";" 17 0 false; mkTok 42 "leftPad" 17 2 false; mkTok 4 "=" 17 10 false; mkTok 30 "007" 18 0 false; mkTok 44 "//x" 19 0 true; mkTok 44 "// c" 20 0 true; mkTok 41 ";" 21 0 false; mkTok 3 "}" 21 2 false; mkTok 37 "MetaData" 21 3 false; mkTok 42 "x_y_z" 21 12 false; mkTok 2 "{" 21 18 false; mkTok 42 "u" 21 20 false; mkTok 42 "leftPad" 21 22 false; mkTok 40 "," 21 30 false; mkTok 42 "Foo" 21 32 false; mkTok 42 "a1" 22 0 false; mkTok 40 "," 22 4 false; mkTok 44 "// a // b" 22 6 true; mkTok 42 "len" 23 0 false; mkTok 44 "//" 23 3 true; mkTok 42 "crc" 24 0 false; mkTok 43 "`u8 x,`" 24 4 false; mkTok 40 "," 25 4 false; mkTok 42 "i8i8" 25 6 false; mkTok 42 "x_y_z" 25 11 false; mkTok 43 (string_of_bytes [96; 108; 105; 110; 101; 49; 10; 108; 105; 110; 101; 50; 96]%N) 26 0 false; mkTok 40 "," 27 7 false; mkTok 29 "f64" 28 0 false; mkTok 42 "u" 28 4 false; mkTok 43 "`say ""hi""`" 28 6 false; mkTok 44 "// @lengthOf(" 28 17 true; mkTok 40 "," 29 0 false; mkTok 3 "}" 30 0 false; mkTok 0 "<EOF>" 30 1 false] (mkPacket (mkPtok 37 "MetaData" 1 2 0) (Some (mkPtok 3 "}" 30 0 75)) [(DMeta (mkMetaDef (mkSpan (mkPtok 37 "MetaData" 1 2 0) (mkPtok 3 "}" 11 0 27)) (mkPtok 37 "MetaData" 1 2 0) (mkPtok 42 "rootA" 1 11 1) (mkPtok 2 "{" 2 0 2) [(MIDecl (mkMetaDecl (mkSpan (mkPtok 14 "zchar[" 3 0 3) (mkPtok 40 "," 4 20 9)) (TyFixed (mkSpan (mkPtok 14 "zchar[" 3 0 3) (mkPtok 13 "]" 3 9 5)) (mkFixedString (mkSpan (mkPtok 14 "zchar[" 3 0 3) (mkPtok 13 "]" 3 9 5)) (mkPtok 14 "zchar[" 3 0 3) (mkPtok 30 "10" 3 7 4) (mkPtok 13 "]" 3 9 5))) (mkPtok 42 "MetaDataX" 4 0 7) (Some (mkPtok 43 (string_of_bytes [96; 116; 97; 98; 9; 104; 101; 114; 101; 96]%N) 4 10 8)) (mkPtok 40 "," 4 20 9))); (MIRef (mkRefMetaDecl (mkSpan (mkPtok 42 "msg_type" 4 21 10) (mkPtok 40 "," 5 4 13)) (mkPtok 42 "msg_type" 4 21 10) (mkPtok 42 "x_y_z" 4 30 11) (Some (mkPtok 43 "`doc`" 4 36 12)) (mkPtok 40 "," 5 4 13))); (MIDecl (mkMetaDecl (mkSpan (mkPtok 22 "u32" 5 6 14) (mkPtok 40 "," 5 17 16)) (TyBasic (mkSpan (mkPtok 22 "u32" 5 6 14) (mkPtok 22 "u32" 5 6 14)) (mkBasicType (mkSpan (mkPtok 22 "u32" 5 6 14) (mkPtok 22 "u32" 5 6 14)) (mkPtok 22 "u32" 5 6 14))) (mkPtok 42 "uint8x" 5 10 15) None (mkPtok 40 "," 5 17 16))); (MIRef (mkRefMetaDecl (mkSpan (mkPtok 42 "i64_" 6 0 18) (mkPtok 40 "," 7 5 20)) (mkPtok 42 "i64_" 6 0 18) (mkPtok 42 "i64_" 7 0 19) None (mkPtok 40 "," 7 5 20))); (MIRef (mkRefMetaDecl (mkSpan (mkPtok 42 "matchKey" 8 4 21) (mkPtok 40 "," 9 13 23)) (mkPtok 42 "matchKey" 8 4 21) (mkPtok 42 "metadata" 9 4 22) None (mkPtok 40 "," 9 13 23))); (MIRef (mkRefMetaDecl (mkSpan (mkPtok 42 "calculatedFrom" 10 0 24) (mkPtok 40 "," 10 21 26)) (mkPtok 42 "calculatedFrom" 10 0 24) (mkPtok 42 "zchar" 10 15 25) None (mkPtok 40 "," 10 21 26)))] (mkPtok 3 "}" 11 0 27))); (DOption (mkOptionDef (mkSpan (mkPtok 1 "options" 13 4 29) (mkPtok 3 "}" 21 2 50)) (mkPtok 1 "options" 13 4 29) (mkPtok 2 "{" 14 0 30) [(mkOptionDecl (mkSpan (mkPtok 42 "string_" 14 1 31) (mkPtok 41 ";" 14 13 34)) (mkPtok 42 "string_" 14 1 31) (mkPtok 4 "=" 14 8 32) (VDigits (mkSpan (mkPtok 30 "10" 14 10 33) (mkPtok 30 "10" 14 10 33)) (mkPtok 30 "10" 14 10 33)) (Some (mkPtok 41 ";" 14 13 34))); (mkOptionDecl (mkSpan (mkPtok 42 "options1" 14 15 35) (mkPtok 41 ";" 14 32 38)) (mkPtok 42 "options1" 14 15 35) (mkPtok 4 "=" 14 24 36) (VType (mkSpan (mkPtok 15 "string" 14 26 37) (mkPtok 15 "string" 14 26 37)) (TyDynamic (mkSpan (mkPtok 15 "string" 14 26 37) (mkPtok 15 "string" 14 26 37)) (mkDynamicString (mkSpan (mkPtok 15 "string" 14 26 37) (mkPtok 15 "string" 14 26 37)) (mkPtok 15 "string" 14 26 37)))) (Some (mkPtok 41 ";" 14 32 38))); (mkOptionDecl (mkSpan (mkPtok 42 "MetaDataX" 16 4 40) (mkPtok 41 ";" 17 0 43)) (mkPtok 42 "MetaDataX" 16 4 40) (mkPtok 4 "=" 16 13 41) (VType (mkSpan (mkPtok 16 "char[]" 16 15 42) (mkPtok 16 "char[]" 16 15 42)) (TyDynamic (mkSpan (mkPtok 16 "char[]" 16 15 42) (mkPtok 16 "char[]" 16 15 42)) (mkDynamicString (mkSpan (mkPtok 16 "char[]" 16 15 42) (mkPtok 16 "char[]" 16 15 42)) (mkPtok 16 "char[]" 16 15 42)))) (Some (mkPtok 41 ";" 17 0 43))); (mkOptionDecl (mkSpan (mkPtok 42 "leftPad" 17 2 44) (mkPtok 41 ";" 21 0 49)) (mkPtok 42 "leftPad" 17 2 44) (mkPtok 4 "=" 17 10 45) (VDigits (mkSpan (mkPtok 30 "007" 18 0 46) (mkPtok 30 "007" 18 0 46)) (mkPtok 30 "007" 18 0 46)) (Some (mkPtok 41 ";" 21 0 49)))] (mkPtok 3 "}" 21 2 50))); (DMeta (mkMetaDef (mkSpan (mkPtok 37 "MetaData" 21 3 51) (mkPtok 3 "}" 30 0 75)) (mkPtok 37 "MetaData" 21 3 51) (mkPtok 42 "x_y_z" 21 12 52) (mkPtok 2 "{" 21 18 53) [(MIRef (mkRefMetaDecl (mkSpan (mkPtok 42 "u" 21 20 54) (mkPtok 40 "," 21 30 56)) (mkPtok 42 "u" 21 20 54) (mkPtok 42 "leftPad" 21 22 55) None (mkPtok 40 "," 21 30 56))); (MIRef (mkRefMetaDecl (mkSpan (mkPtok 42 "Foo" 21 32 57) (mkPtok 40 "," 22 4 59)) (mkPtok 42 "Foo" 21 32 57) (mkPtok 42 "a1" 22 0 58) None (mkPtok 40 "," 22 4 59))); (MIRef (mkRefMetaDecl (mkSpan (mkPtok 42 "len" 23 0 61) (mkPtok 40 "," 25 4 65)) (mkPtok 42 "len" 23 0 61) (mkPtok 42 "crc" 24 0 63) (Some (mkPtok 43 "`u8 x,`" 24 4 64)) (mkPtok 40 "," 25 4 65))); (MIRef (mkRefMetaDecl (mkSpan (mkPtok 42 "i8i8" 25 6 66) (mkPtok 40 "," 27 7 69)) (mkPtok 42 "i8i8" 25 6 66) (mkPtok 42 "x_y_z" 25 11 67) (Some (mkPtok 43 (string_of_bytes [96; 108; 105; 110; 101; 49; 10; 108; 105; 110; 101; 50; 96]%N) 26 0 68)) (mkPtok 40 "," 27 7 69))); (MIDecl (mkMetaDecl (mkSpan (mkPtok 29 "f64" 28 0 70) (mkPtok 40 "," 29 0 74)) (TyBasic (mkSpan (mkPtok 29 "f64" 28 0 70) (mkPtok 29 "f64" 28 0 70)) (mkBasicType (mkSpan (mkPtok 29 "f64" 28 0 70) (mkPtok 29 "f64" 28 0 70)) (mkPtok 29 "f64" 28 0 70))) (mkPtok 42 "u" 28 4 71) (Some (mkPtok 43 "`say ""hi""`" 28 6 72)) (mkPtok 40 "," 29 0 74)))] (mkPtok 3 "}" 30 0 75)))])).
-Eval vm_compute in ("<<<M1886>>>" ++ check (runes_of_ascii "MetaData roots{uint32
-//
-// packet A { u8 x, }
-metadata `u8 x,`,uint8x
-    i64_ `it's`, u o, }
-MetaData
-stringy{ len leftPad ,// " ++ [128512]%N ++ runes_of_ascii " emoji
-repeatCount // " ++ [128512]%N ++ runes_of_ascii " emoji
-o // trailing space 
-, } packet u128{
-@lengthOf( float  )	u16 uint8x`line1
-line2` ,
-@lengthOf(
-/// triple
-//x
-lengthOf
-    )
-@tag( 0
-)@lengthOf( matchKey  ) match
-stringy  as
-    float {
-""\" ++ [233]%N ++ runes_of_ascii """: Z9_}
-, @leftPad
-( ) /// triple
-charz
-    , @calculatedFrom( // trailing space 
-""// no comment"" )repeat char[ 1] As `// not a comment` ,} //")).
-Eval vm_compute in ("<<<M1918>>>" ++ check (runes_of_ascii "packet tag { @calculatedFrom( // " ++ [128512]%N ++ runes_of_ascii " emoji
-""""
-)	match calculatedFrom as
-    rootA {// packet A { u8 x, }
-4294967296:
-msg_type
-} // " ++ [128512]%N ++ runes_of_ascii " emoji
-, // trailing space 
-} options {  string_=f64 }")).
-Eval vm_compute in ("<<<M1950>>>" ++ check (runes_of_ascii "  packet x{ // packet A { u8 x, }
-@tag(42	)  As roots
-    // @lengthOf(
-    ,	} MetaData//	t
-f32a
-{
-T A `tab	here`,	pack string_/// triple
-,
-    }root	packet repeatCount
-{ @calculatedFrom( ""// no comment"" ) x
-    body //
-`two words` ,repeat zchar[ 3// c
-] //	t
-As
-    , //x
-zchar[ 00] asx , repeat i64_
-    { match
-    metadata as packetx{
-""{,}"": As
-, ""packet"" :
-rootA , } , match // c
-zchar as matchKey
-    { [
-    65535 ]
-:
-calculatedFrom
-    ""CRC32""
-    :
-    // " ++ [128512]%N ++ runes_of_ascii " emoji
-    i64_ , 65535:
-packetx ,255 : len ""CRC32""
-    : leftPad
-, } , i16
-matchKey
-    ,
-u lengthOf
-`line1
-line2` , } , }")).
-Eval vm_compute in ("<<<M1982>>>" ++ check (runes_of_ascii "MetaData falsey { char[7
-//
-// @lengthOf(
-]
-    trueish `" ++ [233]%N ++ runes_of_ascii "` ,
-    int32 trueish ,  }root
-    packet As {	@calculatedFrom(//
-""x y"" )
-zchar[ 0123456789 ]
-    msg_type
+a1 = = true ; packetx=  '\x00' ; packetx
+=  """ ++ [28040; 24687]%N ++ runes_of_ascii """MetaDataX= // " ++ [27880; 37322]%N ++ runes_of_ascii "
+false }root // c
+packet // packet A { u8 x, }
+Pad { repeat
+u8 Header
 // packet A { u8 x, }
 //	t
-,
-repeat
-body
-    { // packet A { u8 x, }
-T
-@calculatedFrom(""a	b"")
-,
-    } , u16 Z9_
-    `" ++ [233]%N ++ runes_of_ascii "`,
+`{ , }`
+// a // b
+//x
+, }
+")).
+Eval vm_compute in ("<<<M2238>>>" ++ check (runes_of_ascii "options{
+leftPad
+    =65535
+;
+a1 = true ; packetx=  '\x00' match packetx
+=  """ ++ [28040; 24687]%N ++ runes_of_ascii """MetaDataX= // " ++ [27880; 37322]%N ++ runes_of_ascii "
+false }root // c
+packet // packet A { u8 x, }
+Pad { repeat
+u8 Header
+// packet A { u8 x, }
+//	t
+`{ , }`
+// a // b
+//x
+, }
+")).
+Eval vm_compute in ("<<<M2270>>>" ++ check (runes_of_ascii "options{
+leftPad
+    =65535
+;
+a1 = true ; packetx=  '\x00' ; packetx
+=  """ ++ [28040; 24687]%N ++ runes_of_ascii """MetaDataX= // " ++ [27880; 37322]%N ++ runes_of_ascii "
+false root // c
+packet // packet A { u8 x, }
+Pad { repeat
+u8 Header
+// packet A { u8 x, }
+//	t
+`{ , }`
+// a // b
+//x
+, }
+")).
+Eval vm_compute in ("<<<M2302>>>" ++ check (runes_of_ascii "options{
+leftPad
+    =65535
+;
+a1 = true ; packetx=  '\x00' ; packetx
+=  """ ++ [28040; 24687]%N ++ runes_of_ascii """MetaDataX= // " ++ [27880; 37322]%N ++ runes_of_ascii "
+false }root // c
+packet // packet A { u8 x, }
+Pad { repeat
+Header u8
+// packet A { u8 x, }
+//	t
+`{ , }`
+// a // b
+//x
+, }
+")).
+Eval vm_compute in ("<<<M2334>>>" ++ check (runes_of_ascii "options{
+leftPad
+    =65535
+;
+a1 = true ; packetx=  '\x00' ; packetx
+=  """ ++ [28040; 24687]%N ++ runes_of_ascii """MetaDataX= // " ++ [27880; 37322]%N ++ runes_of_ascii "
+false }root // c
+packet // packet A { u8 x, }
+Pad { repeat
+u8 Header
+// packet A { u8 x, }
+//	t
+`{ , }`
+// a // b
+/" ++ [127]%N ++ runes_of_ascii "/x
+, }
+")).
+Eval vm_compute in ("<<<M2366>>>" ++ check (runes_of_ascii "
+packet float
+{	@calculatedFrom(  )
+@rightPad ( '\x00' )
+    @calculatedFrom( ""x y"" ) string chars  ,
     // a // b
-    charz @calculatedFrom( ""// no comment"" ) , zchar[
-    7	] Header@lengthOf( i64_ // packet A { u8 x, }
-) , match As
-    // `tick` ""quote"" 'q'
-    as
-    a1 {	10 :tag // " ++ [27880; 37322]%N ++ runes_of_ascii "
-} , int64 i8i8 , char[ //	t
-0
-] crc
-    ,}root	packet falsey {}
-")).
-Eval vm_compute in ("<<<M2014>>>" ++ check (runes_of_ascii "options i64_ = string ; trueish =
-    '\x00'
-    leftPad = ""a\\"" /// triple
-; crc
-    = 255; uint8x
-=
-""abc""
-    ;}")).
-Eval vm_compute in ("<<<M2046>>>" ++ check (runes_of_ascii "options{ i64_ = string ; trueish '\x00'
-    =
-    leftPad = ""a\\"" /// triple
-; crc
-    = 255; uint8x
-=
-""abc""
-    ;}")).
-Eval vm_compute in ("<<<M2078>>>" ++ check (runes_of_ascii "options{ i64_ = string ; trueish =
-    '\x00'
-    leftPad = ""a\\"" /// triple
-;")).
-Eval vm_compute in ("<<<M2110>>>" ++ check (runes_of_ascii "options{ i64_ = string ; trueish =
-    '\x00'
-    leftPad = ""a\\"" /// triple
-; crc
-    = 255; uint8x
-=
-""abc""
-    ; ;}")).
-Eval vm_compute in ("<<<M2142>>>" ++ check (runes_of_ascii "  asx
-packet
-{
-/// triple
-// @lengthOf(
-u32 stringy
-`" ++ [28040; 24687; 31867; 22411]%N ++ runes_of_ascii "` ,} MetaData
-    A {string  _x, zchar Header `a\`
-// @lengthOf(
-// packet A { u8 x, }
-, char[] MetaDataX
-,zchar[ 1 ]
-    matchKey
-    , char[] //
-u,	char[0123456789 ]
-    matchKey
-    `{ , }`, }
-")).
-Eval vm_compute in ("<<<M2174>>>" ++ check (runes_of_ascii "  packet
-asx
-{
-/// triple
-// @lengthOf(
-u32 stringy
-`" ++ [28040; 24687; 31867; 22411]%N ++ runes_of_ascii "`")).
-Eval vm_compute in ("<<<M2206>>>" ++ check (runes_of_ascii "  packet
-asx
-{
-/// triple
-// @lengthOf(
-u32 stringy
-`" ++ [28040; 24687; 31867; 22411]%N ++ runes_of_ascii "` ,} MetaData
-    A {string  _x, , zchar Header `a\`
-// @lengthOf(
-// packet A { u8 x, }
-, char[] MetaDataX
-,zchar[ 1 ]
-    matchKey
-    , char[] //
-u,	char[0123456789 ]
-    matchKey
-    `{ , }`, }
-")).
-Eval vm_compute in ("<<<M2238>>>" ++ check (runes_of_ascii "  packet
-asx
-{
-/// triple
-// @lengthOf(
-u32 stringy
-`" ++ [28040; 24687; 31867; 22411]%N ++ runes_of_ascii "` ,} MetaData
-    A {string  _x, zchar Header `a\`
-// @lengthOf(
-// packet A { u8 x, }
-, char[] @tag(
-,zchar[ 1 ]
-    matchKey
-    , char[] //
-u,	char[0123456789 ]
-    matchKey
-    `{ , }`, }
-")).
-Eval vm_compute in ("<<<M2270>>>" ++ check (runes_of_ascii "  packet
-asx
-{
-/// triple
-// @lengthOf(
-u32 stringy
-`" ++ [28040; 24687; 31867; 22411]%N ++ runes_of_ascii "` ,} MetaData
-    A {string  _x, zchar Header `a\`
-// @lengthOf(
-// packet A { u8 x, }
-, char[] MetaDataX
-,zchar[ 1 ]
-    matchKey
-    ,  //
-u,	char[0123456789 ]
-    matchKey
-    `{ , }`, }
-")).
-Eval vm_compute in ("<<<M2302>>>" ++ check (runes_of_ascii "  packet
-asx
-{
-/// triple
-// @lengthOf(
-u32 stringy
-`" ++ [28040; 24687; 31867; 22411]%N ++ runes_of_ascii "` ,} MetaData
-    A {string  _x, zchar Header `a\`
-// @lengthOf(
-// packet A { u8 x, }
-, char[] MetaDataX
-,zchar[ 1 ]
-    matchKey
-    , char[] //
-u,	char[0123456789 ]
-    `{ , }`
-    matchKey, }
-")).
-Eval vm_compute in ("<<<M2334>>>" ++ check (runes_of_ascii "  packet
-asx
-{
-/// triple
-// @lengthOf(
-u32 stringy
-`" ++ [28040; 24687; 31867; 22411]%N ++ runes_of_ascii "` ,} MetaData
-    A {string  _x, zchar Header `a\`
-// @lengthOf(
-// packet A { u8 x, }
-, char[] MetaDataX
-,zchar[ 1 ]
-    matchKey
-    , char[] //
-`u,	char[0123456789 ]
-    matchKey
-    `{ , }`, }
-")).
-Eval vm_compute in ("<<<M2366>>>" ++ check (runes_of_ascii "root
-    packet
-Packet
-{ // trailing space 
-matchKey  ,}")).
-Eval vm_compute in ("<<<M2398>>>" ++ check (runes_of_ascii "root
-    packet
-Packet
-{ // trailing space 
-matchKey `tab	here` ,}@tag")).
-Eval vm_compute in ("<<<M2430>>>" ++ check (runes_of_ascii "options{ falsey // a // b
-=
-    '0' @leftPad options { repeatCount =
-true ; string_// a // b
-=
-// c
-// " ++ [27880; 37322]%N ++ runes_of_ascii "
-int64
-// trailing space 
-/// triple
-; } // @lengthOf(")).
-Eval vm_compute in ("<<<M2462>>>" ++ check (runes_of_ascii "options{ falsey // a // b
-=
-    '0' } options { repeatCount =
-true ; // a // b
-=
-// c
-// " ++ [27880; 37322]%N ++ runes_of_ascii "
-int64
-// trailing space 
-/// triple
-; } // @lengthOf(")).
-Eval vm_compute in ("<<<M2494>>>" ++ check (runes_of_ascii "options{@tag falsey // a // b
-=
-    '0' } options { repeatCount =
-true ; string_// a // b
-=
-// c
-// " ++ [27880; 37322]%N ++ runes_of_ascii "
-int64
-// trailing space 
-/// triple
-; } // @lengthOf(")).
-Eval vm_compute in ("<<<M2526>>>" ++ check (runes_of_ascii "options{}match packet
-metadata {
-@lengthOf(x ) float32
-body ``, }
-    MetaData
-Z9_
-    {
-    string string_ , Logon x
-,
-uint32
-    // packet A { u8 x, }
-    Z9_,asx
-_x
-    `tab	here` , }
-")).
-Eval vm_compute in ("<<<M2558>>>" ++ check (runes_of_ascii "options{}root packet
-metadata {
-@lengthOf(x ) 
-body ``, }
-    MetaData
-Z9_
-    {
-    string string_ , Logon x
-,
-uint32
-    // packet A { u8 x, }
-    Z9_,asx
-_x
-    `tab	here` , }
-")).
-Eval vm_compute in ("<<<M2590>>>" ++ check (runes_of_ascii "options{}root packet
-metadata {
-@lengthOf(x ) float32
-body ``, }
-    MetaData
-{
-    Z9_
-    string string_ , Logon x
-,
-uint32
-    // packet A { u8 x, }
-    Z9_,asx
-_x
-    `tab	here` , }
-")).
-Eval vm_compute in ("<<<M2622>>>" ++ check (runes_of_ascii "options{}root packet
-metadata {
-@lengthOf(x ) float32
-body ``, }
-    MetaData
-Z9_
-    {
-    string string_ , Logon")).
-Eval vm_compute in ("<<<M2654>>>" ++ check (runes_of_ascii "options{}root packet
-metadata {
-@lengthOf(x ) float32
-body ``, }
-    MetaData
-Z9_
-    {
-    string string_ , Logon x
-,
-uint32
-    // packet A { u8 x, }
-    Z9_,asx
-_x
-    `tab	here` `tab	here` , }
-")).
-Eval vm_compute in ("<<<M2686>>>" ++ check (runes_of_ascii "options{}root packet
-metadata {
-@lengthOf(x ) float32
-body ``, }
-    MetaData
-Z9_
-    {
-    string string_ , Logon x
-,
-uint32
-    // packet A { u8 x, }
-    Z9_,na" ++ [239]%N ++ runes_of_ascii "ve
-_x
-    `tab	here` , }
-")).
-Eval vm_compute in ("<<<M2718>>>" ++ check (runes_of_ascii "options {
-    falsey=
-""a\\""")).
-Eval vm_compute in ("<<<M2750>>>" ++ check (runes_of_ascii "MetaData 
-{
-    //	t
-    }root
-    packet tag  {
+    char[0 ]
+    u	@lengthOf( i8i8 ) `{ , }` ,repeat char[] o //x
+`// not a comment`, } // c")).
+Eval vm_compute in ("<<<M2398>>>" ++ check (runes_of_ascii "
+packet float
+{	@calculatedFrom( """ ++ [233]%N ++ runes_of_ascii "t" ++ [233]%N ++ runes_of_ascii """ )
+@rightPad ( '\x00' )
+    ""x y"" @calculatedFrom( ) string chars  ,
+    // a // b
+    char[0 ]
+    u	@lengthOf( i8i8 ) `{ , }` ,repeat char[] o //x
+`// not a comment`, } // c")).
+Eval vm_compute in ("<<<M2430>>>" ++ check (runes_of_ascii "
+packet float
+{	@calculatedFrom( """ ++ [233]%N ++ runes_of_ascii "t" ++ [233]%N ++ runes_of_ascii """ )
+@rightPad ( '\x00' )
+    @calculatedFrom( ""x y"" ) string chars  ,")).
+Eval vm_compute in ("<<<M2462>>>" ++ check (runes_of_ascii "
+packet float
+{	@calculatedFrom( """ ++ [233]%N ++ runes_of_ascii "t" ++ [233]%N ++ runes_of_ascii """ )
+@rightPad ( '\x00' )
+    @calculatedFrom( ""x y"" ) string chars  ,
+    // a // b
+    char[0 ]
+    u	@lengthOf( i8i8 ) `{ , }` `{ , }` ,repeat char[] o //x
+`// not a comment`, } // c")).
+Eval vm_compute in ("<<<M2494>>>" ++ check (runes_of_ascii "
+packet float
+{	@calculatedFrom( """ ++ [233]%N ++ runes_of_ascii "t" ++ [233]%N ++ runes_of_ascii """ )
+@rightPad ( '\x00' )
+    @calculatedFrom( ""x y"" ) string chars  ,
+    // a // b
+    char[0 ]
+    u	@lengthOf( i8i8 ) `{ , }` ,repeat char[] o //x
+`// not a comment`@lengthOf( } // c")).
+Eval vm_compute in ("<<<M2526>>>" ++ check (@nil rune)).
+Eval vm_compute in ("<<<M2558>>>" ++ check (runes_of_ascii "root packet u128{
+    repeat
+    zchar[ 65535 ] ] u `" ++ [28040; 24687; 31867; 22411]%N ++ runes_of_ascii "` ,// `tick` ""quote"" 'q'
+} packet i64_ {repeatCount
+    `
+` ,	} // " ++ [128512]%N ++ runes_of_ascii " emoji")).
+Eval vm_compute in ("<<<M2590>>>" ++ check (runes_of_ascii "root packet u128{
+    repeat
+    zchar[ 65535 ] u `" ++ [28040; 24687; 31867; 22411]%N ++ runes_of_ascii "` ,// `tick` ""quote"" 'q'
+} packet : {repeatCount
+    `
+` ,	} // " ++ [128512]%N ++ runes_of_ascii " emoji")).
+Eval vm_compute in ("<<<M2622>>>" ++ check (runes_of_ascii "root packet u128{
+    repeat
+    zchar[ 65535 ]@x u `" ++ [28040; 24687; 31867; 22411]%N ++ runes_of_ascii "` ,// `tick` ""quote"" 'q'
+} packet i64_ {repeatCount
+    `
+` ,	} // " ++ [128512]%N ++ runes_of_ascii " emoji")).
+Eval vm_compute in ("<<<M2654>>>" ++ check (runes_of_ascii "
+MetaData
+roots { int8 int8
+    BodyLength ,//	t
 }
 ")).
-Eval vm_compute in ("<<<M2782>>>" ++ check (runes_of_ascii "MetaData f32a
-{
-    //	t
-    }root
-    packet tag  }
-{
+Eval vm_compute in ("<<<M2686>>>" ++ check (runes_of_ascii "
+MetaDat~a
+roots { int8
+    BodyLength ,//	t
+}
 ")).
+Eval vm_compute in ("<<<M2718>>>" ++ check (runes_of_ascii "options {Packet =")).
+Eval vm_compute in ("<<<M2750>>>" ++ check (runes_of_ascii "options {Packet = ""CRC32""i8i8 = false; leftPad =
+    '\x00' '\x00'
+    // `tick` ""quote"" 'q'
+    ; o=255  ;
+    // packet A { u8 x, }
+    }")).
+Eval vm_compute in ("<<<M2782>>>" ++ check (runes_of_ascii "options {Packet = ""CRC32""i8i8 = false; leftPad =
+    '\x00'
+    // `tick` ""quote"" 'q'
+    ; o=255  ;")).
 Eval vm_compute in ("<<<M2814>>>" ++ check (runes_of_ascii "
-{
-    {msg_type =
-    float32  }root
-packet Z9_{ char /// triple
-crc @lengthOf(
-options1 ) //
-,} MetaData a1{}
-")).
+packet")).
 Eval vm_compute in ("<<<M2846>>>" ++ check (runes_of_ascii "
-options
-    {msg_type =
-    float32  }root
- Z9_{ char /// triple
-crc @lengthOf(
-options1 ) //
-,} MetaData a1{}
-")).
+packet metadata { @rightPad (
+    // packet A { u8 x, }
+    ' ' ) repeat u32 u32	A
+,matchKey ,
+    @lengthOf( string_ ) @lengthOf( body )
+    // a // b
+    @lengthOf(float  )	repeat
+int32 u8x
+    // c
+    `tab	here`
+, } // a // b")).
 Eval vm_compute in ("<<<M2878>>>" ++ check (runes_of_ascii "
-options
-    {msg_type =
-    float32  }root
-packet Z9_{ char /// triple
-crc @lengthOf(
-) options1 //
-,} MetaData a1{}
-")).
+packet metadata { @rightPad (
+    // packet A { u8 x, }
+    ' ' ) repeat u32	A
+,matchKey ,
+    @lengthOf( : ) @lengthOf( body )
+    // a // b
+    @lengthOf(float  )	repeat
+int32 u8x
+    // c
+    `tab	here`
+, } // a // b")).
 Eval vm_compute in ("<<<M2910>>>" ++ check (runes_of_ascii "
-options
-    {msg_type =
-    float32  }root
-packet Z9_{ char /// triple
-crc @lengthOf(
-options1 ) //
-,} MetaData a1")).
-Eval vm_compute in ("<<<M2942>>>" ++ check (runes_of_ascii "packet { // " ++ [128512]%N ++ runes_of_ascii " emoji
-repeat string i8i8
-`a\`, }
+packet metadata { @rightPad (
+    // packet A { u8 x, }
+    ' ' ) repeat u32	A
+,matchKey ,
+    @lengthOf( string_ ) @lengthOf( body )
+    // a // b
+    @lengthOf(float  	repeat
+int32 u8x
+    // c
+    `tab	here`
+, } // a // b")).
+Eval vm_compute in ("<<<M2942>>>" ++ check (runes_of_ascii "
+packet metadata { @rightPad (
+    // packet A { u8 x, }
+    ' ' ) repeat u32	A
+,matchKey ,
+    @lengthOf( string_ ) @lengthOf( body )
+    // a // b
+    @lengthOf(float  )	repeat
+int32 u8x
+    // c
+    `tab	here`
+, repeat // a // b")).
+Eval vm_compute in ("<<<M2974>>>" ++ check (runes_of_ascii "packet char{
+string
+zchar , //	t
+}
 ")).
-Eval vm_compute in ("<<<M2974>>>" ++ check (runes_of_ascii "packet crc{ // " ++ [128512]%N ++ runes_of_ascii " emoji
-repeat string i8i8
-`a\`} ,
+Eval vm_compute in ("<<<M3006>>>" ++ check (runes_of_ascii "packet x{
+string
+zcha" ++ [8232]%N ++ runes_of_ascii "r , //	t
+}
 ")).
-Eval vm_compute in ("<<<M3006>>>" ++ check (runes_of_ascii "} BodyLength {} MetaData zchar{ zchar[// @lengthOf(
-42 ]
-    pack , string_
-A , char[]crc , _x trueish ,
-// " ++ [27880; 37322]%N ++ runes_of_ascii "
-// " ++ [128512]%N ++ runes_of_ascii " emoji
-zchar[
-    3 ]	T // trailing space 
-, } packet body
+Eval vm_compute in ("<<<M3038>>>" ++ check (runes_of_ascii "
+MetaData Logon
+{ // c
+} }root packet
+    Pad {
+    } options
 {
-    }
-")).
-Eval vm_compute in ("<<<M3038>>>" ++ check (runes_of_ascii "packet BodyLength {} MetaData zchar{ // @lengthOf(
-42 ]
-    pack , string_
-A , char[]crc , _x trueish ,
-// " ++ [27880; 37322]%N ++ runes_of_ascii "
-// " ++ [128512]%N ++ runes_of_ascii " emoji
-zchar[
-    3 ]	T // trailing space 
-, } packet body
+u
+    =
+    ""CRC32""
+    // " ++ [128512]%N ++ runes_of_ascii " emoji
+    i64_ = u16;
+T =65535 x = ' '
+    ; u128
+= true ; }")).
+Eval vm_compute in ("<<<M3070>>>" ++ check (runes_of_ascii "
+MetaData Logon
+{ // c
+}root packet
+    Pad {
+    } i8
 {
-    }
-")).
-Eval vm_compute in ("<<<M3070>>>" ++ check (runes_of_ascii "packet BodyLength {} MetaData zchar{ zchar[// @lengthOf(
-42 ]
-    pack , string_
-, A char[]crc , _x trueish ,
-// " ++ [27880; 37322]%N ++ runes_of_ascii "
-// " ++ [128512]%N ++ runes_of_ascii " emoji
-zchar[
-    3 ]	T // trailing space 
-, } packet body
+u
+    =
+    ""CRC32""
+    // " ++ [128512]%N ++ runes_of_ascii " emoji
+    i64_ = u16;
+T =65535 x = ' '
+    ; u128
+= true ; }")).
+Eval vm_compute in ("<<<M3102>>>" ++ check (runes_of_ascii "
+MetaData Logon
+{ // c
+}root packet
+    Pad {
+    } options
 {
-    }
-")).
-Eval vm_compute in ("<<<M3102>>>" ++ check (runes_of_ascii "packet BodyLength {} MetaData zchar{ zchar[// @lengthOf(
-42 ]
-    pack , string_
-A , char[]crc , _x")).
-Eval vm_compute in ("<<<M3134>>>" ++ check (runes_of_ascii "packet BodyLength {} MetaData zchar{ zchar[// @lengthOf(
-42 ]
-    pack , string_
-A , char[]crc , _x trueish ,
-// " ++ [27880; 37322]%N ++ runes_of_ascii "
-// " ++ [128512]%N ++ runes_of_ascii " emoji
-zchar[
-    3 ]	T // trailing space 
-, } } packet body
+u
+    =
+    ""CRC32""
+    // " ++ [128512]%N ++ runes_of_ascii " emoji
+    i64_ = ;
+T =65535 x = ' '
+    ; u128
+= true ; }")).
+Eval vm_compute in ("<<<M3134>>>" ++ check (runes_of_ascii "
+MetaData Logon
+{ // c
+}root packet
+    Pad {
+    } options
 {
-    }
-")).
-Eval vm_compute in ("<<<M3166>>>" ++ check (runes_of_ascii "packet BodyLength {} MetaData @lengthOf zchar{ zchar[// @lengthOf(
-42 ]
-    pack , string_
-A , char[]crc , _x trueish ,
-// " ++ [27880; 37322]%N ++ runes_of_ascii "
-// " ++ [128512]%N ++ runes_of_ascii " emoji
-zchar[
-    3 ]	T // trailing space 
-, } packet body
+u
+    =
+    ""CRC32""
+    // " ++ [128512]%N ++ runes_of_ascii " emoji
+    i64_ = u16;
+T =65535 x ' ' =
+    ; u128
+= true ; }")).
+Eval vm_compute in ("<<<M3166>>>" ++ check (runes_of_ascii "
+MetaData Logon
+{ // c
+}root packet
+    Pad {
+    } options
 {
-    }
+u
+    =
+    ""CRC32""
+    // " ++ [128512]%N ++ runes_of_ascii " emoji
+    i64_ = u16;
+T =65535 x = ' '
+    ; u128
+= true")).
+Eval vm_compute in ("<<<M3198>>>" ++ check (runes_of_ascii "MetaData {}
+packet	Packet { x_y_z @calculatedFrom(  ""a\\"")// `tick` ""quote"" 'q'
+, }
 ")).
-Eval vm_compute in ("<<<M3198>>>" ++ check (runes_of_ascii "packet
-string_ {")).
-Eval vm_compute in ("<<<M3230>>>" ++ check (runes_of_ascii "packet
-string_ {@lengthOf( int ) match packetx as f32a { {
-    1 :	calculatedFrom , }  ,
-    } packet len
-    //	t
-    { @calculatedFrom( """ ++ [233]%N ++ runes_of_ascii "t" ++ [233]%N ++ runes_of_ascii """ ) body Header , char[] lengthOf  `two words` ,chars{repeat string_ matchKey ,
-    } ,
-    }
+Eval vm_compute in ("<<<M3230>>>" ++ check (runes_of_ascii "MetaData body{}
+packet	Packet { @calculatedFrom( x_y_z  ""a\\"")// `tick` ""quote"" 'q'
+, }
 ")).
-Eval vm_compute in ("<<<M3262>>>" ++ check (runes_of_ascii "packet
-string_ {@lengthOf( int ) match packetx as f32a {
-    1 :	calculatedFrom , }  f64
-    } packet len
-    //	t
-    { @calculatedFrom( """ ++ [233]%N ++ runes_of_ascii "t" ++ [233]%N ++ runes_of_ascii """ ) body Header , char[] lengthOf  `two words` ,chars{repeat string_ matchKey ,
-    } ,
-    }
+Eval vm_compute in ("<<<M3262>>>" ++ check (runes_of_ascii "MetaData body{}
+packet	Packet { x_y_z @calculatedFrom(  #""a\\"")// `tick` ""quote"" 'q'
+, }
 ")).
-Eval vm_compute in ("<<<M3294>>>" ++ check (runes_of_ascii "packet
-string_ {@lengthOf( int ) match packetx as f32a {
-    1 :	calculatedFrom , }  ,
-    } packet len
-    //	t
-    { @calculatedFrom( """ ++ [233]%N ++ runes_of_ascii "t" ++ [233]%N ++ runes_of_ascii """  body Header , char[] lengthOf  `two words` ,chars{repeat string_ matchKey ,
-    } ,
-    }
+Eval vm_compute in ("<<<M3294>>>" ++ check (runes_of_ascii "packet f32a { root packet len {repeat u // " ++ [128512]%N ++ runes_of_ascii " emoji
+`{ , }` , }
 ")).
-Eval vm_compute in ("<<<M3326>>>" ++ check (runes_of_ascii "packet
-string_ {@lengthOf( int ) match packetx as f32a {
-    1 :	calculatedFrom , }  ,
-    } packet len
-    //	t
-    { @calculatedFrom( """ ++ [233]%N ++ runes_of_ascii "t" ++ [233]%N ++ runes_of_ascii """ ) body Header , char[] lengthOf  , `two words`chars{repeat string_ matchKey ,
-    } ,
-    }
+Eval vm_compute in ("<<<M3326>>>" ++ check (runes_of_ascii "packet f32a {} root packet len {repeat `{ , }` // " ++ [128512]%N ++ runes_of_ascii " emoji
+u , }
 ")).
-Eval vm_compute in ("<<<M3358>>>" ++ check (runes_of_ascii "packet
-string_ {@lengthOf( int ) match packetx as f32a {
-    1 :	calculatedFrom , }  ,
-    } packet len
-    //	t
-    { @calculatedFrom( """ ++ [233]%N ++ runes_of_ascii "t" ++ [233]%N ++ runes_of_ascii """ ) body Header , char[] lengthOf  `two words` ,chars{repeat string_")).
-Eval vm_compute in ("<<<M3390>>>" ++ check (runes_of_ascii "packet
-string_ {@lengthOf( int ) match packetx as f32a {
-    1 :	calculatedFrom ," ++ [127]%N ++ runes_of_ascii " }  ,
-    } packet len
-    //	t
-    { @calculatedFrom( """ ++ [233]%N ++ runes_of_ascii "t" ++ [233]%N ++ runes_of_ascii """ ) body Header , char[] lengthOf  `two words` ,chars{repeat string_ matchKey ,
-    } ,
-    }
+Eval vm_compute in ("<<<M3358>>>" ++ check (runes_of_ascii "$packet f32a {} root packet len {repeat u // " ++ [128512]%N ++ runes_of_ascii " emoji
+`{ , }` , }
 ")).
-Eval vm_compute in ("<<<M3422>>>" ++ check (runes_of_ascii "/// triple
-root
-packet // packet A { u8 x, }
-chars { @lengthOf(charz )
-,  @tag(  0 ) // a // b
-asx
-    As
-,
-// trailing space 
-// trailing space 
-x_y_z {
-repeat i16 charz , } ,	int16  crc ,}
-")).
-Eval vm_compute in ("<<<M3454>>>" ++ check (runes_of_ascii "/// triple
-root
-packet // packet A { u8 x, }
-chars { @lengthOf(charz )
-stringy,    0 ) // a // b
-asx
-    As
-,
-// trailing space 
-// trailing space 
-x_y_z {
-repeat i16 charz , } ,	int16  crc ,}
-")).
-Eval vm_compute in ("<<<M3486>>>" ++ check (runes_of_ascii "/// triple
-root
-packet // packet A { u8 x, }
-chars { @lengthOf(charz )
-stringy,  @tag(  0 ) // a // b
-asx
-    As
-x_y_z
-// trailing space 
-// trailing space 
-, {
-repeat i16 charz , } ,	int16  crc ,}
-")).
+Eval vm_compute in ("<<<M3390>>>" ++ check (runes_of_ascii "options{ _x=""\" ++ [233]%N ++ runes_of_ascii """;
+    Logon = 10	; Foo= 7;
+i64_= char[]} options {
+matchKey = ""// no comment"" // a // b
+falsey = string
+; trueish =
+    4294967296
+=options1
+    ""it's"" string_	= true } options {
+    /// triple
+    }")).
+Eval vm_compute in ("<<<M3422>>>" ++ check (runes_of_ascii "options{ _x=""\" ++ [233]%N ++ runes_of_ascii """;
+    Logon = 10	; Foo= 7 7;
+i64_= char[]} options {
+matchKey = ""// no comment"" // a // b
+falsey = string
+; trueish =
+    4294967296
+options1=
+    ""it's"" string_	= true } options {
+    /// triple
+    }")).
+Eval vm_compute in ("<<<M3454>>>" ++ check (runes_of_ascii "options{ _x=""\" ++ [233]%N ++ runes_of_ascii """;
+    Logon = 10 10	; Foo= 7;
+i64_= char[]} options {
+matchKey = ""// no comment"" // a // b
+falsey = string
+; trueish =
+    4294967296
+options1=
+    ""it's"" string_	= true } options {
+    /// triple
+    }")).
+Eval vm_compute in ("<<<M3486>>>" ++ check (runes_of_ascii "options{ _x=""\" ++ [233]%N ++ runes_of_ascii """;
+    Logon = 10	; Foo= 7;
+i64_= char[]} options {
+matchKey = ""// no comment"" // a // b
+falsey = string
+; trueish =")).
 Eval vm_compute in ("<<<M3518>>>" ++ check (runes_of_ascii "a")).
 Eval vm_compute in ("<<<M3550>>>" ++ check (runes_of_ascii "@leftpad")).
 Eval vm_compute in ("<<<M3582>>>" ++ check (runes_of_ascii """\\""")).
@@ -2033,11 +1944,11 @@ Eval vm_compute in ("<<<M3646>>>" ++ check (runes_of_ascii "packet A { char[ 3 y
 Eval vm_compute in ("<<<M3678>>>" ++ check (runes_of_ascii "packet A { match k as n { [[1]] : B }, }")).
 Eval vm_compute in ("<<<M3710>>>" ++ check (runes_of_ascii "root packet A { } root packet B { }")).
 Eval vm_compute in ("<<<M3742>>>" ++ check (runes_of_ascii "{ }")).
-Eval vm_compute in ("<<<M3774>>>" ++ check (runes_of_ascii ", u8 i32 uint8")).
-Eval vm_compute in ("<<<M3806>>>" ++ check (runes_of_ascii "uint64 Logon as ) uint16 ;")).
-Eval vm_compute in ("<<<M3838>>>" ++ check (runes_of_ascii "( } f32 packet packet u16 int32 ( packet : i32 true i16")).
-Eval vm_compute in ("<<<M3870>>>" ++ check (runes_of_ascii "u64 @tag( '0'")).
-Eval vm_compute in ("<<<M3902>>>" ++ check (runes_of_ascii "match")).
-Eval vm_compute in ("<<<M3934>>>" ++ check (runes_of_ascii "zchar[ ( MetaData } : true u16 @lengthOf( uint16 string")).
-Eval vm_compute in ("<<<M3966>>>" ++ check (runes_of_ascii "MetaData f32")).
-Eval vm_compute in ("<<<M3998>>>" ++ check (runes_of_ascii "@calculatedFrom( @tag( int32 u8 as float64")).
+Eval vm_compute in ("<<<M3774>>>" ++ check (runes_of_ascii "] ) } zchar[ 10 i32 } string as charz , } zchar[")).
+Eval vm_compute in ("<<<M3806>>>" ++ check (runes_of_ascii "] uint8 ""`tick`"" `doc` '\x00'")).
+Eval vm_compute in ("<<<M3838>>>" ++ check (runes_of_ascii "options packet ""packet""")).
+Eval vm_compute in ("<<<M3870>>>" ++ check (runes_of_ascii """x y"" string Pad , packet ;")).
+Eval vm_compute in ("<<<M3902>>>" ++ check (runes_of_ascii "int32 uint32 = uint64 i8 i16 = ( ] = uint16 MetaData :")).
+Eval vm_compute in ("<<<M3934>>>" ++ check (runes_of_ascii "root ] u16 false @calculatedFrom( uint8 ) MetaData zchar[ ,")).
+Eval vm_compute in ("<<<M3966>>>" ++ check (runes_of_ascii "; MetaData options uint32 zchar[ '0' true")).
+Eval vm_compute in ("<<<M3998>>>" ++ check (runes_of_ascii "match packet match f32a @lengthOf( u8 char")).
